@@ -1,4 +1,31 @@
 
+(** val negb : bool -> bool **)
+
+let negb = function
+| true -> false
+| false -> true
+
+type nat =
+| O
+| S of nat
+
+(** val fst : ('a1 * 'a2) -> 'a1 **)
+
+let fst = function
+| (x, _) -> x
+
+(** val snd : ('a1 * 'a2) -> 'a2 **)
+
+let snd = function
+| (_, y) -> y
+
+(** val app : 'a1 list -> 'a1 list -> 'a1 list **)
+
+let rec app l m =
+  match l with
+  | [] -> m
+  | a :: l1 -> a :: (app l1 m)
+
 type comparison =
 | Eq
 | Lt
@@ -10,6 +37,15 @@ let compOpp = function
 | Eq -> Eq
 | Lt -> Gt
 | Gt -> Lt
+
+module Coq__1 = struct
+ (** val add : nat -> nat -> nat **)
+ let rec add n0 m =
+   match n0 with
+   | O -> m
+   | S p -> S (add p m)
+end
+include Coq__1
 
 type positive =
 | XI of positive
@@ -27,6 +63,148 @@ type z =
 
 module Pos =
  struct
+  type mask =
+  | IsNul
+  | IsPos of positive
+  | IsNeg
+ end
+
+module Coq_Pos =
+ struct
+  (** val succ : positive -> positive **)
+
+  let rec succ = function
+  | XI p -> XO (succ p)
+  | XO p -> XI p
+  | XH -> XO XH
+
+  (** val add : positive -> positive -> positive **)
+
+  let rec add x y =
+    match x with
+    | XI p ->
+      (match y with
+       | XI q -> XO (add_carry p q)
+       | XO q -> XI (add p q)
+       | XH -> XO (succ p))
+    | XO p ->
+      (match y with
+       | XI q -> XI (add p q)
+       | XO q -> XO (add p q)
+       | XH -> XI p)
+    | XH -> (match y with
+             | XI q -> XO (succ q)
+             | XO q -> XI q
+             | XH -> XO XH)
+
+  (** val add_carry : positive -> positive -> positive **)
+
+  and add_carry x y =
+    match x with
+    | XI p ->
+      (match y with
+       | XI q -> XI (add_carry p q)
+       | XO q -> XO (add_carry p q)
+       | XH -> XI (succ p))
+    | XO p ->
+      (match y with
+       | XI q -> XO (add_carry p q)
+       | XO q -> XI (add p q)
+       | XH -> XO (succ p))
+    | XH ->
+      (match y with
+       | XI q -> XI (succ q)
+       | XO q -> XO (succ q)
+       | XH -> XI XH)
+
+  (** val pred_double : positive -> positive **)
+
+  let rec pred_double = function
+  | XI p -> XI (XO p)
+  | XO p -> XI (pred_double p)
+  | XH -> XH
+
+  (** val pred_N : positive -> n **)
+
+  let pred_N = function
+  | XI p -> Npos (XO p)
+  | XO p -> Npos (pred_double p)
+  | XH -> N0
+
+  type mask = Pos.mask =
+  | IsNul
+  | IsPos of positive
+  | IsNeg
+
+  (** val succ_double_mask : mask -> mask **)
+
+  let succ_double_mask = function
+  | IsNul -> IsPos XH
+  | IsPos p -> IsPos (XI p)
+  | IsNeg -> IsNeg
+
+  (** val double_mask : mask -> mask **)
+
+  let double_mask = function
+  | IsPos p -> IsPos (XO p)
+  | x0 -> x0
+
+  (** val double_pred_mask : positive -> mask **)
+
+  let double_pred_mask = function
+  | XI p -> IsPos (XO (XO p))
+  | XO p -> IsPos (XO (pred_double p))
+  | XH -> IsNul
+
+  (** val sub_mask : positive -> positive -> mask **)
+
+  let rec sub_mask x y =
+    match x with
+    | XI p ->
+      (match y with
+       | XI q -> double_mask (sub_mask p q)
+       | XO q -> succ_double_mask (sub_mask p q)
+       | XH -> IsPos (XO p))
+    | XO p ->
+      (match y with
+       | XI q -> succ_double_mask (sub_mask_carry p q)
+       | XO q -> double_mask (sub_mask p q)
+       | XH -> IsPos (pred_double p))
+    | XH -> (match y with
+             | XH -> IsNul
+             | _ -> IsNeg)
+
+  (** val sub_mask_carry : positive -> positive -> mask **)
+
+  and sub_mask_carry x y =
+    match x with
+    | XI p ->
+      (match y with
+       | XI q -> succ_double_mask (sub_mask_carry p q)
+       | XO q -> double_mask (sub_mask p q)
+       | XH -> IsPos (pred_double p))
+    | XO p ->
+      (match y with
+       | XI q -> double_mask (sub_mask_carry p q)
+       | XO q -> succ_double_mask (sub_mask_carry p q)
+       | XH -> double_pred_mask p)
+    | XH -> IsNeg
+
+  (** val mul : positive -> positive -> positive **)
+
+  let rec mul x y =
+    match x with
+    | XI p -> add y (XO (mul p y))
+    | XO p -> XO (mul p y)
+    | XH -> y
+
+  (** val iter : ('a1 -> 'a1) -> 'a1 -> positive -> 'a1 **)
+
+  let rec iter f x = function
+  | XI n' -> f (iter f (iter f x n') n')
+  | XO n' -> iter f (iter f x n') n'
+  | XH -> f x
+
   (** val compare_cont : comparison -> positive -> positive -> comparison **)
 
   let rec compare_cont r x y =
@@ -63,10 +241,184 @@ module Pos =
     | XH -> (match q with
              | XH -> true
              | _ -> false)
+
+  (** val coq_Nsucc_double : n -> n **)
+
+  let coq_Nsucc_double = function
+  | N0 -> Npos XH
+  | Npos p -> Npos (XI p)
+
+  (** val coq_Ndouble : n -> n **)
+
+  let coq_Ndouble = function
+  | N0 -> N0
+  | Npos p -> Npos (XO p)
+
+  (** val coq_lor : positive -> positive -> positive **)
+
+  let rec coq_lor p q =
+    match p with
+    | XI p0 ->
+      (match q with
+       | XI q0 -> XI (coq_lor p0 q0)
+       | XO q0 -> XI (coq_lor p0 q0)
+       | XH -> p)
+    | XO p0 ->
+      (match q with
+       | XI q0 -> XI (coq_lor p0 q0)
+       | XO q0 -> XO (coq_lor p0 q0)
+       | XH -> XI p0)
+    | XH -> (match q with
+             | XO q0 -> XI q0
+             | _ -> q)
+
+  (** val coq_land : positive -> positive -> n **)
+
+  let rec coq_land p q =
+    match p with
+    | XI p0 ->
+      (match q with
+       | XI q0 -> coq_Nsucc_double (coq_land p0 q0)
+       | XO q0 -> coq_Ndouble (coq_land p0 q0)
+       | XH -> Npos XH)
+    | XO p0 ->
+      (match q with
+       | XI q0 -> coq_Ndouble (coq_land p0 q0)
+       | XO q0 -> coq_Ndouble (coq_land p0 q0)
+       | XH -> N0)
+    | XH -> (match q with
+             | XO _ -> N0
+             | _ -> Npos XH)
+
+  (** val ldiff : positive -> positive -> n **)
+
+  let rec ldiff p q =
+    match p with
+    | XI p0 ->
+      (match q with
+       | XI q0 -> coq_Ndouble (ldiff p0 q0)
+       | XO q0 -> coq_Nsucc_double (ldiff p0 q0)
+       | XH -> Npos (XO p0))
+    | XO p0 ->
+      (match q with
+       | XI q0 -> coq_Ndouble (ldiff p0 q0)
+       | XO q0 -> coq_Ndouble (ldiff p0 q0)
+       | XH -> Npos p)
+    | XH -> (match q with
+             | XO _ -> Npos XH
+             | _ -> N0)
+
+  (** val coq_lxor : positive -> positive -> n **)
+
+  let rec coq_lxor p q =
+    match p with
+    | XI p0 ->
+      (match q with
+       | XI q0 -> coq_Ndouble (coq_lxor p0 q0)
+       | XO q0 -> coq_Nsucc_double (coq_lxor p0 q0)
+       | XH -> Npos (XO p0))
+    | XO p0 ->
+      (match q with
+       | XI q0 -> coq_Nsucc_double (coq_lxor p0 q0)
+       | XO q0 -> coq_Ndouble (coq_lxor p0 q0)
+       | XH -> Npos (XI p0))
+    | XH ->
+      (match q with
+       | XI q0 -> Npos (XO q0)
+       | XO q0 -> Npos (XI q0)
+       | XH -> N0)
+
+  (** val shiftl : positive -> n -> positive **)
+
+  let shiftl p = function
+  | N0 -> p
+  | Npos n1 -> iter (fun x -> XO x) p n1
+
+  (** val testbit : positive -> n -> bool **)
+
+  let rec testbit p n0 =
+    match p with
+    | XI p0 -> (match n0 with
+                | N0 -> true
+                | Npos n1 -> testbit p0 (pred_N n1))
+    | XO p0 -> (match n0 with
+                | N0 -> false
+                | Npos n1 -> testbit p0 (pred_N n1))
+    | XH -> (match n0 with
+             | N0 -> true
+             | Npos _ -> false)
+
+  (** val iter_op : ('a1 -> 'a1 -> 'a1) -> positive -> 'a1 -> 'a1 **)
+
+  let rec iter_op op0 p a =
+    match p with
+    | XI p0 -> op0 a (iter_op op0 p0 (op0 a a))
+    | XO p0 -> iter_op op0 p0 (op0 a a)
+    | XH -> a
+
+  (** val to_nat : positive -> nat **)
+
+  let to_nat x =
+    iter_op Coq__1.add x (S O)
  end
 
 module N =
  struct
+  (** val succ_double : n -> n **)
+
+  let succ_double = function
+  | N0 -> Npos XH
+  | Npos p -> Npos (XI p)
+
+  (** val double : n -> n **)
+
+  let double = function
+  | N0 -> N0
+  | Npos p -> Npos (XO p)
+
+  (** val succ : n -> n **)
+
+  let succ = function
+  | N0 -> Npos XH
+  | Npos p -> Npos (Coq_Pos.succ p)
+
+  (** val pred : n -> n **)
+
+  let pred = function
+  | N0 -> N0
+  | Npos p -> Coq_Pos.pred_N p
+
+  (** val add : n -> n -> n **)
+
+  let add n0 m =
+    match n0 with
+    | N0 -> m
+    | Npos p -> (match m with
+                 | N0 -> n0
+                 | Npos q -> Npos (Coq_Pos.add p q))
+
+  (** val sub : n -> n -> n **)
+
+  let sub n0 m =
+    match n0 with
+    | N0 -> N0
+    | Npos n' ->
+      (match m with
+       | N0 -> n0
+       | Npos m' ->
+         (match Coq_Pos.sub_mask n' m' with
+          | Coq_Pos.IsPos p -> Npos p
+          | _ -> N0))
+
+  (** val mul : n -> n -> n **)
+
+  let mul n0 m =
+    match n0 with
+    | N0 -> N0
+    | Npos p -> (match m with
+                 | N0 -> N0
+                 | Npos q -> Npos (Coq_Pos.mul p q))
+
   (** val compare : n -> n -> comparison **)
 
   let compare n0 m =
@@ -76,7 +428,7 @@ module N =
              | Npos _ -> Lt)
     | Npos n' -> (match m with
                   | N0 -> Gt
-                  | Npos m' -> Pos.compare n' m')
+                  | Npos m' -> Coq_Pos.compare n' m')
 
   (** val eqb : n -> n -> bool **)
 
@@ -87,17 +439,286 @@ module N =
              | Npos _ -> false)
     | Npos p -> (match m with
                  | N0 -> false
-                 | Npos q -> Pos.eqb p q)
+                 | Npos q -> Coq_Pos.eqb p q)
+
+  (** val leb : n -> n -> bool **)
+
+  let leb x y =
+    match compare x y with
+    | Gt -> false
+    | _ -> true
+
+  (** val ltb : n -> n -> bool **)
+
+  let ltb x y =
+    match compare x y with
+    | Lt -> true
+    | _ -> false
+
+  (** val max : n -> n -> n **)
+
+  let max n0 n' =
+    match compare n0 n' with
+    | Gt -> n0
+    | _ -> n'
+
+  (** val div2 : n -> n **)
+
+  let div2 = function
+  | N0 -> N0
+  | Npos p0 -> (match p0 with
+                | XI p -> Npos p
+                | XO p -> Npos p
+                | XH -> N0)
+
+  (** val pos_div_eucl : positive -> n -> n * n **)
+
+  let rec pos_div_eucl a b =
+    match a with
+    | XI a' ->
+      let (q, r) = pos_div_eucl a' b in
+      let r' = succ_double r in
+      if leb b r' then ((succ_double q), (sub r' b)) else ((double q), r')
+    | XO a' ->
+      let (q, r) = pos_div_eucl a' b in
+      let r' = double r in
+      if leb b r' then ((succ_double q), (sub r' b)) else ((double q), r')
+    | XH ->
+      (match b with
+       | N0 -> (N0, (Npos XH))
+       | Npos p -> (match p with
+                    | XH -> ((Npos XH), N0)
+                    | _ -> (N0, (Npos XH))))
+
+  (** val div_eucl : n -> n -> n * n **)
+
+  let div_eucl a b =
+    match a with
+    | N0 -> (N0, N0)
+    | Npos na -> (match b with
+                  | N0 -> (N0, a)
+                  | Npos _ -> pos_div_eucl na b)
+
+  (** val div : n -> n -> n **)
+
+  let div a b =
+    fst (div_eucl a b)
+
+  (** val modulo : n -> n -> n **)
+
+  let modulo a b =
+    snd (div_eucl a b)
+
+  (** val coq_lor : n -> n -> n **)
+
+  let coq_lor n0 m =
+    match n0 with
+    | N0 -> m
+    | Npos p -> (match m with
+                 | N0 -> n0
+                 | Npos q -> Npos (Coq_Pos.coq_lor p q))
+
+  (** val coq_land : n -> n -> n **)
+
+  let coq_land n0 m =
+    match n0 with
+    | N0 -> N0
+    | Npos p -> (match m with
+                 | N0 -> N0
+                 | Npos q -> Coq_Pos.coq_land p q)
+
+  (** val ldiff : n -> n -> n **)
+
+  let ldiff n0 m =
+    match n0 with
+    | N0 -> N0
+    | Npos p -> (match m with
+                 | N0 -> n0
+                 | Npos q -> Coq_Pos.ldiff p q)
+
+  (** val coq_lxor : n -> n -> n **)
+
+  let coq_lxor n0 m =
+    match n0 with
+    | N0 -> m
+    | Npos p -> (match m with
+                 | N0 -> n0
+                 | Npos q -> Coq_Pos.coq_lxor p q)
+
+  (** val shiftl : n -> n -> n **)
+
+  let shiftl a n0 =
+    match a with
+    | N0 -> N0
+    | Npos a0 -> Npos (Coq_Pos.shiftl a0 n0)
+
+  (** val shiftr : n -> n -> n **)
+
+  let shiftr a = function
+  | N0 -> a
+  | Npos p -> Coq_Pos.iter div2 a p
+
+  (** val testbit : n -> n -> bool **)
+
+  let testbit a n0 =
+    match a with
+    | N0 -> false
+    | Npos p -> Coq_Pos.testbit p n0
+
+  (** val to_nat : n -> nat **)
+
+  let to_nat = function
+  | N0 -> O
+  | Npos p -> Coq_Pos.to_nat p
+
+  (** val ones : n -> n **)
+
+  let ones n0 =
+    pred (shiftl (Npos XH) n0)
  end
+
+(** val nth : nat -> 'a1 list -> 'a1 -> 'a1 **)
+
+let rec nth n0 l default =
+  match n0 with
+  | O -> (match l with
+          | [] -> default
+          | x :: _ -> x)
+  | S m -> (match l with
+            | [] -> default
+            | _ :: t -> nth m t default)
+
+(** val nth_error : 'a1 list -> nat -> 'a1 option **)
+
+let rec nth_error l = function
+| O -> (match l with
+        | [] -> None
+        | x :: _ -> Some x)
+| S n1 -> (match l with
+           | [] -> None
+           | _ :: l0 -> nth_error l0 n1)
+
+(** val map : ('a1 -> 'a2) -> 'a1 list -> 'a2 list **)
+
+let rec map f = function
+| [] -> []
+| a :: t -> (f a) :: (map f t)
+
+(** val flat_map : ('a1 -> 'a2 list) -> 'a1 list -> 'a2 list **)
+
+let rec flat_map f = function
+| [] -> []
+| x :: t -> app (f x) (flat_map f t)
+
+(** val fold_left : ('a1 -> 'a2 -> 'a1) -> 'a2 list -> 'a1 -> 'a1 **)
+
+let rec fold_left f l a0 =
+  match l with
+  | [] -> a0
+  | b :: t -> fold_left f t (f a0 b)
+
+(** val existsb : ('a1 -> bool) -> 'a1 list -> bool **)
+
+let rec existsb f = function
+| [] -> false
+| a :: l0 -> (||) (f a) (existsb f l0)
+
+(** val filter : ('a1 -> bool) -> 'a1 list -> 'a1 list **)
+
+let rec filter f = function
+| [] -> []
+| x :: l0 -> if f x then x :: (filter f l0) else filter f l0
+
+(** val skipn : nat -> 'a1 list -> 'a1 list **)
+
+let rec skipn n0 l =
+  match n0 with
+  | O -> l
+  | S n1 -> (match l with
+             | [] -> []
+             | _ :: l0 -> skipn n1 l0)
 
 module Z =
  struct
+  (** val double : z -> z **)
+
+  let double = function
+  | Z0 -> Z0
+  | Zpos p -> Zpos (XO p)
+  | Zneg p -> Zneg (XO p)
+
+  (** val succ_double : z -> z **)
+
+  let succ_double = function
+  | Z0 -> Zpos XH
+  | Zpos p -> Zpos (XI p)
+  | Zneg p -> Zneg (Coq_Pos.pred_double p)
+
+  (** val pred_double : z -> z **)
+
+  let pred_double = function
+  | Z0 -> Zneg XH
+  | Zpos p -> Zpos (Coq_Pos.pred_double p)
+  | Zneg p -> Zneg (XI p)
+
+  (** val pos_sub : positive -> positive -> z **)
+
+  let rec pos_sub x y =
+    match x with
+    | XI p ->
+      (match y with
+       | XI q -> double (pos_sub p q)
+       | XO q -> succ_double (pos_sub p q)
+       | XH -> Zpos (XO p))
+    | XO p ->
+      (match y with
+       | XI q -> pred_double (pos_sub p q)
+       | XO q -> double (pos_sub p q)
+       | XH -> Zpos (Coq_Pos.pred_double p))
+    | XH ->
+      (match y with
+       | XI q -> Zneg (XO q)
+       | XO q -> Zneg (Coq_Pos.pred_double q)
+       | XH -> Z0)
+
+  (** val add : z -> z -> z **)
+
+  let add x y =
+    match x with
+    | Z0 -> y
+    | Zpos x' ->
+      (match y with
+       | Z0 -> x
+       | Zpos y' -> Zpos (Coq_Pos.add x' y')
+       | Zneg y' -> pos_sub x' y')
+    | Zneg x' ->
+      (match y with
+       | Z0 -> x
+       | Zpos y' -> pos_sub y' x'
+       | Zneg y' -> Zneg (Coq_Pos.add x' y'))
+
   (** val opp : z -> z **)
 
   let opp = function
   | Z0 -> Z0
   | Zpos x0 -> Zneg x0
   | Zneg x0 -> Zpos x0
+
+  (** val mul : z -> z -> z **)
+
+  let mul x y =
+    match x with
+    | Z0 -> Z0
+    | Zpos x' ->
+      (match y with
+       | Z0 -> Z0
+       | Zpos y' -> Zpos (Coq_Pos.mul x' y')
+       | Zneg y' -> Zneg (Coq_Pos.mul x' y'))
+    | Zneg x' ->
+      (match y with
+       | Z0 -> Z0
+       | Zpos y' -> Zneg (Coq_Pos.mul x' y')
+       | Zneg y' -> Zpos (Coq_Pos.mul x' y'))
 
   (** val compare : z -> z -> comparison **)
 
@@ -108,12 +729,26 @@ module Z =
              | Zpos _ -> Lt
              | Zneg _ -> Gt)
     | Zpos x' -> (match y with
-                  | Zpos y' -> Pos.compare x' y'
+                  | Zpos y' -> Coq_Pos.compare x' y'
                   | _ -> Gt)
     | Zneg x' ->
       (match y with
-       | Zneg y' -> compOpp (Pos.compare x' y')
+       | Zneg y' -> compOpp (Coq_Pos.compare x' y')
        | _ -> Lt)
+
+  (** val leb : z -> z -> bool **)
+
+  let leb x y =
+    match compare x y with
+    | Gt -> false
+    | _ -> true
+
+  (** val ltb : z -> z -> bool **)
+
+  let ltb x y =
+    match compare x y with
+    | Lt -> true
+    | _ -> false
 
   (** val eqb : z -> z -> bool **)
 
@@ -123,12 +758,4583 @@ module Z =
              | Z0 -> true
              | _ -> false)
     | Zpos p -> (match y with
-                 | Zpos q -> Pos.eqb p q
+                 | Zpos q -> Coq_Pos.eqb p q
                  | _ -> false)
     | Zneg p -> (match y with
-                 | Zneg q -> Pos.eqb p q
+                 | Zneg q -> Coq_Pos.eqb p q
                  | _ -> false)
+
+  (** val to_N : z -> n **)
+
+  let to_N = function
+  | Zpos p -> Npos p
+  | _ -> N0
+
+  (** val of_N : n -> z **)
+
+  let of_N = function
+  | N0 -> Z0
+  | Npos p -> Zpos p
  end
+
+(** val piece_zobrist_tbl : n list **)
+
+let piece_zobrist_tbl =
+  (Npos (XO (XI (XO (XI (XI (XO (XI (XI (XI (XO (XI (XO (XI (XO (XI (XI (XO
+    (XO (XI (XI (XI (XI (XO (XO (XO (XO (XO (XI (XO (XO (XO (XI (XO (XO (XI
+    (XO (XI (XI (XO (XI (XI (XO (XI (XO (XI (XO (XI (XO (XI (XO (XI (XI (XO
+    (XO (XI (XO (XI (XO (XI (XO (XO (XI (XO
+    XH)))))))))))))))))))))))))))))))))))))))))))))))))))))))))))))))) :: ((Npos
+    (XI (XO (XI (XO (XI (XI (XO (XO (XI (XO (XI (XO (XO (XO (XI (XO (XO (XO
+    (XO (XI (XO (XO (XO (XI (XO (XI (XO (XI (XI (XI (XO (XI (XO (XO (XO (XI
+    (XI (XO (XO (XI (XI (XO (XI (XI (XO (XI (XO (XI (XI (XO (XI (XI (XI (XO
+    (XI (XO (XO (XO (XO (XI (XI (XI
+    XH))))))))))))))))))))))))))))))))))))))))))))))))))))))))))))))) :: ((Npos
+    (XO (XO (XO (XI (XO (XI (XO (XI (XO (XO (XI (XO (XI (XI (XI (XI (XI (XI
+    (XI (XO (XO (XO (XO (XI (XI (XI (XI (XI (XO (XI (XI (XI (XI (XI (XO (XI
+    (XI (XI (XO (XI (XI (XI (XI (XO (XI (XO (XI (XI (XI (XI (XO (XO (XI (XO
+    (XO (XI (XI (XO (XO (XO (XI (XI (XO
+    XH)))))))))))))))))))))))))))))))))))))))))))))))))))))))))))))))) :: ((Npos
+    (XI (XI (XI (XI (XO (XI (XI (XI (XO (XI (XO (XO (XI (XO (XO (XO (XO (XO
+    (XI (XI (XO (XI (XI (XI (XI (XI (XI (XO (XO (XI (XI (XI (XI (XO (XI (XI
+    (XO (XO (XO (XO (XO (XI (XO (XO (XO (XO (XI (XI (XI (XI (XO (XO (XO (XO
+    (XI (XO (XO (XI (XI (XI (XO (XI (XO
+    XH)))))))))))))))))))))))))))))))))))))))))))))))))))))))))))))))) :: ((Npos
+    (XO (XO (XI (XO (XI (XO (XI (XI (XO (XO (XI (XO (XI (XI (XO (XO (XO (XO
+    (XO (XO (XO (XI (XI (XO (XO (XO (XO (XI (XI (XI (XO (XI (XO (XO (XO (XI
+    (XO (XO (XO (XO (XI (XI (XO (XI (XO (XI (XO (XI (XO (XO (XO (XO (XI (XI
+    (XI (XO (XO (XO (XI (XI (XI (XI (XO
+    XH)))))))))))))))))))))))))))))))))))))))))))))))))))))))))))))))) :: ((Npos
+    (XI (XO (XO (XI (XI (XI (XI (XI (XI (XI (XO (XI (XO (XO (XO (XO (XI (XO
+    (XO (XO (XO (XO (XI (XO (XI (XI (XI (XI (XI (XO (XI (XI (XO (XI (XO (XI
+    (XO (XI (XO (XO (XI (XO (XO (XI (XI (XO (XI (XI (XI (XO (XI (XO (XI (XO
+    (XI (XI (XI (XI (XI (XI (XI
+    XH)))))))))))))))))))))))))))))))))))))))))))))))))))))))))))))) :: ((Npos
+    (XO (XI (XO (XI (XO (XI (XI (XI (XI (XI (XI (XO (XO (XI (XI (XO (XI (XO
+    (XI (XI (XI (XO (XO (XI (XI (XI (XI (XO (XI (XI (XI (XO (XO (XI (XI (XO
+    (XO (XO (XO (XI (XI (XI (XO (XO (XO (XO (XO (XI (XO (XI (XI (XO (XO (XI
+    (XO (XO (XI (XO (XO (XI (XI (XO
+    XH))))))))))))))))))))))))))))))))))))))))))))))))))))))))))))))) :: ((Npos
+    (XI (XI (XI (XI (XO (XO (XO (XI (XO (XI (XO (XO (XO (XI (XO (XI (XI (XO
+    (XI (XO (XO (XO (XO (XO (XI (XO (XI (XO (XO (XO (XI (XO (XO (XI (XI (XI
+    (XO (XI (XO (XO (XO (XO (XI (XO (XI (XI (XO (XO (XI (XO (XO (XI (XO (XI
+    (XI (XI (XO (XI (XI (XO (XI (XO (XO
+    XH)))))))))))))))))))))))))))))))))))))))))))))))))))))))))))))))) :: ((Npos
+    (XI (XI (XO (XO (XI (XO (XI (XO (XI (XO (XO (XI (XI (XO (XI (XI (XI (XI
+    (XI (XO (XI (XI (XI (XI (XI (XO (XO (XO (XO (XI (XO (XI (XI (XO (XO (XO
+    (XI (XI (XI (XO (XO (XO (XI (XO (XO (XI (XI (XO (XO (XI (XO (XO (XI (XO
+    (XO (XI (XI (XO (XO (XO (XO (XO
+    XH))))))))))))))))))))))))))))))))))))))))))))))))))))))))))))))) :: ((Npos
+    (XO (XO (XO (XI (XO (XI (XI (XI (XO (XI (XO (XO (XO (XO (XI (XO (XI (XI
+    (XI (XO (XI (XO (XI (XI (XI (XI (XI (XI (XI (XO (XI (XO (XI (XO (XO (XI
+    (XO (XO (XO (XI (XI (XO (XI (XO (XO (XI (XO (XO (XI (XI (XI (XI (XO (XO
+    (XO (XO (XI (XI (XI (XI (XO (XI (XO
+    XH)))))))))))))))))))))))))))))))))))))))))))))))))))))))))))))))) :: ((Npos
+    (XO (XI (XI (XI (XO (XO (XO (XO (XO (XO (XO (XI (XO (XO (XO (XO (XO (XO
+    (XI (XO (XI (XO (XO (XO (XI (XO (XO (XO (XI (XO (XI (XO (XO (XI (XI (XI
+    (XI (XI (XO (XO (XO (XI (XO (XO (XI (XO (XI (XO (XO (XO (XO (XO (XO (XO
+    (XI (XO (XI (XO (XO (XO (XI (XO (XO
+    XH)))))))))))))))))))))))))))))))))))))))))))))))))))))))))))))))) :: ((Npos
+    (XO (XO (XO (XO (XO (XI (XI (XI (XI (XO (XI (XI (XI (XO (XO (XO (XO (XO
+    (XI (XI (XI (XI (XI (XI (XI (XI (XO (XI (XI (XI (XO (XI (XI (XI (XI (XI
+    (XO (XI (XO (XO (XO (XI (XI (XI (XO (XO (XI (XO (XI (XO (XO (XI (XO (XI
+    (XI (XI (XI (XO (XI (XO (XO (XO
+    XH))))))))))))))))))))))))))))))))))))))))))))))))))))))))))))))) :: ((Npos
+    (XI (XI (XI (XO (XI (XI (XO (XO (XI (XI (XO (XI (XO (XO (XO (XI (XO (XI
+    (XO (XI (XI (XI (XI (XI (XI (XI (XO (XI (XO (XI (XI (XI (XI (XI (XO (XI
+    (XI (XI (XI (XI (XI (XO (XI (XO (XI (XI (XI (XO (XI (XI (XI (XO (XI (XI
+    (XI (XO (XO (XO (XI (XO (XO (XO
+    XH))))))))))))))))))))))))))))))))))))))))))))))))))))))))))))))) :: ((Npos
+    (XO (XI (XO (XO (XI (XO (XO (XI (XI (XO (XO (XI (XO (XI (XO (XI (XO (XO
+    (XI (XI (XI (XO (XO (XO (XI (XO (XO (XI (XO (XO (XO (XO (XO (XO (XO (XO
+    (XO (XO (XI (XI (XI (XO (XI (XO (XI (XO (XO (XO (XI (XI (XO (XO (XI (XO
+    (XI (XO (XI (XO (XO (XI (XO (XO (XI
+    XH)))))))))))))))))))))))))))))))))))))))))))))))))))))))))))))))) :: ((Npos
+    (XI (XI (XO (XO (XI (XI (XI (XI (XI (XI (XO (XI (XI (XO (XI (XI (XO (XO
+    (XO (XI (XO (XI (XO (XO (XI (XO (XO (XO (XI (XO (XI (XO (XO (XO (XI (XO
+    (XO (XO (XO (XI (XO (XO (XI (XI (XI (XI (XI (XI (XO (XO (XO (XO (XO (XO
+    (XI (XO (XO (XO (XI (XO (XO (XI
+    XH))))))))))))))))))))))))))))))))))))))))))))))))))))))))))))))) :: ((Npos
+    (XO (XI (XO (XI (XI (XI (XI (XI (XI (XO (XI (XI (XO (XO (XI (XI (XI (XO
+    (XO (XI (XO (XO (XO (XI (XO (XO (XO (XI (XI (XI (XO (XI (XI (XI (XO (XO
+    (XI (XI (XO (XI (XO (XI (XI (XI (XI (XI (XI (XI (XO (XI (XI (XO (XI (XI
+    (XO (XI (XO (XO (XO (XI (XI (XI (XI
+    XH)))))))))))))))))))))))))))))))))))))))))))))))))))))))))))))))) :: ((Npos
+    (XO (XO (XO (XI (XO (XO (XO (XO (XO (XI (XO (XO (XI (XO (XO (XI (XI (XO
+    (XI (XI (XO (XO (XI (XO (XO (XI (XI (XO (XI (XI (XO (XI (XO (XO (XO (XI
+    (XO (XO (XI (XI (XO (XI (XO (XI (XO (XI (XI (XO (XO (XI (XI (XO (XI (XI
+    (XI (XO (XI (XO (XO (XI (XO (XI (XI
+    XH)))))))))))))))))))))))))))))))))))))))))))))))))))))))))))))))) :: ((Npos
+    (XO (XI (XO (XO (XI (XO (XO (XI (XI (XO (XO (XO (XO (XO (XO (XO (XO (XI
+    (XI (XI (XI (XO (XI (XO (XI (XI (XO (XO (XI (XI (XO (XI (XO (XO (XI (XO
+    (XO (XO (XI (XO (XI (XO (XI (XI (XO (XI (XI (XO (XI (XO (XI (XO (XO (XO
+    (XO (XO (XO (XO (XO (XO (XO (XO (XO
+    XH)))))))))))))))))))))))))))))))))))))))))))))))))))))))))))))))) :: ((Npos
+    (XO (XO (XI (XO (XI (XI (XO (XI (XI (XI (XI (XO (XO (XI (XI (XO (XO (XI
+    (XI (XI (XI (XO (XO (XI (XI (XI (XI (XO (XI (XI (XO (XI (XI (XO (XI (XI
+    (XI (XO (XO (XO (XI (XI (XO (XI (XI (XI (XO (XO (XO (XO (XO (XI (XI (XI
+    (XI (XO (XI (XO (XO (XO (XI (XO (XO
+    XH)))))))))))))))))))))))))))))))))))))))))))))))))))))))))))))))) :: ((Npos
+    (XO (XI (XO (XO (XO (XI (XI (XI (XI (XO (XI (XO (XO (XI (XO (XO (XI (XO
+    (XO (XO (XO (XO (XI (XO (XO (XI (XI (XO (XO (XI (XI (XO (XI (XO (XI (XO
+    (XO (XO (XO (XO (XO (XI (XI (XI (XO (XI (XI (XI (XO (XO (XI (XO (XO (XO
+    (XI (XI (XO (XI (XO (XI (XI (XI (XO
+    XH)))))))))))))))))))))))))))))))))))))))))))))))))))))))))))))))) :: ((Npos
+    (XO (XO (XO (XO (XO (XO (XI (XO (XI (XO (XI (XI (XO (XO (XI (XI (XI (XI
+    (XO (XI (XO (XI (XI (XO (XO (XI (XO (XO (XO (XO (XO (XO (XI (XI (XI (XO
+    (XO (XI (XI (XI (XI (XO (XI (XI (XI (XI (XO (XI (XI (XO (XO (XO (XI (XO
+    (XO (XO (XI (XO (XI (XI (XI (XO (XO
+    XH)))))))))))))))))))))))))))))))))))))))))))))))))))))))))))))))) :: ((Npos
+    (XO (XI (XI (XO (XI (XI (XI (XI (XO (XO (XO (XO (XO (XO (XO (XO (XO (XI
+    (XO (XO (XI (XO (XO (XI (XO (XI (XO (XO (XO (XI (XI (XI (XI (XI (XI (XI
+    (XI (XO (XO (XI (XI (XI (XI (XO (XI (XO (XI (XI (XO (XO (XO (XO (XO (XO
+    (XI (XO (XI
+    XH)))))))))))))))))))))))))))))))))))))))))))))))))))))))))) :: ((Npos
+    (XI (XI (XO (XO (XI (XO (XI (XI (XO (XO (XO (XO (XO (XI (XI (XO (XO (XI
+    (XO (XI (XI (XO (XI (XO (XI (XO (XO (XO (XO (XO (XI (XO (XI (XI (XO (XO
+    (XI (XO (XI (XI (XO (XO (XI (XO (XO (XO (XI (XO (XI (XI (XI (XO (XI (XI
+    (XO (XI (XO (XI (XI (XO (XO (XO
+    XH))))))))))))))))))))))))))))))))))))))))))))))))))))))))))))))) :: ((Npos
+    (XI (XO (XI (XO (XO (XO (XO (XO (XI (XI (XO (XO (XI (XI (XO (XI (XO (XI
+    (XO (XO (XI (XO (XI (XO (XO (XO (XI (XI (XI (XI (XI (XO (XO (XI (XO (XI
+    (XO (XI (XI (XI (XO (XI (XI (XO (XO (XI (XI (XI (XI (XI (XI (XO (XI (XI
+    (XO (XO (XI (XO (XO
+    XH)))))))))))))))))))))))))))))))))))))))))))))))))))))))))))) :: ((Npos
+    (XO (XI (XO (XI (XI (XO (XI (XI (XI (XO (XO (XO (XO (XO (XI (XO (XO (XI
+    (XO (XI (XO (XO (XI (XI (XO (XI (XI (XI (XI (XO (XI (XI (XO (XO (XO (XI
+    (XO (XO (XO (XO (XO (XI (XO (XO (XI (XI (XI (XI (XI (XO (XI (XO (XI (XI
+    (XI (XI (XI (XI (XO (XI (XO (XO (XO
+    XH)))))))))))))))))))))))))))))))))))))))))))))))))))))))))))))))) :: ((Npos
+    (XI (XO (XO (XI (XI (XO (XI (XI (XI (XO (XI (XI (XO (XI (XI (XO (XO (XI
+    (XI (XI (XO (XI (XO (XO (XO (XO (XI (XI (XO (XO (XI (XO (XI (XO (XO (XI
+    (XI (XO (XI (XO (XO (XI (XO (XO (XI (XI (XI (XO (XO (XI (XI (XI (XI (XI
+    (XI (XO (XO (XO
+    XH))))))))))))))))))))))))))))))))))))))))))))))))))))))))))) :: ((Npos
+    (XI (XO (XO (XI (XO (XI (XI (XO (XI (XI (XI (XO (XO (XI (XO (XO (XO (XO
+    (XO (XO (XO (XI (XI (XO (XO (XI (XO (XI (XO (XI (XI (XO (XO (XI (XO (XO
+    (XO (XI (XI (XI (XI (XO (XO (XI (XO (XO (XO (XI (XO (XI (XI (XO (XO (XO
+    (XO (XI (XO (XI (XI (XO (XO (XO (XI
+    XH)))))))))))))))))))))))))))))))))))))))))))))))))))))))))))))))) :: ((Npos
+    (XI (XO (XI (XO (XI (XI (XO (XI (XI (XI (XI (XI (XO (XO (XI (XO (XO (XI
+    (XO (XO (XI (XO (XI (XO (XO (XO (XO (XI (XI (XI (XO (XI (XI (XI (XI (XO
+    (XO (XI (XO (XO (XO (XO (XI (XI (XO (XO (XO (XO (XI (XI (XI (XI (XO (XO
+    (XI (XI (XI (XO (XO (XO (XI (XI
+    XH))))))))))))))))))))))))))))))))))))))))))))))))))))))))))))))) :: ((Npos
+    (XO (XI (XI (XI (XO (XI (XO (XO (XO (XO (XO (XO (XI (XI (XO (XO (XO (XI
+    (XO (XI (XO (XI (XO (XI (XI (XO (XI (XI (XI (XI (XI (XI (XO (XI (XO (XO
+    (XO (XO (XI (XO (XI (XI (XI (XI (XO (XI (XO (XO (XI (XO (XI (XO (XO (XI
+    (XO (XO (XO (XI (XI (XI (XI (XI
+    XH))))))))))))))))))))))))))))))))))))))))))))))))))))))))))))))) :: ((Npos
+    (XO (XI (XI (XO (XO (XI (XO (XI (XI (XO (XO (XO (XO (XI (XI (XI (XO (XO
+    (XI (XI (XO (XO (XO (XO (XI (XO (XO (XO (XI (XO (XO (XI (XI (XO (XO (XO
+    (XO (XO (XO (XO (XI (XI (XO (XO (XO (XO (XO (XO (XI (XO (XO (XO (XI (XO
+    (XO (XO (XI (XO (XI (XO (XI (XI (XI
+    XH)))))))))))))))))))))))))))))))))))))))))))))))))))))))))))))))) :: ((Npos
+    (XO (XO (XO (XO (XI (XI (XO (XO (XO (XO (XI (XO (XI (XO (XO (XI (XI (XI
+    (XO (XO (XI (XO (XO (XO (XO (XO (XO (XO (XI (XI (XO (XI (XO (XO (XI (XI
+    (XI (XI (XO (XI (XO (XI (XI (XO (XO (XI (XI (XO (XO (XI (XI (XI (XO (XI
+    (XI (XI (XI (XI (XO (XO (XO (XO (XI
+    XH)))))))))))))))))))))))))))))))))))))))))))))))))))))))))))))))) :: ((Npos
+    (XO (XI (XI (XO (XO (XI (XO (XO (XI (XI (XO (XO (XO (XO (XI (XO (XO (XO
+    (XO (XI (XO (XO (XO (XO (XO (XO (XO (XO (XO (XI (XO (XI (XO (XI (XO (XI
+    (XO (XI (XI (XO (XI (XO (XO (XO (XI (XO (XI (XO (XO (XI (XI (XO (XO (XI
+    (XI (XI (XO (XI (XI (XI (XI (XO
+    XH))))))))))))))))))))))))))))))))))))))))))))))))))))))))))))))) :: ((Npos
+    (XO (XO (XI (XI (XI (XI (XI (XI (XI (XO (XI (XI (XO (XI (XO (XI (XI (XI
+    (XO (XO (XO (XO (XO (XO (XI (XO (XI (XI (XI (XO (XO (XI (XI (XO (XI (XO
+    (XO (XI (XO (XI (XI (XI (XO (XI (XI (XI (XO (XO (XO (XO (XI (XI (XI (XO
+    (XI (XO (XI (XO (XO (XO (XI (XO (XO
+    XH)))))))))))))))))))))))))))))))))))))))))))))))))))))))))))))))) :: ((Npos
+    (XO (XI (XI (XO (XI (XO (XI (XI (XI (XO (XI (XI (XO (XI (XO (XI (XI (XI
+    (XO (XO (XI (XI (XI (XO (XO (XI (XO (XI (XI (XI (XI (XO (XI (XO (XI (XO
+    (XI (XI (XO (XI (XO (XI (XO (XI (XO (XI (XO (XO (XO (XO (XO (XI (XO (XO
+    (XI (XI (XI (XO (XO (XO (XI (XI (XI
+    XH)))))))))))))))))))))))))))))))))))))))))))))))))))))))))))))))) :: ((Npos
+    (XI (XI (XI (XO (XI (XO (XO (XO (XI (XO (XO (XO (XI (XI (XI (XI (XO (XO
+    (XO (XI (XO (XI (XO (XI (XI (XI (XI (XI (XO (XI (XI (XO (XI (XI (XI (XO
+    (XO (XI (XI (XI (XO (XO (XI (XI (XO (XO (XO (XI (XO (XI (XI (XI (XO (XO
+    (XO (XO (XI (XI (XI (XI (XI (XO (XI
+    XH)))))))))))))))))))))))))))))))))))))))))))))))))))))))))))))))) :: ((Npos
+    (XO (XI (XO (XI (XO (XI (XI (XI (XO (XI (XO (XI (XO (XO (XI (XO (XO (XI
+    (XI (XI (XI (XO (XI (XO (XI (XO (XO (XI (XO (XI (XO (XI (XI (XO (XO (XI
+    (XI (XI (XI (XO (XI (XI (XO (XO (XI (XO (XO (XI (XI (XI (XI (XO (XO (XO
+    (XO (XI (XO (XO (XO (XO (XI (XO (XI
+    XH)))))))))))))))))))))))))))))))))))))))))))))))))))))))))))))))) :: ((Npos
+    (XO (XO (XO (XO (XI (XI (XI (XO (XO (XO (XI (XO (XI (XO (XO (XI (XO (XI
+    (XI (XI (XO (XO (XI (XI (XO (XI (XI (XI (XO (XI (XO (XO (XO (XI (XI (XO
+    (XO (XI (XO (XO (XO (XO (XI (XO (XI (XI (XO (XO (XO (XO (XO (XI (XO (XI
+    (XI (XI (XI (XO (XO (XI (XO (XI (XI
+    XH)))))))))))))))))))))))))))))))))))))))))))))))))))))))))))))))) :: ((Npos
+    (XI (XI (XI (XO (XI (XI (XI (XI (XI (XI (XO (XO (XI (XO (XO (XO (XO (XI
+    (XO (XO (XO (XO (XI (XI (XO (XI (XI (XO (XI (XI (XI (XO (XI (XO (XO (XO
+    (XI (XI (XI (XI (XI (XO (XI (XO (XO (XI (XI (XO (XI (XI (XI (XO (XI (XI
+    (XO (XO (XO (XO (XI (XI (XI
+    XH)))))))))))))))))))))))))))))))))))))))))))))))))))))))))))))) :: ((Npos
+    (XO (XO (XI (XO (XO (XO (XI (XO (XI (XO (XO (XO (XO (XO (XO (XI (XI (XI
+    (XO (XI (XI (XO (XI (XO (XI (XI (XI (XO (XO (XI (XO (XO (XI (XO (XI (XO
+    (XO (XO (XI (XI (XO (XO (XO (XI (XO (XO (XI (XI (XO (XO (XI (XO (XO (XO
+    (XI (XO (XO (XI (XI (XI (XO (XI
+    XH))))))))))))))))))))))))))))))))))))))))))))))))))))))))))))))) :: ((Npos
+    (XI (XO (XI (XO (XO (XI (XO (XI (XO (XI (XO (XO (XO (XO (XI (XO (XO (XI
+    (XI (XO (XI (XO (XO (XI (XI (XO (XI (XI (XI (XO (XI (XI (XI (XI (XI (XO
+    (XI (XI (XI (XI (XI (XI (XI (XO (XI (XI (XI (XO (XO (XO (XO (XO (XI (XO
+    (XO (XO (XI (XO (XI (XO (XI
+    XH)))))))))))))))))))))))))))))))))))))))))))))))))))))))))))))) :: ((Npos
+    (XO (XI (XI (XO (XI (XO (XO (XO (XI (XO (XO (XI (XI (XO (XO (XI (XO (XO
+    (XI (XI (XI (XO (XI (XO (XO (XO (XO (XI (XI (XI (XI (XI (XI (XO (XO (XI
+    (XO (XO (XO (XI (XI (XO (XO (XI (XO (XO (XI (XO (XI (XI (XO (XI (XO (XO
+    (XO (XO (XI (XI (XI (XO (XO (XI (XO
+    XH)))))))))))))))))))))))))))))))))))))))))))))))))))))))))))))))) :: ((Npos
+    (XO (XO (XI (XO (XI (XO (XI (XO (XO (XO (XI (XI (XI (XO (XI (XO (XI (XO
+    (XO (XO (XO (XI (XO (XI (XO (XI (XI (XI (XI (XI (XO (XI (XO (XO (XO (XI
+    (XI (XI (XO (XI (XI (XO (XO (XO (XI (XI (XI (XO (XI (XI (XO (XI (XO (XO
+    (XO (XI (XI (XO (XO (XI (XI
+    XH)))))))))))))))))))))))))))))))))))))))))))))))))))))))))))))) :: ((Npos
+    (XO (XO (XO (XO (XI (XO (XI (XO (XI (XO (XO (XI (XO (XI (XI (XO (XI (XO
+    (XI (XO (XI (XI (XI (XO (XO (XI (XI (XI (XI (XO (XI (XO (XO (XO (XI (XI
+    (XO (XO (XO (XI (XI (XO (XI (XO (XI (XO (XO (XO (XO (XO (XO (XO (XO (XI
+    (XO (XI (XI (XO (XO (XI (XO (XI (XO
+    XH)))))))))))))))))))))))))))))))))))))))))))))))))))))))))))))))) :: ((Npos
+    (XO (XI (XI (XO (XO (XI (XI (XI (XI (XI (XO (XO (XO (XI (XO (XO (XO (XO
+    (XI (XI (XO (XI (XO (XI (XO (XO (XI (XI (XI (XO (XO (XI (XI (XI (XI (XO
+    (XI (XO (XI (XO (XO (XO (XO (XI (XO (XO (XI (XO (XI (XO (XI (XI (XO (XI
+    (XO (XO (XO (XI (XI (XI
+    XH))))))))))))))))))))))))))))))))))))))))))))))))))))))))))))) :: ((Npos
+    (XO (XI (XI (XI (XO (XI (XO (XI (XI (XO (XI (XI (XI (XI (XO (XI (XI (XO
+    (XI (XO (XI (XO (XO (XI (XO (XI (XI (XI (XO (XO (XO (XO (XI (XI (XO (XO
+    (XO (XI (XI (XI (XO (XI (XI (XO (XI (XI (XO (XO (XO (XO (XI (XO (XI (XO
+    (XO (XI (XI (XI (XI (XO (XI (XO
+    XH))))))))))))))))))))))))))))))))))))))))))))))))))))))))))))))) :: ((Npos
+    (XI (XO (XI (XI (XI (XI (XO (XO (XO (XI (XO (XI (XO (XI (XI (XO (XO (XI
+    (XO (XI (XO (XI (XI (XI (XO (XO (XO (XO (XO (XO (XO (XI (XO (XO (XO (XI
+    (XO (XO (XO (XO (XI (XI (XI (XO (XI (XO (XO (XI (XO (XI (XO (XI (XO (XI
+    (XI (XI (XI (XO (XI (XI
+    XH))))))))))))))))))))))))))))))))))))))))))))))))))))))))))))) :: ((Npos
+    (XO (XO (XO (XI (XO (XO (XI (XO (XI (XI (XO (XO (XI (XI (XO (XI (XO (XO
+    (XI (XI (XO (XO (XI (XO (XO (XO (XO (XO (XO (XI (XI (XI (XI (XI (XO (XO
+    (XI (XI (XI (XO (XO (XI (XO (XO (XO (XO (XI (XO (XO (XI (XO (XO (XO (XI
+    (XO (XI (XI (XI (XI (XI (XI (XI
+    XH))))))))))))))))))))))))))))))))))))))))))))))))))))))))))))))) :: ((Npos
+    (XI (XI (XI (XO (XI (XI (XI (XO (XI (XO (XO (XI (XO (XI (XO (XO (XI (XI
+    (XI (XI (XO (XO (XO (XI (XO (XO (XO (XI (XO (XI (XO (XI (XO (XO (XI (XO
+    (XO (XI (XO (XO (XI (XI (XI (XI (XO (XI (XO (XI (XO (XI (XO (XI (XO (XI
+    (XI (XO (XO (XO
+    XH))))))))))))))))))))))))))))))))))))))))))))))))))))))))))) :: ((Npos
+    (XI (XO (XI (XO (XO (XI (XI (XI (XI (XO (XO (XI (XO (XO (XI (XI (XO (XI
+    (XO (XO (XI (XO (XI (XI (XI (XI (XO (XO (XO (XI (XI (XO (XO (XO (XI (XO
+    (XI (XO (XI (XI (XI (XI (XI (XO (XO (XI (XI (XI (XI (XO (XO (XI (XO (XI
+    (XO (XI (XO (XO (XO (XI (XO (XI (XO
+    XH)))))))))))))))))))))))))))))))))))))))))))))))))))))))))))))))) :: ((Npos
+    (XI (XO (XO (XI (XI (XI (XO (XI (XO (XO (XI (XO (XI (XO (XI (XO (XI (XO
+    (XO (XI (XO (XO (XI (XI (XI (XO (XO (XI (XI (XI (XI (XI (XO (XO (XI (XO
+    (XO (XI (XI (XO (XO (XO (XI (XO (XO (XO (XO (XI (XO (XO (XI (XI (XI (XI
+    (XI (XO (XO (XI (XI (XO (XO (XI (XO
+    XH)))))))))))))))))))))))))))))))))))))))))))))))))))))))))))))))) :: ((Npos
+    (XI (XI (XI (XI (XO (XO (XO (XI (XI (XI (XO (XI (XI (XI (XO (XI (XO (XI
+    (XI (XI (XI (XI (XI (XI (XI (XI (XO (XO (XO (XO (XO (XO (XI (XI (XO (XO
+    (XI (XO (XI (XI (XO (XO (XI (XI (XI (XO (XO (XI (XO (XO (XO (XO (XO (XO
+    (XO (XO (XO (XI (XO (XO (XI (XO
+    XH))))))))))))))))))))))))))))))))))))))))))))))))))))))))))))))) :: ((Npos
+    (XI (XO (XO (XI (XI (XO (XO (XO (XO (XO (XO (XO (XI (XI (XI (XI (XO (XO
+    (XO (XI (XO (XO (XO (XO (XI (XO (XI (XI (XO (XI (XI (XO (XI (XO (XO (XI
+    (XO (XI (XO (XO (XI (XO (XO (XI (XO (XI (XI (XO (XO (XO (XO (XO (XI (XO
+    (XO (XO (XO (XO (XI (XO (XI (XO
+    XH))))))))))))))))))))))))))))))))))))))))))))))))))))))))))))))) :: ((Npos
+    (XO (XI (XO (XO (XO (XO (XI (XI (XO (XO (XI (XO (XO (XI (XO (XI (XO (XI
+    (XI (XI (XI (XI (XO (XO (XO (XO (XO (XI (XO (XI (XI (XO (XO (XI (XI (XI
+    (XO (XO (XO (XI (XI (XI (XO (XI (XO (XI (XI (XI (XO (XO (XI (XO (XO (XO
+    (XO (XO (XO (XO (XI (XI (XO (XO (XO
+    XH)))))))))))))))))))))))))))))))))))))))))))))))))))))))))))))))) :: ((Npos
+    (XO (XO (XO (XI (XO (XI (XI (XO (XO (XI (XO (XI (XI (XO (XO (XI (XO (XI
+    (XO (XI (XO (XO (XO (XO (XO (XO (XO (XI (XI (XO (XI (XO (XI (XO (XO (XI
+    (XO (XO (XI (XI (XO (XO (XO (XO (XI (XO (XO (XO (XI (XI (XO (XO (XO (XI
+    (XI (XI (XO (XI (XI (XI (XO (XO
+    XH))))))))))))))))))))))))))))))))))))))))))))))))))))))))))))))) :: ((Npos
+    (XO (XO (XO (XI (XO (XI (XO (XO (XI (XO (XO (XI (XI (XO (XI (XI (XO (XO
+    (XO (XO (XI (XI (XO (XI (XI (XI (XO (XO (XI (XO (XO (XO (XO (XI (XI (XI
+    (XI (XO (XO (XO (XO (XI (XI (XI (XO (XI (XI (XO (XO (XI (XI (XI (XI (XI
+    (XO (XO (XI (XI (XI (XO
+    XH))))))))))))))))))))))))))))))))))))))))))))))))))))))))))))) :: ((Npos
+    (XO (XI (XI (XI (XI (XI (XI (XI (XI (XI (XI (XO (XO (XI (XI (XO (XO (XI
+    (XO (XO (XO (XO (XO (XO (XO (XO (XI (XI (XI (XO (XO (XO (XI (XO (XI (XO
+    (XI (XO (XI (XI (XO (XO (XI (XI (XO (XO (XO (XI (XO (XO (XO (XI (XI (XI
+    (XO (XI (XI (XI (XI (XO (XO (XO (XO
+    XH)))))))))))))))))))))))))))))))))))))))))))))))))))))))))))))))) :: ((Npos
+    (XI (XO (XI (XI (XI (XO (XI (XO (XI (XI (XO (XI (XO (XI (XO (XO (XO (XI
+    (XI (XI (XO (XI (XO (XO (XI (XI (XI (XI (XO (XI (XO (XI (XO (XO (XI (XI
+    (XO (XI (XO (XO (XO (XI (XI (XI (XI (XI (XI (XI (XI (XO (XO (XO (XO (XI
+    (XO (XI (XI (XI (XO (XI (XO (XO
+    XH))))))))))))))))))))))))))))))))))))))))))))))))))))))))))))))) :: ((Npos
+    (XO (XO (XI (XI (XO (XI (XO (XI (XO (XO (XI (XI (XI (XI (XO (XI (XI (XI
+    (XO (XO (XI (XO (XO (XI (XO (XI (XO (XI (XO (XI (XI (XO (XI (XI (XO (XO
+    (XI (XO (XI (XI (XO (XO (XI (XI (XO (XI (XO (XO (XO (XI (XI (XI (XO (XO
+    (XI (XI (XI (XO (XI (XI (XI (XO
+    XH))))))))))))))))))))))))))))))))))))))))))))))))))))))))))))))) :: ((Npos
+    (XI (XI (XO (XI (XI (XI (XO (XO (XO (XI (XO (XO (XO (XI (XI (XI (XO (XI
+    (XI (XI (XO (XO (XO (XO (XI (XO (XI (XO (XO (XI (XI (XO (XI (XI (XI (XI
+    (XI (XO (XO (XO (XO (XO (XO (XI (XO (XO (XO (XI (XO (XO (XI (XI (XI (XI
+    (XI (XO (XI (XI (XO (XI (XO (XO
+    XH))))))))))))))))))))))))))))))))))))))))))))))))))))))))))))))) :: ((Npos
+    (XO (XO (XO (XI (XI (XO (XO (XI (XO (XO (XI (XI (XO (XO (XI (XI (XO (XI
+    (XO (XI (XO (XI (XI (XI (XO (XI (XI (XI (XO (XI (XI (XI (XI (XO (XI (XI
+    (XI (XI (XO (XO (XO (XO (XI (XO (XI (XO (XI (XO (XI (XI (XO (XI (XI (XI
+    (XO (XI (XI (XI (XI (XO (XO (XO (XI
+    XH)))))))))))))))))))))))))))))))))))))))))))))))))))))))))))))))) :: ((Npos
+    (XI (XO (XO (XO (XO (XO (XI (XI (XO (XI (XI (XI (XI (XI (XI (XI (XO (XO
+    (XI (XI (XI (XO (XO (XI (XI (XI (XO (XI (XI (XI (XO (XO (XO (XO (XO (XO
+    (XI (XI (XO (XO (XI (XO (XI (XO (XI (XO (XI (XO (XO (XI (XO (XI (XO (XI
+    (XO (XO (XO (XO (XI (XO (XO (XO (XO
+    XH)))))))))))))))))))))))))))))))))))))))))))))))))))))))))))))))) :: ((Npos
+    (XO (XO (XI (XO (XI (XO (XO (XO (XI (XO (XI (XI (XI (XO (XO (XO (XO (XI
+    (XI (XO (XO (XO (XO (XI (XI (XI (XI (XO (XI (XO (XO (XI (XO (XO (XI (XO
+    (XO (XO (XO (XO (XI (XO (XO (XO (XI (XI (XI (XO (XO (XI (XI (XO (XO (XI
+    (XO (XI (XO (XO
+    XH))))))))))))))))))))))))))))))))))))))))))))))))))))))))))) :: ((Npos
+    (XI (XI (XI (XO (XI (XO (XO (XI (XI (XO (XO (XO (XI (XO (XI (XI (XI (XI
+    (XI (XO (XI (XO (XI (XO (XI (XI (XO (XI (XI (XI (XI (XI (XI (XO (XI (XO
+    (XI (XO (XO (XI (XO (XI (XI (XO (XO (XI (XI (XI (XI (XO (XI (XO (XI (XI
+    (XI (XI (XO (XI (XI (XO (XI (XI (XO
+    XH)))))))))))))))))))))))))))))))))))))))))))))))))))))))))))))))) :: ((Npos
+    (XO (XO (XI (XI (XO (XO (XO (XI (XO (XO (XI (XI (XI (XO (XI (XO (XI (XO
+    (XO (XI (XO (XO (XI (XI (XI (XO (XI (XI (XI (XO (XI (XO (XI (XI (XO (XO
+    (XO (XI (XI (XO (XO (XO (XI (XI (XI (XI (XO (XI (XI (XI (XO (XO (XI (XO
+    (XO (XO (XO (XO (XO (XI (XI (XI
+    XH))))))))))))))))))))))))))))))))))))))))))))))))))))))))))))))) :: ((Npos
+    (XO (XI (XO (XO (XO (XO (XO (XO (XO (XI (XO (XI (XO (XI (XO (XO (XO (XI
+    (XO (XO (XO (XO (XI (XO (XI (XI (XO (XI (XO (XO (XO (XI (XI (XO (XI (XO
+    (XI (XO (XO (XO (XI (XI (XO (XI (XI (XO (XO (XI (XO (XO (XO (XI (XO (XI
+    (XO (XI (XO (XI (XI (XO (XI (XO (XI
+    XH)))))))))))))))))))))))))))))))))))))))))))))))))))))))))))))))) :: ((Npos
+    (XO (XI (XI (XO (XO (XO (XI (XI (XO (XI (XO (XO (XO (XI (XI (XI (XI (XI
+    (XO (XI (XO (XO (XI (XI (XO (XI (XI (XO (XO (XI (XO (XI (XO (XI (XO (XI
+    (XI (XO (XO (XO (XI (XI (XI (XI (XO (XO (XO (XI (XO (XI (XI (XI (XO (XI
+    (XI (XO (XI (XO (XI (XI (XI (XI (XI
+    XH)))))))))))))))))))))))))))))))))))))))))))))))))))))))))))))))) :: ((Npos
+    (XI (XO (XI (XO (XO (XO (XO (XO (XI (XI (XI (XI (XO (XO (XI (XI (XI (XO
+    (XO (XO (XO (XI (XI (XO (XI (XO (XI (XO (XO (XO (XI (XO (XI (XI (XI (XO
+    (XI (XI (XO (XO (XI (XO (XI (XI (XO (XO (XO (XO (XI (XI (XO (XI (XI (XI
+    (XI (XI (XI (XI (XI (XO (XI (XO (XI
+    XH)))))))))))))))))))))))))))))))))))))))))))))))))))))))))))))))) :: ((Npos
+    (XO (XO (XO (XI (XI (XI (XI (XO (XO (XI (XO (XO (XO (XO (XO (XO (XI (XO
+    (XO (XI (XO (XO (XI (XI (XI (XO (XI (XO (XI (XI (XI (XO (XO (XI (XO (XI
+    (XI (XI (XI (XO (XI (XO (XI (XO (XI (XO (XO (XO (XI (XI (XI (XO (XO (XI
+    (XI (XO (XI (XI (XO (XI (XI
+    XH)))))))))))))))))))))))))))))))))))))))))))))))))))))))))))))) :: ((Npos
+    (XO (XI (XO (XI (XI (XO (XO (XO (XI (XO (XO (XO (XO (XI (XI (XO (XO (XI
+    (XI (XI (XI (XO (XO (XO (XI (XO (XI (XI (XI (XO (XI (XI (XI (XI (XI (XI
+    (XO (XO (XI (XO (XI (XI (XI (XO (XI (XI (XI (XI (XI (XO (XO (XO (XO (XO
+    (XI (XO (XO (XO (XI (XO (XI (XI (XI
+    XH)))))))))))))))))))))))))))))))))))))))))))))))))))))))))))))))) :: ((Npos
+    (XI (XO (XO (XI (XO (XI (XI (XI (XI (XO (XI (XO (XO (XI (XO (XO (XI (XI
+    (XO (XI (XO (XO (XO (XO (XI (XO (XI (XI (XO (XI (XI (XI (XO (XO (XI (XO
+    (XI (XI (XI (XO (XO (XO (XO (XI (XO (XO (XO (XO (XI (XO (XI (XO (XI (XI
+    (XI (XI (XO (XO (XI (XI (XI (XO
+    XH))))))))))))))))))))))))))))))))))))))))))))))))))))))))))))))) :: ((Npos
+    (XO (XO (XO (XO (XO (XI (XO (XO (XO (XO (XO (XI (XI (XO (XO (XI (XI (XI
+    (XO (XO (XO (XO (XO (XI (XO (XO (XO (XO (XO (XI (XI (XI (XO (XO (XO (XI
+    (XI (XI (XO (XO (XO (XI (XI (XO (XI (XO (XO (XI (XI (XI (XI (XI (XI (XO
+    (XO (XI (XI (XO (XO (XO
+    XH))))))))))))))))))))))))))))))))))))))))))))))))))))))))))))) :: ((Npos
+    (XO (XO (XI (XI (XO (XI (XO (XO (XO (XI (XI (XI (XI (XO (XO (XI (XO (XI
+    (XI (XI (XI (XI (XO (XI (XO (XO (XO (XO (XI (XO (XO (XO (XO (XO (XO (XI
+    (XO (XI (XO (XO (XI (XI (XI (XI (XO (XI (XI (XI (XI (XI (XO (XI (XO (XI
+    (XI (XO (XO (XO (XI (XI (XI (XI (XO
+    XH)))))))))))))))))))))))))))))))))))))))))))))))))))))))))))))))) :: ((Npos
+    (XO (XO (XO (XO (XI (XI (XI (XO (XO (XO (XI (XO (XI (XI (XO (XO (XI (XI
+    (XI (XO (XI (XI (XO (XO (XI (XO (XI (XO (XO (XI (XI (XI (XO (XI (XI (XI
+    (XI (XI (XI (XI (XI (XO (XI (XO (XI (XI (XO (XI (XI (XO (XO (XO (XI (XO
+    (XO (XI (XO (XI (XI (XI (XO (XI (XI
+    XH)))))))))))))))))))))))))))))))))))))))))))))))))))))))))))))))) :: ((Npos
+    (XO (XI (XI (XI (XO (XI (XO (XO (XO (XO (XO (XO (XO (XO (XI (XI (XO (XI
+    (XO (XI (XI (XI (XO (XI (XI (XI (XI (XI (XO (XO (XI (XI (XI (XI (XI (XI
+    (XI (XO (XO (XI (XI (XI (XO (XO (XI (XI (XI (XO (XI (XO (XI (XO (XI (XO
+    (XI (XO (XI (XO (XI
+    XH)))))))))))))))))))))))))))))))))))))))))))))))))))))))))))) :: ((Npos
+    (XO (XO (XO (XI (XO (XI (XI (XI (XO (XI (XO (XI (XO (XI (XO (XI (XI (XI
+    (XO (XI (XO (XI (XI (XI (XO (XI (XI (XI (XO (XI (XI (XI (XI (XI (XO (XO
+    (XO (XO (XO (XI (XO (XO (XO (XI (XO (XO (XO (XO (XI (XO (XI (XO (XI (XO
+    (XO (XO (XO (XI (XI (XO (XI (XI
+    XH))))))))))))))))))))))))))))))))))))))))))))))))))))))))))))))) :: ((Npos
+    (XO (XO (XO (XO (XO (XI (XO (XI (XO (XI (XI (XI (XI (XI (XO (XI (XI (XO
+    (XO (XI (XI (XI (XI (XO (XI (XI (XO (XI (XI (XO (XI (XI (XI (XI (XO (XO
+    (XO (XO (XO (XI (XO (XO (XI (XI (XI (XI (XI (XI (XO (XO (XO (XO (XI (XO
+    (XI (XO (XO (XI (XO (XI (XO (XI
+    XH))))))))))))))))))))))))))))))))))))))))))))))))))))))))))))))) :: ((Npos
+    (XI (XO (XO (XI (XO (XI (XO (XO (XO (XI (XO (XO (XI (XI (XI (XO (XO (XO
+    (XO (XI (XI (XO (XO (XO (XI (XI (XI (XI (XO (XI (XO (XO (XI (XI (XI (XI
+    (XI (XO (XI (XI (XI (XI (XI (XI (XI (XI (XI (XO (XI (XI (XO (XO (XI (XI
+    (XI (XI (XI (XO (XO (XI (XI (XO (XI
+    XH)))))))))))))))))))))))))))))))))))))))))))))))))))))))))))))))) :: ((Npos
+    (XI (XI (XI (XI (XO (XO (XI (XI (XO (XO (XI (XI (XI (XI (XO (XO (XO (XO
+    (XO (XI (XI (XO (XO (XO (XI (XI (XO (XO (XI (XO (XI (XI (XO (XI (XO (XO
+    (XI (XO (XI (XO (XI (XI (XI (XO (XI (XO (XO (XI (XO (XO (XO (XI (XO (XI
+    (XI (XI (XI (XI (XO (XO (XO (XI
+    XH))))))))))))))))))))))))))))))))))))))))))))))))))))))))))))))) :: ((Npos
+    (XI (XO (XI (XO (XO (XO (XI (XI (XI (XI (XI (XI (XO (XO (XO (XO (XI (XI
+    (XI (XI (XI (XI (XI (XI (XO (XI (XI (XO (XI (XO (XO (XO (XO (XO (XI (XO
+    (XO (XI (XO (XI (XI (XO (XO (XO (XO (XO (XI (XI (XO (XO (XO (XO (XI (XI
+    (XI (XO (XI (XI (XO (XO (XI (XO
+    XH))))))))))))))))))))))))))))))))))))))))))))))))))))))))))))))) :: ((Npos
+    (XO (XO (XO (XI (XO (XI (XI (XI (XI (XI (XI (XO (XI (XO (XO (XO (XI (XO
+    (XO (XI (XI (XI (XI (XI (XO (XO (XO (XI (XI (XI (XO (XO (XO (XO (XO (XI
+    (XI (XI (XI (XO (XO (XI (XI (XI (XI (XO (XI (XO (XO (XO (XO (XO (XI (XO
+    (XI (XO (XI (XI (XO (XO (XO (XI (XI
+    XH)))))))))))))))))))))))))))))))))))))))))))))))))))))))))))))))) :: ((Npos
+    (XI (XO (XO (XI (XO (XO (XI (XO (XI (XO (XI (XI (XO (XI (XI (XI (XO (XI
+    (XI (XI (XI (XI (XO (XI (XO (XI (XI (XO (XI (XO (XI (XO (XI (XO (XI (XO
+    (XO (XI (XO (XI (XO (XO (XI (XI (XI (XO (XO (XI (XI (XO (XO (XO (XI (XI
+    (XI (XO (XO (XO (XI (XO (XO (XI (XI
+    XH)))))))))))))))))))))))))))))))))))))))))))))))))))))))))))))))) :: ((Npos
+    (XI (XO (XO (XO (XI (XO (XO (XO (XO (XI (XO (XI (XI (XI (XI (XI (XI (XO
+    (XI (XO (XI (XI (XO (XO (XO (XI (XI (XI (XI (XI (XI (XO (XO (XI (XO (XO
+    (XI (XO (XO (XO (XI (XI (XI (XO (XI (XI (XO (XI (XI (XO (XO (XO (XO (XI
+    (XI (XI (XI (XO (XI (XO (XO (XI (XO
+    XH)))))))))))))))))))))))))))))))))))))))))))))))))))))))))))))))) :: ((Npos
+    (XO (XO (XI (XI (XO (XI (XI (XO (XI (XO (XI (XO (XO (XI (XI (XI (XI (XI
+    (XI (XO (XI (XO (XO (XI (XO (XO (XI (XI (XI (XO (XI (XI (XO (XI (XO (XI
+    (XI (XO (XI (XI (XI (XI (XI (XO (XO (XO (XO (XI (XO (XI (XO (XI (XI (XI
+    (XO (XO (XI (XI (XO (XO (XI (XO (XO
+    XH)))))))))))))))))))))))))))))))))))))))))))))))))))))))))))))))) :: ((Npos
+    (XI (XI (XO (XO (XO (XO (XI (XO (XI (XO (XI (XO (XO (XI (XI (XI (XI (XO
+    (XI (XI (XI (XO (XO (XO (XO (XI (XI (XI (XI (XO (XO (XO (XO (XO (XI (XI
+    (XI (XO (XI (XI (XO (XO (XO (XO (XI (XO (XI (XI (XI (XI (XI (XO (XI (XO
+    (XO (XO (XI (XI (XI (XI (XO (XI
+    XH))))))))))))))))))))))))))))))))))))))))))))))))))))))))))))))) :: ((Npos
+    (XI (XO (XO (XO (XO (XO (XO (XI (XI (XI (XI (XI (XO (XI (XI (XI (XO (XI
+    (XO (XI (XI (XO (XI (XI (XI (XI (XI (XI (XI (XI (XO (XI (XI (XO (XO (XI
+    (XO (XI (XI (XO (XI (XO (XI (XO (XO (XO (XO (XI (XI (XI (XO (XO (XO (XO
+    (XO (XO (XI (XI (XO (XO
+    XH))))))))))))))))))))))))))))))))))))))))))))))))))))))))))))) :: ((Npos
+    (XO (XO (XO (XI (XI (XO (XI (XO (XI (XI (XI (XI (XI (XO (XO (XI (XI (XO
+    (XI (XO (XO (XO (XI (XO (XO (XO (XI (XO (XO (XI (XO (XO (XI (XI (XI (XO
+    (XI (XO (XO (XO (XO (XO (XI (XI (XO (XI (XO (XI (XO (XO (XI (XO (XO (XI
+    (XO (XI (XO (XI (XI (XI (XI
+    XH)))))))))))))))))))))))))))))))))))))))))))))))))))))))))))))) :: ((Npos
+    (XI (XO (XI (XI (XO (XI (XO (XO (XI (XO (XI (XI (XO (XO (XO (XI (XI (XI
+    (XI (XI (XO (XI (XI (XI (XI (XI (XO (XI (XO (XO (XI (XI (XI (XO (XO (XI
+    (XO (XI (XO (XI (XO (XO (XO (XI (XI (XO (XO (XO (XO (XO (XI (XI (XI (XI
+    (XO (XO (XO (XO (XI (XO (XO (XO (XO
+    XH)))))))))))))))))))))))))))))))))))))))))))))))))))))))))))))))) :: ((Npos
+    (XO (XO (XI (XI (XO (XO (XO (XI (XO (XO (XO (XO (XI (XI (XI (XI (XO (XI
+    (XO (XO (XI (XO (XI (XO (XI (XI (XI (XI (XI (XI (XO (XI (XI (XO (XI (XO
+    (XO (XI (XI (XO (XI (XI (XO (XI (XI (XO (XO (XI (XI (XI (XO (XI (XI (XO
+    (XI (XI (XI (XO (XO (XO (XI (XO (XI
+    XH)))))))))))))))))))))))))))))))))))))))))))))))))))))))))))))))) :: ((Npos
+    (XO (XO (XO (XI (XO (XO (XO (XI (XI (XO (XO (XI (XI (XO (XI (XO (XO (XI
+    (XO (XI (XO (XO (XI (XO (XO (XO (XI (XI (XO (XI (XI (XI (XO (XO (XO (XO
+    (XO (XO (XI (XI (XO (XO (XI (XI (XO (XI (XO (XI (XO (XO (XO (XO (XO (XO
+    (XI (XO (XO (XO (XO (XI (XI (XI (XI
+    XH)))))))))))))))))))))))))))))))))))))))))))))))))))))))))))))))) :: ((Npos
+    (XO (XO (XI (XI (XI (XI (XI (XI (XI (XI (XI (XO (XI (XI (XO (XI (XO (XO
+    (XI (XI (XO (XO (XI (XO (XO (XI (XI (XI (XO (XO (XO (XO (XI (XI (XI (XO
+    (XI (XO (XO (XI (XI (XI (XO (XO (XI (XI (XO (XO (XO (XI (XI (XO (XI (XI
+    (XI (XI (XO (XI (XO (XI (XI (XI (XI
+    XH)))))))))))))))))))))))))))))))))))))))))))))))))))))))))))))))) :: ((Npos
+    (XO (XI (XI (XI (XO (XO (XO (XI (XI (XI (XI (XO (XO (XI (XI (XI (XI (XO
+    (XO (XO (XO (XO (XO (XI (XI (XO (XI (XI (XO (XO (XO (XI (XO (XI (XO (XO
+    (XO (XO (XI (XI (XI (XI (XO (XI (XI (XO (XI (XI (XI (XO (XI (XI (XO (XO
+    (XI (XI (XI (XI (XO (XI (XO
+    XH)))))))))))))))))))))))))))))))))))))))))))))))))))))))))))))) :: ((Npos
+    (XO (XI (XI (XO (XO (XO (XO (XI (XI (XI (XI (XO (XI (XO (XO (XO (XI (XI
+    (XO (XO (XO (XI (XI (XI (XO (XO (XO (XO (XO (XI (XO (XO (XO (XI (XI (XO
+    (XI (XO (XI (XO (XI (XI (XO (XI (XO (XO (XO (XI (XI (XO (XO (XO (XO (XI
+    (XO (XO (XI (XO (XI (XO (XO
+    XH)))))))))))))))))))))))))))))))))))))))))))))))))))))))))))))) :: ((Npos
+    (XI (XI (XO (XO (XI (XO (XO (XO (XO (XI (XO (XI (XI (XI (XI (XI (XI (XI
+    (XI (XI (XI (XO (XO (XI (XI (XO (XO (XI (XO (XI (XO (XI (XI (XO (XO (XO
+    (XI (XO (XI (XO (XI (XO (XO (XO (XO (XO (XO (XO (XO (XO (XO (XO (XI (XI
+    (XO (XI (XO (XO (XI (XI (XO (XI
+    XH))))))))))))))))))))))))))))))))))))))))))))))))))))))))))))))) :: ((Npos
+    (XI (XO (XI (XO (XI (XI (XO (XO (XI (XI (XO (XO (XI (XO (XO (XO (XO (XO
+    (XI (XI (XO (XI (XO (XO (XI (XO (XO (XI (XI (XO (XI (XI (XO (XI (XO (XO
+    (XO (XI (XI (XI (XO (XI (XI (XI (XI (XI (XO (XI (XO (XO (XO (XO (XO (XI
+    (XO (XO (XI (XO (XO (XI (XO (XI (XO
+    XH)))))))))))))))))))))))))))))))))))))))))))))))))))))))))))))))) :: ((Npos
+    (XI (XO (XI (XI (XO (XO (XI (XI (XO (XI (XI (XO (XO (XI (XO (XI (XO (XO
+    (XO (XO (XO (XI (XI (XI (XO (XI (XO (XI (XO (XO (XO (XO (XI (XO (XO (XO
+    (XO (XI (XO (XO (XI (XI (XO (XO (XO (XI (XO (XI (XO (XO (XI (XO (XO (XI
+    (XO (XI (XO (XI (XO (XI (XO
+    XH)))))))))))))))))))))))))))))))))))))))))))))))))))))))))))))) :: ((Npos
+    (XI (XI (XO (XI (XI (XO (XI (XI (XI (XO (XO (XO (XI (XI (XI (XI (XO (XI
+    (XO (XI (XO (XO (XI (XI (XI (XI (XI (XI (XO (XO (XI (XI (XI (XI (XO (XO
+    (XI (XI (XO (XI (XI (XI (XI (XO (XO (XO (XO (XI (XI (XI (XO (XI (XI (XI
+    (XO (XO (XI (XO (XO (XO (XO (XI
+    XH))))))))))))))))))))))))))))))))))))))))))))))))))))))))))))))) :: ((Npos
+    (XO (XO (XI (XO (XI (XI (XI (XO (XO (XO (XI (XI (XI (XO (XO (XI (XO (XO
+    (XO (XI (XO (XI (XI (XO (XI (XO (XO (XI (XI (XO (XO (XI (XI (XI (XI (XO
+    (XO (XO (XI (XI (XO (XI (XI (XI (XO (XI (XI (XI (XO (XO (XO (XO (XI (XO
+    (XO (XO (XI (XO
+    XH))))))))))))))))))))))))))))))))))))))))))))))))))))))))))) :: ((Npos
+    (XO (XI (XO (XO (XI (XI (XO (XI (XO (XO (XI (XI (XO (XO (XI (XI (XI (XO
+    (XI (XO (XI (XO (XO (XO (XI (XO (XI (XO (XI (XI (XO (XI (XO (XI (XI (XI
+    (XO (XO (XO (XI (XO (XO (XO (XO (XO (XO (XI (XO (XO (XI (XI (XI (XI (XI
+    (XI (XI (XO (XO (XO (XI (XO (XO (XI
+    XH)))))))))))))))))))))))))))))))))))))))))))))))))))))))))))))))) :: ((Npos
+    (XI (XI (XO (XI (XO (XI (XI (XO (XI (XI (XI (XO (XI (XI (XO (XO (XI (XI
+    (XI (XI (XO (XI (XO (XO (XI (XO (XI (XO (XI (XO (XO (XO (XO (XO (XO (XO
+    (XI (XO (XO (XO (XO (XO (XI (XO (XI (XO (XO (XO (XI (XO (XO (XO (XI (XI
+    (XI (XO (XI (XI (XI (XO (XO (XO (XI
+    XH)))))))))))))))))))))))))))))))))))))))))))))))))))))))))))))))) :: ((Npos
+    (XI (XO (XO (XO (XO (XI (XO (XI (XI (XO (XO (XO (XI (XO (XO (XI (XI (XO
+    (XI (XO (XI (XI (XI (XI (XI (XI (XO (XO (XO (XO (XO (XO (XO (XO (XO (XI
+    (XO (XI (XO (XI (XI (XI (XI (XO (XI (XI (XO (XI (XO (XI (XI (XO (XO (XO
+    (XO (XI (XO (XO (XO (XI (XO (XO (XO
+    XH)))))))))))))))))))))))))))))))))))))))))))))))))))))))))))))))) :: ((Npos
+    (XO (XI (XO (XI (XO (XO (XO (XO (XO (XO (XI (XI (XI (XO (XO (XI (XO (XO
+    (XI (XI (XO (XI (XI (XI (XI (XO (XO (XO (XO (XI (XO (XO (XI (XI (XI (XI
+    (XO (XO (XI (XO (XO (XI (XO (XO (XI (XO (XI (XO (XI (XO (XI (XI (XI (XI
+    (XI (XI (XO (XO (XI (XO (XI (XI
+    XH))))))))))))))))))))))))))))))))))))))))))))))))))))))))))))))) :: ((Npos
+    (XO (XO (XI (XI (XI (XO (XO (XO (XO (XI (XO (XO (XO (XO (XI (XO (XI (XO
+    (XO (XI (XO (XO (XI (XI (XO (XO (XO (XO (XI (XO (XO (XO (XO (XI (XI (XI
+    (XI (XI (XO (XO (XI (XI (XI (XO (XO (XI (XO (XO (XO (XO (XI (XO (XO (XI
+    (XI (XI (XO (XI (XO (XI (XO (XI
+    XH))))))))))))))))))))))))))))))))))))))))))))))))))))))))))))))) :: ((Npos
+    (XI (XI (XI (XI (XO (XO (XO (XI (XI (XO (XO (XI (XI (XI (XI (XI (XO (XI
+    (XI (XO (XO (XI (XI (XI (XO (XI (XI (XI (XI (XI (XO (XI (XO (XO (XI (XI
+    (XO (XI (XI (XI (XI (XO (XI (XI (XI (XO (XO (XO (XO (XI (XO (XI (XI (XI
+    (XO (XI (XO (XO (XI (XI (XO (XO (XO
+    XH)))))))))))))))))))))))))))))))))))))))))))))))))))))))))))))))) :: ((Npos
+    (XI (XI (XI (XI (XI (XI (XI (XO (XI (XO (XO (XO (XI (XO (XO (XI (XI (XO
+    (XO (XI (XI (XI (XO (XO (XI (XI (XO (XO (XI (XO (XO (XI (XO (XO (XO (XO
+    (XI (XO (XO (XI (XO (XI (XI (XO (XI (XO (XI (XI (XO (XO (XO (XI (XO (XO
+    (XO (XO (XI (XI (XO (XI (XI (XI (XI
+    XH)))))))))))))))))))))))))))))))))))))))))))))))))))))))))))))))) :: ((Npos
+    (XO (XO (XO (XI (XI (XI (XO (XO (XI (XI (XI (XO (XO (XI (XO (XI (XO (XO
+    (XI (XO (XI (XO (XO (XO (XI (XO (XO (XI (XO (XO (XO (XI (XI (XO (XI (XO
+    (XO (XI (XI (XI (XO (XO (XO (XO (XI (XO (XI (XI (XI (XO (XO (XI (XO (XI
+    (XI (XO (XI (XO (XI (XO (XO (XO (XO
+    XH)))))))))))))))))))))))))))))))))))))))))))))))))))))))))))))))) :: ((Npos
+    (XO (XI (XO (XO (XO (XO (XO (XI (XI (XO (XO (XO (XI (XO (XI (XI (XO (XI
+    (XO (XI (XI (XI (XI (XO (XI (XI (XI (XI (XO (XO (XO (XO (XO (XI (XI (XI
+    (XO (XO (XI (XO (XI (XI (XO (XO (XO (XO (XI (XO (XI (XO (XO (XI (XO (XI
+    (XO (XI (XO (XO (XI (XO (XI (XO
+    XH))))))))))))))))))))))))))))))))))))))))))))))))))))))))))))))) :: ((Npos
+    (XO (XI (XO (XO (XI (XO (XO (XO (XI (XO (XI (XI (XI (XI (XI (XI (XI (XO
+    (XO (XI (XI (XO (XO (XO (XI (XO (XI (XI (XI (XI (XI (XO (XI (XI (XO (XO
+    (XI (XO (XI (XO (XI (XO (XI (XI (XO (XO (XI (XO (XI (XO (XI (XI (XO (XO
+    (XI (XI (XO (XO (XI (XO (XI (XO (XI
+    XH)))))))))))))))))))))))))))))))))))))))))))))))))))))))))))))))) :: ((Npos
+    (XO (XO (XI (XI (XO (XI (XO (XI (XI (XI (XO (XO (XI (XI (XI (XI (XO (XO
+    (XO (XO (XI (XO (XO (XO (XI (XO (XO (XI (XI (XI (XI (XO (XI (XI (XO (XI
+    (XI (XO (XO (XI (XO (XO (XI (XO (XO (XI (XO (XO (XI (XO (XI (XI (XO (XI
+    (XI (XO (XO (XO (XO (XO
+    XH))))))))))))))))))))))))))))))))))))))))))))))))))))))))))))) :: ((Npos
+    (XO (XO (XO (XO (XO (XI (XO (XO (XI (XI (XI (XO (XO (XI (XO (XO (XI (XI
+    (XI (XO (XO (XI (XI (XI (XI (XO (XI (XO (XI (XO (XO (XO (XI (XO (XI (XO
+    (XI (XI (XO (XO (XO (XI (XI (XO (XO (XI (XO (XO (XO (XO (XI (XI (XI (XO
+    (XI (XO (XO (XI (XI (XI
+    XH))))))))))))))))))))))))))))))))))))))))))))))))))))))))))))) :: ((Npos
+    (XI (XI (XO (XI (XI (XO (XO (XO (XI (XI (XI (XI (XO (XO (XO (XI (XI (XI
+    (XI (XI (XI (XI (XI (XO (XO (XI (XI (XI (XO (XO (XO (XI (XI (XO (XO (XI
+    (XO (XO (XI (XI (XO (XI (XI (XI (XI (XI (XO (XO (XI (XO (XO (XI (XO (XO
+    (XI (XI (XO (XO (XI (XI (XO (XI (XI
+    XH)))))))))))))))))))))))))))))))))))))))))))))))))))))))))))))))) :: ((Npos
+    (XI (XI (XI (XO (XO (XO (XO (XO (XI (XO (XO (XI (XO (XO (XO (XI (XO (XI
+    (XI (XI (XI (XI (XO (XO (XI (XO (XI (XI (XI (XO (XI (XO (XI (XI (XI (XO
+    (XI (XI (XO (XO (XO (XI (XO (XI (XO (XO (XI (XO (XI (XO (XO (XI (XO (XO
+    (XO (XI (XI (XI (XO (XI (XO (XI (XI
+    XH)))))))))))))))))))))))))))))))))))))))))))))))))))))))))))))))) :: ((Npos
+    (XI (XI (XI (XO (XI (XI (XI (XI (XO (XI (XI (XI (XO (XO (XO (XO (XI (XI
+    (XI (XO (XO (XO (XI (XO (XO (XO (XI (XO (XO (XO (XO (XI (XO (XI (XI (XO
+    (XO (XI (XO (XO (XO (XO (XO (XO (XO (XO (XO (XI (XO (XI (XI (XI (XI (XI
+    (XI (XO (XO (XI (XI (XI (XO (XI
+    XH))))))))))))))))))))))))))))))))))))))))))))))))))))))))))))))) :: ((Npos
+    (XI (XI (XO (XI (XI (XI (XI (XI (XO (XI (XO (XO (XO (XI (XI (XI (XI (XI
+    (XI (XO (XO (XO (XI (XO (XO (XO (XO (XO (XI (XO (XI (XO (XO (XI (XI (XO
+    (XO (XO (XO (XO (XI (XI (XI (XO (XO (XO (XI (XO (XO (XI (XI (XO (XO (XO
+    (XI (XI (XI (XI (XO
+    XH)))))))))))))))))))))))))))))))))))))))))))))))))))))))))))) :: ((Npos
+    (XI (XI (XI (XO (XI (XI (XI (XO (XI (XI (XI (XI (XO (XI (XO (XO (XO (XI
+    (XI (XI (XI (XI (XO (XI (XI (XI (XO (XI (XO (XI (XO (XO (XI (XO (XI (XO
+    (XO (XI (XI (XI (XI (XI (XO (XO (XI (XO (XI (XI (XI (XO (XI (XO (XI (XO
+    (XO (XO (XO (XI (XO (XI (XO (XO (XI
+    XH)))))))))))))))))))))))))))))))))))))))))))))))))))))))))))))))) :: ((Npos
+    (XI (XI (XO (XO (XO (XO (XO (XI (XI (XO (XI (XO (XI (XI (XO (XI (XI (XO
+    (XO (XO (XO (XO (XI (XO (XO (XI (XI (XO (XI (XI (XI (XI (XI (XI (XO (XO
+    (XI (XO (XI (XO (XI (XO (XI (XI (XI (XO (XO (XI (XO (XI (XO (XO (XO (XO
+    (XO (XO
+    XH))))))))))))))))))))))))))))))))))))))))))))))))))))))))) :: ((Npos (XI
+    (XI (XO (XO (XO (XO (XO (XO (XO (XI (XI (XO (XI (XI (XO (XO (XO (XO (XO
+    (XO (XO (XO (XI (XI (XO (XI (XO (XI (XO (XI (XO (XI (XO (XI (XI (XI (XO
+    (XO (XI (XI (XO (XI (XI (XI (XI (XI (XO (XI (XI (XO (XI (XI (XO (XO (XO
+    (XO (XI (XI (XO (XO (XO (XI (XI
+    XH)))))))))))))))))))))))))))))))))))))))))))))))))))))))))))))))) :: ((Npos
+    (XO (XI (XO (XO (XO (XO (XI (XI (XO (XI (XI (XI (XI (XO (XI (XI (XO (XI
+    (XI (XI (XO (XI (XI (XI (XO (XI (XO (XO (XO (XO (XI (XI (XI (XI (XI (XI
+    (XI (XO (XO (XO (XI (XO (XI (XO (XI (XO (XO (XI (XI (XO (XO (XI (XO (XO
+    (XO (XI (XO (XI (XI (XO (XI
+    XH)))))))))))))))))))))))))))))))))))))))))))))))))))))))))))))) :: ((Npos
+    (XO (XO (XI (XO (XI (XO (XI (XI (XI (XI (XI (XO (XI (XI (XI (XI (XO (XI
+    (XI (XO (XI (XI (XI (XI (XO (XO (XI (XI (XO (XO (XO (XI (XI (XI (XI (XO
+    (XI (XI (XI (XI (XO (XI (XO (XO (XI (XI (XO (XO (XI (XO (XI (XI (XO (XI
+    (XI (XO (XI (XI (XI (XO (XI
+    XH)))))))))))))))))))))))))))))))))))))))))))))))))))))))))))))) :: ((Npos
+    (XI (XI (XI (XO (XI (XI (XI (XI (XI (XI (XI (XO (XO (XO (XO (XI (XI (XI
+    (XI (XO (XI (XI (XI (XO (XO (XI (XO (XO (XO (XI (XO (XO (XO (XI (XI (XI
+    (XO (XO (XI (XI (XO (XO (XI (XO (XO (XI (XO (XI (XO (XI (XI (XO (XO (XI
+    (XI (XI (XI (XO (XI (XO (XI (XO (XO
+    XH)))))))))))))))))))))))))))))))))))))))))))))))))))))))))))))))) :: ((Npos
+    (XI (XI (XO (XI (XI (XI (XI (XO (XO (XO (XI (XO (XI (XO (XO (XO (XI (XO
+    (XO (XI (XI (XO (XI (XO (XI (XI (XO (XO (XI (XI (XI (XO (XI (XI (XO (XO
+    (XI (XO (XO (XI (XO (XI (XO (XI (XO (XI (XO (XI (XI (XO (XO (XO (XO (XO
+    (XO (XO (XO (XO (XO (XI (XI (XI (XO
+    XH)))))))))))))))))))))))))))))))))))))))))))))))))))))))))))))))) :: ((Npos
+    (XO (XO (XO (XO (XO (XI (XO (XO (XI (XO (XO (XI (XI (XO (XO (XO (XO (XI
+    (XI (XI (XI (XO (XO (XO (XI (XI (XO (XI (XO (XO (XO (XO (XI (XI (XO (XO
+    (XO (XI (XI (XO (XO (XI (XI (XI (XO (XO (XO (XO (XI (XO (XO (XI (XI (XO
+    (XI (XI (XI (XO (XI (XI (XI (XO (XI
+    XH)))))))))))))))))))))))))))))))))))))))))))))))))))))))))))))))) :: ((Npos
+    (XO (XO (XI (XO (XI (XI (XI (XO (XO (XO (XO (XO (XO (XO (XI (XO (XI (XO
+    (XO (XO (XO (XI (XO (XO (XO (XO (XO (XI (XI (XO (XI (XI (XI (XO (XI (XI
+    (XI (XI (XO (XI (XO (XO (XI (XO (XI (XO (XO (XI (XI (XI (XI (XO (XO (XI
+    (XO (XI (XO (XO (XI (XI (XI (XO (XI
+    XH)))))))))))))))))))))))))))))))))))))))))))))))))))))))))))))))) :: ((Npos
+    (XI (XI (XO (XO (XI (XI (XI (XO (XI (XI (XI (XI (XO (XO (XO (XO (XI (XO
+    (XO (XI (XO (XI (XI (XI (XI (XO (XO (XO (XI (XI (XI (XI (XI (XI (XI (XI
+    (XI (XO (XO (XI (XO (XI (XO (XI (XI (XI (XO (XI (XI (XO (XO (XO (XI (XI
+    (XI (XO (XO (XO (XI (XO (XI (XI
+    XH))))))))))))))))))))))))))))))))))))))))))))))))))))))))))))))) :: ((Npos
+    (XI (XI (XO (XI (XO (XI (XO (XO (XO (XI (XI (XI (XO (XO (XI (XO (XI (XO
+    (XO (XI (XI (XO (XI (XO (XI (XO (XI (XI (XO (XI (XO (XO (XI (XI (XI (XI
+    (XO (XI (XI (XI (XO (XI (XO (XO (XI (XI (XO (XI (XO (XO (XI (XO (XI (XI
+    (XO (XI (XO (XO (XI (XI (XI (XO (XI
+    XH)))))))))))))))))))))))))))))))))))))))))))))))))))))))))))))))) :: ((Npos
+    (XI (XO (XO (XO (XO (XI (XI (XO (XI (XO (XO (XO (XO (XI (XI (XO (XO (XO
+    (XO (XI (XO (XO (XO (XO (XO (XO (XO (XI (XI (XO (XO (XO (XO (XI (XO (XO
+    (XI (XO (XI (XO (XO (XI (XI (XI (XO (XI (XI (XI (XI (XI (XO (XO (XI (XO
+    (XI (XI (XI (XI (XI (XO (XI (XO (XI
+    XH)))))))))))))))))))))))))))))))))))))))))))))))))))))))))))))))) :: ((Npos
+    (XO (XI (XO (XI (XI (XI (XO (XO (XI (XO (XO (XI (XI (XO (XI (XI (XO (XI
+    (XO (XO (XI (XI (XO (XO (XI (XI (XI (XO (XI (XO (XI (XO (XI (XO (XI (XO
+    (XO (XO (XO (XO (XI (XI (XO (XI (XO (XI (XI (XO (XO (XI (XI (XO (XI (XI
+    (XO (XI (XI (XO (XO (XO (XI (XI (XI
+    XH)))))))))))))))))))))))))))))))))))))))))))))))))))))))))))))))) :: ((Npos
+    (XO (XI (XI (XO (XO (XI (XO (XI (XO (XO (XO (XI (XO (XO (XI (XO (XI (XO
+    (XI (XI (XO (XI (XO (XO (XO (XI (XI (XO (XO (XI (XO (XO (XO (XI (XI (XI
+    (XI (XI (XI (XI (XI (XO (XI (XO (XO (XO (XO (XI (XO (XI (XO (XI (XI (XI
+    (XO (XI (XI (XO (XO (XO
+    XH))))))))))))))))))))))))))))))))))))))))))))))))))))))))))))) :: ((Npos
+    (XI (XI (XO (XI (XO (XO (XO (XI (XI (XO (XO (XO (XO (XI (XO (XO (XI (XI
+    (XO (XO (XO (XI (XI (XI (XO (XI (XO (XO (XO (XO (XI (XO (XO (XO (XI (XO
+    (XO (XO (XO (XO (XO (XO (XO (XO (XO (XO (XO (XO (XI (XO (XI (XO (XI (XI
+    (XI (XI (XI (XO (XI (XO (XO (XO (XI
+    XH)))))))))))))))))))))))))))))))))))))))))))))))))))))))))))))))) :: ((Npos
+    (XI (XO (XI (XI (XI (XO (XI (XI (XO (XI (XI (XO (XO (XO (XI (XO (XO (XI
+    (XO (XO (XI (XO (XO (XI (XO (XI (XO (XI (XI (XI (XI (XO (XO (XO (XI (XI
+    (XI (XI (XO (XO (XI (XI (XO (XI (XO (XI (XO (XO (XO (XO (XO (XO (XO (XO
+    (XI (XO (XI (XI (XI (XO (XI
+    XH)))))))))))))))))))))))))))))))))))))))))))))))))))))))))))))) :: ((Npos
+    (XO (XO (XI (XO (XO (XI (XO (XO (XI (XO (XI (XO (XO (XO (XI (XO (XI (XI
+    (XO (XI (XO (XI (XO (XO (XI (XO (XO (XI (XI (XO (XI (XI (XI (XO (XI (XO
+    (XO (XO (XI (XI (XO (XO (XO (XO (XI (XO (XI (XO (XI (XO (XO (XO (XO (XO
+    (XO (XI (XI (XI (XO (XI (XI (XO (XI
+    XH)))))))))))))))))))))))))))))))))))))))))))))))))))))))))))))))) :: ((Npos
+    (XI (XI (XO (XO (XI (XO (XO (XO (XO (XO (XO (XI (XO (XI (XI (XO (XO (XO
+    (XO (XO (XI (XI (XO (XI (XO (XI (XI (XI (XI (XO (XI (XI (XI (XI (XI (XO
+    (XO (XO (XI (XI (XI (XO (XO (XO (XO (XI (XI (XO (XI (XO (XI (XI (XI (XI
+    (XO (XI (XI (XO (XO (XI (XI (XO
+    XH))))))))))))))))))))))))))))))))))))))))))))))))))))))))))))))) :: ((Npos
+    (XO (XO (XI (XI (XO (XO (XO (XO (XI (XI (XI (XI (XO (XO (XI (XI (XO (XI
+    (XO (XO (XO (XO (XI (XI (XO (XI (XO (XO (XO (XO (XI (XO (XO (XI (XI (XO
+    (XO (XI (XI (XI (XO (XO (XO (XI (XI (XI (XI (XI (XO (XO (XO (XO (XI (XI
+    (XO (XI (XO (XO (XO (XI (XO (XO
+    XH))))))))))))))))))))))))))))))))))))))))))))))))))))))))))))))) :: ((Npos
+    (XO (XI (XI (XO (XO (XO (XI (XI (XO (XO (XI (XI (XO (XO (XO (XO (XI (XO
+    (XO (XO (XO (XI (XO (XO (XO (XO (XO (XO (XO (XO (XO (XO (XI (XO (XI (XI
+    (XO (XI (XI (XI (XI (XO (XI (XI (XI (XO (XI (XO (XO (XO (XO (XI (XO (XI
+    (XI (XO (XI (XI (XI (XO (XO (XO (XI
+    XH)))))))))))))))))))))))))))))))))))))))))))))))))))))))))))))))) :: ((Npos
+    (XI (XI (XO (XO (XO (XO (XI (XO (XO (XI (XI (XI (XI (XO (XI (XO (XI (XO
+    (XO (XO (XI (XI (XO (XI (XO (XI (XI (XI (XO (XO (XO (XO (XO (XO (XO (XO
+    (XO (XO (XO (XI (XI (XI (XI (XI (XO (XI (XO (XI (XI (XI (XI (XI (XI (XO
+    (XI (XO (XI (XO (XI (XI (XI (XI
+    XH))))))))))))))))))))))))))))))))))))))))))))))))))))))))))))))) :: ((Npos
+    (XO (XO (XI (XI (XI (XI (XI (XO (XO (XO (XI (XO (XI (XI (XI (XI (XI (XO
+    (XI (XO (XO (XO (XO (XI (XO (XI (XI (XO (XI (XI (XI (XO (XI (XI (XI (XI
+    (XI (XI (XI (XI (XO (XI (XO (XI (XO (XO (XO (XI (XO (XI (XO (XI (XO (XI
+    (XI (XO (XO (XI (XO (XO (XI (XI
+    XH))))))))))))))))))))))))))))))))))))))))))))))))))))))))))))))) :: ((Npos
+    (XI (XI (XO (XI (XI (XI (XO (XI (XO (XO (XO (XI (XI (XI (XI (XO (XO (XI
+    (XI (XO (XI (XO (XO (XI (XO (XO (XI (XO (XI (XI (XO (XI (XI (XO (XO (XI
+    (XI (XO (XO (XI (XO (XI (XI (XI (XI (XO (XI (XI (XO (XO (XI (XI (XO (XI
+    (XI (XI (XI (XI (XI (XO (XI (XI
+    XH))))))))))))))))))))))))))))))))))))))))))))))))))))))))))))))) :: ((Npos
+    (XI (XO (XO (XI (XI (XO (XO (XI (XI (XI (XO (XI (XI (XI (XO (XI (XI (XI
+    (XO (XI (XO (XO (XO (XI (XO (XO (XO (XO (XO (XI (XO (XI (XO (XI (XI (XI
+    (XO (XI (XO (XO (XI (XI (XI (XO (XO (XO (XO (XI (XO (XI (XO (XI (XO (XI
+    (XI (XO (XO (XI (XO (XI
+    XH))))))))))))))))))))))))))))))))))))))))))))))))))))))))))))) :: ((Npos
+    (XI (XO (XI (XO (XI (XO (XO (XO (XO (XI (XO (XO (XO (XI (XO (XO (XI (XO
+    (XO (XI (XO (XI (XI (XO (XO (XI (XI (XI (XO (XO (XO (XI (XI (XO (XI (XI
+    (XI (XO (XO (XO (XO (XO (XO (XI (XO (XO (XO (XI (XO (XO (XI (XI (XO (XI
+    (XI (XI (XO (XO (XI (XI (XI (XO (XI
+    XH)))))))))))))))))))))))))))))))))))))))))))))))))))))))))))))))) :: ((Npos
+    (XI (XO (XO (XI (XO (XO (XO (XI (XI (XI (XO (XI (XO (XI (XO (XI (XI (XI
+    (XO (XI (XI (XI (XO (XI (XO (XO (XI (XO (XI (XI (XI (XI (XI (XO (XO (XO
+    (XO (XO (XO (XI (XI (XI (XI (XI (XO (XI (XO (XO (XO (XO (XO (XO (XO (XO
+    (XO (XI (XI (XO (XI (XI
+    XH))))))))))))))))))))))))))))))))))))))))))))))))))))))))))))) :: ((Npos
+    (XI (XI (XI (XO (XI (XI (XO (XI (XI (XI (XI (XI (XI (XO (XI (XI (XI (XO
+    (XI (XI (XO (XI (XI (XO (XO (XO (XI (XI (XO (XI (XO (XO (XI (XI (XO (XO
+    (XI (XI (XO (XO (XO (XI (XI (XI (XO (XO (XO (XI (XI (XO (XO (XO (XI (XO
+    (XO (XO (XO (XO (XO (XO (XO (XI
+    XH))))))))))))))))))))))))))))))))))))))))))))))))))))))))))))))) :: ((Npos
+    (XI (XI (XI (XO (XO (XI (XI (XO (XI (XO (XI (XI (XI (XI (XO (XO (XI (XI
+    (XI (XI (XO (XI (XO (XI (XI (XO (XO (XO (XO (XO (XO (XI (XO (XO (XO (XO
+    (XI (XO (XO (XI (XO (XO (XI (XO (XI (XO (XI (XI (XO (XI (XO (XI (XI (XO
+    (XI (XO (XI (XI (XI (XI (XI (XO
+    XH))))))))))))))))))))))))))))))))))))))))))))))))))))))))))))))) :: ((Npos
+    (XO (XO (XI (XO (XO (XO (XO (XO (XO (XO (XO (XO (XI (XI (XI (XI (XI (XI
+    (XO (XI (XI (XI (XO (XI (XI (XI (XO (XO (XI (XI (XI (XO (XI (XO (XO (XI
+    (XI (XI (XI (XO (XI (XO (XO (XO (XI (XI (XO (XI (XO (XI (XI (XO (XI (XI
+    (XI (XO (XO (XI (XO (XO (XO (XI (XO
+    XH)))))))))))))))))))))))))))))))))))))))))))))))))))))))))))))))) :: ((Npos
+    (XO (XI (XO (XI (XO (XI (XO (XI (XI (XI (XI (XO (XO (XO (XI (XI (XI (XI
+    (XI (XO (XO (XI (XO (XO (XO (XI (XI (XI (XI (XO (XO (XO (XI (XO (XI (XI
+    (XO (XO (XI (XO (XI (XI (XI (XI (XI (XO (XI (XI (XI (XO (XI (XI (XI (XO
+    (XO (XO (XO (XI (XI (XI (XI (XI (XI
+    XH)))))))))))))))))))))))))))))))))))))))))))))))))))))))))))))))) :: ((Npos
+    (XO (XO (XI (XO (XI (XO (XO (XI (XO (XO (XI (XI (XI (XO (XO (XO (XI (XI
+    (XO (XO (XO (XO (XO (XI (XI (XO (XO (XI (XI (XI (XI (XI (XI (XO (XO (XI
+    (XI (XI (XI (XO (XO (XO (XI (XO (XI (XI (XI (XI (XO (XO (XO (XI (XI (XI
+    (XO (XO (XI (XI (XO (XO (XO (XO (XO
+    XH)))))))))))))))))))))))))))))))))))))))))))))))))))))))))))))))) :: ((Npos
+    (XI (XI (XI (XO (XI (XI (XI (XO (XI (XI (XO (XO (XI (XO (XI (XO (XI (XI
+    (XO (XI (XI (XI (XI (XO (XI (XI (XO (XO (XI (XO (XO (XO (XI (XI (XO (XI
+    (XI (XO (XO (XO (XI (XI (XO (XO (XO (XI (XI (XI (XO (XI (XO (XI (XI (XO
+    (XO (XO (XO (XI (XO (XI (XO (XO
+    XH))))))))))))))))))))))))))))))))))))))))))))))))))))))))))))))) :: ((Npos
+    (XO (XI (XI (XO (XI (XO (XI (XI (XO (XO (XI (XO (XO (XO (XI (XO (XO (XI
+    (XI (XO (XO (XO (XO (XI (XO (XI (XO (XI (XI (XO (XO (XO (XI (XO (XI (XI
+    (XI (XI (XO (XI (XO (XO (XO (XI (XI (XO (XO (XO (XO (XO (XO (XI (XO (XO
+    (XI (XI (XI (XO (XO (XI (XI (XO (XO
+    XH)))))))))))))))))))))))))))))))))))))))))))))))))))))))))))))))) :: ((Npos
+    (XI (XI (XI (XO (XI (XO (XO (XI (XI (XI (XI (XI (XI (XI (XO (XI (XI (XI
+    (XO (XI (XO (XO (XO (XO (XO (XI (XI (XI (XI (XI (XI (XI (XO (XI (XI (XI
+    (XI (XO (XI (XI (XI (XO (XO (XO (XO (XI (XO (XO (XO (XO (XI (XO (XO (XO
+    (XO (XO (XO (XO (XI (XI (XI (XI (XO
+    XH)))))))))))))))))))))))))))))))))))))))))))))))))))))))))))))))) :: ((Npos
+    (XI (XI (XI (XO (XI (XO (XO (XI (XI (XO (XI (XI (XI (XO (XO (XO (XI (XO
+    (XI (XO (XO (XO (XO (XO (XO (XI (XI (XO (XO (XI (XI (XI (XI (XO (XI (XO
+    (XI (XI (XI (XI (XI (XI (XI (XO (XO (XI (XO (XO (XI (XO (XO (XO (XO (XI
+    (XO (XO (XO (XO (XO (XO (XO (XO (XI
+    XH)))))))))))))))))))))))))))))))))))))))))))))))))))))))))))))))) :: ((Npos
+    (XI (XI (XI (XO (XI (XO (XO (XI (XO (XI (XI (XO (XI (XI (XI (XI (XO (XO
+    (XI (XI (XO (XI (XI (XI (XO (XI (XO (XI (XI (XO (XI (XI (XI (XO (XO (XO
+    (XO (XI (XO (XI (XO (XO (XI (XO (XI (XI (XI (XO (XO (XI (XI (XI (XI (XI
+    (XO (XI (XI (XO (XI (XO (XO (XI (XO
+    XH)))))))))))))))))))))))))))))))))))))))))))))))))))))))))))))))) :: ((Npos
+    (XO (XO (XI (XO (XI (XO (XI (XO (XI (XO (XI (XO (XI (XI (XI (XI (XI (XO
+    (XO (XO (XO (XI (XI (XO (XO (XI (XO (XO (XI (XI (XI (XO (XI (XI (XI (XO
+    (XI (XO (XI (XO (XO (XI (XO (XI (XI (XI (XO (XO (XO (XO (XO (XO (XI (XI
+    (XO (XI (XO (XI (XI (XI (XI (XI
+    XH))))))))))))))))))))))))))))))))))))))))))))))))))))))))))))))) :: ((Npos
+    (XI (XO (XO (XI (XO (XO (XI (XO (XO (XI (XO (XI (XO (XO (XI (XI (XO (XO
+    (XI (XI (XO (XI (XO (XO (XO (XI (XI (XO (XI (XI (XI (XI (XI (XI (XI (XO
+    (XO (XO (XI (XO (XO (XO (XO (XI (XI (XO (XO (XO (XI (XO (XO (XO (XO (XO
+    (XO (XO (XO (XO (XO (XI (XI
+    XH)))))))))))))))))))))))))))))))))))))))))))))))))))))))))))))) :: ((Npos
+    (XO (XO (XO (XI (XI (XO (XI (XO (XI (XO (XO (XO (XI (XI (XI (XI (XI (XO
+    (XO (XI (XI (XO (XO (XI (XI (XO (XO (XI (XI (XO (XI (XO (XI (XI (XO (XO
+    (XI (XO (XI (XI (XO (XI (XO (XI (XO (XO (XI (XI (XI (XO (XO (XO (XI (XO
+    (XO (XO (XI (XI (XI (XO (XI (XO
+    XH))))))))))))))))))))))))))))))))))))))))))))))))))))))))))))))) :: ((Npos
+    (XO (XI (XO (XI (XO (XO (XO (XI (XI (XI (XI (XO (XI (XI (XO (XI (XO (XI
+    (XI (XO (XI (XO (XI (XO (XI (XO (XI (XI (XI (XI (XO (XI (XO (XI (XI (XI
+    (XO (XI (XO (XI (XO (XI (XO (XO (XI (XI (XI (XO (XI (XI (XI (XI (XI (XI
+    (XI (XO (XO (XO (XO (XO (XI (XI (XI
+    XH)))))))))))))))))))))))))))))))))))))))))))))))))))))))))))))))) :: ((Npos
+    (XI (XI (XI (XI (XI (XI (XI (XO (XI (XI (XI (XO (XI (XO (XO (XO (XI (XO
+    (XO (XO (XI (XO (XO (XO (XI (XO (XO (XO (XO (XI (XI (XO (XO (XO (XO (XO
+    (XI (XO (XO (XO (XI (XI (XO (XO (XO (XI (XO (XI (XO (XI (XO (XO (XO (XO
+    (XI (XO (XI (XI (XO (XI (XO
+    XH)))))))))))))))))))))))))))))))))))))))))))))))))))))))))))))) :: ((Npos
+    (XO (XI (XO (XI (XI (XO (XO (XO (XO (XI (XO (XI (XI (XI (XO (XO (XO (XO
+    (XI (XI (XO (XI (XO (XI (XI (XO (XI (XO (XO (XI (XO (XO (XI (XI (XO (XI
+    (XO (XO (XI (XO (XO (XI (XO (XI (XI (XO (XI (XO (XI (XI (XO (XO (XI (XO
+    (XO (XO (XI (XI (XO (XO
+    XH))))))))))))))))))))))))))))))))))))))))))))))))))))))))))))) :: ((Npos
+    (XO (XI (XI (XI (XI (XI (XO (XO (XI (XO (XO (XO (XO (XI (XO (XO (XO (XO
+    (XO (XO (XO (XI (XO (XI (XI (XO (XO (XO (XO (XO (XO (XO (XO (XO (XO (XO
+    (XI (XI (XO (XO (XI (XO (XO (XI (XI (XO (XI (XO (XO (XI (XI (XI (XI (XI
+    (XI (XO (XI (XO (XO (XO (XO
+    XH)))))))))))))))))))))))))))))))))))))))))))))))))))))))))))))) :: ((Npos
+    (XI (XO (XO (XO (XO (XO (XI (XO (XO (XI (XI (XI (XI (XI (XI (XO (XO (XI
+    (XI (XO (XO (XI (XO (XI (XO (XO (XO (XO (XO (XI (XI (XI (XO (XI (XI (XI
+    (XI (XO (XO (XI (XI (XO (XI (XO (XI (XO (XO (XI (XI (XO (XO (XO (XI (XI
+    (XI (XO (XI (XO (XI (XI (XI (XI
+    XH))))))))))))))))))))))))))))))))))))))))))))))))))))))))))))))) :: ((Npos
+    (XO (XI (XI (XO (XO (XI (XO (XO (XO (XO (XI (XO (XI (XI (XI (XO (XI (XI
+    (XO (XO (XO (XI (XO (XO (XO (XO (XI (XO (XI (XO (XI (XO (XO (XI (XO (XO
+    (XO (XI (XO (XO (XO (XI (XI (XI (XO (XO (XO (XO (XO (XO (XO (XI (XI (XO
+    (XI (XI (XO (XO (XO (XO
+    XH))))))))))))))))))))))))))))))))))))))))))))))))))))))))))))) :: ((Npos
+    (XO (XO (XI (XI (XI (XI (XO (XI (XI (XI (XO (XI (XO (XI (XO (XO (XO (XO
+    (XO (XO (XO (XO (XI (XO (XI (XI (XI (XI (XO (XO (XI (XI (XO (XO (XI (XO
+    (XO (XO (XI (XI (XI (XI (XI (XO (XO (XI (XO (XI (XO (XO (XO (XO (XI (XI
+    (XI (XO (XI (XO (XO (XI (XO (XO
+    XH))))))))))))))))))))))))))))))))))))))))))))))))))))))))))))))) :: ((Npos
+    (XI (XI (XO (XO (XI (XO (XI (XO (XI (XO (XI (XO (XO (XI (XI (XO (XI (XI
+    (XO (XI (XI (XO (XI (XI (XI (XI (XO (XO (XO (XI (XO (XO (XO (XO (XO (XI
+    (XO (XI (XI (XI (XO (XO (XO (XI (XI (XI (XI (XI (XO (XI (XO (XI (XI (XI
+    (XI (XO (XO (XI (XI (XI (XO
+    XH)))))))))))))))))))))))))))))))))))))))))))))))))))))))))))))) :: ((Npos
+    (XI (XO (XO (XO (XO (XI (XO (XI (XI (XI (XO (XO (XI (XO (XI (XO (XO (XI
+    (XO (XI (XO (XI (XI (XO (XI (XO (XI (XI (XO (XI (XI (XO (XI (XO (XI (XO
+    (XO (XI (XO (XO (XO (XO (XO (XO (XI (XO (XO (XI (XO (XO (XO (XI (XI (XI
+    (XI (XI (XI (XI (XO (XI (XO (XO (XO
+    XH)))))))))))))))))))))))))))))))))))))))))))))))))))))))))))))))) :: ((Npos
+    (XI (XI (XI (XO (XI (XI (XO (XO (XI (XO (XI (XO (XI (XO (XO (XI (XI (XI
+    (XO (XO (XI (XO (XO (XO (XI (XO (XI (XO (XI (XO (XI (XO (XI (XO (XO (XO
+    (XO (XO (XO (XO (XI (XO (XO (XO (XO (XO (XO (XI (XO (XO (XO (XI (XI (XI
+    (XO (XI (XI (XO (XI (XO (XO (XI
+    XH))))))))))))))))))))))))))))))))))))))))))))))))))))))))))))))) :: ((Npos
+    (XI (XO (XO (XI (XI (XI (XO (XI (XO (XO (XO (XO (XI (XI (XO (XO (XI (XI
+    (XI (XI (XI (XO (XO (XI (XI (XI (XO (XI (XO (XI (XO (XO (XI (XI (XI (XO
+    (XO (XI (XI (XO (XI (XO (XO (XI (XO (XO (XI (XO (XI (XI (XI (XI (XO (XI
+    (XI (XI (XO (XI (XO (XI (XO (XO (XO
+    XH)))))))))))))))))))))))))))))))))))))))))))))))))))))))))))))))) :: ((Npos
+    (XO (XO (XI (XI (XI (XI (XO (XO (XO (XI (XI (XI (XI (XI (XO (XO (XO (XO
+    (XO (XI (XO (XI (XO (XO (XO (XI (XO (XI (XO (XO (XI (XI (XI (XI (XI (XI
+    (XO (XO (XO (XO (XI (XI (XO (XI (XI (XI (XO (XO (XI (XO (XI (XI (XO (XI
+    (XO (XO (XI (XI (XO (XO (XO (XI (XI
+    XH)))))))))))))))))))))))))))))))))))))))))))))))))))))))))))))))) :: ((Npos
+    (XO (XI (XO (XI (XO (XI (XI (XI (XO (XI (XO (XI (XI (XI (XI (XI (XI (XO
+    (XO (XI (XO (XO (XO (XI (XO (XI (XI (XO (XO (XO (XI (XI (XO (XO (XO (XI
+    (XO (XO (XI (XO (XI (XO (XI (XO (XI (XI (XO (XO (XI (XI (XI (XO (XI (XO
+    (XI (XI (XI (XO (XO (XO (XI
+    XH)))))))))))))))))))))))))))))))))))))))))))))))))))))))))))))) :: ((Npos
+    (XO (XI (XO (XI (XI (XI (XI (XI (XI (XI (XO (XO (XO (XO (XI (XI (XO (XO
+    (XI (XI (XO (XO (XO (XI (XO (XO (XO (XI (XO (XO (XO (XI (XI (XI (XI (XO
+    (XI (XI (XI (XO (XI (XO (XO (XI (XO (XI (XO (XO (XI (XO (XI (XI (XO (XO
+    (XI (XI (XO (XO (XO (XI (XO (XO (XI
+    XH)))))))))))))))))))))))))))))))))))))))))))))))))))))))))))))))) :: ((Npos
+    (XO (XI (XO (XO (XI (XO (XO (XO (XO (XI (XO (XO (XO (XI (XO (XO (XO (XO
+    (XO (XO (XI (XO (XO (XO (XI (XO (XO (XO (XI (XI (XO (XO (XO (XI (XI (XI
+    (XI (XO (XO (XO (XI (XI (XI (XI (XO (XO (XO (XI (XO (XO (XI (XI (XI (XI
+    (XI (XO (XO (XO (XO (XO (XI (XI (XO
+    XH)))))))))))))))))))))))))))))))))))))))))))))))))))))))))))))))) :: ((Npos
+    (XI (XO (XI (XO (XI (XO (XI (XI (XI (XI (XI (XO (XO (XI (XI (XO (XO (XI
+    (XO (XI (XI (XI (XI (XO (XO (XI (XI (XO (XI (XO (XI (XO (XI (XO (XO (XO
+    (XO (XI (XO (XI (XO (XI (XO (XI (XO (XO (XO (XI (XI (XO (XI (XI (XI (XO
+    (XO (XI (XO (XI (XI (XO (XO (XI (XO
+    XH)))))))))))))))))))))))))))))))))))))))))))))))))))))))))))))))) :: ((Npos
+    (XO (XO (XI (XO (XO (XO (XI (XO (XO (XO (XI (XI (XO (XO (XO (XO (XI (XI
+    (XO (XI (XI (XO (XI (XO (XI (XI (XI (XI (XO (XI (XO (XO (XI (XO (XI (XO
+    (XI (XO (XO (XI (XI (XO (XI (XO (XO (XI (XO (XI (XI (XI (XO (XI (XO (XI
+    (XO (XI (XI (XI (XI (XI (XI (XI
+    XH))))))))))))))))))))))))))))))))))))))))))))))))))))))))))))))) :: ((Npos
+    (XO (XO (XI (XI (XO (XO (XI (XI (XI (XO (XI (XI (XO (XI (XO (XO (XI (XI
+    (XI (XI (XO (XO (XI (XO (XO (XI (XI (XO (XI (XI (XO (XI (XI (XI (XI (XI
+    (XI (XI (XI (XO (XI (XI (XO (XI (XO (XO (XI (XO (XO (XO (XI (XI (XO (XO
+    (XI (XO (XI (XI (XI (XI (XO (XO (XO
+    XH)))))))))))))))))))))))))))))))))))))))))))))))))))))))))))))))) :: ((Npos
+    (XO (XI (XI (XI (XO (XI (XI (XI (XO (XO (XI (XO (XI (XI (XO (XO (XI (XO
+    (XO (XO (XO (XO (XO (XI (XI (XI (XO (XI (XO (XI (XO (XI (XO (XI (XI (XO
+    (XO (XI (XO (XI (XI (XI (XO (XI (XI (XO (XI (XO (XO (XI (XI (XI (XO (XO
+    (XI (XI (XO (XO (XO (XO (XO (XO (XI
+    XH)))))))))))))))))))))))))))))))))))))))))))))))))))))))))))))))) :: ((Npos
+    (XO (XO (XI (XI (XI (XO (XI (XI (XI (XO (XO (XI (XO (XO (XO (XO (XO (XI
+    (XI (XO (XI (XI (XO (XI (XO (XO (XO (XO (XO (XO (XI (XO (XI (XO (XO (XI
+    (XI (XO (XI (XO (XO (XO (XI (XO (XO (XO (XI (XI (XO (XI (XI (XI (XO (XI
+    (XI (XI (XO (XO (XI (XI (XI (XO (XO
+    XH)))))))))))))))))))))))))))))))))))))))))))))))))))))))))))))))) :: ((Npos
+    (XO (XO (XO (XO (XO (XO (XO (XO (XO (XI (XI (XO (XO (XO (XO (XI (XO (XI
+    (XI (XO (XI (XO (XO (XO (XO (XI (XI (XI (XO (XO (XI (XO (XO (XO (XI (XI
+    (XO (XO (XO (XI (XO (XI (XO (XO (XI (XI (XO (XO (XI (XO (XI (XO (XI (XI
+    (XO (XO (XO (XO (XO (XI (XI (XO (XI
+    XH)))))))))))))))))))))))))))))))))))))))))))))))))))))))))))))))) :: ((Npos
+    (XI (XI (XI (XO (XO (XO (XO (XO (XI (XO (XO (XO (XI (XO (XO (XO (XI (XO
+    (XI (XI (XO (XO (XI (XI (XI (XO (XO (XO (XI (XI (XO (XO (XO (XI (XI (XI
+    (XO (XO (XO (XO (XO (XI (XO (XI (XO (XO (XO (XO (XO (XI (XI (XO (XO (XO
+    (XO (XO (XO (XO (XO (XI (XI (XO
+    XH))))))))))))))))))))))))))))))))))))))))))))))))))))))))))))))) :: ((Npos
+    (XI (XI (XI (XO (XO (XI (XI (XO (XO (XI (XI (XI (XI (XO (XI (XO (XI (XI
+    (XI (XO (XI (XO (XO (XO (XI (XO (XO (XO (XI (XO (XO (XI (XO (XO (XO (XO
+    (XI (XI (XI (XO (XO (XO (XO (XI (XI (XO (XI (XI (XO (XO (XI (XI (XO (XI
+    (XO (XI (XI (XI (XI (XO (XI (XI
+    XH))))))))))))))))))))))))))))))))))))))))))))))))))))))))))))))) :: ((Npos
+    (XI (XI (XO (XO (XI (XI (XO (XO (XO (XI (XI (XO (XI (XO (XI (XI (XO (XO
+    (XO (XI (XI (XI (XI (XO (XI (XO (XI (XI (XI (XI (XI (XI (XO (XI (XO (XO
+    (XI (XO (XO (XI (XI (XO (XO (XI (XO (XO (XI (XO (XI (XI (XO (XO (XO (XO
+    (XO (XI (XI (XI (XI (XO (XI
+    XH)))))))))))))))))))))))))))))))))))))))))))))))))))))))))))))) :: ((Npos
+    (XI (XI (XO (XI (XO (XO (XO (XI (XO (XI (XO (XI (XI (XI (XI (XO (XO (XI
+    (XI (XI (XO (XO (XO (XI (XO (XO (XO (XI (XI (XO (XO (XI (XI (XI (XO (XO
+    (XO (XI (XI (XO (XO (XI (XO (XO (XO (XO (XI (XI (XO (XI (XO (XI (XI (XO
+    (XI (XI (XO (XI (XO (XO (XO (XI
+    XH))))))))))))))))))))))))))))))))))))))))))))))))))))))))))))))) :: ((Npos
+    (XI (XO (XI (XI (XI (XO (XI (XO (XI (XI (XI (XO (XO (XI (XO (XO (XI (XO
+    (XI (XO (XI (XO (XI (XO (XI (XO (XI (XO (XI (XO (XO (XO (XO (XI (XO (XO
+    (XO (XI (XO (XO (XI (XI (XI (XO (XI (XI (XI (XO (XI (XI (XO (XI (XO (XO
+    (XI (XI (XO (XO (XI (XI (XO
+    XH)))))))))))))))))))))))))))))))))))))))))))))))))))))))))))))) :: ((Npos
+    (XO (XO (XO (XO (XI (XO (XI (XI (XO (XI (XI (XI (XI (XO (XI (XI (XO (XO
+    (XI (XO (XO (XI (XI (XI (XO (XO (XI (XO (XI (XO (XI (XI (XI (XO (XO (XI
+    (XO (XO (XI (XI (XO (XO (XO (XO (XO (XO (XI (XI (XO (XO (XI (XO (XI (XI
+    (XO (XI (XI (XO (XO (XI (XO (XO (XO
+    XH)))))))))))))))))))))))))))))))))))))))))))))))))))))))))))))))) :: ((Npos
+    (XO (XI (XO (XI (XI (XO (XO (XO (XO (XI (XO (XI (XO (XI (XI (XO (XO (XO
+    (XO (XO (XO (XI (XO (XI (XO (XO (XI (XI (XI (XI (XO (XO (XO (XI (XI (XI
+    (XO (XO (XO (XO (XI (XI (XI (XI (XI (XO (XI (XO (XO (XO (XI (XO (XI (XO
+    (XO (XO (XI (XO (XI (XI (XI (XI (XO
+    XH)))))))))))))))))))))))))))))))))))))))))))))))))))))))))))))))) :: ((Npos
+    (XO (XO (XO (XO (XI (XI (XO (XO (XI (XI (XI (XI (XO (XI (XO (XO (XO (XI
+    (XI (XO (XO (XO (XO (XO (XO (XI (XO (XO (XO (XI (XI (XI (XO (XO (XI (XO
+    (XO (XO (XI (XI (XI (XO (XI (XO (XI (XI (XI (XI (XI (XO (XO (XI (XI (XI
+    (XO (XO (XI (XO (XI (XI (XO (XO
+    XH))))))))))))))))))))))))))))))))))))))))))))))))))))))))))))))) :: ((Npos
+    (XI (XO (XI (XI (XO (XI (XI (XI (XI (XI (XO (XO (XO (XO (XO (XO (XI (XO
+    (XO (XO (XO (XO (XO (XO (XI (XO (XO (XI (XI (XI (XO (XO (XO (XI (XI (XO
+    (XI (XO (XO (XO (XO (XO (XO (XO (XI (XI (XO (XI (XI (XO (XI (XO (XO (XO
+    (XI (XI (XO (XI (XO (XI (XO (XI (XO
+    XH)))))))))))))))))))))))))))))))))))))))))))))))))))))))))))))))) :: ((Npos
+    (XI (XO (XO (XO (XO (XI (XO (XI (XO (XI (XI (XO (XI (XI (XO (XO (XO (XI
+    (XO (XO (XO (XO (XI (XI (XO (XI (XO (XI (XI (XO (XO (XO (XO (XI (XO (XO
+    (XI (XO (XI (XI (XO (XO (XI (XO (XO (XI (XO (XI (XI (XO (XO (XI (XI (XI
+    (XI (XI (XO (XI (XO (XI (XI (XO (XO
+    XH)))))))))))))))))))))))))))))))))))))))))))))))))))))))))))))))) :: ((Npos
+    (XI (XO (XO (XI (XO (XO (XO (XI (XO (XO (XI (XI (XO (XI (XO (XI (XO (XI
+    (XI (XO (XO (XI (XO (XO (XO (XI (XI (XI (XO (XI (XI (XI (XI (XI (XO (XI
+    (XI (XI (XI (XI (XI (XO (XI (XO (XO (XO (XO (XO (XI (XO (XI (XI (XI (XO
+    (XO (XO (XI (XO (XI (XI (XO (XO (XI
+    XH)))))))))))))))))))))))))))))))))))))))))))))))))))))))))))))))) :: ((Npos
+    (XI (XO (XO (XO (XO (XO (XI (XI (XI (XO (XO (XI (XO (XO (XI (XI (XO (XI
+    (XI (XI (XI (XO (XO (XO (XI (XI (XI (XI (XO (XI (XI (XO (XI (XI (XO (XI
+    (XO (XO (XO (XI (XI (XO (XO (XI (XI (XI (XO (XO (XO (XO (XI (XO (XO (XO
+    (XI (XO (XO (XO (XO (XI (XO (XI (XO
+    XH)))))))))))))))))))))))))))))))))))))))))))))))))))))))))))))))) :: ((Npos
+    (XI (XI (XO (XO (XO (XO (XI (XO (XI (XO (XI (XI (XO (XI (XO (XO (XO (XO
+    (XI (XO (XO (XO (XO (XI (XI (XO (XO (XI (XO (XI (XI (XI (XI (XI (XO (XI
+    (XI (XO (XO (XO (XI (XI (XI (XI (XI (XI (XI (XO (XO (XO (XI (XI (XI (XO
+    (XI (XI (XO (XI (XO (XO (XI (XO (XI
+    XH)))))))))))))))))))))))))))))))))))))))))))))))))))))))))))))))) :: ((Npos
+    (XO (XI (XO (XI (XO (XI (XI (XO (XO (XI (XO (XO (XI (XO (XO (XO (XO (XI
+    (XI (XO (XO (XI (XO (XO (XO (XO (XO (XO (XO (XO (XO (XO (XI (XI (XO (XI
+    (XO (XO (XO (XO (XI (XO (XI (XO (XO (XO (XO (XO (XO (XO (XO (XO (XI (XO
+    (XO (XO (XI (XI (XO (XO (XO (XO (XO
+    XH)))))))))))))))))))))))))))))))))))))))))))))))))))))))))))))))) :: ((Npos
+    (XO (XO (XO (XO (XI (XI (XO (XO (XO (XO (XO (XO (XI (XO (XO (XI (XO (XI
+    (XO (XO (XO (XI (XO (XO (XO (XI (XI (XI (XI (XI (XI (XI (XO (XO (XI (XO
+    (XI (XI (XO (XI (XO (XI (XI (XO (XI (XO (XO (XO (XI (XI (XO (XO (XO (XI
+    (XI (XI (XI (XI (XI (XO (XI (XI (XO
+    XH)))))))))))))))))))))))))))))))))))))))))))))))))))))))))))))))) :: ((Npos
+    (XI (XO (XO (XO (XI (XI (XO (XO (XI (XI (XI (XI (XO (XI (XO (XO (XO (XI
+    (XI (XO (XO (XI (XI (XO (XI (XI (XI (XO (XI (XI (XO (XO (XI (XO (XO (XO
+    (XI (XI (XI (XI (XI (XO (XO (XI (XO (XI (XO (XI (XI (XO (XO (XO (XO (XO
+    (XI (XO (XI (XI (XI (XO (XO (XI (XI
+    XH)))))))))))))))))))))))))))))))))))))))))))))))))))))))))))))))) :: ((Npos
+    (XI (XO (XI (XO (XI (XI (XO (XO (XO (XO (XI (XI (XO (XI (XO (XI (XO (XO
+    (XI (XO (XO (XO (XO (XO (XI (XO (XO (XO (XI (XI (XI (XO (XI (XI (XI (XI
+    (XO (XO (XI (XI (XI (XO (XO (XO (XI (XI (XO (XI (XI (XO (XI (XO (XO (XO
+    (XO (XI (XI (XI (XI (XO (XI
+    XH)))))))))))))))))))))))))))))))))))))))))))))))))))))))))))))) :: ((Npos
+    (XI (XI (XO (XO (XI (XO (XI (XI (XO (XO (XO (XI (XI (XO (XO (XI (XO (XO
+    (XI (XO (XI (XO (XI (XO (XI (XI (XO (XI (XO (XI (XI (XI (XO (XI (XI (XO
+    (XO (XO (XI (XO (XI (XO (XO (XI (XO (XI (XI (XO (XI (XI (XO (XI (XO (XO
+    (XI (XO (XI (XO (XO (XI (XO (XI
+    XH))))))))))))))))))))))))))))))))))))))))))))))))))))))))))))))) :: ((Npos
+    (XI (XO (XO (XI (XO (XI (XI (XO (XO (XO (XI (XO (XO (XI (XO (XI (XO (XO
+    (XI (XO (XO (XO (XI (XO (XI (XO (XI (XI (XI (XO (XO (XO (XI (XO (XO (XI
+    (XI (XI (XO (XI (XO (XO (XO (XI (XI (XI (XO (XI (XI (XO (XI (XI (XO (XI
+    (XO (XI (XO (XI (XO (XO (XO (XO (XO
+    XH)))))))))))))))))))))))))))))))))))))))))))))))))))))))))))))))) :: ((Npos
+    (XO (XO (XO (XO (XI (XI (XI (XO (XI (XI (XI (XO (XI (XO (XI (XO (XI (XI
+    (XO (XI (XI (XO (XI (XI (XI (XI (XO (XO (XI (XI (XO (XI (XI (XO (XI (XI
+    (XI (XO (XI (XI (XI (XI (XI (XI (XI (XI (XO (XI (XI (XI (XO (XI (XI (XI
+    (XO (XI (XI (XI (XO (XI (XO (XO
+    XH))))))))))))))))))))))))))))))))))))))))))))))))))))))))))))))) :: ((Npos
+    (XO (XI (XI (XI (XO (XI (XO (XO (XO (XO (XO (XI (XI (XO (XO (XO (XO (XI
+    (XI (XO (XO (XI (XI (XI (XO (XO (XO (XI (XO (XI (XI (XO (XO (XI (XO (XI
+    (XI (XI (XI (XI (XI (XO (XI (XO (XI (XO (XO (XI (XO (XO (XI (XO (XI (XO
+    (XI (XI (XI (XI (XO (XO (XO (XI
+    XH))))))))))))))))))))))))))))))))))))))))))))))))))))))))))))))) :: ((Npos
+    (XO (XI (XO (XI (XI (XO (XO (XO (XO (XO (XO (XO (XI (XO (XI (XO (XO (XI
+    (XO (XO (XI (XI (XI (XI (XI (XO (XI (XO (XO (XI (XO (XI (XO (XO (XO (XI
+    (XI (XI (XO (XI (XI (XO (XI (XO (XO (XI (XO (XO (XI (XI (XO (XI (XI (XO
+    (XO (XI (XI (XI (XI (XI (XO (XI (XI
+    XH)))))))))))))))))))))))))))))))))))))))))))))))))))))))))))))))) :: ((Npos
+    (XO (XO (XO (XO (XI (XO (XI (XI (XI (XO (XO (XI (XO (XI (XO (XI (XI (XI
+    (XO (XI (XI (XO (XI (XO (XO (XO (XI (XI (XO (XI (XI (XO (XI (XO (XI (XI
+    (XO (XO (XO (XI (XO (XO (XO (XO (XO (XI (XI (XO (XI (XO (XO (XI (XO (XI
+    (XO (XI (XI (XO (XI (XO (XI (XI (XI
+    XH)))))))))))))))))))))))))))))))))))))))))))))))))))))))))))))))) :: ((Npos
+    (XI (XI (XO (XI (XO (XO (XO (XI (XI (XO (XI (XI (XO (XI (XO (XO (XI (XI
+    (XI (XO (XI (XI (XO (XO (XI (XI (XI (XI (XI (XI (XO (XI (XO (XO (XO (XI
+    (XO (XI (XI (XI (XI (XI (XO (XI (XO (XI (XO (XI (XO (XI (XI (XO (XI (XO
+    (XO (XI (XI (XI (XO (XO (XI (XO
+    XH))))))))))))))))))))))))))))))))))))))))))))))))))))))))))))))) :: ((Npos
+    (XI (XI (XO (XI (XO (XO (XO (XI (XO (XO (XI (XO (XO (XO (XI (XI (XO (XI
+    (XI (XI (XO (XI (XO (XO (XI (XI (XO (XI (XI (XI (XO (XO (XO (XO (XO (XI
+    (XO (XO (XO (XO (XI (XO (XO (XI (XI (XO (XI (XO (XI (XO (XO (XO (XO (XI
+    (XO (XO (XI (XI (XO (XI (XI (XO (XO
+    XH)))))))))))))))))))))))))))))))))))))))))))))))))))))))))))))))) :: ((Npos
+    (XO (XI (XO (XI (XO (XI (XO (XI (XO (XI (XO (XO (XI (XO (XO (XO (XI (XI
+    (XO (XI (XI (XO (XO (XI (XI (XO (XO (XO (XO (XO (XO (XO (XO (XO (XO (XI
+    (XI (XI (XI (XI (XI (XO (XO (XI (XO (XO (XI (XI (XO (XI (XO (XO (XI (XI
+    (XO (XO (XI (XI (XI (XI (XI
+    XH)))))))))))))))))))))))))))))))))))))))))))))))))))))))))))))) :: ((Npos
+    (XO (XO (XO (XO (XO (XO (XO (XI (XO (XI (XO (XO (XI (XI (XI (XO (XO (XI
+    (XO (XI (XI (XO (XI (XI (XO (XI (XI (XO (XI (XI (XI (XI (XO (XO (XI (XO
+    (XI (XI (XI (XO (XO (XI (XI (XO (XI (XO (XI (XO (XO (XI (XO (XO (XO (XI
+    (XI (XO (XI (XO (XI (XI (XO (XO (XO
+    XH)))))))))))))))))))))))))))))))))))))))))))))))))))))))))))))))) :: ((Npos
+    (XO (XI (XI (XI (XO (XI (XI (XO (XO (XI (XO (XI (XO (XO (XO (XO (XO (XI
+    (XI (XI (XI (XO (XO (XO (XO (XO (XI (XI (XI (XO (XO (XO (XO (XO (XO (XI
+    (XO (XO (XI (XI (XI (XO (XO (XO (XI (XI (XI (XO (XO (XI (XI (XO (XO (XI
+    (XI (XO (XI (XO (XO (XO (XI (XI (XI
+    XH)))))))))))))))))))))))))))))))))))))))))))))))))))))))))))))))) :: ((Npos
+    (XI (XI (XI (XO (XI (XO (XO (XI (XO (XO (XI (XI (XI (XO (XO (XO (XI (XO
+    (XI (XI (XI (XO (XI (XI (XO (XI (XI (XO (XI (XO (XO (XO (XI (XI (XI (XO
+    (XI (XI (XO (XO (XO (XO (XO (XO (XO (XI (XO (XI (XI (XI (XI (XO (XO (XO
+    (XI (XI (XI (XI (XI (XO (XO (XO (XI
+    XH)))))))))))))))))))))))))))))))))))))))))))))))))))))))))))))))) :: ((Npos
+    (XI (XO (XO (XI (XO (XI (XO (XO (XO (XI (XI (XI (XI (XO (XO (XO (XI (XI
+    (XO (XI (XI (XI (XO (XI (XI (XO (XI (XO (XI (XI (XO (XO (XI (XO (XI (XO
+    (XI (XI (XO (XO (XO (XI (XI (XI (XO (XI (XI (XO (XI (XO (XO (XO (XO (XI
+    (XI (XI (XO (XO (XI (XI (XI (XI
+    XH))))))))))))))))))))))))))))))))))))))))))))))))))))))))))))))) :: ((Npos
+    (XI (XI (XI (XO (XO (XI (XO (XO (XO (XI (XO (XO (XO (XO (XO (XI (XI (XI
+    (XO (XI (XO (XI (XI (XI (XO (XO (XO (XO (XI (XO (XO (XI (XI (XO (XO (XO
+    (XO (XO (XO (XI (XI (XI (XO (XI (XI (XI (XI (XI (XO (XO (XI (XO (XO (XO
+    (XI (XI (XI (XO (XI (XO
+    XH))))))))))))))))))))))))))))))))))))))))))))))))))))))))))))) :: ((Npos
+    (XO (XO (XI (XI (XI (XI (XO (XO (XI (XO (XO (XI (XO (XI (XI (XI (XI (XI
+    (XI (XI (XI (XO (XI (XI (XI (XO (XO (XI (XI (XO (XO (XO (XI (XO (XO (XO
+    (XI (XI (XI (XO (XI (XO (XI (XO (XI (XI (XO (XO (XI (XO (XI (XO (XI (XO
+    (XO (XO (XO (XO (XO (XO (XI (XI
+    XH))))))))))))))))))))))))))))))))))))))))))))))))))))))))))))))) :: ((Npos
+    (XO (XI (XI (XI (XI (XI (XI (XI (XI (XO (XO (XO (XI (XI (XO (XO (XI (XO
+    (XO (XO (XO (XO (XO (XI (XI (XI (XI (XI (XI (XO (XO (XO (XO (XO (XO (XI
+    (XI (XI (XO (XI (XO (XO (XI (XO (XO (XI (XI (XI (XO (XI (XO (XI (XO (XO
+    (XO (XO (XI (XO (XO (XI (XI (XO
+    XH))))))))))))))))))))))))))))))))))))))))))))))))))))))))))))))) :: ((Npos
+    (XI (XO (XI (XO (XI (XO (XO (XO (XO (XO (XO (XI (XO (XO (XI (XO (XO (XI
+    (XO (XI (XI (XI (XO (XI (XI (XI (XO (XO (XO (XO (XO (XI (XO (XI (XO (XO
+    (XI (XI (XO (XO (XI (XO (XO (XO (XO (XI (XO (XO (XO (XO (XO (XI (XI (XO
+    (XI (XO (XI (XI (XI (XO (XI
+    XH)))))))))))))))))))))))))))))))))))))))))))))))))))))))))))))) :: ((Npos
+    (XO (XI (XI (XO (XO (XO (XO (XO (XI (XO (XI (XO (XI (XI (XO (XI (XO (XO
+    (XI (XI (XO (XO (XO (XO (XO (XO (XI (XO (XO (XI (XI (XO (XO (XO (XI (XO
+    (XO (XO (XO (XI (XO (XO (XO (XO (XI (XI (XI (XO (XO (XO (XO (XI (XI (XI
+    (XI (XO (XI (XO (XO (XI (XO
+    XH)))))))))))))))))))))))))))))))))))))))))))))))))))))))))))))) :: ((Npos
+    (XO (XI (XI (XI (XO (XI (XO (XO (XI (XO (XO (XI (XI (XI (XI (XI (XO (XI
+    (XO (XO (XO (XI (XO (XO (XI (XO (XO (XO (XO (XI (XI (XI (XI (XI (XO (XI
+    (XO (XI (XI (XI (XO (XI (XI (XO (XI (XI (XO (XO (XO (XO (XI (XO (XI (XO
+    (XO (XO (XO (XI (XO (XO (XI (XI (XI
+    XH)))))))))))))))))))))))))))))))))))))))))))))))))))))))))))))))) :: ((Npos
+    (XI (XO (XI (XI (XO (XI (XO (XI (XO (XI (XI (XO (XO (XI (XI (XI (XO (XO
+    (XI (XI (XO (XI (XO (XO (XO (XO (XI (XI (XI (XI (XO (XI (XO (XI (XO (XO
+    (XO (XO (XI (XO (XO (XI (XO (XO (XO (XI (XO (XI (XO (XO (XO (XO (XO (XO
+    (XO (XO (XO (XO (XI (XI (XI
+    XH)))))))))))))))))))))))))))))))))))))))))))))))))))))))))))))) :: ((Npos
+    (XI (XI (XO (XI (XI (XI (XO (XI (XI (XI (XO (XO (XO (XO (XI (XI (XO (XI
+    (XI (XI (XO (XO (XI (XI (XI (XO (XO (XI (XI (XO (XI (XI (XO (XI (XO (XO
+    (XO (XO (XI (XI (XO (XO (XO (XO (XI (XI (XO (XO (XO (XO (XI (XO (XI (XO
+    (XO (XO (XI (XO (XO (XO (XO
+    XH)))))))))))))))))))))))))))))))))))))))))))))))))))))))))))))) :: ((Npos
+    (XI (XI (XO (XO (XO (XO (XO (XO (XI (XI (XI (XO (XO (XO (XO (XI (XI (XI
+    (XO (XO (XI (XI (XI (XI (XI (XO (XO (XI (XO (XI (XI (XO (XI (XI (XO (XO
+    (XO (XI (XI (XO (XO (XI (XI (XI (XO (XI (XO (XO (XO (XO (XI (XI (XO (XI
+    (XI (XO (XO (XO (XO
+    XH)))))))))))))))))))))))))))))))))))))))))))))))))))))))))))) :: ((Npos
+    (XO (XO (XI (XI (XI (XI (XI (XI (XI (XI (XI (XO (XO (XO (XI (XO (XO (XI
+    (XI (XI (XI (XI (XI (XO (XO (XI (XI (XI (XI (XI (XO (XO (XO (XO (XO (XO
+    (XI (XI (XO (XO (XO (XI (XO (XI (XI (XI (XI (XO (XI (XO (XO (XI (XI (XI
+    (XO (XI (XO (XI (XO (XO (XI (XO (XO
+    XH)))))))))))))))))))))))))))))))))))))))))))))))))))))))))))))))) :: ((Npos
+    (XO (XO (XO (XO (XO (XI (XI (XI (XI (XI (XI (XO (XO (XO (XI (XI (XI (XO
+    (XI (XO (XO (XO (XO (XI (XO (XI (XO (XI (XI (XI (XO (XO (XO (XI (XI (XO
+    (XI (XO (XO (XI (XO (XI (XO (XO (XI (XI (XI (XO (XI (XO (XO (XI (XI (XI
+    (XI (XO (XI (XO (XO (XI (XO
+    XH)))))))))))))))))))))))))))))))))))))))))))))))))))))))))))))) :: ((Npos
+    (XO (XI (XO (XO (XO (XO (XI (XO (XO (XI (XI (XO (XO (XI (XI (XI (XO (XO
+    (XI (XI (XO (XI (XI (XO (XI (XI (XI (XI (XO (XO (XI (XI (XI (XI (XO (XI
+    (XI (XI (XI (XO (XO (XI (XI (XO (XI (XI (XO (XI (XI (XI (XI (XI (XO (XO
+    (XO (XI (XI (XI (XO (XI (XO (XO
+    XH))))))))))))))))))))))))))))))))))))))))))))))))))))))))))))))) :: ((Npos
+    (XO (XI (XO (XI (XO (XI (XI (XI (XI (XO (XO (XO (XO (XO (XO (XO (XO (XO
+    (XI (XI (XO (XO (XI (XO (XO (XI (XI (XI (XI (XI (XI (XO (XI (XO (XO (XO
+    (XI (XI (XI (XI (XO (XO (XI (XO (XO (XO (XO (XI (XI (XI (XI (XO (XO (XI
+    (XO (XO (XO (XI (XO (XO (XO (XO
+    XH))))))))))))))))))))))))))))))))))))))))))))))))))))))))))))))) :: ((Npos
+    (XO (XI (XI (XO (XI (XO (XO (XO (XI (XO (XI (XO (XO (XI (XO (XI (XO (XI
+    (XI (XO (XO (XO (XI (XI (XI (XO (XI (XI (XI (XI (XI (XO (XO (XO (XI (XI
+    (XI (XO (XI (XO (XO (XO (XI (XO (XO (XO (XO (XO (XI (XI (XI (XI (XO (XO
+    (XI (XI (XO (XO (XI (XI (XO (XI (XI
+    XH)))))))))))))))))))))))))))))))))))))))))))))))))))))))))))))))) :: ((Npos
+    (XO (XO (XI (XO (XI (XI (XO (XO (XI (XI (XI (XI (XO (XI (XO (XO (XO (XI
+    (XI (XI (XO (XI (XO (XI (XI (XO (XO (XO (XO (XO (XO (XO (XO (XO (XI (XI
+    (XO (XI (XO (XO (XI (XO (XI (XO (XI (XO (XI (XO (XI (XO (XI (XI (XO (XO
+    (XI (XI (XI (XI (XO (XI (XO (XI (XI
+    XH)))))))))))))))))))))))))))))))))))))))))))))))))))))))))))))))) :: ((Npos
+    (XI (XO (XI (XO (XI (XO (XO (XO (XI (XI (XO (XO (XO (XO (XI (XI (XI (XO
+    (XI (XI (XO (XI (XO (XO (XI (XO (XI (XI (XI (XI (XI (XO (XI (XI (XO (XO
+    (XI (XO (XO (XO (XI (XI (XI (XO (XO (XI (XI (XO (XO (XO (XO (XO (XO (XO
+    (XO (XI (XI (XI (XO (XI (XO (XI (XO
+    XH)))))))))))))))))))))))))))))))))))))))))))))))))))))))))))))))) :: ((Npos
+    (XI (XI (XI (XO (XI (XO (XO (XI (XI (XO (XI (XI (XO (XI (XI (XO (XO (XI
+    (XI (XO (XO (XI (XI (XI (XO (XI (XI (XO (XO (XO (XI (XI (XO (XO (XO (XO
+    (XO (XI (XI (XI (XO (XO (XI (XO (XI (XO (XI (XO (XI (XI (XI (XI (XI (XI
+    (XO (XI (XI (XI (XI (XO (XI (XI
+    XH))))))))))))))))))))))))))))))))))))))))))))))))))))))))))))))) :: ((Npos
+    (XI (XI (XO (XI (XO (XI (XO (XO (XI (XO (XI (XI (XO (XI (XO (XO (XI (XI
+    (XI (XO (XI (XO (XO (XI (XO (XI (XO (XO (XI (XO (XI (XO (XI (XO (XO (XI
+    (XI (XO (XO (XI (XO (XI (XI (XI (XI (XI (XO (XI (XO (XO (XI (XO (XI (XI
+    (XI (XO (XO (XO (XO (XO (XO (XO (XO
+    XH)))))))))))))))))))))))))))))))))))))))))))))))))))))))))))))))) :: ((Npos
+    (XO (XO (XI (XI (XI (XI (XO (XO (XI (XO (XI (XO (XI (XO (XI (XO (XO (XO
+    (XI (XO (XO (XI (XO (XI (XO (XI (XO (XO (XO (XO (XO (XI (XI (XI (XI (XI
+    (XI (XO (XI (XI (XI (XO (XI (XI (XO (XI (XO (XO (XI (XO (XI (XO (XO (XO
+    (XO (XO (XI (XI (XO (XI (XI (XO (XI
+    XH)))))))))))))))))))))))))))))))))))))))))))))))))))))))))))))))) :: ((Npos
+    (XI (XO (XO (XO (XI (XI (XO (XI (XO (XI (XI (XI (XI (XO (XO (XI (XI (XI
+    (XO (XI (XI (XI (XI (XO (XI (XO (XI (XO (XO (XI (XO (XO (XO (XO (XO (XI
+    (XO (XO (XI (XO (XO (XI (XO (XO (XO (XI (XI (XI (XO (XI (XO (XI (XI (XO
+    (XO (XO (XO (XO (XI (XO (XO (XO
+    XH))))))))))))))))))))))))))))))))))))))))))))))))))))))))))))))) :: ((Npos
+    (XI (XI (XI (XI (XO (XO (XO (XI (XO (XI (XI (XI (XI (XO (XI (XO (XO (XI
+    (XI (XI (XO (XO (XI (XI (XI (XI (XO (XO (XO (XO (XI (XI (XO (XO (XO (XO
+    (XI (XO (XO (XI (XO (XO (XO (XO (XO (XI (XI (XO (XI (XO (XO (XO (XO (XO
+    (XO (XO (XO (XO (XI (XO (XI (XI (XI
+    XH)))))))))))))))))))))))))))))))))))))))))))))))))))))))))))))))) :: ((Npos
+    (XI (XI (XO (XO (XI (XO (XO (XI (XO (XO (XI (XI (XI (XO (XO (XO (XI (XO
+    (XI (XO (XI (XO (XI (XI (XI (XO (XO (XI (XO (XO (XI (XO (XI (XO (XI (XO
+    (XO (XI (XO (XO (XI (XI (XO (XI (XO (XI (XO (XO (XO (XO (XO (XO (XI (XI
+    (XO (XO (XO (XI (XO (XO
+    XH))))))))))))))))))))))))))))))))))))))))))))))))))))))))))))) :: ((Npos
+    (XO (XO (XO (XI (XI (XO (XO (XO (XO (XO (XO (XI (XO (XI (XO (XO (XO (XO
+    (XO (XO (XO (XO (XI (XI (XI (XO (XI (XO (XI (XO (XI (XI (XO (XI (XI (XI
+    (XO (XO (XO (XO (XO (XI (XO (XO (XO (XI (XI (XI (XO (XO (XI (XI (XO (XI
+    (XI (XI (XI (XI (XI (XI (XO (XI (XO
+    XH)))))))))))))))))))))))))))))))))))))))))))))))))))))))))))))))) :: ((Npos
+    (XI (XI (XI (XO (XO (XO (XO (XI (XI (XO (XO (XI (XI (XO (XI (XI (XI (XI
+    (XI (XI (XI (XI (XO (XO (XO (XI (XO (XI (XI (XI (XI (XO (XI (XI (XO (XI
+    (XI (XI (XO (XI (XI (XO (XI (XI (XO (XI (XI (XI (XI (XO (XI (XO (XO (XO
+    (XI (XO (XO (XI
+    XH))))))))))))))))))))))))))))))))))))))))))))))))))))))))))) :: ((Npos
+    (XO (XI (XO (XO (XI (XO (XI (XO (XO (XO (XO (XI (XO (XI (XI (XO (XI (XI
+    (XI (XI (XO (XO (XI (XO (XI (XI (XI (XO (XI (XO (XI (XO (XI (XO (XI (XI
+    (XO (XI (XO (XI (XI (XI (XI (XO (XI (XI (XI (XI (XO (XI (XO (XI (XI (XI
+    (XI (XI (XI (XI (XI (XO (XI (XO
+    XH))))))))))))))))))))))))))))))))))))))))))))))))))))))))))))))) :: ((Npos
+    (XO (XO (XO (XI (XI (XO (XO (XO (XI (XO (XO (XI (XI (XO (XO (XO (XO (XI
+    (XI (XO (XO (XO (XI (XO (XO (XO (XO (XI (XO (XI (XO (XI (XO (XO (XO (XI
+    (XO (XI (XI (XI (XO (XO (XO (XI (XI (XI (XO (XI (XI (XO (XI (XO (XO (XO
+    (XO (XO (XI (XO
+    XH))))))))))))))))))))))))))))))))))))))))))))))))))))))))))) :: ((Npos
+    (XI (XO (XI (XO (XI (XO (XO (XI (XI (XI (XI (XO (XO (XI (XI (XO (XI (XI
+    (XI (XI (XI (XO (XO (XO (XO (XO (XI (XI (XO (XO (XO (XO (XO (XO (XO (XO
+    (XI (XI (XI (XO (XI (XI (XI (XI (XO (XO (XO (XI (XI (XO (XO (XI (XO (XO
+    (XO (XO (XI
+    XH)))))))))))))))))))))))))))))))))))))))))))))))))))))))))) :: ((Npos
+    (XI (XO (XO (XO (XI (XI (XO (XI (XO (XI (XI (XO (XI (XO (XI (XI (XO (XI
+    (XI (XO (XO (XI (XI (XO (XI (XI (XI (XI (XO (XO (XI (XI (XI (XO (XI (XO
+    (XI (XI (XO (XI (XI (XO (XI (XI (XO (XO (XI (XO (XI (XI (XO (XI (XO (XO
+    (XI (XO (XO (XO (XO (XO (XI (XO (XO
+    XH)))))))))))))))))))))))))))))))))))))))))))))))))))))))))))))))) :: ((Npos
+    (XI (XO (XI (XI (XI (XO (XI (XI (XI (XI (XI (XI (XO (XO (XO (XI (XI (XO
+    (XO (XO (XO (XO (XI (XO (XO (XI (XO (XI (XO (XO (XO (XO (XO (XI (XI (XI
+    (XI (XO (XI (XI (XI (XI (XO (XI (XI (XI (XO (XI (XI (XI (XO (XO (XO (XI
+    (XO (XO (XO (XO (XO (XI (XO (XI
+    XH))))))))))))))))))))))))))))))))))))))))))))))))))))))))))))))) :: ((Npos
+    (XI (XI (XI (XO (XO (XO (XI (XO (XO (XI (XI (XI (XO (XI (XO (XO (XI (XI
+    (XI (XO (XI (XO (XI (XO (XI (XI (XI (XI (XI (XI (XO (XO (XO (XO (XO (XI
+    (XI (XI (XO (XO (XI (XO (XO (XO (XI (XI (XI (XO (XO (XO (XO (XO (XO (XO
+    (XI (XI (XO (XO (XO (XI (XO (XO (XI
+    XH)))))))))))))))))))))))))))))))))))))))))))))))))))))))))))))))) :: ((Npos
+    (XI (XO (XI (XI (XO (XO (XI (XO (XO (XI (XO (XO (XI (XO (XO (XI (XI (XI
+    (XI (XI (XO (XI (XI (XI (XI (XO (XO (XI (XI (XO (XI (XI (XI (XI (XI (XO
+    (XO (XI (XO (XI (XI (XO (XI (XO (XI (XI (XI (XI (XI (XO (XI (XO (XO (XO
+    (XI (XO (XO (XI (XO (XI (XI
+    XH)))))))))))))))))))))))))))))))))))))))))))))))))))))))))))))) :: ((Npos
+    (XO (XI (XI (XI (XI (XI (XI (XI (XO (XI (XI (XO (XO (XI (XO (XO (XO (XO
+    (XO (XO (XI (XO (XI (XI (XO (XO (XO (XI (XI (XI (XO (XI (XO (XI (XI (XO
+    (XO (XO (XI (XI (XI (XI (XO (XI (XI (XO (XI (XI (XO (XO (XO (XO (XO (XO
+    (XI (XI (XI (XO (XO (XI (XO (XO (XO
+    XH)))))))))))))))))))))))))))))))))))))))))))))))))))))))))))))))) :: ((Npos
+    (XO (XI (XI (XI (XI (XI (XO (XO (XI (XI (XO (XI (XI (XI (XI (XI (XO (XO
+    (XO (XO (XI (XI (XO (XI (XI (XO (XI (XO (XO (XO (XI (XO (XO (XI (XO (XI
+    (XI (XO (XI (XI (XI (XO (XI (XI (XI (XO (XO (XI (XI (XO (XO (XI (XI (XO
+    (XO (XO (XI (XI (XI (XO (XI (XO (XO
+    XH)))))))))))))))))))))))))))))))))))))))))))))))))))))))))))))))) :: ((Npos
+    (XI (XI (XI (XO (XI (XI (XO (XO (XI (XI (XI (XI (XO (XO (XI (XO (XO (XI
+    (XI (XI (XO (XO (XI (XO (XI (XO (XI (XI (XI (XI (XI (XO (XI (XI (XO (XO
+    (XO (XI (XI (XO (XO (XI (XO (XO (XO (XO (XI (XO (XO (XO (XI (XO (XI (XI
+    (XI (XI (XI (XI (XO (XO (XO (XO
+    XH))))))))))))))))))))))))))))))))))))))))))))))))))))))))))))))) :: ((Npos
+    (XO (XO (XO (XI (XI (XO (XI (XI (XO (XI (XO (XI (XO (XO (XO (XO (XO (XI
+    (XI (XI (XI (XI (XI (XI (XI (XI (XI (XI (XO (XI (XO (XO (XO (XI (XO (XO
+    (XO (XI (XI (XO (XO (XI (XO (XO (XI (XO (XI (XI (XO (XO (XO (XI (XO (XO
+    (XI (XI (XO
+    XH)))))))))))))))))))))))))))))))))))))))))))))))))))))))))) :: ((Npos
+    (XI (XO (XI (XI (XI (XO (XI (XO (XI (XI (XI (XI (XI (XO (XI (XI (XI (XO
+    (XI (XO (XO (XO (XI (XI (XI (XI (XI (XO (XO (XO (XI (XO (XI (XO (XO (XI
+    (XO (XI (XO (XI (XO (XI (XI (XI (XO (XI (XI (XI (XO (XI (XI (XI (XO (XO
+    (XI (XI (XO (XI (XO (XO (XI (XI (XO
+    XH)))))))))))))))))))))))))))))))))))))))))))))))))))))))))))))))) :: ((Npos
+    (XI (XI (XO (XO (XO (XO (XI (XI (XO (XI (XI (XI (XO (XO (XO (XI (XO (XI
+    (XO (XO (XI (XO (XI (XO (XI (XI (XO (XO (XI (XO (XI (XO (XO (XI (XI (XI
+    (XO (XI (XI (XO (XI (XI (XO (XI (XI (XI (XO (XO (XO (XI (XO (XI (XO (XI
+    (XI (XO (XI (XI
+    XH))))))))))))))))))))))))))))))))))))))))))))))))))))))))))) :: ((Npos
+    (XI (XO (XI (XI (XO (XI (XI (XI (XO (XI (XO (XI (XI (XI (XO (XO (XI (XI
+    (XO (XO (XI (XI (XO (XI (XO (XI (XO (XI (XO (XI (XO (XO (XI (XI (XO (XI
+    (XO (XI (XI (XI (XI (XO (XO (XI (XO (XO (XO (XO (XO (XO (XI (XO (XO (XO
+    (XO (XI (XO (XO (XO (XI (XI (XI (XI
+    XH)))))))))))))))))))))))))))))))))))))))))))))))))))))))))))))))) :: ((Npos
+    (XI (XO (XO (XI (XO (XO (XI (XO (XI (XI (XO (XO (XI (XI (XI (XO (XI (XO
+    (XI (XI (XO (XO (XO (XO (XI (XI (XI (XO (XO (XI (XO (XI (XO (XO (XO (XI
+    (XI (XI (XO (XO (XI (XO (XO (XO (XO (XO (XO (XO (XO (XI (XO (XO (XI (XO
+    (XI (XO (XI (XO (XO (XI (XI (XO (XI
+    XH)))))))))))))))))))))))))))))))))))))))))))))))))))))))))))))))) :: ((Npos
+    (XO (XI (XO (XO (XO (XO (XI (XO (XI (XO (XO (XO (XI (XO (XI (XI (XI (XO
+    (XO (XI (XI (XI (XO (XI (XI (XI (XI (XI (XO (XO (XO (XI (XO (XO (XO (XI
+    (XI (XI (XI (XO (XI (XI (XI (XO (XO (XO (XO (XI (XI (XO (XO (XO (XI (XO
+    (XI (XO (XI (XI (XI (XO (XI (XO
+    XH))))))))))))))))))))))))))))))))))))))))))))))))))))))))))))))) :: ((Npos
+    (XI (XO (XO (XI (XI (XO (XI (XO (XO (XO (XO (XO (XO (XI (XI (XI (XI (XI
+    (XI (XI (XI (XO (XO (XI (XI (XO (XO (XI (XO (XI (XO (XO (XO (XO (XI (XI
+    (XO (XO (XI (XI (XI (XI (XI (XO (XO (XI (XI (XI (XO (XO (XO (XI (XO (XO
+    (XO (XO (XO (XO (XO (XO (XI (XI
+    XH))))))))))))))))))))))))))))))))))))))))))))))))))))))))))))))) :: ((Npos
+    (XI (XI (XO (XI (XO (XI (XO (XI (XI (XI (XI (XI (XO (XO (XO (XO (XO (XO
+    (XO (XI (XI (XO (XI (XI (XO (XO (XO (XI (XO (XI (XO (XI (XI (XO (XO (XI
+    (XI (XI (XO (XI (XI (XO (XI (XO (XI (XI (XO (XO (XI (XI (XI (XO (XI (XI
+    (XO (XI (XO (XO (XI (XI (XI (XO (XO
+    XH)))))))))))))))))))))))))))))))))))))))))))))))))))))))))))))))) :: ((Npos
+    (XO (XO (XI (XI (XO (XI (XI (XI (XI (XO (XO (XO (XI (XO (XI (XI (XI (XI
+    (XO (XO (XO (XI (XO (XO (XO (XO (XO (XO (XI (XI (XI (XI (XO (XI (XI (XO
+    (XO (XI (XO (XI (XI (XO (XI (XI (XO (XO (XI (XO (XO (XO (XI (XI (XI (XI
+    (XO (XO (XI (XO (XI (XI (XI (XO
+    XH))))))))))))))))))))))))))))))))))))))))))))))))))))))))))))))) :: ((Npos
+    (XO (XI (XO (XO (XI (XO (XI (XI (XO (XO (XI (XI (XO (XO (XI (XO (XO (XI
+    (XO (XO (XO (XI (XO (XI (XO (XO (XI (XI (XO (XO (XO (XI (XO (XO (XO (XO
+    (XI (XI (XI (XI (XI (XO (XO (XI (XI (XO (XO (XI (XO (XI (XO (XO (XO (XO
+    (XI (XO (XO (XO (XI (XO (XO (XI (XO
+    XH)))))))))))))))))))))))))))))))))))))))))))))))))))))))))))))))) :: ((Npos
+    (XO (XO (XI (XO (XO (XI (XO (XI (XO (XI (XO (XO (XO (XO (XI (XO (XI (XO
+    (XI (XO (XI (XO (XI (XI (XO (XI (XI (XI (XI (XI (XO (XI (XI (XO (XO (XI
+    (XI (XI (XO (XI (XO (XO (XO (XI (XO (XI (XO (XI (XI (XI (XI (XI (XO (XI
+    (XO (XI (XI (XO (XI (XO (XI (XI (XO
+    XH)))))))))))))))))))))))))))))))))))))))))))))))))))))))))))))))) :: ((Npos
+    (XO (XO (XO (XI (XO (XO (XO (XO (XI (XO (XI (XO (XO (XI (XI (XI (XI (XI
+    (XI (XO (XO (XO (XO (XO (XI (XO (XI (XO (XI (XI (XO (XI (XI (XI (XO (XI
+    (XI (XO (XI (XO (XI (XO (XO (XO (XI (XO (XI (XO (XO (XI (XI (XI (XI (XI
+    (XI (XO (XO (XI (XO (XI (XO (XO (XI
+    XH)))))))))))))))))))))))))))))))))))))))))))))))))))))))))))))))) :: ((Npos
+    (XI (XI (XI (XI (XO (XO (XO (XI (XI (XI (XO (XO (XI (XI (XI (XO (XI (XO
+    (XO (XO (XI (XI (XO (XO (XI (XI (XO (XO (XO (XI (XO (XI (XI (XI (XI (XO
+    (XO (XI (XI (XI (XO (XI (XO (XO (XI (XI (XI (XO (XO (XO (XO (XI (XI (XI
+    (XO (XO (XI (XI (XO (XO (XO (XO (XO
+    XH)))))))))))))))))))))))))))))))))))))))))))))))))))))))))))))))) :: ((Npos
+    (XO (XO (XO (XI (XO (XO (XO (XO (XO (XI (XI (XO (XI (XI (XI (XO (XO (XI
+    (XO (XI (XO (XO (XI (XI (XO (XO (XO (XO (XO (XI (XO (XI (XO (XI (XI (XO
+    (XO (XI (XO (XI (XI (XI (XI (XI (XO (XO (XO (XI (XI (XO (XO (XO (XO (XO
+    (XO (XI (XI (XO (XI (XO (XO (XI (XI
+    XH)))))))))))))))))))))))))))))))))))))))))))))))))))))))))))))))) :: ((Npos
+    (XI (XI (XO (XI (XO (XI (XO (XI (XO (XO (XO (XI (XO (XO (XO (XI (XI (XO
+    (XO (XO (XI (XI (XI (XI (XI (XO (XI (XO (XI (XI (XI (XI (XO (XI (XI (XO
+    (XI (XO (XI (XO (XI (XO (XO (XI (XI (XI (XO (XO (XO (XI (XI (XI (XI (XO
+    (XI (XO (XI (XI (XO (XI (XO
+    XH)))))))))))))))))))))))))))))))))))))))))))))))))))))))))))))) :: ((Npos
+    (XI (XI (XO (XI (XI (XO (XI (XI (XI (XI (XI (XO (XI (XI (XI (XO (XO (XO
+    (XO (XO (XI (XI (XI (XI (XI (XI (XO (XO (XI (XI (XO (XI (XO (XI (XO (XI
+    (XI (XI (XI (XO (XI (XI (XI (XO (XI (XO (XI (XI (XI (XO (XI (XI (XO (XO
+    (XO (XI (XO (XO (XI (XI (XI (XI (XI
+    XH)))))))))))))))))))))))))))))))))))))))))))))))))))))))))))))))) :: ((Npos
+    (XO (XO (XI (XI (XO (XI (XI (XO (XO (XI (XI (XI (XI (XO (XO (XO (XO (XO
+    (XI (XI (XI (XO (XO (XI (XI (XI (XI (XI (XI (XO (XO (XO (XO (XO (XO (XO
+    (XI (XO (XO (XO (XI (XI (XO (XO (XI (XO (XO (XO (XO (XI (XI (XO (XO (XI
+    (XI (XO (XO (XO (XO (XO (XO (XI (XO
+    XH)))))))))))))))))))))))))))))))))))))))))))))))))))))))))))))))) :: ((Npos
+    (XO (XO (XO (XI (XI (XO (XO (XO (XO (XI (XI (XO (XO (XO (XI (XO (XI (XI
+    (XO (XI (XO (XI (XO (XI (XI (XO (XO (XI (XO (XI (XO (XO (XI (XO (XI (XI
+    (XO (XO (XO (XI (XI (XI (XO (XI (XI (XO (XI (XO (XI (XO (XI (XO (XI (XI
+    (XO (XI (XO (XI (XO (XI (XI (XO (XO
+    XH)))))))))))))))))))))))))))))))))))))))))))))))))))))))))))))))) :: ((Npos
+    (XO (XO (XO (XI (XO (XI (XI (XI (XI (XO (XO (XI (XO (XI (XO (XO (XO (XI
+    (XI (XI (XO (XI (XI (XO (XO (XI (XI (XI (XI (XO (XO (XO (XO (XI (XO (XO
+    (XI (XI (XI (XI (XI (XI (XI (XI (XO (XO (XO (XO (XI (XO (XI (XO (XO (XI
+    (XI (XO (XI (XO (XO (XI (XO
+    XH)))))))))))))))))))))))))))))))))))))))))))))))))))))))))))))) :: ((Npos
+    (XO (XI (XI (XO (XO (XI (XO (XI (XI (XO (XI (XI (XO (XI (XO (XO (XO (XI
+    (XI (XI (XI (XI (XO (XO (XI (XI (XI (XI (XI (XO (XI (XI (XI (XI (XO (XO
+    (XI (XI (XO (XO (XI (XO (XO (XI (XI (XI (XI (XO (XO (XO (XO (XO (XI (XI
+    (XI (XO (XI (XI (XO (XO (XO (XO
+    XH))))))))))))))))))))))))))))))))))))))))))))))))))))))))))))))) :: ((Npos
+    (XI (XI (XO (XO (XI (XO (XO (XI (XI (XO (XO (XI (XI (XI (XO (XO (XI (XI
+    (XI (XO (XI (XO (XI (XO (XI (XI (XO (XO (XO (XI (XO (XI (XI (XI (XI (XO
+    (XI (XI (XO (XO (XO (XI (XI (XI (XI (XI (XO (XI (XO (XO (XI (XI (XO (XO
+    (XO (XI (XI (XO (XI (XO (XI (XO (XO
+    XH)))))))))))))))))))))))))))))))))))))))))))))))))))))))))))))))) :: ((Npos
+    (XO (XO (XI (XO (XO (XI (XI (XI (XO (XI (XI (XO (XO (XO (XI (XO (XI (XO
+    (XI (XI (XO (XO (XO (XO (XO (XI (XI (XI (XI (XI (XI (XI (XO (XO (XO (XI
+    (XI (XI (XI (XI (XI (XI (XO (XI (XO (XI (XI (XO (XO (XO (XI (XI (XI (XO
+    (XO (XI (XO (XI (XO (XO (XO
+    XH)))))))))))))))))))))))))))))))))))))))))))))))))))))))))))))) :: ((Npos
+    (XI (XI (XI (XI (XI (XI (XO (XI (XI (XI (XI (XI (XI (XI (XO (XO (XO (XO
+    (XI (XO (XI (XI (XI (XI (XO (XI (XI (XO (XI (XI (XO (XI (XO (XI (XO (XO
+    (XO (XI (XI (XO (XI (XO (XO (XO (XO (XO (XO (XI (XO (XO (XO (XI (XI (XI
+    (XO (XI (XI (XI (XI (XI
+    XH))))))))))))))))))))))))))))))))))))))))))))))))))))))))))))) :: ((Npos
+    (XI (XO (XI (XO (XO (XI (XO (XI (XI (XO (XO (XO (XI (XO (XO (XO (XI (XI
+    (XO (XO (XO (XI (XO (XI (XO (XI (XI (XI (XI (XI (XO (XI (XI (XO (XI (XO
+    (XO (XI (XO (XO (XI (XO (XO (XO (XI (XO (XI (XI (XO (XI (XI (XI (XI (XO
+    (XO (XO (XO (XI (XI (XO (XI (XO
+    XH))))))))))))))))))))))))))))))))))))))))))))))))))))))))))))))) :: ((Npos
+    (XO (XI (XI (XO (XI (XO (XO (XO (XO (XO (XO (XI (XI (XI (XI (XI (XO (XI
+    (XI (XI (XO (XO (XI (XO (XO (XI (XI (XI (XO (XO (XO (XO (XI (XO (XI (XI
+    (XI (XO (XO (XO (XO (XO (XO (XI (XO (XO (XO (XO (XO (XO (XO (XO (XO (XI
+    (XO (XO (XO (XI (XO (XI (XO (XI
+    XH))))))))))))))))))))))))))))))))))))))))))))))))))))))))))))))) :: ((Npos
+    (XI (XI (XI (XO (XO (XI (XI (XO (XO (XO (XO (XO (XO (XI (XO (XI (XI (XO
+    (XI (XO (XO (XO (XI (XO (XI (XI (XO (XI (XO (XO (XO (XI (XI (XI (XO (XO
+    (XI (XI (XO (XI (XI (XI (XI (XO (XI (XO (XO (XI (XI (XO (XI (XO (XO (XO
+    (XO (XI (XI (XO (XI (XO
+    XH))))))))))))))))))))))))))))))))))))))))))))))))))))))))))))) :: ((Npos
+    (XI (XO (XO (XO (XO (XO (XO (XO (XI (XO (XI (XO (XO (XI (XI (XO (XI (XI
+    (XI (XO (XI (XO (XI (XI (XO (XI (XI (XO (XI (XI (XI (XO (XI (XI (XI (XO
+    (XI (XO (XO (XO (XO (XO (XI (XO (XO (XO (XO (XO (XO (XI (XI (XO (XI (XI
+    (XO (XI (XI (XO (XO (XI (XO (XI (XI
+    XH)))))))))))))))))))))))))))))))))))))))))))))))))))))))))))))))) :: ((Npos
+    (XO (XI (XO (XO (XO (XI (XO (XI (XO (XO (XI (XO (XI (XO (XO (XI (XO (XO
+    (XI (XO (XI (XO (XO (XO (XI (XI (XI (XO (XO (XI (XI (XO (XI (XO (XO (XI
+    (XO (XO (XI (XO (XO (XI (XO (XO (XO (XO (XO (XO (XO (XO (XO (XI (XO (XO
+    (XI (XO (XI (XO (XI (XO (XO (XI (XO
+    XH)))))))))))))))))))))))))))))))))))))))))))))))))))))))))))))))) :: ((Npos
+    (XI (XI (XO (XO (XO (XO (XO (XI (XO (XO (XO (XI (XI (XI (XI (XI (XO (XI
+    (XI (XI (XO (XI (XI (XO (XO (XI (XI (XI (XO (XO (XO (XO (XO (XO (XO (XO
+    (XO (XO (XO (XI (XI (XI (XO (XO (XI (XI (XO (XO (XI (XO (XO (XO (XO (XI
+    (XI (XO (XO (XO (XO (XI (XO (XI
+    XH))))))))))))))))))))))))))))))))))))))))))))))))))))))))))))))) :: ((Npos
+    (XI (XI (XO (XO (XO (XI (XI (XI (XO (XO (XI (XO (XO (XO (XO (XI (XI (XI
+    (XI (XI (XI (XO (XI (XO (XO (XO (XI (XI (XO (XI (XO (XI (XI (XO (XI (XI
+    (XI (XI (XO (XI (XI (XI (XO (XO (XI (XO (XO (XO (XI (XI (XO (XO (XO (XI
+    (XO (XI (XI (XO (XI (XI (XI
+    XH)))))))))))))))))))))))))))))))))))))))))))))))))))))))))))))) :: ((Npos
+    (XI (XI (XI (XO (XO (XO (XO (XO (XO (XI (XI (XI (XI (XI (XI (XO (XI (XI
+    (XI (XO (XO (XO (XO (XO (XI (XI (XI (XI (XO (XI (XO (XO (XI (XO (XO (XO
+    (XI (XI (XO (XO (XO (XO (XI (XO (XI (XI (XI (XO (XO (XO (XI (XO (XI (XI
+    (XI (XO (XI (XO (XO (XI (XI (XO (XO
+    XH)))))))))))))))))))))))))))))))))))))))))))))))))))))))))))))))) :: ((Npos
+    (XO (XO (XI (XI (XI (XO (XI (XO (XO (XO (XI (XO (XO (XI (XO (XO (XI (XI
+    (XO (XI (XO (XO (XO (XI (XO (XO (XO (XO (XO (XO (XO (XO (XO (XI (XO (XO
+    (XI (XO (XO (XO (XO (XI (XI (XO (XO (XI (XI (XI (XO (XI (XI (XI (XO (XO
+    (XO (XI (XO (XO (XI (XO (XI
+    XH)))))))))))))))))))))))))))))))))))))))))))))))))))))))))))))) :: ((Npos
+    (XI (XI (XO (XI (XO (XI (XI (XO (XO (XI (XI (XI (XO (XI (XO (XI (XO (XO
+    (XI (XI (XI (XI (XO (XI (XI (XI (XO (XO (XI (XI (XI (XO (XI (XO (XO (XO
+    (XO (XO (XI (XO (XO (XO (XI (XI (XO (XI (XI (XI (XO (XI (XI (XI (XI (XI
+    (XI (XI (XI (XO (XI (XO (XI (XI
+    XH))))))))))))))))))))))))))))))))))))))))))))))))))))))))))))))) :: ((Npos
+    (XI (XO (XO (XO (XI (XO (XO (XI (XI (XI (XI (XO (XI (XI (XI (XI (XI (XO
+    (XO (XI (XO (XI (XI (XI (XO (XO (XO (XI (XI (XI (XI (XI (XI (XI (XI (XI
+    (XO (XI (XO (XI (XI (XI (XO (XO (XI (XO (XI (XO (XO (XI (XO (XO (XO (XI
+    (XO (XI (XO (XI (XI (XI (XO (XI (XO
+    XH)))))))))))))))))))))))))))))))))))))))))))))))))))))))))))))))) :: ((Npos
+    (XI (XI (XO (XO (XO (XI (XI (XO (XI (XI (XO (XO (XO (XI (XI (XO (XO (XI
+    (XO (XO (XO (XI (XO (XI (XO (XI (XI (XI (XO (XO (XO (XI (XI (XO (XI (XI
+    (XO (XI (XI (XO (XI (XI (XI (XO (XI (XI (XO (XI (XI (XO (XO (XO (XO (XO
+    (XO (XI (XO (XO (XO (XI (XI
+    XH)))))))))))))))))))))))))))))))))))))))))))))))))))))))))))))) :: ((Npos
+    (XO (XI (XI (XI (XO (XI (XI (XI (XO (XI (XO (XI (XI (XO (XO (XI (XO (XI
+    (XI (XO (XI (XI (XI (XI (XO (XI (XI (XI (XO (XI (XI (XO (XO (XI (XO (XI
+    (XO (XO (XO (XO (XI (XO (XI (XO (XI (XI (XI (XO (XI (XI (XO (XI (XO (XI
+    (XI (XI (XI (XO (XO (XI (XI (XI (XI
+    XH)))))))))))))))))))))))))))))))))))))))))))))))))))))))))))))))) :: ((Npos
+    (XI (XI (XI (XI (XO (XI (XO (XO (XO (XI (XO (XI (XO (XI (XO (XI (XO (XI
+    (XO (XO (XO (XI (XI (XI (XO (XI (XO (XI (XO (XI (XO (XO (XI (XO (XI (XO
+    (XI (XI (XI (XI (XO (XO (XO (XI (XO (XI (XO (XO (XO (XO (XO (XO (XI (XI
+    (XO (XO (XI (XO (XO (XO (XO (XO (XO
+    XH)))))))))))))))))))))))))))))))))))))))))))))))))))))))))))))))) :: ((Npos
+    (XO (XI (XO (XI (XO (XO (XO (XO (XI (XI (XI (XO (XO (XO (XO (XO (XO (XO
+    (XO (XI (XI (XI (XO (XO (XO (XI (XO (XO (XI (XI (XI (XI (XO (XO (XI (XO
+    (XI (XO (XI (XO (XI (XO (XI (XI (XO (XI (XI (XI (XI (XI (XO (XO (XI (XI
+    (XO (XO (XO (XI (XO (XI (XI (XI (XO
+    XH)))))))))))))))))))))))))))))))))))))))))))))))))))))))))))))))) :: ((Npos
+    (XI (XO (XI (XI (XO (XO (XI (XI (XO (XI (XO (XI (XI (XI (XI (XI (XO (XI
+    (XO (XO (XO (XI (XI (XI (XO (XO (XI (XO (XO (XO (XI (XO (XI (XO (XI (XO
+    (XO (XI (XO (XI (XI (XI (XI (XI (XI (XI (XI (XO (XI (XI (XO (XI (XI (XO
+    (XI (XO (XO (XI (XI (XI (XO (XI
+    XH))))))))))))))))))))))))))))))))))))))))))))))))))))))))))))))) :: ((Npos
+    (XO (XI (XO (XO (XO (XI (XO (XO (XI (XI (XO (XI (XI (XI (XO (XI (XO (XO
+    (XI (XO (XO (XO (XI (XI (XI (XI (XO (XI (XO (XI (XO (XO (XO (XI (XI (XI
+    (XI (XI (XO (XI (XO (XI (XO (XO (XI (XI (XO (XI (XI (XI (XO (XI (XI (XI
+    (XO (XI (XO (XI (XI (XI (XI (XO (XI
+    XH)))))))))))))))))))))))))))))))))))))))))))))))))))))))))))))))) :: ((Npos
+    (XO (XO (XI (XI (XO (XI (XO (XI (XO (XO (XO (XI (XO (XI (XO (XI (XO (XI
+    (XI (XO (XO (XO (XO (XO (XI (XI (XO (XO (XO (XI (XI (XO (XO (XO (XO (XI
+    (XO (XI (XO (XI (XI (XI (XI (XI (XI (XI (XO (XI (XO (XI (XI (XO (XI (XO
+    (XO (XO (XO (XO (XI (XO (XI (XI (XI
+    XH)))))))))))))))))))))))))))))))))))))))))))))))))))))))))))))))) :: ((Npos
+    (XO (XO (XI (XI (XI (XI (XI (XI (XI (XI (XI (XI (XO (XO (XI (XO (XI (XO
+    (XO (XO (XI (XI (XO (XO (XO (XI (XI (XI (XI (XI (XI (XO (XO (XO (XI (XI
+    (XI (XI (XI (XO (XI (XI (XI (XI (XI (XO (XI (XI (XO (XO (XO (XI (XI (XI
+    (XI (XO (XO (XI (XI (XO (XI (XI
+    XH))))))))))))))))))))))))))))))))))))))))))))))))))))))))))))))) :: ((Npos
+    (XI (XO (XO (XI (XO (XI (XO (XO (XO (XO (XO (XI (XI (XI (XO (XO (XI (XI
+    (XI (XO (XO (XO (XI (XO (XI (XI (XI (XO (XI (XO (XO (XO (XI (XO (XI (XI
+    (XI (XO (XI (XO (XI (XI (XO (XI (XI (XI (XO (XI (XO (XI (XI (XI (XO (XO
+    (XI (XO (XO (XO (XO (XO (XI (XI
+    XH))))))))))))))))))))))))))))))))))))))))))))))))))))))))))))))) :: ((Npos
+    (XI (XO (XI (XI (XI (XI (XI (XI (XO (XO (XO (XI (XI (XI (XI (XO (XO (XI
+    (XO (XI (XI (XO (XO (XI (XO (XI (XI (XO (XO (XO (XO (XO (XI (XI (XI (XI
+    (XO (XI (XO (XI (XO (XI (XI (XO (XI (XO (XO (XI (XI (XO (XI (XI (XI (XO
+    (XI (XI (XI (XI (XI (XO (XO (XO (XO
+    XH)))))))))))))))))))))))))))))))))))))))))))))))))))))))))))))))) :: ((Npos
+    (XI (XI (XI (XI (XI (XO (XO (XI (XO (XI (XI (XO (XI (XI (XO (XO (XI (XO
+    (XO (XO (XI (XO (XI (XO (XO (XI (XI (XI (XO (XI (XI (XO (XI (XO (XI (XO
+    (XI (XI (XI (XO (XI (XO (XI (XI (XI (XI (XI (XI (XO (XO (XI (XO (XI (XO
+    (XO (XO (XI (XI (XI (XI (XO (XO
+    XH))))))))))))))))))))))))))))))))))))))))))))))))))))))))))))))) :: ((Npos
+    (XO (XO (XO (XO (XI (XI (XI (XO (XO (XI (XI (XI (XI (XI (XO (XO (XI (XI
+    (XO (XO (XI (XI (XO (XI (XO (XO (XO (XI (XI (XO (XI (XI (XI (XO (XO (XO
+    (XI (XI (XO (XO (XI (XI (XI (XO (XO (XO (XI (XO (XO (XO (XI (XI (XO (XO
+    (XI (XI (XO (XI (XI (XI (XO (XO (XI
+    XH)))))))))))))))))))))))))))))))))))))))))))))))))))))))))))))))) :: ((Npos
+    (XI (XO (XO (XI (XI (XI (XO (XO (XO (XI (XO (XI (XI (XO (XO (XO (XO (XO
+    (XO (XO (XO (XO (XO (XI (XI (XI (XI (XO (XI (XO (XO (XO (XI (XO (XI (XI
+    (XO (XO (XO (XI (XI (XO (XI (XI (XO (XO (XO (XI (XI (XO (XO (XO (XO (XO
+    (XI (XI (XI (XI (XI (XO (XI
+    XH)))))))))))))))))))))))))))))))))))))))))))))))))))))))))))))) :: ((Npos
+    (XI (XO (XO (XI (XO (XI (XO (XO (XO (XO (XO (XO (XO (XI (XI (XO (XO (XO
+    (XI (XI (XI (XO (XO (XI (XI (XO (XI (XO (XO (XI (XO (XI (XI (XI (XO (XI
+    (XI (XO (XI (XI (XO (XO (XI (XI (XO (XO (XO (XO (XO (XO (XO (XO (XI (XI
+    (XO (XO (XO (XO (XO (XI (XO (XI (XI
+    XH)))))))))))))))))))))))))))))))))))))))))))))))))))))))))))))))) :: ((Npos
+    (XO (XO (XI (XI (XO (XO (XO (XI (XI (XI (XO (XO (XI (XI (XI (XO (XO (XI
+    (XO (XI (XO (XO (XO (XI (XI (XO (XO (XO (XI (XO (XI (XI (XO (XO (XI (XO
+    (XO (XO (XO (XO (XO (XO (XI (XI (XI (XI (XI (XI (XO (XO (XO (XI (XO (XI
+    (XO (XI (XO (XI (XO (XI (XO (XO (XI
+    XH)))))))))))))))))))))))))))))))))))))))))))))))))))))))))))))))) :: ((Npos
+    (XO (XO (XO (XI (XO (XO (XI (XI (XI (XI (XI (XI (XI (XI (XI (XO (XI (XI
+    (XO (XI (XI (XO (XO (XO (XI (XI (XO (XO (XI (XI (XO (XO (XO (XI (XI (XO
+    (XO (XI (XI (XO (XI (XO (XI (XI (XI (XO (XO (XI (XI (XI (XI (XO (XI (XI
+    (XO (XO (XI (XI (XI (XO (XI (XO
+    XH))))))))))))))))))))))))))))))))))))))))))))))))))))))))))))))) :: ((Npos
+    (XI (XI (XI (XI (XI (XO (XI (XO (XO (XI (XI (XO (XO (XO (XI (XI (XI (XI
+    (XO (XI (XO (XO (XO (XI (XI (XO (XO (XO (XI (XO (XI (XO (XI (XO (XI (XO
+    (XO (XO (XI (XO (XO (XO (XO (XI (XI (XI (XI (XO (XI (XI (XI (XO (XI (XI
+    (XO (XI (XO (XO (XI (XI (XI (XI (XO
+    XH)))))))))))))))))))))))))))))))))))))))))))))))))))))))))))))))) :: ((Npos
+    (XI (XI (XO (XO (XO (XI (XO (XI (XI (XI (XO (XI (XO (XO (XI (XO (XO (XO
+    (XO (XO (XI (XO (XI (XI (XI (XO (XI (XI (XO (XO (XI (XO (XI (XI (XI (XI
+    (XO (XO (XI (XO (XI (XO (XO (XI (XI (XO (XI (XI (XO (XI (XO (XO (XO (XI
+    (XO (XO (XO (XO (XO (XO (XI (XO
+    XH))))))))))))))))))))))))))))))))))))))))))))))))))))))))))))))) :: ((Npos
+    (XO (XO (XO (XI (XI (XI (XO (XI (XO (XO (XO (XO (XI (XO (XO (XI (XI (XI
+    (XI (XI (XO (XO (XI (XI (XO (XI (XI (XI (XO (XI (XO (XO (XI (XI (XI (XO
+    (XO (XO (XI (XO (XO (XI (XO (XI (XO (XI (XO (XI (XI (XO (XO (XO (XO (XO
+    (XI (XO (XO (XI (XO (XI (XO (XI
+    XH))))))))))))))))))))))))))))))))))))))))))))))))))))))))))))))) :: ((Npos
+    (XI (XI (XI (XO (XO (XO (XO (XI (XI (XO (XI (XO (XO (XI (XO (XI (XI (XO
+    (XI (XO (XO (XI (XI (XO (XO (XO (XI (XO (XO (XO (XO (XO (XI (XO (XI (XI
+    (XO (XI (XO (XI (XI (XO (XI (XO (XI (XO (XI (XI (XO (XO (XI (XO (XO (XI
+    (XO (XI (XI (XI (XI (XO (XI (XO (XO
+    XH)))))))))))))))))))))))))))))))))))))))))))))))))))))))))))))))) :: ((Npos
+    (XI (XO (XI (XI (XI (XO (XI (XO (XI (XO (XO (XO (XI (XI (XI (XO (XI (XO
+    (XI (XO (XO (XO (XO (XI (XO (XI (XO (XI (XO (XO (XI (XO (XI (XO (XO (XI
+    (XI (XO (XI (XO (XI (XO (XO (XO (XI (XO (XI (XO (XI (XI (XO (XO (XI (XI
+    (XI (XI (XO (XO (XI (XI (XO (XI (XO
+    XH)))))))))))))))))))))))))))))))))))))))))))))))))))))))))))))))) :: ((Npos
+    (XO (XO (XO (XO (XI (XO (XO (XI (XO (XO (XO (XI (XI (XI (XI (XI (XO (XI
+    (XO (XI (XO (XI (XI (XI (XO (XO (XI (XI (XI (XI (XI (XI (XI (XI (XO (XO
+    (XO (XI (XI (XO (XI (XI (XI (XI (XO (XI (XI (XO (XI (XO (XI (XO (XI (XI
+    (XI (XO (XI (XI (XO (XI (XO (XI (XI
+    XH)))))))))))))))))))))))))))))))))))))))))))))))))))))))))))))))) :: ((Npos
+    (XI (XO (XO (XI (XI (XI (XI (XO (XO (XI (XO (XO (XI (XO (XO (XO (XI (XO
+    (XO (XO (XI (XI (XI (XO (XO (XO (XI (XO (XI (XO (XO (XI (XO (XI (XI (XI
+    (XI (XI (XI (XO (XI (XI (XO (XO (XO (XO (XI (XO (XO (XI (XI (XO (XO (XO
+    (XO (XI (XO (XO (XI (XO (XO (XI
+    XH))))))))))))))))))))))))))))))))))))))))))))))))))))))))))))))) :: ((Npos
+    (XI (XO (XO (XO (XI (XO (XI (XO (XI (XO (XO (XO (XI (XO (XO (XI (XI (XI
+    (XO (XO (XO (XO (XO (XO (XI (XI (XO (XO (XO (XO (XO (XI (XO (XO (XI (XI
+    (XI (XO (XI (XO (XO (XI (XI (XO (XI (XO (XO (XO (XO (XO (XO (XO (XO (XI
+    (XI (XI (XI (XO (XI (XI (XI (XI
+    XH))))))))))))))))))))))))))))))))))))))))))))))))))))))))))))))) :: ((Npos
+    (XI (XI (XI (XI (XO (XO (XI (XO (XO (XO (XI (XI (XI (XO (XI (XO (XI (XO
+    (XO (XI (XI (XI (XO (XI (XI (XO (XI (XO (XO (XO (XO (XO (XO (XI (XO (XI
+    (XO (XO (XO (XI (XO (XO (XO (XO (XI (XO (XO (XI (XO (XI (XO (XO (XO (XI
+    (XI (XO (XO (XI (XO (XI (XI
+    XH)))))))))))))))))))))))))))))))))))))))))))))))))))))))))))))) :: ((Npos
+    (XI (XI (XO (XO (XI (XI (XO (XI (XI (XO (XO (XO (XO (XI (XI (XI (XO (XI
+    (XO (XO (XI (XO (XO (XI (XO (XI (XI (XO (XO (XI (XO (XO (XI (XO (XO (XI
+    (XI (XO (XO (XO (XO (XO (XO (XI (XO (XO (XI (XI (XO (XO (XI (XI (XO (XO
+    (XO (XI (XO (XI (XI (XI
+    XH))))))))))))))))))))))))))))))))))))))))))))))))))))))))))))) :: ((Npos
+    (XI (XI (XO (XI (XO (XO (XI (XO (XO (XO (XI (XO (XI (XI (XO (XO (XO (XI
+    (XI (XO (XI (XO (XI (XO (XO (XO (XI (XO (XO (XI (XI (XO (XO (XI (XI (XO
+    (XI (XO (XO (XI (XO (XI (XO (XO (XI (XI (XO (XO (XO (XO (XI (XO (XO (XI
+    (XI (XO (XI (XI (XO (XI (XO (XI (XO
+    XH)))))))))))))))))))))))))))))))))))))))))))))))))))))))))))))))) :: ((Npos
+    (XO (XO (XI (XO (XO (XO (XI (XI (XI (XI (XI (XI (XI (XI (XO (XI (XI (XI
+    (XI (XI (XO (XO (XI (XI (XI (XO (XO (XI (XI (XI (XO (XI (XI (XO (XO (XI
+    (XI (XO (XO (XI (XO (XO (XO (XI (XI (XO (XI (XO (XI (XO (XI (XO (XI (XI
+    (XI (XI (XI (XI (XO (XO (XI
+    XH)))))))))))))))))))))))))))))))))))))))))))))))))))))))))))))) :: ((Npos
+    (XO (XO (XO (XI (XO (XO (XI (XO (XO (XO (XO (XI (XI (XI (XO (XO (XI (XI
+    (XO (XO (XI (XI (XI (XO (XO (XO (XO (XI (XO (XI (XI (XI (XO (XI (XI (XO
+    (XO (XI (XO (XO (XI (XO (XI (XO (XO (XI (XO (XO (XO (XO (XI (XI (XO (XI
+    (XO (XI (XO (XI (XO (XO (XO (XO
+    XH))))))))))))))))))))))))))))))))))))))))))))))))))))))))))))))) :: ((Npos
+    (XO (XO (XI (XO (XI (XI (XI (XI (XI (XO (XI (XO (XO (XO (XO (XO (XO (XI
+    (XI (XO (XI (XI (XI (XO (XO (XO (XI (XO (XO (XO (XO (XO (XO (XI (XI (XO
+    (XI (XI (XI (XO (XI (XI (XI (XO (XI (XO (XI (XO (XI (XI (XO (XO (XI (XI
+    (XI (XI (XI (XI (XO (XI (XO (XO (XO
+    XH)))))))))))))))))))))))))))))))))))))))))))))))))))))))))))))))) :: ((Npos
+    (XI (XI (XO (XO (XI (XI (XI (XI (XI (XI (XO (XI (XO (XO (XO (XI (XI (XI
+    (XO (XI (XO (XI (XO (XI (XI (XI (XI (XO (XI (XI (XO (XO (XI (XI (XI (XO
+    (XO (XO (XO (XI (XO (XO (XI (XO (XI (XO (XO (XO (XI (XO (XI (XI (XO (XI
+    (XI (XO (XI (XI (XO (XI (XO (XO
+    XH))))))))))))))))))))))))))))))))))))))))))))))))))))))))))))))) :: ((Npos
+    (XO (XI (XO (XO (XO (XI (XO (XO (XI (XO (XI (XO (XI (XI (XO (XI (XI (XO
+    (XI (XO (XO (XO (XO (XI (XI (XI (XO (XI (XO (XO (XO (XO (XI (XI (XO (XI
+    (XO (XI (XO (XO (XI (XO (XI (XI (XO (XO (XO (XO (XI (XI (XO (XO (XI (XO
+    (XI (XI (XI (XO (XI (XO (XO
+    XH)))))))))))))))))))))))))))))))))))))))))))))))))))))))))))))) :: ((Npos
+    (XI (XO (XO (XO (XO (XI (XO (XO (XO (XO (XO (XO (XI (XI (XI (XO (XI (XI
+    (XO (XI (XI (XI (XI (XI (XO (XI (XI (XO (XO (XI (XI (XO (XI (XI (XI (XI
+    (XO (XI (XI (XI (XO (XI (XI (XO (XO (XO (XI (XI (XO (XI (XI (XI (XI (XI
+    (XI (XI (XO (XI
+    XH))))))))))))))))))))))))))))))))))))))))))))))))))))))))))) :: ((Npos
+    (XO (XI (XO (XO (XI (XI (XI (XO (XI (XO (XI (XO (XI (XO (XO (XO (XO (XO
+    (XI (XO (XO (XI (XI (XO (XI (XI (XO (XO (XO (XI (XO (XI (XO (XO (XI (XO
+    (XO (XI (XI (XI (XI (XO (XO (XO (XI (XI (XI (XO (XO (XI (XO (XO (XO (XI
+    (XI (XO (XI (XI (XI (XI (XI (XO (XO
+    XH)))))))))))))))))))))))))))))))))))))))))))))))))))))))))))))))) :: ((Npos
+    (XI (XI (XI (XI (XO (XI (XO (XO (XO (XO (XI (XI (XI (XI (XI (XI (XO (XO
+    (XO (XI (XO (XI (XI (XO (XO (XO (XO (XI (XO (XI (XO (XO (XI (XI (XI (XI
+    (XI (XI (XO (XO (XO (XI (XI (XO (XO (XI (XO (XI (XO (XO (XO (XO (XO (XO
+    (XI (XO (XI (XI (XI (XI (XO (XO
+    XH))))))))))))))))))))))))))))))))))))))))))))))))))))))))))))))) :: ((Npos
+    (XI (XI (XO (XO (XO (XO (XO (XI (XO (XI (XI (XO (XI (XO (XO (XI (XI (XI
+    (XO (XO (XI (XI (XO (XI (XI (XI (XO (XO (XO (XI (XI (XO (XO (XO (XI (XO
+    (XI (XO (XI (XI (XO (XI (XO (XI (XI (XO (XI (XI (XI (XO (XI (XO (XI (XI
+    (XI (XI (XO (XI (XI (XI (XI
+    XH)))))))))))))))))))))))))))))))))))))))))))))))))))))))))))))) :: ((Npos
+    (XI (XO (XI (XO (XO (XI (XI (XI (XI (XI (XO (XI (XO (XI (XI (XO (XO (XO
+    (XO (XO (XI (XO (XI (XO (XI (XI (XO (XO (XO (XI (XO (XI (XI (XI (XI (XO
+    (XI (XO (XI (XI (XI (XI (XO (XO (XI (XI (XI (XO (XI (XO (XI (XO (XO (XO
+    (XI (XI (XO (XI (XI (XI
+    XH))))))))))))))))))))))))))))))))))))))))))))))))))))))))))))) :: ((Npos
+    (XO (XO (XO (XI (XI (XI (XO (XO (XI (XI (XO (XO (XI (XI (XI (XO (XI (XO
+    (XO (XI (XI (XO (XO (XI (XO (XI (XI (XI (XO (XO (XI (XI (XO (XO (XI (XI
+    (XI (XO (XO (XI (XO (XO (XO (XI (XO (XO (XI (XI (XO (XI (XO (XO (XI (XO
+    (XI (XI (XI (XO (XO
+    XH)))))))))))))))))))))))))))))))))))))))))))))))))))))))))))) :: ((Npos
+    (XI (XO (XI (XO (XO (XI (XO (XO (XI (XI (XO (XO (XO (XO (XO (XO (XI (XI
+    (XI (XO (XO (XI (XO (XO (XI (XO (XO (XI (XO (XI (XI (XI (XO (XI (XO (XO
+    (XO (XI (XI (XI (XO (XI (XI (XO (XO (XI (XO (XI (XI (XO (XI (XI (XI (XI
+    (XO (XI (XI (XI (XI (XO (XO (XO (XI
+    XH)))))))))))))))))))))))))))))))))))))))))))))))))))))))))))))))) :: ((Npos
+    (XO (XO (XO (XI (XI (XO (XI (XI (XI (XI (XI (XO (XI (XO (XI (XI (XI (XO
+    (XI (XI (XO (XI (XI (XI (XO (XO (XO (XO (XO (XI (XI (XI (XO (XI (XO (XO
+    (XI (XI (XO (XI (XI (XI (XO (XI (XO (XO (XI (XI (XI (XI (XO (XO (XI (XO
+    (XI (XI (XO (XI (XI (XI (XI (XI
+    XH))))))))))))))))))))))))))))))))))))))))))))))))))))))))))))))) :: ((Npos
+    (XO (XI (XI (XI (XO (XO (XO (XI (XO (XI (XI (XI (XO (XI (XI (XO (XI (XO
+    (XO (XO (XO (XO (XO (XI (XO (XI (XI (XO (XI (XI (XO (XI (XI (XO (XI (XO
+    (XI (XI (XO (XO (XO (XO (XO (XO (XI (XI (XO (XI (XO (XI (XO (XI (XI (XI
+    (XO (XO (XI (XO (XI (XO (XI (XO
+    XH))))))))))))))))))))))))))))))))))))))))))))))))))))))))))))))) :: ((Npos
+    (XI (XO (XI (XI (XO (XO (XI (XO (XO (XI (XI (XO (XO (XI (XI (XO (XO (XI
+    (XO (XI (XI (XO (XI (XI (XO (XI (XI (XI (XI (XO (XI (XO (XI (XI (XO (XO
+    (XO (XO (XO (XO (XI (XO (XI (XI (XO (XI (XI (XI (XI (XI (XO (XI (XI (XI
+    (XI (XI (XO (XO (XO (XI (XI (XI
+    XH))))))))))))))))))))))))))))))))))))))))))))))))))))))))))))))) :: ((Npos
+    (XI (XI (XO (XI (XO (XO (XO (XO (XO (XO (XI (XI (XO (XO (XO (XI (XI (XO
+    (XI (XO (XO (XI (XI (XI (XI (XO (XO (XI (XO (XO (XI (XI (XI (XI (XO (XI
+    (XO (XO (XO (XO (XO (XO (XI (XO (XI (XI (XI (XO (XI (XI (XI (XI (XI (XI
+    (XO (XO (XO (XO (XO (XO (XI
+    XH)))))))))))))))))))))))))))))))))))))))))))))))))))))))))))))) :: ((Npos
+    (XO (XI (XI (XI (XI (XI (XI (XI (XO (XI (XO (XI (XO (XO (XI (XI (XI (XI
+    (XI (XI (XO (XI (XI (XI (XO (XO (XI (XI (XI (XO (XO (XI (XI (XO (XO (XO
+    (XO (XO (XO (XI (XO (XI (XI (XI (XI (XO (XO (XO (XI (XI (XI (XI (XO (XO
+    (XI (XI (XI (XI (XI (XI (XO (XI (XO
+    XH)))))))))))))))))))))))))))))))))))))))))))))))))))))))))))))))) :: ((Npos
+    (XO (XO (XI (XI (XI (XO (XO (XO (XO (XO (XI (XI (XI (XI (XO (XI (XO (XI
+    (XO (XI (XO (XO (XI (XI (XI (XI (XI (XO (XO (XI (XI (XO (XO (XI (XO (XO
+    (XI (XI (XO (XO (XO (XO (XO (XI (XI (XO (XI (XO (XO (XI (XI (XO (XI (XI
+    (XI (XI (XI (XO (XO (XO (XI (XI (XI
+    XH)))))))))))))))))))))))))))))))))))))))))))))))))))))))))))))))) :: ((Npos
+    (XO (XO (XO (XO (XO (XI (XI (XI (XO (XI (XO (XI (XO (XO (XO (XI (XO (XO
+    (XO (XI (XO (XO (XI (XI (XO (XO (XO (XO (XO (XI (XI (XO (XI (XI (XO (XI
+    (XI (XO (XO (XO (XO (XO (XI (XO (XI (XI (XI (XO (XI (XO (XI (XO (XO (XI
+    (XI (XO (XI (XI (XO (XO (XO
+    XH)))))))))))))))))))))))))))))))))))))))))))))))))))))))))))))) :: ((Npos
+    (XO (XO (XI (XO (XO (XI (XI (XO (XI (XO (XI (XI (XI (XO (XI (XI (XI (XO
+    (XI (XI (XI (XI (XO (XO (XO (XI (XO (XO (XO (XI (XO (XO (XI (XI (XI (XI
+    (XO (XO (XO (XO (XI (XI (XO (XO (XO (XI (XO (XI (XI (XI (XO (XI (XI (XI
+    (XO (XI (XO (XI (XI (XI (XO (XO (XO
+    XH)))))))))))))))))))))))))))))))))))))))))))))))))))))))))))))))) :: ((Npos
+    (XO (XI (XO (XI (XI (XI (XI (XI (XO (XI (XI (XI (XO (XO (XI (XI (XO (XI
+    (XI (XI (XO (XO (XI (XI (XI (XO (XO (XI (XO (XO (XO (XI (XI (XO (XI (XI
+    (XO (XO (XO (XI (XO (XI (XI (XI (XO (XI (XO (XO (XO (XO (XO (XO (XO (XI
+    (XI (XO (XO (XI (XI (XI (XI (XI (XI
+    XH)))))))))))))))))))))))))))))))))))))))))))))))))))))))))))))))) :: ((Npos
+    (XO (XI (XO (XI (XO (XO (XI (XO (XI (XO (XI (XO (XO (XI (XO (XI (XI (XI
+    (XI (XO (XO (XI (XI (XO (XI (XI (XI (XO (XI (XO (XI (XI (XI (XO (XI (XI
+    (XI (XI (XI (XO (XO (XO (XO (XI (XI (XO (XO (XI (XI (XI (XI (XO (XO (XI
+    (XI (XO (XI (XO (XI (XI (XO (XI (XO
+    XH)))))))))))))))))))))))))))))))))))))))))))))))))))))))))))))))) :: ((Npos
+    (XO (XI (XI (XO (XO (XI (XI (XI (XO (XI (XO (XO (XI (XO (XI (XI (XO (XO
+    (XO (XI (XI (XI (XO (XI (XO (XI (XO (XI (XO (XI (XI (XI (XO (XI (XI (XI
+    (XO (XO (XO (XO (XI (XO (XI (XO (XO (XO (XO (XI (XI (XO (XI (XI (XI (XO
+    (XO (XI (XO (XI (XO (XO (XI (XO
+    XH))))))))))))))))))))))))))))))))))))))))))))))))))))))))))))))) :: ((Npos
+    (XI (XI (XI (XO (XO (XI (XO (XI (XI (XI (XO (XI (XI (XO (XI (XI (XO (XI
+    (XO (XI (XO (XI (XO (XI (XO (XO (XO (XI (XI (XI (XO (XI (XI (XO (XO (XI
+    (XI (XI (XO (XI (XI (XI (XI (XI (XI (XI (XI (XO (XI (XO (XI (XI (XI (XI
+    (XO (XO (XO (XI (XI (XO (XI (XO
+    XH))))))))))))))))))))))))))))))))))))))))))))))))))))))))))))))) :: ((Npos
+    (XI (XO (XI (XI (XO (XI (XI (XO (XO (XO (XO (XO (XI (XI (XI (XO (XI (XO
+    (XI (XO (XI (XO (XO (XO (XO (XO (XI (XO (XO (XO (XO (XI (XO (XI (XO (XO
+    (XO (XO (XO (XO (XO (XO (XO (XO (XI (XO (XI (XI (XI (XI (XI (XI (XO (XO
+    (XI (XI (XI (XI (XO (XI (XI (XI
+    XH))))))))))))))))))))))))))))))))))))))))))))))))))))))))))))))) :: ((Npos
+    (XO (XO (XI (XI (XO (XI (XI (XI (XO (XO (XO (XI (XO (XI (XO (XO (XI (XI
+    (XO (XO (XO (XO (XO (XO (XI (XO (XO (XI (XI (XO (XO (XI (XO (XI (XI (XO
+    (XO (XI (XO (XI (XI (XI (XO (XO (XI (XI (XO (XO (XO (XI (XI (XI (XO (XI
+    (XI (XI (XI (XI (XO (XI (XO (XO
+    XH))))))))))))))))))))))))))))))))))))))))))))))))))))))))))))))) :: ((Npos
+    (XO (XO (XO (XI (XO (XO (XI (XO (XO (XI (XI (XO (XO (XI (XO (XO (XO (XO
+    (XO (XI (XO (XO (XO (XO (XI (XO (XO (XI (XI (XO (XO (XI (XI (XI (XI (XI
+    (XI (XI (XO (XI (XO (XI (XI (XO (XO (XI (XI (XO (XO (XO (XI (XO (XI (XO
+    (XO (XO (XO (XI (XO (XO (XI (XO (XI
+    XH)))))))))))))))))))))))))))))))))))))))))))))))))))))))))))))))) :: ((Npos
+    (XI (XI (XI (XO (XI (XI (XI (XI (XI (XI (XI (XI (XO (XI (XO (XO (XO (XO
+    (XO (XO (XI (XI (XI (XO (XO (XI (XO (XI (XI (XI (XI (XI (XI (XO (XI (XO
+    (XI (XO (XO (XI (XI (XO (XI (XO (XO (XI (XO (XI (XI (XI (XI (XO (XI (XI
+    (XI (XO (XI (XO (XO (XI (XO (XI (XO
+    XH)))))))))))))))))))))))))))))))))))))))))))))))))))))))))))))))) :: ((Npos
+    (XI (XI (XO (XI (XI (XI (XO (XO (XI (XI (XI (XI (XI (XO (XI (XI (XO (XO
+    (XO (XI (XO (XO (XO (XI (XI (XI (XI (XO (XO (XI (XO (XO (XO (XO (XO (XI
+    (XO (XI (XI (XO (XI (XI (XI (XO (XO (XI (XO (XI (XO (XO (XI (XI (XO (XI
+    (XI (XI (XO (XO (XO (XO (XI (XI
+    XH))))))))))))))))))))))))))))))))))))))))))))))))))))))))))))))) :: ((Npos
+    (XO (XI (XO (XO (XI (XI (XI (XO (XO (XO (XI (XI (XO (XO (XI (XO (XO (XO
+    (XO (XI (XO (XI (XO (XO (XI (XO (XO (XO (XI (XI (XI (XI (XI (XI (XO (XO
+    (XI (XI (XI (XI (XI (XI (XI (XI (XO (XO (XO (XO (XO (XI (XO (XI (XI (XO
+    (XO (XI (XI (XO (XO (XI (XO (XO (XI
+    XH)))))))))))))))))))))))))))))))))))))))))))))))))))))))))))))))) :: ((Npos
+    (XI (XI (XI (XI (XI (XI (XO (XI (XI (XO (XI (XO (XO (XO (XI (XI (XI (XO
+    (XI (XO (XI (XI (XO (XI (XO (XI (XO (XI (XI (XO (XO (XI (XO (XO (XO (XI
+    (XI (XI (XO (XO (XO (XI (XI (XI (XI (XI (XO (XO (XO (XI (XO (XI (XI (XI
+    (XO (XI (XI (XO (XI (XO (XI
+    XH)))))))))))))))))))))))))))))))))))))))))))))))))))))))))))))) :: ((Npos
+    (XO (XO (XO (XO (XO (XO (XO (XO (XI (XI (XO (XO (XI (XO (XO (XI (XI (XI
+    (XO (XO (XO (XI (XI (XO (XI (XI (XI (XI (XO (XI (XO (XI (XO (XI (XI (XO
+    (XO (XI (XO (XI (XI (XI (XI (XO (XO (XI (XO (XI (XO (XI (XI (XO (XI (XI
+    (XI (XI (XO (XI (XI (XI (XI (XI (XO
+    XH)))))))))))))))))))))))))))))))))))))))))))))))))))))))))))))))) :: ((Npos
+    (XO (XI (XI (XI (XI (XO (XO (XI (XI (XI (XI (XO (XI (XI (XI (XO (XO (XI
+    (XI (XO (XO (XO (XI (XO (XI (XI (XO (XI (XI (XI (XO (XO (XO (XO (XO (XI
+    (XO (XI (XO (XO (XO (XO (XO (XO (XO (XO (XI (XO (XO (XI (XI (XI (XI (XO
+    (XO (XI (XI (XO (XO (XO
+    XH))))))))))))))))))))))))))))))))))))))))))))))))))))))))))))) :: ((Npos
+    (XI (XO (XI (XO (XO (XI (XI (XI (XO (XI (XI (XI (XI (XI (XO (XI (XI (XI
+    (XO (XO (XO (XO (XO (XO (XO (XI (XI (XO (XI (XO (XI (XO (XO (XI (XI (XO
+    (XO (XI (XO (XO (XI (XO (XI (XI (XO (XI (XO (XI (XO (XI (XI (XI (XI (XI
+    (XO (XO (XO
+    XH)))))))))))))))))))))))))))))))))))))))))))))))))))))))))) :: ((Npos
+    (XI (XO (XI (XI (XO (XI (XO (XI (XI (XI (XO (XI (XO (XO (XO (XO (XO (XI
+    (XO (XO (XI (XI (XI (XO (XO (XO (XO (XO (XO (XI (XO (XI (XI (XI (XO (XI
+    (XI (XI (XI (XO (XO (XO (XO (XI (XO (XO (XO (XO (XO (XO (XO (XI (XO (XI
+    (XO (XO (XI (XO (XI (XI
+    XH))))))))))))))))))))))))))))))))))))))))))))))))))))))))))))) :: ((Npos
+    (XI (XO (XO (XI (XI (XI (XO (XI (XO (XI (XI (XO (XO (XI (XO (XO (XO (XI
+    (XI (XO (XI (XI (XI (XI (XO (XO (XO (XO (XO (XI (XO (XI (XO (XI (XI (XO
+    (XO (XO (XO (XO (XO (XO (XO (XO (XO (XI (XI (XI (XO (XI (XO (XI (XO (XO
+    (XI (XO (XI (XO (XI (XI
+    XH))))))))))))))))))))))))))))))))))))))))))))))))))))))))))))) :: ((Npos
+    (XI (XI (XI (XI (XI (XO (XI (XO (XI (XO (XO (XI (XI (XI (XI (XI (XO (XO
+    (XI (XO (XO (XO (XI (XI (XO (XI (XI (XI (XI (XO (XI (XO (XI (XO (XI (XI
+    (XO (XO (XI (XO (XO (XI (XO (XI (XI (XO (XI (XO (XI (XO (XI (XI (XI (XO
+    (XO (XI (XO (XI (XI (XI (XO (XO (XO
+    XH)))))))))))))))))))))))))))))))))))))))))))))))))))))))))))))))) :: ((Npos
+    (XO (XI (XO (XI (XO (XI (XI (XO (XO (XI (XO (XO (XI (XI (XI (XO (XO (XI
+    (XI (XO (XO (XO (XI (XI (XO (XO (XI (XI (XO (XO (XO (XI (XO (XI (XI (XO
+    (XI (XI (XO (XO (XI (XO (XO (XI (XI (XI (XO (XO (XO (XO (XI (XO (XI (XO
+    (XI (XI (XO (XO (XI (XI (XO (XO (XI
+    XH)))))))))))))))))))))))))))))))))))))))))))))))))))))))))))))))) :: ((Npos
+    (XI (XO (XO (XO (XO (XO (XI (XO (XO (XI (XI (XO (XO (XO (XI (XI (XI (XO
+    (XO (XO (XI (XO (XO (XI (XI (XO (XI (XO (XI (XI (XO (XO (XO (XO (XO (XO
+    (XI (XI (XI (XO (XI (XO (XI (XI (XI (XI (XI (XI (XI (XO (XI (XO (XO (XI
+    (XI (XO (XO (XO (XI (XO (XI (XO (XI
+    XH)))))))))))))))))))))))))))))))))))))))))))))))))))))))))))))))) :: ((Npos
+    (XO (XO (XI (XO (XI (XI (XO (XO (XI (XO (XI (XI (XI (XI (XO (XO (XI (XO
+    (XO (XO (XO (XI (XO (XO (XO (XI (XI (XI (XI (XI (XO (XI (XO (XI (XO (XO
+    (XI (XO (XI (XO (XI (XO (XO (XO (XI (XI (XI (XI (XO (XO (XO (XO (XO (XI
+    (XI (XO (XI (XO (XI (XO (XO (XI (XI
+    XH)))))))))))))))))))))))))))))))))))))))))))))))))))))))))))))))) :: ((Npos
+    (XO (XI (XI (XO (XI (XI (XI (XO (XO (XI (XO (XI (XO (XI (XO (XO (XI (XO
+    (XI (XO (XO (XO (XO (XO (XO (XI (XI (XI (XO (XI (XI (XI (XO (XI (XO (XO
+    (XI (XI (XI (XO (XO (XI (XO (XI (XO (XI (XI (XI (XO (XO (XO (XO (XO (XO
+    (XI (XI (XI (XO (XO (XI (XI (XI (XI
+    XH)))))))))))))))))))))))))))))))))))))))))))))))))))))))))))))))) :: ((Npos
+    (XO (XO (XO (XI (XO (XO (XI (XI (XO (XI (XO (XO (XI (XO (XO (XI (XI (XI
+    (XO (XI (XI (XO (XO (XO (XO (XI (XI (XI (XI (XI (XO (XI (XO (XI (XO (XO
+    (XO (XO (XI (XO (XO (XI (XO (XI (XO (XI (XI (XI (XO (XI (XO (XO (XI (XO
+    (XI (XI (XO (XI (XO (XO (XO (XO
+    XH))))))))))))))))))))))))))))))))))))))))))))))))))))))))))))))) :: ((Npos
+    (XI (XO (XI (XO (XO (XI (XO (XI (XO (XI (XI (XI (XO (XO (XO (XI (XI (XI
+    (XO (XO (XI (XI (XI (XO (XI (XI (XI (XO (XI (XO (XO (XI (XO (XI (XI (XI
+    (XI (XI (XI (XO (XI (XI (XO (XO (XO (XO (XO (XI (XO (XI (XO (XI (XI (XO
+    (XI (XI (XI (XI (XO (XI (XO (XO
+    XH))))))))))))))))))))))))))))))))))))))))))))))))))))))))))))))) :: ((Npos
+    (XO (XO (XI (XI (XI (XO (XO (XO (XI (XO (XO (XI (XO (XI (XI (XI (XO (XI
+    (XO (XI (XI (XI (XO (XI (XI (XO (XO (XO (XI (XI (XI (XO (XO (XO (XO (XI
+    (XO (XO (XI (XI (XO (XO (XO (XI (XO (XI (XO (XI (XO (XI (XO (XI (XO (XO
+    (XI (XI (XO (XI (XI (XI (XO (XI
+    XH))))))))))))))))))))))))))))))))))))))))))))))))))))))))))))))) :: ((Npos
+    (XO (XO (XI (XI (XI (XO (XO (XO (XO (XO (XO (XI (XO (XO (XO (XO (XI (XI
+    (XI (XO (XO (XI (XI (XI (XO (XO (XO (XO (XO (XO (XI (XO (XO (XI (XO (XO
+    (XI (XO (XO (XI (XI (XI (XO (XI (XI (XO (XO (XO (XO (XO (XI (XO (XI (XO
+    (XI (XO (XI (XO (XO (XO (XO (XO (XI
+    XH)))))))))))))))))))))))))))))))))))))))))))))))))))))))))))))))) :: ((Npos
+    (XO (XI (XI (XO (XI (XI (XO (XI (XO (XI (XI (XI (XI (XO (XO (XI (XO (XI
+    (XO (XI (XO (XI (XI (XI (XI (XI (XI (XI (XO (XO (XI (XO (XI (XI (XI (XI
+    (XO (XO (XO (XI (XI (XI (XO (XO (XI (XO (XI (XO (XO (XI (XI (XO (XI (XI
+    (XI (XI (XO (XO (XI (XO
+    XH))))))))))))))))))))))))))))))))))))))))))))))))))))))))))))) :: ((Npos
+    (XO (XI (XI (XI (XI (XI (XI (XO (XI (XO (XI (XO (XI (XI (XO (XO (XI (XI
+    (XO (XI (XI (XI (XO (XO (XI (XO (XO (XO (XI (XO (XO (XI (XI (XI (XI (XO
+    (XI (XO (XO (XO (XO (XO (XI (XI (XO (XO (XO (XI (XO (XI (XI (XO (XI (XI
+    (XO (XO (XO (XI (XI (XO
+    XH))))))))))))))))))))))))))))))))))))))))))))))))))))))))))))) :: ((Npos
+    (XO (XO (XI (XO (XI (XI (XI (XO (XI (XO (XI (XI (XI (XI (XI (XI (XO (XO
+    (XO (XI (XO (XI (XO (XO (XO (XI (XO (XI (XI (XI (XO (XO (XO (XO (XI (XO
+    (XO (XI (XO (XI (XI (XI (XO (XO (XI (XO (XO (XI (XO (XI (XO (XI (XO (XI
+    (XI (XO (XO (XO (XI (XO (XO (XI (XI
+    XH)))))))))))))))))))))))))))))))))))))))))))))))))))))))))))))))) :: ((Npos
+    (XO (XO (XO (XO (XI (XO (XO (XO (XO (XI (XO (XI (XI (XI (XO (XO (XO (XI
+    (XI (XI (XO (XI (XO (XO (XO (XI (XO (XO (XI (XI (XI (XO (XI (XO (XI (XO
+    (XO (XI (XI (XI (XO (XO (XI (XI (XO (XO (XI (XI (XI (XO (XI (XI (XO (XI
+    (XO (XO (XO (XI (XI (XI (XI (XO (XO
+    XH)))))))))))))))))))))))))))))))))))))))))))))))))))))))))))))))) :: ((Npos
+    (XI (XI (XI (XO (XO (XO (XO (XO (XI (XI (XO (XI (XI (XO (XO (XO (XO (XI
+    (XI (XI (XO (XO (XO (XO (XO (XO (XO (XI (XI (XI (XO (XO (XI (XO (XI (XI
+    (XO (XO (XI (XO (XI (XI (XO (XO (XO (XO (XI (XI (XI (XI (XI (XO (XI (XI
+    (XO (XI (XI (XI (XO (XI (XO (XI
+    XH))))))))))))))))))))))))))))))))))))))))))))))))))))))))))))))) :: ((Npos
+    (XI (XO (XO (XI (XO (XO (XO (XO (XI (XO (XI (XO (XI (XO (XI (XO (XO (XO
+    (XO (XO (XI (XI (XI (XI (XO (XO (XI (XI (XI (XI (XI (XO (XI (XI (XI (XO
+    (XO (XI (XI (XO (XI (XI (XI (XO (XO (XO (XI (XO (XI (XO (XI (XO (XO (XO
+    (XI (XO (XI (XI (XO (XI (XO (XO (XO
+    XH)))))))))))))))))))))))))))))))))))))))))))))))))))))))))))))))) :: ((Npos
+    (XO (XO (XO (XO (XI (XI (XI (XO (XO (XO (XO (XI (XO (XO (XO (XI (XO (XO
+    (XI (XO (XO (XO (XI (XO (XO (XI (XI (XO (XI (XI (XO (XI (XI (XI (XI (XI
+    (XI (XO (XI (XO (XO (XO (XI (XI (XI (XO (XO (XO (XO (XI (XI (XI (XO (XI
+    (XO (XI (XO (XI (XO (XI (XO (XO (XO
+    XH)))))))))))))))))))))))))))))))))))))))))))))))))))))))))))))))) :: ((Npos
+    (XI (XI (XI (XI (XO (XO (XO (XI (XO (XO (XO (XO (XI (XO (XI (XO (XO (XI
+    (XO (XI (XO (XI (XI (XI (XO (XO (XI (XI (XO (XO (XI (XO (XI (XO (XI (XO
+    (XI (XI (XO (XO (XO (XO (XI (XI (XO (XO (XI (XI (XI (XI (XI (XI (XI (XI
+    (XI (XI (XI (XO (XO (XI (XI (XI
+    XH))))))))))))))))))))))))))))))))))))))))))))))))))))))))))))))) :: ((Npos
+    (XO (XI (XO (XO (XI (XO (XI (XO (XI (XO (XO (XO (XI (XO (XO (XI (XI (XI
+    (XO (XO (XO (XO (XO (XI (XI (XI (XO (XO (XO (XO (XO (XI (XO (XO (XO (XO
+    (XI (XI (XO (XI (XO (XO (XO (XI (XI (XO (XO (XI (XO (XO (XI (XO (XO (XI
+    (XI (XI (XI (XI (XO (XI (XO
+    XH)))))))))))))))))))))))))))))))))))))))))))))))))))))))))))))) :: ((Npos
+    (XI (XI (XI (XI (XO (XO (XO (XO (XI (XO (XO (XO (XO (XO (XI (XO (XO (XI
+    (XI (XO (XI (XI (XO (XI (XO (XI (XO (XI (XI (XO (XO (XI (XO (XO (XO (XO
+    (XO (XO (XO (XI (XO (XI (XI (XO (XO (XO (XI (XO (XI (XO (XO (XI (XO (XO
+    (XI (XO (XI (XO (XO (XI
+    XH))))))))))))))))))))))))))))))))))))))))))))))))))))))))))))) :: ((Npos
+    (XI (XO (XO (XI (XO (XI (XO (XI (XI (XI (XO (XO (XI (XI (XO (XO (XI (XO
+    (XI (XI (XO (XO (XI (XO (XI (XO (XO (XI (XI (XI (XI (XI (XO (XI (XO (XI
+    (XI (XI (XO (XI (XO (XI (XO (XO (XI (XO (XI (XI (XI (XI (XO (XO (XO (XO
+    (XO (XI (XO (XO (XI (XO
+    XH))))))))))))))))))))))))))))))))))))))))))))))))))))))))))))) :: ((Npos
+    (XI (XI (XI (XI (XI (XO (XI (XI (XI (XI (XO (XI (XI (XI (XO (XO (XI (XI
+    (XI (XO (XO (XO (XO (XI (XO (XI (XI (XI (XI (XO (XI (XO (XO (XI (XO (XI
+    (XO (XI (XI (XO (XO (XI (XI (XO (XI (XO (XO (XI (XI (XI (XI (XI (XI (XI
+    (XO (XO (XI (XO (XO (XO (XO (XI (XO
+    XH)))))))))))))))))))))))))))))))))))))))))))))))))))))))))))))))) :: ((Npos
+    (XO (XO (XO (XI (XI (XI (XO (XO (XO (XO (XO (XI (XO (XI (XI (XI (XO (XI
+    (XO (XI (XO (XI (XO (XO (XI (XO (XO (XI (XI (XO (XO (XI (XI (XI (XO (XO
+    (XI (XI (XO (XO (XO (XO (XO (XI (XO (XO (XO (XI (XI (XO (XI (XO (XO (XO
+    (XO (XI (XI (XO (XI (XO (XO (XI (XI
+    XH)))))))))))))))))))))))))))))))))))))))))))))))))))))))))))))))) :: ((Npos
+    (XI (XI (XO (XI (XI (XO (XO (XO (XO (XI (XI (XO (XI (XO (XI (XO (XO (XI
+    (XI (XO (XI (XI (XO (XO (XO (XO (XO (XI (XO (XI (XO (XO (XI (XI (XI (XO
+    (XI (XI (XO (XO (XO (XO (XO (XO (XO (XI (XO (XO (XO (XI (XI (XO (XO (XO
+    (XO (XI (XI (XI (XO (XO (XO (XO
+    XH))))))))))))))))))))))))))))))))))))))))))))))))))))))))))))))) :: ((Npos
+    (XO (XO (XI (XI (XI (XO (XI (XI (XO (XO (XI (XO (XI (XO (XO (XO (XI (XO
+    (XO (XO (XI (XO (XI (XI (XO (XI (XO (XO (XO (XO (XO (XO (XO (XO (XI (XI
+    (XO (XI (XI (XI (XO (XO (XO (XI (XO (XO (XI (XO (XI (XI (XO (XI (XI (XO
+    (XI (XO (XI (XI (XI (XO
+    XH))))))))))))))))))))))))))))))))))))))))))))))))))))))))))))) :: ((Npos
+    (XO (XO (XO (XO (XO (XI (XO (XI (XI (XI (XO (XI (XI (XI (XO (XI (XO (XI
+    (XO (XO (XI (XI (XO (XI (XO (XI (XO (XO (XI (XI (XI (XI (XO (XO (XO (XO
+    (XO (XI (XI (XO (XO (XO (XI (XO (XI (XI (XO (XO (XO (XI (XO (XI (XI (XO
+    (XI (XI (XI (XO (XI (XI (XO
+    XH)))))))))))))))))))))))))))))))))))))))))))))))))))))))))))))) :: ((Npos
+    (XO (XI (XI (XO (XI (XO (XI (XO (XO (XO (XO (XI (XO (XO (XO (XO (XO (XI
+    (XI (XI (XO (XI (XI (XO (XI (XO (XI (XI (XO (XO (XO (XO (XO (XO (XI (XO
+    (XO (XI (XO (XI (XO (XI (XO (XO (XI (XI (XO (XO (XO (XO (XI (XO (XO (XO
+    (XO (XO (XO (XO (XI (XO (XI
+    XH)))))))))))))))))))))))))))))))))))))))))))))))))))))))))))))) :: ((Npos
+    (XI (XO (XI (XI (XO (XO (XO (XO (XI (XI (XI (XI (XI (XI (XI (XI (XO (XI
+    (XI (XI (XO (XO (XO (XO (XI (XI (XI (XO (XO (XO (XI (XI (XO (XO (XI (XO
+    (XI (XI (XO (XO (XI (XO (XO (XI (XI (XO (XI (XI (XO (XO (XI (XI (XI (XO
+    (XI (XI (XO (XI (XI (XI (XI (XO
+    XH))))))))))))))))))))))))))))))))))))))))))))))))))))))))))))))) :: ((Npos
+    (XI (XI (XO (XO (XO (XI (XO (XO (XO (XI (XO (XO (XO (XO (XO (XO (XO (XI
+    (XI (XO (XO (XI (XI (XO (XI (XO (XI (XI (XI (XO (XO (XI (XI (XO (XO (XO
+    (XI (XI (XO (XI (XI (XI (XI (XO (XI (XO (XO (XO (XI (XO (XO (XO (XO (XO
+    (XO (XI (XO (XO (XO (XI (XI (XO
+    XH))))))))))))))))))))))))))))))))))))))))))))))))))))))))))))))) :: ((Npos
+    (XI (XO (XI (XO (XI (XO (XO (XO (XO (XI (XO (XO (XO (XI (XI (XO (XO (XO
+    (XO (XO (XI (XI (XO (XO (XO (XO (XO (XO (XI (XO (XI (XO (XI (XI (XO (XO
+    (XI (XO (XI (XO (XI (XO (XI (XO (XI (XO (XO (XI (XI (XO (XI (XO (XI (XO
+    (XO (XO (XO (XO (XO (XO
+    XH))))))))))))))))))))))))))))))))))))))))))))))))))))))))))))) :: ((Npos
+    (XO (XI (XI (XO (XO (XO (XI (XO (XO (XO (XO (XO (XO (XI (XO (XI (XO (XI
+    (XO (XI (XO (XI (XO (XI (XI (XI (XO (XO (XI (XO (XI (XO (XI (XO (XO (XO
+    (XI (XI (XO (XO (XO (XI (XO (XI (XO (XO (XI (XO (XI (XI (XI (XI (XO (XI
+    (XI (XI (XO (XO (XI (XI (XO (XI (XO
+    XH)))))))))))))))))))))))))))))))))))))))))))))))))))))))))))))))) :: ((Npos
+    (XO (XI (XI (XI (XO (XI (XO (XI (XO (XI (XI (XI (XO (XO (XO (XI (XI (XO
+    (XO (XO (XI (XO (XI (XI (XO (XO (XI (XI (XI (XI (XO (XO (XO (XO (XI (XO
+    (XI (XI (XI (XO (XI (XI (XI (XO (XI (XI (XO (XI (XI (XI (XI (XO (XO (XI
+    (XI (XI (XO (XO (XO
+    XH)))))))))))))))))))))))))))))))))))))))))))))))))))))))))))) :: ((Npos
+    (XI (XO (XO (XO (XI (XI (XO (XO (XO (XO (XO (XO (XO (XI (XO (XI (XO (XI
+    (XO (XI (XI (XI (XI (XI (XO (XO (XI (XO (XO (XO (XO (XI (XO (XO (XO (XO
+    (XI (XO (XO (XO (XI (XI (XI (XO (XO (XO (XI (XO (XI (XO (XI (XO (XO (XI
+    (XI (XO (XO (XI (XI (XO (XI (XO (XI
+    XH)))))))))))))))))))))))))))))))))))))))))))))))))))))))))))))))) :: ((Npos
+    (XI (XO (XI (XI (XI (XI (XI (XO (XO (XI (XO (XI (XO (XI (XI (XO (XI (XI
+    (XI (XO (XO (XO (XO (XI (XI (XI (XO (XO (XO (XI (XI (XI (XO (XI (XO (XI
+    (XI (XI (XO (XI (XO (XO (XO (XI (XI (XI (XI (XO (XI (XO (XO (XI (XI (XI
+    (XO (XI (XI (XI (XO (XO (XO (XO (XI
+    XH)))))))))))))))))))))))))))))))))))))))))))))))))))))))))))))))) :: ((Npos
+    (XO (XI (XO (XO (XI (XO (XI (XI (XI (XI (XI (XI (XO (XO (XO (XO (XO (XI
+    (XI (XO (XO (XO (XI (XI (XI (XI (XO (XI (XI (XI (XI (XI (XO (XO (XO (XI
+    (XO (XI (XI (XI (XI (XI (XI (XI (XI (XI (XI (XO (XI (XI (XO (XI (XO (XO
+    (XI (XO (XI (XI (XO (XO (XO
+    XH)))))))))))))))))))))))))))))))))))))))))))))))))))))))))))))) :: ((Npos
+    (XI (XI (XI (XI (XI (XO (XI (XI (XO (XI (XO (XI (XI (XI (XI (XO (XO (XO
+    (XI (XI (XI (XO (XO (XI (XI (XO (XI (XI (XI (XI (XO (XO (XI (XI (XI (XO
+    (XO (XO (XI (XO (XI (XI (XO (XI (XI (XI (XO (XO (XO (XO (XI (XO (XI (XI
+    (XO (XO (XO (XO (XI (XO (XI (XO (XI
+    XH)))))))))))))))))))))))))))))))))))))))))))))))))))))))))))))))) :: ((Npos
+    (XO (XO (XO (XO (XO (XI (XO (XO (XO (XI (XO (XI (XI (XI (XI (XO (XO (XI
+    (XO (XI (XI (XO (XO (XI (XI (XI (XI (XO (XO (XI (XI (XO (XI (XO (XI (XI
+    (XO (XO (XI (XI (XI (XO (XO (XO (XI (XO (XI (XI (XI (XI (XO (XI (XI (XO
+    (XI (XI (XO (XI (XI (XO (XI (XI (XO
+    XH)))))))))))))))))))))))))))))))))))))))))))))))))))))))))))))))) :: ((Npos
+    (XI (XI (XI (XO (XO (XI (XO (XI (XO (XI (XI (XO (XI (XO (XI (XI (XO (XI
+    (XI (XI (XI (XI (XI (XI (XO (XI (XI (XI (XO (XI (XO (XI (XI (XI (XI (XO
+    (XI (XI (XO (XI (XI (XO (XO (XI (XI (XO (XO (XO (XO (XI (XO (XI (XI (XI
+    (XO (XO (XI (XO
+    XH))))))))))))))))))))))))))))))))))))))))))))))))))))))))))) :: ((Npos
+    (XO (XI (XO (XI (XO (XO (XI (XI (XI (XO (XO (XI (XI (XO (XO (XO (XI (XI
+    (XO (XI (XI (XI (XO (XO (XO (XO (XO (XI (XO (XO (XO (XO (XI (XO (XI (XI
+    (XO (XO (XI (XO (XI (XI (XI (XO (XI (XO (XO (XO (XI (XO (XO (XO (XO (XI
+    (XO (XI (XO (XI (XO (XI (XI (XO (XO
+    XH)))))))))))))))))))))))))))))))))))))))))))))))))))))))))))))))) :: ((Npos
+    (XO (XI (XI (XO (XO (XI (XI (XI (XI (XO (XO (XI (XI (XI (XO (XI (XO (XI
+    (XO (XO (XI (XO (XI (XO (XI (XI (XI (XO (XO (XI (XO (XI (XO (XO (XI (XI
+    (XO (XO (XI (XI (XI (XI (XO (XO (XO (XO (XO (XI (XI (XI (XO (XI (XI (XO
+    (XI (XI (XO (XO (XO (XO (XI (XO
+    XH))))))))))))))))))))))))))))))))))))))))))))))))))))))))))))))) :: ((Npos
+    (XO (XI (XO (XO (XI (XO (XO (XO (XI (XI (XI (XO (XO (XI (XO (XO (XO (XI
+    (XO (XI (XI (XI (XI (XI (XI (XI (XO (XO (XI (XO (XO (XI (XI (XO (XO (XI
+    (XI (XI (XI (XO (XI (XO (XI (XO (XO (XI (XO (XI (XO (XI (XI (XO (XO (XI
+    (XO (XO (XI (XO (XI (XI (XI (XI (XO
+    XH)))))))))))))))))))))))))))))))))))))))))))))))))))))))))))))))) :: ((Npos
+    (XI (XO (XO (XI (XI (XO (XO (XO (XI (XI (XI (XI (XI (XI (XI (XO (XO (XO
+    (XI (XO (XO (XO (XI (XI (XI (XO (XO (XI (XI (XO (XI (XI (XI (XO (XO (XO
+    (XO (XO (XI (XI (XI (XO (XI (XI (XO (XI (XI (XO (XO (XO (XO (XI (XO (XO
+    (XO (XO (XO (XI (XI (XO (XO (XI (XI
+    XH)))))))))))))))))))))))))))))))))))))))))))))))))))))))))))))))) :: ((Npos
+    (XO (XI (XO (XI (XO (XI (XI (XO (XI (XI (XI (XO (XI (XI (XI (XI (XO (XI
+    (XI (XI (XI (XI (XO (XO (XO (XI (XI (XI (XI (XO (XO (XI (XI (XI (XO (XO
+    (XO (XI (XI (XO (XO (XI (XO (XO (XI (XO (XO (XO (XO (XI (XI (XI (XI (XI
+    (XI (XI (XO (XO (XO (XI (XO (XO (XI
+    XH)))))))))))))))))))))))))))))))))))))))))))))))))))))))))))))))) :: ((Npos
+    (XO (XI (XO (XI (XI (XO (XI (XI (XI (XI (XO (XO (XI (XO (XO (XO (XO (XO
+    (XI (XI (XO (XO (XI (XI (XO (XO (XO (XI (XI (XI (XO (XO (XI (XO (XI (XI
+    (XO (XO (XI (XO (XO (XI (XO (XO (XO (XO (XI (XO (XI (XI (XO (XO (XI (XO
+    (XI (XI (XI (XO (XO (XI (XI (XO
+    XH))))))))))))))))))))))))))))))))))))))))))))))))))))))))))))))) :: ((Npos
+    (XO (XI (XI (XI (XI (XI (XI (XO (XO (XO (XI (XI (XI (XO (XI (XI (XI (XO
+    (XO (XI (XI (XO (XI (XO (XO (XO (XO (XI (XI (XI (XO (XI (XO (XI (XI (XO
+    (XI (XO (XI (XI (XI (XI (XO (XI (XI (XO (XO (XO (XO (XI (XO (XO (XO (XI
+    (XO (XO (XO (XI (XO (XO (XO (XI (XO
+    XH)))))))))))))))))))))))))))))))))))))))))))))))))))))))))))))))) :: ((Npos
+    (XI (XO (XO (XO (XO (XO (XO (XI (XO (XI (XI (XO (XI (XI (XO (XI (XI (XO
+    (XO (XO (XO (XO (XO (XI (XO (XO (XO (XO (XO (XI (XO (XI (XO (XO (XI (XO
+    (XO (XO (XO (XI (XI (XI (XO (XO (XO (XI (XO (XO (XI (XO (XI (XO (XI (XO
+    (XO (XI (XO (XO (XI (XO (XO (XO (XI
+    XH)))))))))))))))))))))))))))))))))))))))))))))))))))))))))))))))) :: ((Npos
+    (XI (XI (XO (XI (XO (XI (XO (XO (XI (XO (XI (XO (XO (XO (XO (XI (XO (XO
+    (XO (XI (XO (XI (XO (XI (XI (XI (XI (XO (XO (XI (XI (XI (XI (XO (XO (XI
+    (XO (XO (XI (XO (XI (XO (XI (XI (XI (XI (XI (XI (XI (XI (XO (XI (XI (XI
+    (XI (XO (XI (XI (XO (XO (XO
+    XH)))))))))))))))))))))))))))))))))))))))))))))))))))))))))))))) :: ((Npos
+    (XI (XI (XI (XO (XO (XO (XI (XI (XO (XO (XO (XI (XO (XO (XI (XI (XI (XI
+    (XO (XO (XI (XO (XO (XO (XO (XO (XI (XI (XI (XI (XO (XI (XO (XI (XO (XI
+    (XO (XO (XO (XO (XO (XO (XI (XI (XO (XI (XI (XO (XO (XI (XI (XI (XO (XO
+    (XI (XO (XO (XO (XI (XI (XO (XO
+    XH))))))))))))))))))))))))))))))))))))))))))))))))))))))))))))))) :: ((Npos
+    (XO (XI (XI (XO (XI (XO (XI (XO (XI (XO (XO (XO (XI (XO (XO (XO (XO (XI
+    (XO (XI (XO (XI (XO (XO (XO (XI (XI (XO (XO (XO (XO (XI (XO (XI (XO (XI
+    (XI (XI (XO (XO (XO (XO (XO (XI (XO (XI (XO (XI (XO (XI (XO (XO (XO (XO
+    (XO (XO (XO (XI (XI (XI (XI (XI (XI
+    XH)))))))))))))))))))))))))))))))))))))))))))))))))))))))))))))))) :: ((Npos
+    (XI (XI (XI (XO (XI (XO (XI (XI (XI (XI (XO (XI (XO (XO (XI (XO (XI (XI
+    (XO (XI (XO (XI (XI (XO (XI (XI (XO (XI (XO (XO (XI (XI (XO (XI (XO (XO
+    (XO (XO (XI (XI (XI (XI (XO (XI (XI (XI (XI (XI (XO (XI (XI (XO (XI (XI
+    (XO (XI (XO (XI (XI (XO
+    XH))))))))))))))))))))))))))))))))))))))))))))))))))))))))))))) :: ((Npos
+    (XI (XO (XO (XO (XI (XO (XI (XI (XI (XO (XO (XI (XO (XO (XI (XO (XO (XO
+    (XI (XI (XO (XI (XI (XO (XI (XO (XO (XI (XI (XI (XO (XO (XO (XI (XI (XO
+    (XI (XI (XO (XO (XO (XI (XI (XI (XO (XI (XI (XI (XO (XI (XO (XO (XI (XI
+    (XO (XI (XO (XO (XI (XO (XO
+    XH)))))))))))))))))))))))))))))))))))))))))))))))))))))))))))))) :: ((Npos
+    (XO (XO (XI (XO (XI (XO (XO (XO (XO (XI (XO (XI (XO (XI (XI (XO (XO (XI
+    (XO (XO (XO (XI (XO (XI (XI (XI (XI (XO (XO (XO (XI (XO (XI (XO (XI (XI
+    (XO (XI (XI (XO (XI (XO (XO (XO (XO (XI (XI (XO (XI (XI (XO (XO (XO (XI
+    (XO (XI (XI (XI (XI (XO (XI (XO
+    XH))))))))))))))))))))))))))))))))))))))))))))))))))))))))))))))) :: ((Npos
+    (XI (XI (XO (XO (XI (XO (XO (XO (XO (XI (XI (XO (XO (XO (XI (XI (XO (XI
+    (XO (XO (XO (XI (XO (XI (XI (XI (XO (XI (XI (XI (XI (XI (XO (XI (XI (XI
+    (XI (XI (XO (XI (XI (XI (XO (XO (XO (XI (XI (XI (XI (XO (XO (XO (XO (XI
+    (XO (XI (XI (XO (XI (XO (XI (XO (XI
+    XH)))))))))))))))))))))))))))))))))))))))))))))))))))))))))))))))) :: ((Npos
+    (XI (XO (XO (XI (XI (XI (XO (XI (XO (XO (XI (XO (XO (XI (XI (XI (XO (XI
+    (XO (XO (XO (XI (XI (XO (XO (XI (XO (XI (XI (XO (XO (XO (XI (XO (XO (XO
+    (XO (XI (XO (XI (XI (XI (XO (XI (XO (XO (XI (XO (XI (XO (XO (XO (XO (XO
+    (XI (XO (XI (XI (XI (XI (XO (XI
+    XH))))))))))))))))))))))))))))))))))))))))))))))))))))))))))))))) :: ((Npos
+    (XI (XI (XO (XO (XO (XO (XO (XI (XO (XI (XI (XI (XO (XO (XO (XO (XI (XO
+    (XI (XI (XO (XO (XI (XO (XO (XI (XO (XO (XI (XI (XI (XO (XI (XO (XO (XI
+    (XI (XI (XO (XI (XI (XO (XI (XI (XO (XI (XO (XI (XO (XI (XO (XO (XI (XO
+    (XO (XI (XO (XO (XI (XI (XO (XO (XI
+    XH)))))))))))))))))))))))))))))))))))))))))))))))))))))))))))))))) :: ((Npos
+    (XO (XO (XO (XI (XO (XI (XI (XO (XI (XO (XO (XO (XO (XO (XI (XO (XI (XI
+    (XO (XI (XI (XI (XI (XI (XI (XO (XO (XO (XO (XI (XO (XO (XO (XI (XI (XI
+    (XI (XI (XO (XO (XI (XI (XI (XO (XI (XI (XO (XI (XI (XI (XO (XI (XI (XI
+    (XI (XI (XI (XI (XO (XI
+    XH))))))))))))))))))))))))))))))))))))))))))))))))))))))))))))) :: ((Npos
+    (XO (XI (XO (XI (XI (XO (XO (XO (XO (XI (XO (XI (XI (XO (XI (XO (XO (XO
+    (XI (XI (XO (XI (XI (XO (XI (XI (XO (XO (XI (XO (XO (XI (XO (XO (XO (XI
+    (XI (XO (XO (XI (XI (XO (XO (XO (XI (XO (XO (XI (XI (XI (XI (XO (XO (XI
+    (XO (XI (XO (XO (XO (XI (XO (XI (XO
+    XH)))))))))))))))))))))))))))))))))))))))))))))))))))))))))))))))) :: ((Npos
+    (XI (XI (XI (XI (XI (XO (XO (XO (XI (XI (XI (XI (XO (XO (XI (XI (XO (XI
+    (XI (XO (XO (XO (XI (XI (XI (XI (XI (XI (XI (XO (XI (XI (XO (XI (XI (XI
+    (XI (XI (XI (XI (XO (XO (XI (XI (XI (XO (XI (XI (XI (XO (XI (XO (XI (XI
+    (XI (XO (XO (XI (XI (XI (XO (XI (XO
+    XH)))))))))))))))))))))))))))))))))))))))))))))))))))))))))))))))) :: ((Npos
+    (XI (XO (XO (XI (XO (XI (XO (XO (XI (XI (XI (XO (XI (XI (XO (XI (XI (XO
+    (XI (XO (XO (XI (XI (XO (XI (XI (XI (XO (XO (XO (XO (XO (XI (XI (XI (XO
+    (XO (XI (XO (XI (XO (XI (XO (XO (XI (XO (XO (XI (XO (XI (XO (XI (XI (XO
+    (XO (XO (XI (XI (XO (XO (XO (XI
+    XH))))))))))))))))))))))))))))))))))))))))))))))))))))))))))))))) :: ((Npos
+    (XI (XO (XO (XO (XO (XI (XI (XO (XO (XO (XO (XO (XO (XO (XO (XI (XI (XI
+    (XO (XO (XI (XI (XI (XO (XO (XI (XI (XI (XI (XI (XI (XI (XI (XI (XI (XI
+    (XO (XO (XO (XI (XO (XO (XO (XI (XO (XI (XI (XO (XO (XI (XO (XI (XI (XI
+    (XO (XI (XI (XO (XI (XO (XI (XO
+    XH))))))))))))))))))))))))))))))))))))))))))))))))))))))))))))))) :: ((Npos
+    (XO (XO (XO (XI (XI (XO (XO (XI (XO (XI (XO (XO (XO (XO (XI (XI (XO (XI
+    (XO (XO (XO (XO (XI (XI (XI (XI (XO (XI (XI (XI (XO (XI (XI (XI (XO (XO
+    (XI (XI (XO (XO (XO (XI (XO (XO (XI (XO (XI (XI (XO (XO (XI (XO (XO (XO
+    (XI (XO (XI (XI (XO (XO (XO (XI (XO
+    XH)))))))))))))))))))))))))))))))))))))))))))))))))))))))))))))))) :: ((Npos
+    (XO (XO (XO (XI (XO (XI (XI (XI (XI (XO (XI (XI (XI (XI (XI (XO (XO (XI
+    (XO (XO (XI (XI (XO (XI (XI (XI (XO (XO (XO (XI (XI (XI (XI (XO (XO (XI
+    (XO (XO (XI (XO (XI (XI (XI (XO (XI (XO (XO (XI (XI (XI (XO (XO (XO (XI
+    (XI (XI (XO (XO (XI (XO (XO (XO (XO
+    XH)))))))))))))))))))))))))))))))))))))))))))))))))))))))))))))))) :: ((Npos
+    (XO (XO (XI (XI (XI (XO (XI (XO (XO (XI (XI (XO (XO (XI (XI (XI (XI (XO
+    (XI (XI (XI (XI (XO (XO (XO (XI (XI (XO (XI (XI (XI (XI (XO (XI (XO (XO
+    (XO (XO (XO (XI (XO (XI (XO (XI (XO (XI (XO (XI (XI (XI (XI (XO (XO (XO
+    (XO (XO (XI (XO (XI (XI (XO (XO (XO
+    XH)))))))))))))))))))))))))))))))))))))))))))))))))))))))))))))))) :: ((Npos
+    (XO (XI (XI (XI (XO (XO (XO (XO (XO (XO (XO (XI (XO (XI (XI (XI (XI (XO
+    (XO (XI (XO (XO (XI (XI (XO (XO (XI (XO (XI (XO (XO (XI (XI (XI (XO (XI
+    (XI (XI (XO (XI (XI (XI (XO (XI (XI (XI (XO (XO (XO (XI (XO (XI (XO (XI
+    (XO (XO (XI (XO (XI (XI (XO (XO (XI
+    XH)))))))))))))))))))))))))))))))))))))))))))))))))))))))))))))))) :: ((Npos
+    (XO (XI (XI (XI (XO (XO (XO (XI (XO (XO (XO (XI (XI (XO (XI (XI (XI (XO
+    (XO (XI (XO (XI (XO (XI (XO (XO (XO (XI (XI (XO (XO (XI (XO (XI (XO (XI
+    (XO (XO (XI (XI (XO (XI (XI (XI (XO (XO (XO (XO (XI (XO (XI (XI (XI (XI
+    (XI (XO (XO (XO (XI (XI (XO (XO (XI
+    XH)))))))))))))))))))))))))))))))))))))))))))))))))))))))))))))))) :: ((Npos
+    (XI (XI (XO (XO (XI (XO (XI (XI (XO (XO (XI (XI (XO (XI (XI (XO (XO (XI
+    (XO (XO (XI (XI (XO (XO (XI (XI (XO (XO (XO (XO (XI (XI (XI (XO (XO (XO
+    (XI (XO (XI (XI (XO (XI (XI (XO (XI (XO (XO (XI (XI (XI (XI (XI (XO (XO
+    (XI (XO (XO (XI (XI (XO (XI
+    XH)))))))))))))))))))))))))))))))))))))))))))))))))))))))))))))) :: ((Npos
+    (XI (XO (XI (XI (XI (XI (XI (XI (XO (XI (XI (XI (XO (XI (XO (XO (XO (XO
+    (XO (XI (XO (XI (XI (XO (XI (XI (XI (XI (XO (XO (XI (XI (XO (XI (XI (XI
+    (XO (XO (XO (XO (XI (XO (XO (XO (XI (XI (XO (XI (XO (XO (XO (XI (XI (XI
+    (XO (XI (XI (XI (XO (XI (XO
+    XH)))))))))))))))))))))))))))))))))))))))))))))))))))))))))))))) :: ((Npos
+    (XO (XI (XI (XO (XI (XO (XI (XI (XI (XI (XI (XI (XO (XI (XI (XO (XI (XI
+    (XO (XO (XO (XI (XI (XI (XI (XI (XO (XI (XI (XI (XI (XO (XI (XI (XO (XO
+    (XO (XI (XI (XI (XO (XI (XI (XO (XO (XI (XO (XI (XO (XI (XI (XO (XO (XI
+    (XO (XO (XO (XO (XO (XI (XO (XI
+    XH))))))))))))))))))))))))))))))))))))))))))))))))))))))))))))))) :: ((Npos
+    (XI (XI (XO (XI (XO (XO (XI (XI (XI (XI (XI (XO (XI (XO (XO (XI (XI (XI
+    (XO (XO (XO (XO (XI (XI (XI (XI (XI (XI (XI (XI (XI (XI (XI (XI (XO (XI
+    (XO (XO (XI (XO (XO (XI (XO (XI (XI (XO (XI (XI (XI (XO (XI (XO (XO (XO
+    (XO (XI (XI (XI (XI (XI (XO (XO (XO
+    XH)))))))))))))))))))))))))))))))))))))))))))))))))))))))))))))))) :: ((Npos
+    (XI (XO (XI (XI (XI (XO (XO (XO (XI (XI (XI (XO (XO (XI (XO (XO (XO (XO
+    (XI (XI (XO (XI (XI (XI (XO (XO (XO (XI (XO (XO (XI (XI (XI (XI (XI (XI
+    (XI (XI (XO (XI (XI (XI (XO (XO (XI (XO (XO (XO (XI (XO (XO (XI (XI (XI
+    (XI (XO (XO (XO (XO (XI (XO
+    XH)))))))))))))))))))))))))))))))))))))))))))))))))))))))))))))) :: ((Npos
+    (XI (XI (XO (XI (XO (XI (XO (XI (XI (XI (XO (XO (XI (XO (XI (XO (XO (XO
+    (XI (XI (XI (XI (XI (XO (XO (XI (XI (XO (XI (XO (XI (XO (XI (XO (XI (XI
+    (XI (XO (XO (XO (XO (XI (XO (XO (XI (XI (XI (XO (XO (XO (XO (XO (XI (XI
+    (XO (XO (XI (XI (XI (XI (XI
+    XH)))))))))))))))))))))))))))))))))))))))))))))))))))))))))))))) :: ((Npos
+    (XO (XO (XI (XI (XO (XO (XO (XO (XO (XI (XO (XO (XO (XI (XI (XI (XO (XI
+    (XI (XI (XO (XI (XI (XO (XO (XI (XO (XO (XI (XO (XI (XO (XI (XO (XO (XO
+    (XO (XO (XI (XI (XI (XI (XO (XI (XO (XO (XO (XO (XO (XO (XI (XO (XO (XI
+    (XO (XI (XI (XI (XI (XO (XO (XI
+    XH))))))))))))))))))))))))))))))))))))))))))))))))))))))))))))))) :: ((Npos
+    (XI (XO (XI (XI (XI (XO (XI (XI (XI (XO (XI (XI (XI (XI (XO (XI (XI (XI
+    (XI (XI (XO (XI (XI (XI (XO (XI (XI (XI (XI (XI (XO (XO (XI (XO (XO (XO
+    (XI (XI (XI (XI (XO (XO (XO (XI (XO (XO (XI (XO (XI (XO (XO (XO (XO (XI
+    (XO (XO (XI (XO (XO (XI (XI (XO
+    XH))))))))))))))))))))))))))))))))))))))))))))))))))))))))))))))) :: ((Npos
+    (XI (XI (XI (XI (XI (XO (XO (XI (XI (XO (XI (XI (XI (XO (XI (XO (XO (XI
+    (XI (XO (XO (XI (XI (XO (XI (XI (XO (XO (XI (XO (XO (XO (XO (XI (XI (XO
+    (XI (XI (XO (XI (XO (XI (XO (XI (XI (XI (XI (XO (XO (XO (XI (XO (XI (XO
+    (XI (XO (XI (XI (XO (XI (XI (XO
+    XH))))))))))))))))))))))))))))))))))))))))))))))))))))))))))))))) :: ((Npos
+    (XI (XO (XO (XO (XO (XI (XO (XO (XO (XI (XO (XO (XI (XI (XO (XO (XO (XO
+    (XO (XI (XI (XO (XO (XO (XO (XO (XI (XI (XI (XI (XO (XO (XO (XO (XO (XI
+    (XI (XI (XO (XO (XI (XO (XO (XI (XO (XO (XO (XO (XO (XI (XO (XO (XO (XO
+    (XI (XO (XO (XO (XI (XI
+    XH))))))))))))))))))))))))))))))))))))))))))))))))))))))))))))) :: ((Npos
+    (XO (XO (XO (XO (XI (XI (XO (XO (XO (XO (XO (XO (XO (XO (XO (XI (XI (XO
+    (XO (XO (XO (XO (XI (XI (XI (XI (XO (XI (XI (XI (XO (XO (XI (XO (XO (XI
+    (XI (XI (XI (XI (XI (XO (XO (XO (XO (XO (XI (XO (XI (XI (XO (XO (XI (XO
+    (XI (XO (XI (XI (XI (XO (XO (XI (XI
+    XH)))))))))))))))))))))))))))))))))))))))))))))))))))))))))))))))) :: ((Npos
+    (XI (XI (XO (XI (XI (XO (XI (XI (XI (XO (XO (XO (XI (XO (XO (XI (XO (XI
+    (XO (XO (XI (XI (XI (XI (XI (XI (XO (XI (XO (XO (XO (XI (XI (XI (XO (XI
+    (XI (XO (XO (XI (XO (XO (XO (XO (XI (XI (XO (XI (XO (XI (XI (XO (XO (XO
+    (XI (XO (XO (XI (XO (XO (XI (XI
+    XH))))))))))))))))))))))))))))))))))))))))))))))))))))))))))))))) :: ((Npos
+    (XI (XO (XI (XO (XI (XI (XO (XI (XO (XI (XI (XI (XI (XO (XI (XO (XO (XO
+    (XO (XI (XI (XI (XO (XO (XI (XO (XO (XI (XO (XO (XI (XI (XO (XI (XO (XO
+    (XO (XO (XI (XI (XI (XI (XO (XI (XO (XI (XO (XO (XI (XI (XO (XI (XO (XO
+    (XI (XO (XI (XO (XO (XO (XO (XO (XO
+    XH)))))))))))))))))))))))))))))))))))))))))))))))))))))))))))))))) :: ((Npos
+    (XO (XI (XO (XO (XO (XI (XO (XI (XO (XO (XI (XI (XO (XI (XO (XO (XI (XO
+    (XI (XI (XO (XO (XO (XO (XI (XO (XI (XO (XI (XI (XO (XI (XI (XO (XI (XO
+    (XO (XI (XI (XI (XI (XI (XO (XI (XO (XI (XI (XI (XO (XI (XO (XI (XO (XO
+    (XO (XO (XI (XI (XO (XI (XO (XO (XI
+    XH)))))))))))))))))))))))))))))))))))))))))))))))))))))))))))))))) :: ((Npos
+    (XO (XO (XI (XI (XI (XO (XO (XI (XO (XI (XI (XO (XO (XO (XO (XO (XI (XI
+    (XI (XO (XI (XI (XO (XO (XI (XI (XI (XI (XO (XI (XO (XO (XO (XI (XI (XI
+    (XO (XO (XO (XO (XI (XI (XO (XO (XO (XO (XI (XI (XI (XI (XO (XI (XI (XI
+    (XO (XO (XO (XO (XO (XI (XI
+    XH)))))))))))))))))))))))))))))))))))))))))))))))))))))))))))))) :: ((Npos
+    (XI (XI (XO (XO (XO (XO (XI (XO (XO (XI (XO (XI (XO (XO (XI (XI (XO (XI
+    (XO (XI (XO (XO (XI (XO (XO (XO (XO (XO (XO (XI (XO (XO (XI (XO (XO (XO
+    (XO (XO (XO (XI (XO (XI (XO (XI (XI (XI (XO (XO (XO (XI (XO (XO (XI (XI
+    (XO (XI (XI (XI (XO (XI
+    XH))))))))))))))))))))))))))))))))))))))))))))))))))))))))))))) :: ((Npos
+    (XI (XO (XO (XI (XI (XO (XO (XO (XI (XO (XO (XO (XO (XO (XI (XO (XI (XI
+    (XO (XO (XO (XO (XI (XI (XI (XO (XO (XI (XI (XO (XO (XO (XO (XO (XI (XO
+    (XO (XO (XI (XI (XI (XI (XI (XI (XO (XI (XI (XO (XO (XO (XO (XO (XO (XI
+    (XO (XO (XO (XO (XO (XI (XI
+    XH)))))))))))))))))))))))))))))))))))))))))))))))))))))))))))))) :: ((Npos
+    (XO (XO (XO (XO (XI (XO (XI (XI (XO (XO (XI (XO (XO (XI (XO (XI (XI (XI
+    (XO (XO (XI (XI (XO (XO (XI (XO (XI (XI (XO (XO (XO (XI (XO (XI (XO (XI
+    (XO (XI (XI (XO (XI (XI (XI (XI (XO (XI (XO (XI (XO (XI (XO (XI (XI (XO
+    (XI (XO (XI (XI (XO (XO (XO (XO (XO
+    XH)))))))))))))))))))))))))))))))))))))))))))))))))))))))))))))))) :: ((Npos
+    (XO (XO (XO (XI (XI (XO (XI (XI (XO (XO (XI (XO (XO (XO (XO (XO (XO (XO
+    (XO (XO (XO (XO (XO (XO (XO (XO (XO (XO (XO (XI (XI (XO (XI (XI (XI (XO
+    (XI (XO (XI (XI (XO (XI (XI (XI (XO (XO (XO (XO (XO (XI (XO (XI (XO (XO
+    (XO (XI (XI (XI (XI (XI (XI (XI (XI
+    XH)))))))))))))))))))))))))))))))))))))))))))))))))))))))))))))))) :: ((Npos
+    (XI (XI (XI (XI (XI (XO (XI (XI (XO (XI (XI (XO (XO (XO (XI (XI (XI (XI
+    (XI (XO (XI (XO (XI (XI (XI (XI (XI (XO (XO (XI (XI (XI (XO (XO (XO (XO
+    (XI (XI (XO (XI (XI (XO (XI (XO (XO (XO (XO (XO (XO (XI (XO (XI (XO (XO
+    (XI (XO (XI (XO (XI (XO (XO (XO (XI
+    XH)))))))))))))))))))))))))))))))))))))))))))))))))))))))))))))))) :: ((Npos
+    (XO (XO (XI (XO (XO (XI (XI (XO (XI (XI (XO (XO (XO (XI (XO (XI (XO (XI
+    (XI (XI (XO (XI (XO (XO (XO (XO (XO (XI (XO (XO (XI (XI (XI (XO (XI (XI
+    (XI (XI (XI (XI (XI (XO (XI (XI (XI (XI (XO (XO (XO (XO (XI (XI (XO (XI
+    (XI (XO (XI
+    XH)))))))))))))))))))))))))))))))))))))))))))))))))))))))))) :: ((Npos
+    (XO (XO (XO (XO (XI (XI (XO (XO (XI (XO (XO (XI (XO (XO (XO (XI (XO (XI
+    (XI (XI (XO (XO (XI (XO (XI (XI (XI (XI (XI (XI (XO (XO (XO (XO (XI (XI
+    (XO (XO (XI (XO (XO (XO (XI (XO (XO (XI (XO (XI (XI (XI (XI (XO (XO (XI
+    (XI (XO (XI (XO (XO (XI (XO (XO
+    XH))))))))))))))))))))))))))))))))))))))))))))))))))))))))))))))) :: ((Npos
+    (XI (XO (XI (XO (XI (XI (XO (XO (XI (XI (XI (XI (XO (XI (XO (XI (XO (XI
+    (XI (XO (XO (XO (XO (XO (XO (XO (XO (XI (XO (XI (XO (XI (XO (XI (XI (XI
+    (XI (XO (XO (XI (XI (XI (XI (XI (XI (XI (XI (XO (XI (XI (XO (XI (XO (XO
+    (XO (XO (XO (XI (XO (XO (XI (XI (XO
+    XH)))))))))))))))))))))))))))))))))))))))))))))))))))))))))))))))) :: ((Npos
+    (XI (XI (XO (XO (XO (XO (XO (XO (XI (XO (XO (XO (XI (XO (XI (XI (XO (XO
+    (XO (XO (XI (XI (XI (XI (XI (XO (XI (XI (XI (XI (XI (XO (XI (XI (XO (XI
+    (XI (XI (XI (XO (XO (XO (XO (XI (XI (XI (XI (XO (XI (XO (XO (XO (XO (XO
+    (XO (XO (XI (XO (XI (XI (XO (XI (XI
+    XH)))))))))))))))))))))))))))))))))))))))))))))))))))))))))))))))) :: ((Npos
+    (XO (XO (XI (XI (XO (XI (XO (XO (XO (XI (XI (XI (XI (XI (XI (XO (XO (XO
+    (XO (XO (XI (XI (XI (XO (XI (XO (XO (XI (XI (XI (XO (XO (XI (XO (XI (XI
+    (XO (XI (XO (XI (XO (XO (XI (XO (XI (XO (XO (XI (XO (XO (XI (XI (XI (XO
+    (XO (XI (XI (XO (XI (XO (XI (XI (XI
+    XH)))))))))))))))))))))))))))))))))))))))))))))))))))))))))))))))) :: ((Npos
+    (XI (XO (XI (XO (XO (XO (XO (XI (XI (XO (XI (XI (XI (XI (XI (XO (XO (XO
+    (XO (XI (XO (XO (XO (XO (XI (XO (XO (XI (XI (XI (XO (XO (XO (XO (XI (XO
+    (XO (XI (XO (XO (XI (XI (XI (XI (XI (XO (XO (XI (XO (XO (XI (XI (XO (XO
+    (XI (XO (XI (XI (XO (XI (XO (XI (XO
+    XH)))))))))))))))))))))))))))))))))))))))))))))))))))))))))))))))) :: ((Npos
+    (XO (XO (XI (XO (XO (XO (XI (XO (XI (XO (XI (XO (XO (XI (XO (XO (XI (XI
+    (XO (XO (XI (XO (XI (XI (XI (XI (XI (XO (XI (XO (XI (XI (XI (XO (XI (XI
+    (XI (XO (XI (XI (XI (XI (XO (XO (XO (XI (XO (XO (XO (XO (XO (XO (XI (XI
+    (XO (XI (XI (XI (XI (XO (XI (XO (XO
+    XH)))))))))))))))))))))))))))))))))))))))))))))))))))))))))))))))) :: ((Npos
+    (XO (XO (XO (XI (XI (XI (XO (XI (XO (XI (XI (XO (XO (XI (XO (XI (XO (XO
+    (XI (XO (XI (XO (XO (XO (XO (XI (XI (XI (XI (XO (XI (XI (XO (XI (XI (XI
+    (XI (XI (XI (XI (XO (XO (XI (XI (XI (XO (XI (XI (XI (XO (XI (XI (XI (XO
+    (XO (XI (XO (XI (XO (XI (XO (XI (XI
+    XH)))))))))))))))))))))))))))))))))))))))))))))))))))))))))))))))) :: ((Npos
+    (XI (XI (XI (XO (XI (XI (XI (XI (XI (XI (XO (XO (XO (XI (XI (XI (XI (XI
+    (XI (XO (XI (XI (XI (XO (XI (XI (XO (XO (XI (XI (XI (XO (XO (XO (XO (XO
+    (XI (XO (XO (XI (XI (XO (XI (XI (XI (XO (XI (XO (XO (XI (XI (XO (XO (XO
+    (XI (XI (XI (XI (XO (XI (XO (XI
+    XH))))))))))))))))))))))))))))))))))))))))))))))))))))))))))))))) :: ((Npos
+    (XI (XO (XO (XO (XO (XO (XO (XI (XI (XI (XI (XI (XO (XO (XO (XI (XI (XO
+    (XO (XO (XO (XO (XO (XI (XI (XI (XI (XO (XI (XI (XI (XI (XO (XO (XI (XI
+    (XI (XI (XO (XI (XO (XI (XO (XO (XI (XO (XO (XO (XI (XO (XO (XI (XI (XI
+    (XO (XI (XI (XI (XO (XI (XI
+    XH)))))))))))))))))))))))))))))))))))))))))))))))))))))))))))))) :: ((Npos
+    (XI (XO (XO (XO (XO (XO (XO (XO (XO (XI (XO (XO (XI (XI (XI (XO (XI (XO
+    (XI (XI (XI (XO (XI (XO (XI (XO (XO (XO (XO (XO (XI (XI (XI (XO (XO (XI
+    (XI (XO (XO (XI (XO (XI (XI (XI (XI (XO (XI (XO (XI (XO (XI (XI (XO (XI
+    (XO (XO (XI (XO (XI (XO (XO (XI (XI
+    XH)))))))))))))))))))))))))))))))))))))))))))))))))))))))))))))))) :: ((Npos
+    (XI (XO (XO (XO (XI (XI (XO (XI (XI (XO (XI (XO (XO (XI (XI (XI (XI (XO
+    (XI (XO (XI (XI (XO (XI (XI (XO (XI (XO (XO (XO (XO (XI (XI (XI (XO (XI
+    (XO (XO (XI (XO (XO (XO (XO (XO (XI (XO (XO (XI (XI (XI (XO (XO (XO (XI
+    (XI (XI (XO (XO (XO (XO (XI (XO (XI
+    XH)))))))))))))))))))))))))))))))))))))))))))))))))))))))))))))))) :: ((Npos
+    (XI (XI (XI (XO (XO (XI (XO (XO (XI (XO (XI (XI (XI (XO (XI (XO (XI (XI
+    (XI (XI (XO (XI (XO (XI (XI (XI (XO (XO (XO (XI (XI (XI (XO (XI (XO (XI
+    (XI (XO (XI (XI (XO (XO (XI (XI (XO (XO (XI (XI (XO (XI (XI (XO (XI (XO
+    (XO (XI (XO (XO (XO (XI (XO (XI (XI
+    XH)))))))))))))))))))))))))))))))))))))))))))))))))))))))))))))))) :: ((Npos
+    (XO (XI (XI (XO (XI (XO (XO (XO (XI (XI (XI (XO (XO (XI (XO (XI (XO (XO
+    (XI (XO (XI (XI (XI (XI (XI (XI (XO (XI (XI (XO (XO (XI (XO (XI (XO (XO
+    (XO (XO (XI (XI (XO (XO (XI (XI (XO (XI (XI (XI (XO (XI (XO (XO (XI (XO
+    (XI (XO (XI (XO (XI (XO
+    XH))))))))))))))))))))))))))))))))))))))))))))))))))))))))))))) :: ((Npos
+    (XI (XI (XO (XO (XO (XO (XO (XI (XO (XI (XO (XO (XI (XI (XO (XI (XI (XO
+    (XI (XI (XO (XI (XI (XI (XI (XO (XO (XO (XI (XO (XI (XI (XI (XI (XO (XI
+    (XI (XO (XO (XO (XI (XO (XI (XO (XI (XI (XO (XO (XO (XI (XI (XO (XO (XO
+    (XI (XI (XI (XI (XI (XI (XI (XI (XO
+    XH)))))))))))))))))))))))))))))))))))))))))))))))))))))))))))))))) :: ((Npos
+    (XI (XO (XO (XI (XI (XI (XO (XO (XO (XO (XO (XI (XO (XI (XO (XI (XI (XI
+    (XO (XO (XI (XO (XI (XI (XO (XO (XI (XO (XO (XI (XI (XI (XI (XO (XI (XO
+    (XI (XI (XO (XO (XO (XO (XO (XI (XI (XI (XO (XI (XO (XI (XI (XI (XI (XO
+    (XO (XI (XI (XI (XI (XO (XI (XO (XI
+    XH)))))))))))))))))))))))))))))))))))))))))))))))))))))))))))))))) :: ((Npos
+    (XI (XI (XO (XO (XI (XI (XI (XI (XO (XI (XO (XO (XO (XO (XO (XI (XO (XI
+    (XI (XO (XI (XI (XO (XO (XI (XO (XI (XI (XO (XI (XI (XI (XI (XO (XI (XO
+    (XI (XI (XO (XI (XI (XI (XI (XO (XI (XI (XI (XO (XI (XI (XI (XO (XO (XI
+    (XI (XO (XI (XI (XO (XI (XO (XI
+    XH))))))))))))))))))))))))))))))))))))))))))))))))))))))))))))))) :: ((Npos
+    (XO (XO (XO (XO (XI (XO (XI (XI (XO (XO (XO (XI (XO (XI (XO (XI (XO (XO
+    (XI (XI (XI (XI (XI (XO (XI (XO (XI (XO (XO (XI (XO (XI (XO (XO (XI (XO
+    (XI (XO (XI (XI (XI (XO (XI (XO (XO (XO (XO (XO (XO (XI (XI (XI (XO (XO
+    (XO (XI (XI (XO (XI (XI (XO (XI (XO
+    XH)))))))))))))))))))))))))))))))))))))))))))))))))))))))))))))))) :: ((Npos
+    (XI (XI (XI (XO (XO (XI (XI (XI (XO (XI (XI (XI (XO (XO (XI (XO (XO (XO
+    (XO (XO (XI (XO (XO (XO (XI (XO (XI (XI (XO (XO (XI (XI (XI (XO (XI (XI
+    (XO (XO (XI (XO (XI (XI (XI (XI (XO (XI (XI (XI (XO (XO (XO (XO (XO (XI
+    (XI (XO (XO (XO (XO (XI (XI (XO (XI
+    XH)))))))))))))))))))))))))))))))))))))))))))))))))))))))))))))))) :: ((Npos
+    (XI (XI (XI (XO (XI (XO (XI (XO (XO (XO (XI (XI (XO (XI (XO (XO (XO (XO
+    (XO (XI (XI (XO (XI (XI (XO (XI (XI (XO (XI (XO (XI (XI (XO (XI (XI (XO
+    (XI (XI (XO (XO (XO (XO (XI (XO (XO (XO (XO (XI (XO (XO (XI (XO (XO (XO
+    (XI (XI (XI (XO (XO (XO (XO (XO (XI
+    XH)))))))))))))))))))))))))))))))))))))))))))))))))))))))))))))))) :: ((Npos
+    (XO (XI (XO (XI (XI (XI (XO (XI (XI (XI (XI (XO (XI (XI (XO (XO (XO (XI
+    (XI (XO (XI (XO (XI (XI (XO (XO (XO (XO (XO (XI (XI (XO (XI (XO (XO (XO
+    (XO (XO (XO (XO (XI (XI (XI (XO (XO (XI (XO (XI (XI (XO (XI (XO (XI (XI
+    (XI (XO (XI (XO (XI
+    XH)))))))))))))))))))))))))))))))))))))))))))))))))))))))))))) :: ((Npos
+    (XO (XO (XI (XI (XI (XO (XO (XO (XO (XO (XI (XI (XI (XI (XI (XO (XO (XI
+    (XI (XI (XO (XO (XI (XO (XO (XI (XI (XO (XI (XO (XO (XI (XO (XO (XO (XI
+    (XO (XO (XO (XO (XI (XI (XO (XO (XI (XO (XI (XO (XO (XO (XO (XO (XI (XO
+    (XI (XO (XI (XI (XO (XO (XO (XI (XO
+    XH)))))))))))))))))))))))))))))))))))))))))))))))))))))))))))))))) :: ((Npos
+    (XI (XO (XO (XI (XI (XO (XI (XI (XI (XI (XO (XI (XO (XI (XO (XO (XI (XO
+    (XO (XO (XO (XO (XO (XO (XO (XI (XI (XI (XI (XO (XO (XO (XO (XO (XI (XI
+    (XI (XO (XI (XI (XI (XO (XI (XI (XI (XI (XI (XO (XI (XI (XO (XO (XI (XI
+    (XO (XI (XI (XO (XI (XI (XI (XI (XI
+    XH)))))))))))))))))))))))))))))))))))))))))))))))))))))))))))))))) :: ((Npos
+    (XO (XO (XI (XI (XO (XI (XI (XI (XI (XI (XO (XO (XO (XO (XO (XI (XO (XI
+    (XI (XI (XO (XI (XI (XI (XI (XO (XI (XO (XO (XO (XO (XI (XO (XI (XI (XO
+    (XO (XI (XO (XI (XI (XI (XI (XO (XO (XI (XI (XO (XI (XI (XI (XI (XI (XI
+    (XI (XO (XI (XI (XO (XI (XI (XO (XO
+    XH)))))))))))))))))))))))))))))))))))))))))))))))))))))))))))))))) :: ((Npos
+    (XO (XI (XO (XI (XO (XO (XI (XO (XI (XI (XO (XO (XO (XO (XO (XI (XI (XO
+    (XO (XO (XI (XI (XO (XO (XO (XI (XI (XI (XO (XO (XO (XI (XI (XI (XI (XI
+    (XO (XI (XI (XO (XI (XO (XO (XI (XI (XI (XI (XI (XI (XO (XI (XO (XI (XO
+    (XI (XO (XO (XI (XO (XI (XO (XI (XI
+    XH)))))))))))))))))))))))))))))))))))))))))))))))))))))))))))))))) :: ((Npos
+    (XI (XO (XI (XI (XO (XI (XO (XO (XO (XI (XI (XO (XO (XI (XI (XI (XI (XI
+    (XI (XO (XI (XI (XO (XO (XI (XO (XO (XI (XI (XO (XO (XO (XO (XI (XI (XO
+    (XO (XI (XO (XO (XI (XI (XO (XO (XI (XO (XO (XO (XI (XO (XO (XI (XO (XO
+    (XI (XO (XI (XO (XI (XI (XI (XI
+    XH))))))))))))))))))))))))))))))))))))))))))))))))))))))))))))))) :: ((Npos
+    (XO (XO (XO (XI (XO (XO (XO (XO (XO (XO (XO (XO (XI (XO (XI (XI (XO (XO
+    (XO (XO (XI (XO (XO (XI (XI (XO (XI (XI (XO (XI (XO (XO (XO (XO (XI (XO
+    (XO (XI (XI (XO (XI (XI (XO (XO (XI (XO (XI (XI (XI (XI (XO (XO (XO (XI
+    (XI (XI (XO (XO (XI (XO (XO (XI (XO
+    XH)))))))))))))))))))))))))))))))))))))))))))))))))))))))))))))))) :: ((Npos
+    (XO (XI (XO (XI (XO (XO (XI (XO (XO (XI (XO (XI (XI (XI (XI (XI (XO (XI
+    (XO (XO (XI (XO (XI (XI (XI (XI (XO (XI (XI (XO (XI (XO (XO (XI (XI (XI
+    (XI (XO (XI (XI (XO (XI (XI (XO (XI (XO (XO (XI (XI (XI (XI (XI (XI (XO
+    (XO (XI (XO (XI (XO (XO (XI
+    XH)))))))))))))))))))))))))))))))))))))))))))))))))))))))))))))) :: ((Npos
+    (XI (XI (XO (XI (XI (XO (XI (XO (XI (XO (XO (XI (XI (XO (XO (XO (XO (XI
+    (XO (XI (XI (XO (XO (XO (XI (XI (XO (XI (XI (XO (XI (XO (XI (XO (XI (XI
+    (XI (XI (XI (XI (XI (XO (XO (XI (XO (XO (XI (XO (XO (XO (XO (XI (XO (XO
+    (XI (XI (XI (XI (XO (XI (XO (XI
+    XH))))))))))))))))))))))))))))))))))))))))))))))))))))))))))))))) :: ((Npos
+    (XI (XI (XI (XI (XI (XO (XI (XO (XI (XO (XI (XO (XO (XO (XI (XI (XO (XO
+    (XO (XI (XI (XI (XI (XI (XO (XI (XI (XI (XO (XI (XO (XI (XO (XI (XI (XI
+    (XI (XI (XO (XI (XI (XI (XO (XI (XO (XI (XI (XO (XO (XO (XI (XO (XO (XI
+    (XI (XO (XO (XI (XO (XI (XO (XO (XO
+    XH)))))))))))))))))))))))))))))))))))))))))))))))))))))))))))))))) :: ((Npos
+    (XI (XO (XI (XI (XO (XI (XI (XO (XI (XO (XO (XI (XI (XI (XI (XO (XO (XO
+    (XI (XI (XI (XO (XO (XO (XO (XI (XO (XO (XO (XO (XO (XO (XO (XI (XO (XI
+    (XO (XO (XO (XO (XO (XI (XI (XO (XI (XO (XO (XI (XI (XO (XO (XI (XI (XI
+    (XI (XO (XI (XI (XI (XI (XO (XI
+    XH))))))))))))))))))))))))))))))))))))))))))))))))))))))))))))))) :: ((Npos
+    (XI (XI (XO (XO (XI (XO (XO (XO (XO (XI (XO (XO (XO (XO (XO (XI (XO (XO
+    (XI (XI (XI (XO (XI (XI (XI (XO (XO (XO (XI (XI (XI (XI (XO (XI (XI (XI
+    (XI (XI (XI (XO (XI (XO (XI (XO (XI (XO (XO (XI (XO (XO (XI (XO (XO (XI
+    (XI (XO (XO (XO (XI (XO (XO
+    XH)))))))))))))))))))))))))))))))))))))))))))))))))))))))))))))) :: ((Npos
+    (XO (XI (XI (XI (XO (XO (XI (XO (XO (XI (XI (XI (XI (XI (XI (XO (XO (XO
+    (XO (XO (XO (XI (XO (XO (XI (XO (XI (XI (XO (XO (XO (XI (XO (XO (XI (XI
+    (XI (XO (XI (XI (XO (XO (XO (XI (XO (XO (XO (XO (XO (XO (XI (XO (XI (XI
+    (XI (XO (XI (XI (XI (XO (XI (XI (XI
+    XH)))))))))))))))))))))))))))))))))))))))))))))))))))))))))))))))) :: ((Npos
+    (XI (XO (XI (XI (XI (XO (XO (XO (XI (XI (XI (XI (XO (XI (XO (XI (XI (XO
+    (XO (XI (XO (XO (XI (XO (XO (XI (XO (XO (XI (XI (XI (XO (XO (XI (XO (XI
+    (XI (XO (XO (XI (XI (XO (XO (XO (XI (XO (XI (XI (XO (XI (XI (XI (XI (XO
+    (XO (XO (XO (XO (XO (XO (XI (XI (XI
+    XH)))))))))))))))))))))))))))))))))))))))))))))))))))))))))))))))) :: ((Npos
+    (XI (XI (XI (XI (XO (XO (XO (XI (XI (XO (XI (XO (XO (XI (XI (XI (XI (XI
+    (XI (XO (XI (XO (XI (XI (XO (XI (XO (XI (XO (XO (XO (XO (XI (XO (XI (XO
+    (XO (XI (XI (XI (XI (XI (XI (XI (XO (XO (XI (XO (XI (XI (XO (XI (XI (XO
+    (XI (XI (XI (XI (XI (XO (XO (XI
+    XH))))))))))))))))))))))))))))))))))))))))))))))))))))))))))))))) :: ((Npos
+    (XI (XO (XO (XI (XO (XO (XI (XO (XO (XO (XI (XI (XI (XI (XO (XI (XI (XI
+    (XO (XI (XO (XO (XO (XO (XI (XO (XI (XO (XO (XI (XI (XO (XI (XO (XI (XO
+    (XI (XI (XO (XI (XI (XI (XI (XO (XI (XI (XI (XO (XO (XI (XO (XI (XO (XI
+    (XI (XI (XI (XO (XO (XI
+    XH))))))))))))))))))))))))))))))))))))))))))))))))))))))))))))) :: ((Npos
+    (XO (XO (XO (XO (XI (XI (XI (XO (XI (XI (XI (XO (XO (XO (XO (XI (XI (XO
+    (XO (XO (XI (XI (XI (XI (XI (XI (XI (XI (XO (XO (XO (XO (XI (XO (XI (XO
+    (XO (XI (XI (XI (XO (XI (XO (XO (XO (XI (XI (XO (XI (XO (XO (XI (XI (XO
+    (XO (XI (XI (XI (XI (XI (XO
+    XH)))))))))))))))))))))))))))))))))))))))))))))))))))))))))))))) :: ((Npos
+    (XO (XO (XI (XO (XO (XO (XO (XI (XO (XI (XO (XO (XI (XI (XO (XI (XO (XO
+    (XO (XO (XO (XI (XI (XO (XI (XO (XI (XI (XI (XO (XI (XO (XI (XO (XO (XI
+    (XO (XO (XO (XI (XI (XO (XI (XI (XO (XO (XO (XO (XI (XO (XO (XI (XI (XI
+    (XO (XI (XO (XI (XO (XO (XI (XI (XO
+    XH)))))))))))))))))))))))))))))))))))))))))))))))))))))))))))))))) :: ((Npos
+    (XI (XI (XO (XI (XI (XI (XI (XI (XI (XI (XO (XI (XO (XO (XO (XI (XO (XI
+    (XI (XO (XI (XI (XI (XO (XO (XO (XO (XI (XI (XI (XO (XO (XO (XO (XO (XO
+    (XI (XI (XO (XI (XO (XI (XI (XO (XI (XO (XI (XI (XI (XI (XO (XI (XO (XI
+    (XO (XI (XI (XI (XO (XI (XI
+    XH)))))))))))))))))))))))))))))))))))))))))))))))))))))))))))))) :: ((Npos
+    (XO (XI (XO (XI (XO (XI (XI (XO (XI (XI (XO (XI (XO (XI (XI (XO (XO (XO
+    (XO (XI (XO (XO (XO (XI (XI (XI (XO (XO (XI (XI (XI (XI (XI (XO (XI (XO
+    (XI (XO (XI (XI (XI (XI (XO (XO (XO (XI (XI (XI (XO (XI (XI (XO (XO (XI
+    (XI (XO (XO (XO (XO (XO (XO (XO
+    XH))))))))))))))))))))))))))))))))))))))))))))))))))))))))))))))) :: ((Npos
+    (XO (XO (XO (XI (XO (XO (XO (XI (XI (XI (XO (XO (XI (XO (XI (XO (XO (XI
+    (XO (XO (XI (XI (XI (XO (XO (XO (XI (XI (XO (XO (XI (XO (XI (XO (XI (XI
+    (XO (XI (XO (XI (XO (XI (XO (XI (XI (XI (XI (XI (XO (XI (XO (XI (XI (XI
+    (XO (XO (XO (XO (XI (XI (XO (XI (XO
+    XH)))))))))))))))))))))))))))))))))))))))))))))))))))))))))))))))) :: ((Npos
+    (XI (XI (XI (XI (XI (XO (XO (XO (XO (XI (XI (XI (XI (XO (XI (XI (XI (XO
+    (XI (XI (XO (XO (XO (XI (XI (XO (XO (XO (XI (XO (XI (XI (XI (XO (XI (XO
+    (XO (XO (XI (XI (XO (XI (XO (XI (XI (XO (XI (XO (XO (XO (XI (XI (XI (XI
+    (XI (XI (XI (XO (XI (XI (XI (XI
+    XH))))))))))))))))))))))))))))))))))))))))))))))))))))))))))))))) :: ((Npos
+    (XI (XI (XI (XO (XI (XI (XO (XI (XI (XI (XI (XO (XO (XI (XO (XO (XI (XO
+    (XI (XI (XI (XI (XI (XI (XI (XO (XI (XI (XO (XO (XO (XI (XI (XI (XO (XI
+    (XI (XI (XI (XO (XI (XI (XI (XI (XI (XO (XI (XO (XO (XI (XI (XO (XI (XO
+    (XO (XI (XO (XO (XO (XO (XI (XI
+    XH))))))))))))))))))))))))))))))))))))))))))))))))))))))))))))))) :: ((Npos
+    (XI (XO (XI (XO (XO (XI (XO (XI (XI (XI (XO (XI (XI (XI (XO (XI (XI (XI
+    (XI (XO (XO (XI (XI (XI (XO (XO (XI (XO (XI (XI (XO (XI (XI (XI (XI (XI
+    (XO (XO (XO (XO (XO (XI (XO (XO (XI (XI (XO (XI (XI (XI (XI (XI (XO (XI
+    (XI (XO (XI
+    XH)))))))))))))))))))))))))))))))))))))))))))))))))))))))))) :: ((Npos
+    (XI (XI (XO (XI (XO (XI (XI (XI (XI (XI (XI (XI (XI (XI (XO (XO (XO (XI
+    (XO (XO (XI (XO (XO (XO (XO (XI (XI (XO (XO (XI (XI (XO (XI (XI (XI (XI
+    (XI (XO (XI (XO (XI (XO (XI (XO (XI (XI (XI (XI (XO (XI (XI (XO (XO (XI
+    (XO (XI (XO (XO (XO (XI (XO (XO (XO
+    XH)))))))))))))))))))))))))))))))))))))))))))))))))))))))))))))))) :: ((Npos
+    (XI (XO (XI (XO (XI (XO (XO (XI (XI (XO (XO (XI (XO (XI (XI (XO (XO (XO
+    (XI (XO (XO (XI (XO (XO (XI (XI (XI (XI (XO (XO (XI (XO (XO (XO (XO (XO
+    (XO (XI (XO (XI (XI (XI (XI (XO (XO (XI (XI (XI (XI (XO (XO (XI (XI (XI
+    (XO (XI (XO (XI (XO (XI (XO (XI (XO
+    XH)))))))))))))))))))))))))))))))))))))))))))))))))))))))))))))))) :: ((Npos
+    (XO (XI (XI (XI (XI (XO (XO (XI (XO (XI (XO (XI (XI (XI (XI (XO (XO (XI
+    (XO (XO (XI (XI (XI (XO (XO (XI (XI (XI (XI (XI (XO (XO (XO (XO (XI (XO
+    (XI (XO (XI (XI (XI (XO (XI (XO (XI (XO (XI (XI (XI (XO (XO (XI (XO (XO
+    (XO (XO (XO (XO (XI (XO (XI (XI (XI
+    XH)))))))))))))))))))))))))))))))))))))))))))))))))))))))))))))))) :: ((Npos
+    (XO (XI (XO (XI (XI (XO (XI (XO (XO (XO (XI (XO (XI (XO (XI (XO (XI (XI
+    (XO (XO (XO (XO (XI (XI (XI (XO (XI (XI (XI (XO (XI (XO (XI (XI (XO (XI
+    (XI (XI (XI (XO (XO (XO (XI (XO (XO (XO (XO (XI (XO (XO (XI (XO (XI (XO
+    (XO (XO (XO (XI (XI (XI (XO
+    XH)))))))))))))))))))))))))))))))))))))))))))))))))))))))))))))) :: ((Npos
+    (XI (XO (XO (XI (XO (XO (XO (XI (XO (XO (XO (XI (XI (XI (XO (XO (XO (XI
+    (XI (XI (XI (XO (XO (XI (XI (XO (XI (XO (XO (XO (XO (XO (XO (XO (XI (XO
+    (XI (XI (XI (XO (XO (XI (XO (XI (XO (XI (XI (XI (XO (XO (XO (XI (XI (XO
+    (XI (XI (XO (XI (XI (XI
+    XH))))))))))))))))))))))))))))))))))))))))))))))))))))))))))))) :: ((Npos
+    (XO (XO (XI (XO (XI (XI (XI (XI (XI (XI (XO (XI (XO (XO (XO (XO (XI (XI
+    (XI (XI (XO (XI (XO (XI (XO (XO (XI (XO (XI (XO (XI (XO (XO (XI (XO (XI
+    (XO (XO (XI (XI (XI (XO (XI (XO (XO (XO (XO (XI (XO (XO (XO (XO (XO (XO
+    (XO (XO (XI (XO (XI (XI (XO (XI (XI
+    XH)))))))))))))))))))))))))))))))))))))))))))))))))))))))))))))))) :: ((Npos
+    (XI (XO (XO (XI (XI (XI (XO (XI (XO (XO (XO (XO (XI (XI (XO (XI (XI (XO
+    (XI (XO (XI (XI (XI (XO (XI (XI (XO (XI (XO (XO (XO (XI (XO (XI (XO (XI
+    (XO (XO (XO (XI (XO (XO (XO (XI (XO (XO (XI (XO (XO (XI (XO (XO (XO (XO
+    (XI (XO (XI (XI (XI (XO (XI (XI (XO
+    XH)))))))))))))))))))))))))))))))))))))))))))))))))))))))))))))))) :: ((Npos
+    (XI (XI (XO (XO (XI (XI (XI (XI (XI (XO (XI (XI (XO (XO (XO (XI (XO (XO
+    (XI (XI (XI (XO (XI (XO (XO (XI (XO (XI (XI (XI (XO (XO (XI (XO (XO (XI
+    (XO (XI (XI (XO (XI (XI (XO (XO (XI (XI (XI (XI (XI (XI (XO (XO (XI (XO
+    (XI (XO (XI (XO (XO (XO (XI (XI
+    XH))))))))))))))))))))))))))))))))))))))))))))))))))))))))))))))) :: ((Npos
+    (XI (XO (XO (XI (XI (XI (XO (XI (XO (XI (XI (XO (XO (XI (XO (XI (XO (XI
+    (XO (XO (XI (XI (XI (XO (XO (XO (XO (XI (XO (XO (XI (XI (XI (XI (XI (XO
+    (XI (XI (XI (XO (XO (XO (XI (XI (XO (XI (XI (XO (XO (XO (XO (XO (XI (XI
+    (XI (XO (XI (XI (XO (XO (XI (XO (XO
+    XH)))))))))))))))))))))))))))))))))))))))))))))))))))))))))))))))) :: ((Npos
+    (XI (XI (XO (XO (XO (XI (XI (XI (XI (XI (XO (XI (XI (XO (XO (XO (XI (XI
+    (XI (XI (XI (XO (XO (XI (XI (XO (XI (XI (XI (XO (XO (XI (XI (XI (XI (XO
+    (XO (XO (XI (XI (XO (XI (XI (XO (XO (XI (XI (XI (XI (XI (XI (XI (XO (XI
+    (XO (XI (XI (XI (XO (XI (XO (XI
+    XH))))))))))))))))))))))))))))))))))))))))))))))))))))))))))))))) :: ((Npos
+    (XI (XO (XO (XO (XI (XI (XI (XO (XI (XI (XO (XO (XI (XI (XO (XO (XO (XI
+    (XI (XI (XI (XO (XI (XI (XO (XO (XO (XO (XO (XO (XO (XO (XO (XI (XI (XI
+    (XO (XI (XO (XO (XO (XO (XO (XO (XI (XO (XO (XI (XI (XO (XI (XI (XI (XI
+    (XI (XI (XO (XO (XO (XI (XI (XO
+    XH))))))))))))))))))))))))))))))))))))))))))))))))))))))))))))))) :: ((Npos
+    (XO (XO (XO (XI (XO (XO (XI (XI (XO (XI (XO (XO (XI (XI (XO (XO (XI (XI
+    (XI (XI (XI (XO (XO (XI (XO (XI (XO (XO (XO (XI (XO (XI (XO (XI (XO (XI
+    (XO (XI (XI (XO (XI (XO (XI (XO (XO (XO (XI (XO (XO (XI (XO (XI (XI (XI
+    (XO (XI (XI (XO (XO (XI (XO (XO (XI
+    XH)))))))))))))))))))))))))))))))))))))))))))))))))))))))))))))))) :: ((Npos
+    (XI (XO (XI (XO (XI (XI (XO (XI (XO (XO (XO (XI (XI (XI (XO (XI (XI (XO
+    (XO (XI (XI (XO (XO (XI (XO (XI (XI (XI (XO (XO (XO (XO (XO (XI (XI (XI
+    (XI (XO (XI (XO (XO (XO (XO (XO (XO (XI (XI (XO (XI (XO (XI (XI (XO (XO
+    (XI (XI (XO (XO (XI (XI
+    XH))))))))))))))))))))))))))))))))))))))))))))))))))))))))))))) :: ((Npos
+    (XO (XO (XI (XO (XI (XO (XO (XI (XI (XI (XO (XO (XI (XI (XO (XO (XI (XI
+    (XI (XO (XI (XO (XI (XI (XI (XI (XO (XO (XO (XO (XI (XI (XI (XO (XI (XI
+    (XI (XO (XO (XI (XO (XO (XI (XO (XI (XO (XO (XI (XO (XO (XI (XI (XO (XO
+    (XI (XI (XO (XI (XO (XO (XI (XI
+    XH))))))))))))))))))))))))))))))))))))))))))))))))))))))))))))))) :: ((Npos
+    (XI (XI (XI (XO (XI (XI (XO (XI (XI (XI (XO (XI (XO (XO (XO (XO (XI (XI
+    (XO (XI (XO (XO (XO (XI (XO (XI (XI (XO (XI (XO (XO (XO (XI (XI (XO (XI
+    (XO (XO (XO (XI (XO (XI (XO (XO (XI (XI (XO (XI (XI (XI (XO (XI (XI (XI
+    (XI (XO (XO (XO (XO (XI (XO (XI (XI
+    XH)))))))))))))))))))))))))))))))))))))))))))))))))))))))))))))))) :: ((Npos
+    (XI (XI (XO (XI (XI (XI (XO (XI (XO (XI (XO (XI (XI (XO (XI (XO (XO (XO
+    (XO (XI (XI (XI (XI (XI (XI (XO (XI (XO (XI (XO (XI (XO (XI (XO (XO (XI
+    (XI (XI (XI (XI (XI (XO (XI (XO (XI (XI (XO (XO (XO (XO (XI (XI (XO (XI
+    (XI (XI (XO (XO (XI (XI (XI (XO (XI
+    XH)))))))))))))))))))))))))))))))))))))))))))))))))))))))))))))))) :: ((Npos
+    (XO (XO (XO (XI (XO (XO (XI (XI (XI (XI (XI (XI (XI (XO (XO (XO (XO (XO
+    (XI (XO (XI (XI (XI (XO (XI (XO (XI (XO (XO (XI (XI (XO (XI (XI (XO (XO
+    (XI (XO (XO (XI (XO (XO (XO (XO (XI (XI (XO (XO (XO (XO (XO (XO (XI (XI
+    (XI (XI (XI (XO (XO (XO (XO
+    XH)))))))))))))))))))))))))))))))))))))))))))))))))))))))))))))) :: ((Npos
+    (XI (XO (XI (XO (XI (XI (XI (XI (XI (XO (XO (XI (XI (XI (XO (XO (XI (XI
+    (XO (XO (XI (XO (XI (XI (XO (XI (XO (XI (XI (XO (XI (XO (XI (XO (XO (XI
+    (XO (XI (XI (XO (XO (XO (XO (XI (XI (XO (XO (XO (XI (XO (XI (XI (XO (XI
+    (XI (XO (XO (XI (XI (XI (XO
+    XH)))))))))))))))))))))))))))))))))))))))))))))))))))))))))))))) :: ((Npos
+    (XO (XI (XI (XO (XI (XO (XO (XI (XO (XO (XI (XO (XO (XI (XO (XI (XI (XI
+    (XO (XO (XO (XO (XI (XO (XO (XI (XO (XI (XI (XI (XO (XO (XI (XO (XO (XI
+    (XI (XI (XI (XO (XO (XI (XI (XI (XI (XO (XI (XI (XI (XI (XO (XO (XI (XO
+    (XO (XO (XO (XO (XI (XI (XI (XO (XO
+    XH)))))))))))))))))))))))))))))))))))))))))))))))))))))))))))))))) :: ((Npos
+    (XI (XO (XI (XI (XI (XI (XO (XI (XO (XI (XI (XO (XO (XO (XO (XO (XO (XO
+    (XI (XO (XI (XO (XO (XO (XO (XI (XI (XI (XI (XO (XO (XO (XI (XO (XI (XI
+    (XO (XO (XI (XO (XI (XI (XO (XO (XO (XI (XI (XI (XI (XO (XO (XI (XO (XO
+    (XI (XI (XO (XO (XO (XI (XI (XO (XI
+    XH)))))))))))))))))))))))))))))))))))))))))))))))))))))))))))))))) :: ((Npos
+    (XI (XO (XI (XO (XI (XI (XO (XI (XO (XO (XO (XI (XO (XI (XO (XO (XO (XO
+    (XO (XI (XO (XI (XO (XI (XO (XI (XO (XO (XI (XO (XO (XO (XI (XO (XO (XO
+    (XI (XO (XI (XI (XI (XO (XI (XI (XI (XI (XO (XO (XI (XI (XO (XI (XO (XO
+    (XI (XO (XO (XO (XO (XO (XI (XO (XI
+    XH)))))))))))))))))))))))))))))))))))))))))))))))))))))))))))))))) :: ((Npos
+    (XO (XO (XI (XO (XI (XI (XI (XI (XO (XO (XO (XI (XO (XO (XO (XI (XI (XO
+    (XI (XO (XI (XO (XO (XI (XO (XO (XO (XI (XI (XO (XI (XO (XI (XO (XI (XO
+    (XO (XI (XI (XO (XI (XI (XO (XO (XI (XO (XO (XI (XI (XI (XI (XI (XI (XI
+    (XO (XO (XO (XO (XI (XI (XO (XI
+    XH))))))))))))))))))))))))))))))))))))))))))))))))))))))))))))))) :: ((Npos
+    (XI (XO (XI (XO (XI (XI (XO (XI (XO (XO (XI (XO (XI (XI (XO (XI (XO (XI
+    (XO (XI (XO (XO (XI (XO (XI (XI (XI (XO (XI (XI (XI (XI (XI (XO (XI (XI
+    (XO (XI (XO (XI (XI (XI (XI (XI (XO (XO (XO (XI (XO (XI (XO (XI (XI (XO
+    (XO (XI (XO (XO (XI (XO (XO (XO (XI
+    XH)))))))))))))))))))))))))))))))))))))))))))))))))))))))))))))))) :: ((Npos
+    (XI (XI (XO (XI (XI (XI (XI (XO (XO (XO (XO (XI (XO (XO (XO (XO (XI (XI
+    (XI (XO (XI (XI (XI (XO (XO (XI (XI (XI (XI (XO (XI (XI (XO (XI (XI (XI
+    (XO (XI (XI (XI (XO (XO (XO (XI (XI (XO (XO (XI (XI (XI (XO (XI (XO (XI
+    (XO (XO (XO (XO (XI (XO (XI (XI (XI
+    XH)))))))))))))))))))))))))))))))))))))))))))))))))))))))))))))))) :: ((Npos
+    (XO (XO (XO (XI (XI (XI (XI (XI (XI (XI (XI (XO (XO (XI (XI (XO (XO (XI
+    (XI (XI (XI (XO (XI (XO (XO (XO (XO (XI (XI (XI (XI (XI (XO (XO (XI (XI
+    (XI (XO (XO (XI (XO (XI (XO (XO (XI (XO (XI (XI (XI (XO (XO (XI (XO (XO
+    (XI (XI (XI (XI (XO (XI (XI
+    XH)))))))))))))))))))))))))))))))))))))))))))))))))))))))))))))) :: ((Npos
+    (XI (XI (XI (XO (XO (XO (XI (XI (XO (XO (XO (XI (XO (XO (XO (XO (XO (XO
+    (XI (XI (XI (XO (XI (XI (XO (XO (XO (XI (XO (XO (XO (XI (XI (XI (XO (XO
+    (XI (XO (XO (XI (XI (XI (XI (XO (XI (XO (XI (XO (XI (XO (XO (XI (XO (XO
+    (XO (XO (XI (XI (XO (XO (XO (XI
+    XH))))))))))))))))))))))))))))))))))))))))))))))))))))))))))))))) :: ((Npos
+    (XI (XO (XI (XI (XO (XI (XI (XO (XI (XI (XI (XI (XO (XO (XO (XO (XI (XI
+    (XI (XO (XI (XO (XO (XO (XO (XO (XI (XI (XI (XO (XO (XI (XO (XO (XI (XO
+    (XI (XO (XO (XI (XO (XI (XO (XI (XO (XO (XO (XO (XO (XI (XO (XI (XI (XO
+    (XI (XI (XI (XO (XO (XO (XO (XI (XI
+    XH)))))))))))))))))))))))))))))))))))))))))))))))))))))))))))))))) :: ((Npos
+    (XO (XI (XI (XO (XI (XO (XI (XO (XO (XI (XO (XI (XI (XI (XI (XO (XO (XI
+    (XI (XO (XI (XI (XI (XO (XI (XI (XI (XO (XI (XI (XO (XO (XO (XI (XO (XO
+    (XO (XI (XO (XI (XI (XI (XI (XO (XI (XI (XO (XO (XI (XI (XO (XI (XO (XI
+    (XO (XI (XI (XO (XI (XO (XO (XO
+    XH))))))))))))))))))))))))))))))))))))))))))))))))))))))))))))))) :: ((Npos
+    (XI (XO (XI (XO (XI (XI (XO (XI (XO (XO (XO (XI (XO (XI (XI (XO (XI (XO
+    (XI (XO (XO (XO (XO (XI (XO (XO (XO (XO (XI (XO (XI (XI (XO (XI (XI (XI
+    (XI (XI (XI (XI (XI (XI (XO (XO (XO (XI (XO (XI (XO (XI (XO (XI (XO (XI
+    (XI (XO (XO (XO (XI (XI (XI (XO (XO
+    XH)))))))))))))))))))))))))))))))))))))))))))))))))))))))))))))))) :: ((Npos
+    (XO (XI (XI (XO (XI (XO (XO (XO (XO (XO (XO (XI (XI (XI (XI (XI (XI (XI
+    (XI (XO (XI (XI (XO (XI (XO (XO (XI (XO (XO (XO (XO (XO (XI (XO (XI (XI
+    (XI (XI (XI (XI (XO (XI (XI (XI (XO (XI (XI (XO (XI (XO (XI (XO (XI (XI
+    (XO (XO (XI (XI (XI (XI (XI (XO (XI
+    XH)))))))))))))))))))))))))))))))))))))))))))))))))))))))))))))))) :: ((Npos
+    (XI (XI (XI (XO (XO (XI (XI (XO (XI (XI (XI (XI (XI (XI (XI (XO (XI (XO
+    (XI (XO (XO (XO (XI (XO (XO (XO (XO (XO (XI (XO (XO (XO (XO (XI (XO (XO
+    (XO (XO (XO (XO (XO (XI (XI (XI (XO (XO (XO (XI (XO (XO (XI (XI (XO (XI
+    (XI (XO (XO (XO (XI
+    XH)))))))))))))))))))))))))))))))))))))))))))))))))))))))))))) :: ((Npos
+    (XI (XI (XO (XI (XO (XO (XI (XI (XO (XO (XI (XI (XI (XO (XI (XI (XO (XI
+    (XO (XO (XI (XI (XI (XI (XI (XI (XO (XI (XO (XO (XO (XI (XI (XI (XO (XO
+    (XO (XO (XO (XI (XO (XO (XO (XI (XO (XO (XI (XO (XO (XO (XO (XI (XO (XI
+    (XO (XI (XI (XO (XO (XI (XO (XO (XO
+    XH)))))))))))))))))))))))))))))))))))))))))))))))))))))))))))))))) :: ((Npos
+    (XO (XO (XO (XO (XO (XO (XI (XO (XI (XO (XO (XO (XO (XI (XI (XO (XO (XI
+    (XI (XI (XI (XI (XO (XO (XI (XI (XI (XI (XO (XI (XO (XO (XO (XI (XO (XO
+    (XI (XO (XI (XO (XI (XO (XI (XO (XI (XI (XO (XO (XI (XI (XI (XI (XI (XO
+    (XI (XO (XO (XO (XI (XO (XI (XO (XO
+    XH)))))))))))))))))))))))))))))))))))))))))))))))))))))))))))))))) :: ((Npos
+    (XI (XO (XI (XO (XI (XI (XI (XI (XI (XI (XI (XI (XI (XI (XI (XI (XI (XO
+    (XO (XO (XI (XI (XO (XO (XI (XI (XO (XO (XO (XI (XO (XI (XO (XO (XI (XO
+    (XO (XO (XO (XI (XI (XO (XI (XI (XO (XI (XI (XI (XO (XO (XI (XO (XI (XI
+    (XO (XO (XO (XI (XO (XO
+    XH))))))))))))))))))))))))))))))))))))))))))))))))))))))))))))) :: ((Npos
+    (XI (XO (XI (XO (XI (XI (XO (XI (XO (XI (XO (XO (XI (XO (XO (XO (XO (XI
+    (XO (XO (XO (XO (XO (XI (XO (XI (XO (XO (XI (XO (XI (XO (XO (XO (XI (XO
+    (XO (XO (XI (XI (XI (XO (XI (XI (XI (XO (XO (XI (XO (XO (XI (XO (XI (XO
+    (XI (XI (XI (XI (XO (XI (XO (XI (XO
+    XH)))))))))))))))))))))))))))))))))))))))))))))))))))))))))))))))) :: ((Npos
+    (XO (XI (XO (XI (XI (XI (XO (XO (XO (XI (XI (XO (XO (XI (XI (XI (XO (XO
+    (XI (XI (XO (XI (XI (XO (XI (XI (XI (XI (XO (XI (XO (XI (XI (XO (XI (XI
+    (XO (XI (XI (XO (XI (XI (XI (XI (XI (XO (XO (XO (XI (XO (XO (XI (XI (XO
+    (XI (XI (XI (XO (XO (XO (XI (XI (XO
+    XH)))))))))))))))))))))))))))))))))))))))))))))))))))))))))))))))) :: ((Npos
+    (XO (XO (XO (XI (XO (XO (XI (XI (XO (XI (XI (XI (XI (XO (XO (XO (XI (XI
+    (XI (XI (XO (XI (XI (XI (XI (XO (XI (XO (XO (XI (XO (XO (XI (XO (XI (XI
+    (XO (XI (XO (XO (XI (XI (XI (XO (XO (XI (XO (XI (XI (XO (XO (XO (XI (XO
+    (XI (XI (XO (XI (XI (XO (XI (XO (XO
+    XH)))))))))))))))))))))))))))))))))))))))))))))))))))))))))))))))) :: ((Npos
+    (XI (XI (XI (XO (XI (XO (XO (XO (XI (XI (XO (XO (XO (XI (XI (XO (XO (XO
+    (XI (XO (XO (XO (XO (XO (XO (XI (XI (XO (XI (XI (XI (XI (XO (XI (XO (XI
+    (XI (XI (XI (XI (XO (XI (XO (XI (XI (XI (XO (XO (XI (XO (XI (XI (XI (XO
+    (XO (XI (XO (XO (XO (XI (XO (XO (XI
+    XH)))))))))))))))))))))))))))))))))))))))))))))))))))))))))))))))) :: ((Npos
+    (XO (XI (XO (XI (XO (XO (XO (XO (XO (XI (XO (XI (XI (XO (XO (XI (XO (XO
+    (XI (XI (XO (XI (XO (XI (XO (XI (XI (XO (XO (XO (XI (XO (XO (XI (XI (XO
+    (XO (XO (XO (XO (XI (XI (XO (XO (XI (XO (XI (XO (XI (XI (XO (XO (XI (XO
+    (XO (XO (XI (XO (XI (XI
+    XH))))))))))))))))))))))))))))))))))))))))))))))))))))))))))))) :: ((Npos
+    (XO (XI (XI (XO (XO (XI (XI (XI (XO (XO (XI (XI (XI (XO (XO (XI (XO (XI
+    (XI (XI (XO (XO (XO (XI (XI (XI (XI (XI (XI (XO (XI (XO (XO (XI (XO (XI
+    (XI (XI (XO (XI (XI (XO (XO (XO (XI (XO (XO (XO (XO (XI (XI (XO (XO (XI
+    (XO (XO (XI (XI (XI (XO (XO (XO
+    XH))))))))))))))))))))))))))))))))))))))))))))))))))))))))))))))) :: ((Npos
+    (XI (XO (XO (XO (XO (XO (XI (XO (XI (XI (XI (XI (XO (XI (XO (XO (XI (XI
+    (XO (XI (XI (XO (XI (XO (XI (XI (XI (XO (XI (XI (XI (XI (XI (XO (XI (XO
+    (XO (XI (XO (XO (XO (XO (XO (XO (XI (XI (XI (XI (XI (XO (XO (XI (XI (XO
+    (XO (XI (XI (XO (XO (XO (XI (XO (XO
+    XH)))))))))))))))))))))))))))))))))))))))))))))))))))))))))))))))) :: ((Npos
+    (XI (XO (XO (XI (XO (XI (XI (XO (XI (XI (XI (XI (XI (XO (XO (XI (XO (XI
+    (XI (XO (XO (XO (XI (XO (XI (XO (XI (XI (XI (XO (XO (XO (XI (XO (XO (XO
+    (XI (XO (XI (XO (XI (XO (XO (XO (XO (XI (XI (XO (XO (XO (XI (XI (XI (XI
+    (XO (XI (XO (XI (XO (XO (XI (XO (XI
+    XH)))))))))))))))))))))))))))))))))))))))))))))))))))))))))))))))) :: ((Npos
+    (XO (XI (XO (XO (XI (XO (XI (XI (XO (XI (XI (XI (XI (XI (XI (XO (XO (XI
+    (XI (XO (XI (XI (XO (XI (XI (XI (XO (XO (XO (XO (XO (XO (XI (XO (XI (XO
+    (XI (XI (XI (XI (XO (XI (XI (XO (XI (XO (XI (XI (XI (XO (XI (XO (XI (XI
+    (XO (XI (XO (XO (XO (XI (XI (XI (XO
+    XH)))))))))))))))))))))))))))))))))))))))))))))))))))))))))))))))) :: ((Npos
+    (XO (XO (XO (XO (XI (XI (XI (XO (XI (XO (XO (XI (XI (XI (XI (XI (XO (XO
+    (XI (XO (XO (XO (XI (XO (XO (XI (XO (XI (XO (XO (XO (XI (XI (XI (XI (XO
+    (XO (XI (XI (XO (XO (XO (XO (XI (XO (XO (XO (XO (XO (XI (XI (XI (XI (XO
+    (XI (XO (XI (XO (XO (XO (XI (XI
+    XH))))))))))))))))))))))))))))))))))))))))))))))))))))))))))))))) :: ((Npos
+    (XI (XO (XO (XO (XO (XI (XI (XI (XI (XO (XO (XI (XO (XO (XO (XO (XO (XO
+    (XI (XI (XO (XO (XI (XI (XO (XI (XI (XI (XI (XI (XI (XI (XO (XO (XO (XO
+    (XI (XI (XI (XO (XO (XO (XO (XI (XO (XI (XI (XO (XI (XO (XI (XI (XI (XO
+    (XI (XO (XI (XO (XO (XI (XO (XO
+    XH))))))))))))))))))))))))))))))))))))))))))))))))))))))))))))))) :: ((Npos
+    (XI (XO (XI (XO (XO (XO (XI (XO (XI (XI (XI (XO (XI (XO (XO (XI (XI (XI
+    (XO (XO (XI (XI (XI (XO (XI (XI (XI (XO (XI (XO (XO (XO (XO (XI (XI (XI
+    (XO (XI (XI (XI (XO (XI (XO (XI (XO (XI (XI (XO (XI (XI (XO (XO (XI (XO
+    (XI (XI (XO (XO (XI (XI
+    XH))))))))))))))))))))))))))))))))))))))))))))))))))))))))))))) :: ((Npos
+    (XI (XI (XO (XO (XO (XI (XO (XO (XO (XI (XO (XO (XO (XO (XO (XO (XI (XO
+    (XO (XI (XO (XO (XO (XO (XI (XI (XO (XI (XO (XO (XO (XI (XO (XI (XI (XO
+    (XI (XO (XI (XO (XI (XO (XI (XI (XO (XO (XI (XO (XI (XO (XI (XO (XO (XI
+    (XI (XI (XO (XI (XO (XI (XO (XO (XI
+    XH)))))))))))))))))))))))))))))))))))))))))))))))))))))))))))))))) :: ((Npos
+    (XI (XI (XI (XO (XO (XI (XO (XI (XO (XI (XI (XO (XO (XO (XI (XO (XI (XO
+    (XI (XI (XO (XO (XO (XI (XO (XO (XI (XO (XO (XO (XO (XO (XO (XO (XI (XI
+    (XO (XI (XI (XO (XO (XO (XO (XO (XI (XO (XI (XO (XI (XI (XI (XI (XO (XO
+    (XI (XI (XI (XO (XI (XO (XO
+    XH)))))))))))))))))))))))))))))))))))))))))))))))))))))))))))))) :: ((Npos
+    (XI (XO (XO (XO (XO (XI (XI (XI (XO (XI (XI (XI (XI (XO (XO (XO (XO (XO
+    (XO (XI (XO (XI (XI (XI (XO (XO (XO (XI (XO (XO (XO (XI (XO (XO (XO (XI
+    (XO (XO (XO (XO (XO (XI (XI (XO (XO (XO (XI (XO (XO (XI (XO (XI (XI (XO
+    (XI (XO (XO (XO (XI (XO (XO
+    XH)))))))))))))))))))))))))))))))))))))))))))))))))))))))))))))) :: ((Npos
+    (XI (XI (XI (XI (XI (XO (XO (XI (XO (XI (XI (XI (XO (XI (XI (XO (XO (XI
+    (XO (XI (XI (XO (XI (XI (XI (XO (XI (XO (XO (XO (XO (XO (XO (XI (XO (XI
+    (XO (XI (XI (XO (XO (XO (XI (XI (XO (XI (XI (XO (XO (XI (XO (XI (XO (XO
+    (XO (XI (XO (XI (XI (XI (XO (XO (XO
+    XH)))))))))))))))))))))))))))))))))))))))))))))))))))))))))))))))) :: ((Npos
+    (XI (XI (XI (XI (XI (XO (XO (XO (XO (XI (XI (XI (XO (XI (XI (XI (XI (XI
+    (XI (XO (XI (XO (XO (XI (XI (XI (XI (XI (XO (XI (XI (XI (XI (XO (XO (XO
+    (XO (XI (XO (XO (XI (XI (XO (XI (XO (XI (XO (XO (XI (XO (XO (XO (XO (XO
+    (XO (XO (XO
+    XH)))))))))))))))))))))))))))))))))))))))))))))))))))))))))) :: ((Npos
+    (XI (XI (XI (XI (XO (XO (XO (XO (XO (XI (XI (XI (XI (XI (XO (XI (XO (XI
+    (XI (XO (XI (XO (XO (XO (XI (XO (XI (XI (XI (XO (XO (XI (XO (XI (XI (XO
+    (XO (XO (XO (XI (XO (XO (XI (XO (XI (XO (XO (XO (XI (XO (XO (XO (XO (XO
+    (XO (XI (XI (XO (XI (XO (XO (XI
+    XH))))))))))))))))))))))))))))))))))))))))))))))))))))))))))))))) :: ((Npos
+    (XO (XO (XI (XO (XI (XO (XO (XO (XO (XI (XI (XO (XO (XO (XI (XO (XI (XO
+    (XO (XO (XI (XO (XI (XO (XI (XI (XI (XI (XO (XI (XO (XO (XO (XI (XI (XO
+    (XI (XO (XI (XI (XI (XO (XI (XO (XO (XI (XI (XO (XI (XO (XI (XO (XO (XI
+    (XO (XO (XO (XI (XO (XI (XI (XI (XI
+    XH)))))))))))))))))))))))))))))))))))))))))))))))))))))))))))))))) :: ((Npos
+    (XO (XO (XI (XI (XO (XI (XO (XI (XO (XO (XI (XI (XO (XO (XI (XO (XO (XO
+    (XI (XI (XI (XO (XO (XO (XO (XI (XI (XI (XI (XI (XO (XI (XI (XI (XO (XI
+    (XI (XO (XI (XI (XO (XI (XI (XO (XI (XI (XI (XO (XI (XO (XO (XI (XO (XO
+    (XO (XO (XO (XI (XO (XI (XI (XO (XO
+    XH)))))))))))))))))))))))))))))))))))))))))))))))))))))))))))))))) :: ((Npos
+    (XO (XI (XI (XO (XI (XO (XI (XI (XI (XI (XO (XI (XI (XI (XI (XO (XO (XO
+    (XI (XI (XO (XI (XI (XO (XO (XO (XO (XO (XO (XI (XO (XO (XO (XI (XI (XI
+    (XI (XI (XO (XO (XI (XO (XI (XI (XI (XO (XO (XO (XO (XI (XO (XI (XO (XO
+    (XI (XI (XI (XI (XO (XO (XO (XO (XO
+    XH)))))))))))))))))))))))))))))))))))))))))))))))))))))))))))))))) :: ((Npos
+    (XO (XI (XI (XI (XO (XO (XO (XO (XI (XI (XO (XI (XO (XO (XI (XI (XO (XI
+    (XO (XO (XO (XI (XI (XO (XI (XO (XI (XO (XO (XO (XI (XI (XO (XO (XO (XO
+    (XI (XI (XO (XO (XI (XO (XI (XO (XI (XO (XI (XO (XI (XO (XO (XI (XO (XI
+    (XI (XO (XI
+    XH)))))))))))))))))))))))))))))))))))))))))))))))))))))))))) :: ((Npos
+    (XO (XI (XI (XI (XO (XI (XO (XI (XI (XO (XI (XO (XI (XO (XI (XI (XI (XI
+    (XI (XI (XO (XO (XI (XI (XO (XO (XI (XI (XI (XI (XO (XO (XO (XI (XI (XI
+    (XI (XO (XO (XI (XO (XI (XO (XI (XI (XO (XO (XI (XO (XI (XI (XO (XI (XI
+    (XO (XI (XO (XI (XO (XI (XO (XO
+    XH))))))))))))))))))))))))))))))))))))))))))))))))))))))))))))))) :: ((Npos
+    (XO (XO (XI (XO (XI (XO (XI (XO (XO (XI (XI (XI (XO (XI (XI (XI (XO (XI
+    (XI (XI (XO (XO (XO (XI (XI (XI (XO (XI (XI (XO (XI (XO (XO (XI (XI (XI
+    (XO (XO (XO (XI (XI (XO (XO (XI (XO (XO (XO (XI (XO (XO (XO (XO (XI (XO
+    (XO (XI (XI (XO (XI (XO (XI (XO (XO
+    XH)))))))))))))))))))))))))))))))))))))))))))))))))))))))))))))))) :: ((Npos
+    (XI (XO (XO (XI (XI (XO (XI (XI (XI (XO (XI (XI (XI (XI (XO (XO (XO (XI
+    (XI (XO (XI (XI (XI (XI (XI (XO (XI (XI (XI (XO (XI (XI (XO (XI (XO (XI
+    (XO (XI (XI (XI (XO (XI (XO (XI (XO (XO (XO (XO (XI (XI (XI (XO (XI (XO
+    (XO (XI (XO (XI (XI (XI (XI
+    XH)))))))))))))))))))))))))))))))))))))))))))))))))))))))))))))) :: ((Npos
+    (XI (XO (XI (XO (XO (XI (XI (XO (XI (XO (XI (XI (XI (XI (XI (XO (XO (XI
+    (XI (XO (XI (XO (XI (XO (XO (XO (XI (XO (XO (XI (XO (XO (XO (XI (XI (XI
+    (XO (XI (XO (XI (XI (XI (XO (XI (XI (XO (XI (XO (XI (XI (XO (XO (XI (XO
+    (XI (XO (XI (XI (XO (XO (XI (XI
+    XH))))))))))))))))))))))))))))))))))))))))))))))))))))))))))))))) :: ((Npos
+    (XO (XO (XO (XI (XO (XI (XI (XO (XI (XI (XI (XO (XI (XO (XO (XO (XO (XI
+    (XI (XO (XI (XI (XI (XI (XI (XO (XI (XI (XO (XI (XO (XI (XI (XI (XO (XI
+    (XI (XO (XI (XI (XI (XO (XI (XO (XI (XI (XI (XO (XI (XO (XI (XO (XI (XI
+    (XO (XO (XO (XO (XI (XI (XI (XO
+    XH))))))))))))))))))))))))))))))))))))))))))))))))))))))))))))))) :: ((Npos
+    (XI (XO (XI (XO (XI (XI (XI (XO (XI (XO (XI (XO (XI (XI (XO (XI (XO (XI
+    (XO (XO (XI (XI (XI (XI (XO (XI (XO (XI (XI (XO (XI (XI (XO (XO (XI (XO
+    (XO (XI (XO (XO (XI (XO (XO (XI (XI (XO (XI (XI (XI (XO (XI (XO (XI (XI
+    (XO (XI (XI (XO (XO (XO (XO (XO (XI
+    XH)))))))))))))))))))))))))))))))))))))))))))))))))))))))))))))))) :: ((Npos
+    (XO (XI (XO (XO (XI (XI (XI (XO (XO (XO (XO (XO (XO (XO (XI (XI (XI (XO
+    (XI (XI (XO (XI (XI (XO (XI (XO (XO (XI (XO (XI (XI (XO (XI (XO (XI (XO
+    (XI (XO (XO (XI (XO (XI (XI (XO (XI (XI (XO (XO (XI (XO (XI (XI (XO (XI
+    (XO (XO (XI (XI (XI (XO (XI (XO
+    XH))))))))))))))))))))))))))))))))))))))))))))))))))))))))))))))) :: ((Npos
+    (XI (XO (XI (XO (XO (XO (XO (XI (XO (XI (XI (XO (XO (XI (XO (XO (XO (XI
+    (XO (XO (XO (XI (XO (XI (XO (XO (XO (XO (XI (XO (XI (XI (XO (XI (XI (XI
+    (XI (XI (XI (XO (XI (XO (XO (XI (XO (XI (XO (XI (XI (XO (XO (XI (XI (XO
+    (XO (XO (XO (XI (XI (XO (XI (XI
+    XH))))))))))))))))))))))))))))))))))))))))))))))))))))))))))))))) :: ((Npos
+    (XI (XI (XI (XO (XI (XI (XI (XO (XO (XI (XI (XO (XI (XI (XO (XI (XI (XO
+    (XI (XO (XI (XO (XI (XO (XO (XO (XI (XO (XO (XI (XO (XO (XI (XO (XO (XI
+    (XI (XO (XO (XI (XO (XO (XI (XO (XI (XI (XI (XO (XI (XI (XI (XO (XO (XO
+    (XO (XO (XO (XI (XI (XI (XI (XI (XI
+    XH)))))))))))))))))))))))))))))))))))))))))))))))))))))))))))))))) :: ((Npos
+    (XO (XO (XO (XI (XO (XO (XO (XI (XO (XI (XO (XI (XI (XO (XI (XO (XI (XI
+    (XI (XO (XI (XO (XO (XI (XO (XO (XO (XI (XO (XI (XI (XO (XO (XO (XI (XI
+    (XO (XI (XO (XI (XI (XO (XI (XO (XI (XI (XO (XI (XI (XO (XO (XI (XI (XO
+    (XO (XI (XO (XI (XI (XO (XI (XO
+    XH))))))))))))))))))))))))))))))))))))))))))))))))))))))))))))))) :: ((Npos
+    (XI (XO (XI (XI (XO (XI (XI (XI (XO (XO (XI (XI (XI (XO (XO (XO (XI (XI
+    (XO (XO (XI (XI (XI (XI (XI (XO (XO (XI (XO (XI (XI (XO (XI (XI (XO (XI
+    (XO (XO (XO (XI (XI (XO (XI (XO (XO (XI (XO (XI (XO (XI (XO (XI (XO (XO
+    (XO (XI (XO (XI (XO (XO (XO (XI
+    XH))))))))))))))))))))))))))))))))))))))))))))))))))))))))))))))) :: ((Npos
+    (XI (XO (XO (XI (XI (XO (XO (XI (XI (XI (XO (XO (XO (XI (XI (XI (XI (XI
+    (XO (XO (XI (XO (XO (XO (XO (XI (XO (XI (XI (XO (XI (XI (XO (XI (XI (XO
+    (XI (XI (XO (XI (XI (XO (XI (XI (XI (XO (XO (XI (XI (XO (XO (XI (XO (XI
+    (XI (XO (XO (XI (XI (XO (XO (XO (XI
+    XH)))))))))))))))))))))))))))))))))))))))))))))))))))))))))))))))) :: ((Npos
+    (XO (XI (XI (XI (XI (XI (XO (XI (XO (XI (XI (XI (XI (XO (XI (XI (XO (XO
+    (XI (XI (XO (XO (XI (XO (XI (XI (XO (XO (XO (XI (XO (XI (XI (XI (XI (XI
+    (XO (XO (XO (XO (XI (XO (XO (XO (XI (XI (XO (XI (XO (XI (XO (XI (XO (XI
+    (XI (XO (XO (XO (XO (XO (XI (XI
+    XH))))))))))))))))))))))))))))))))))))))))))))))))))))))))))))))) :: ((Npos
+    (XI (XO (XI (XO (XI (XO (XO (XI (XI (XO (XO (XI (XI (XI (XI (XO (XI (XO
+    (XI (XO (XO (XI (XI (XO (XO (XI (XI (XI (XI (XO (XI (XI (XO (XO (XI (XO
+    (XI (XO (XO (XI (XI (XO (XO (XI (XO (XI (XI (XO (XO (XO (XI (XO (XI (XI
+    (XI (XI (XO (XO (XO (XI (XO (XO (XI
+    XH)))))))))))))))))))))))))))))))))))))))))))))))))))))))))))))))) :: ((Npos
+    (XO (XI (XI (XI (XO (XI (XI (XI (XI (XI (XI (XI (XO (XI (XO (XI (XO (XI
+    (XO (XO (XI (XO (XO (XO (XO (XI (XO (XI (XO (XI (XO (XO (XO (XI (XI (XI
+    (XI (XO (XO (XO (XO (XO (XI (XI (XO (XI (XI (XO (XI (XI (XI (XI (XO (XI
+    (XO (XO (XO (XI (XI (XI
+    XH))))))))))))))))))))))))))))))))))))))))))))))))))))))))))))) :: ((Npos
+    (XI (XO (XO (XI (XI (XO (XI (XI (XO (XI (XO (XO (XI (XI (XO (XI (XO (XO
+    (XO (XO (XI (XO (XO (XI (XO (XI (XI (XI (XO (XI (XO (XO (XI (XI (XO (XI
+    (XO (XO (XI (XO (XI (XI (XI (XO (XI (XI (XI (XI (XI (XI (XO (XO (XO (XI
+    (XO (XI (XO (XI (XI (XI (XI
+    XH)))))))))))))))))))))))))))))))))))))))))))))))))))))))))))))) :: ((Npos
+    (XI (XO (XI (XO (XI (XI (XI (XO (XI (XI (XO (XI (XO (XI (XI (XO (XO (XI
+    (XO (XI (XO (XO (XO (XI (XI (XO (XO (XO (XO (XO (XI (XI (XI (XO (XO (XI
+    (XI (XI (XI (XO (XI (XO (XI (XI (XO (XO (XI (XO (XI (XI (XI (XI (XO (XI
+    (XI (XO (XI (XI (XO (XI (XI (XO
+    XH))))))))))))))))))))))))))))))))))))))))))))))))))))))))))))))) :: ((Npos
+    (XO (XI (XI (XO (XO (XI (XO (XI (XO (XO (XO (XI (XO (XO (XI (XI (XI (XO
+    (XO (XI (XO (XO (XI (XI (XO (XO (XI (XI (XO (XI (XI (XI (XI (XI (XI (XI
+    (XI (XI (XO (XI (XO (XI (XO (XI (XO (XO (XO (XI (XI (XO (XO (XO (XO (XO
+    (XI (XO (XO (XO (XO (XO
+    XH))))))))))))))))))))))))))))))))))))))))))))))))))))))))))))) :: ((Npos
+    (XI (XO (XI (XI (XI (XO (XI (XI (XO (XI (XI (XO (XI (XO (XO (XI (XI (XI
+    (XI (XI (XO (XI (XI (XO (XO (XI (XO (XO (XI (XI (XI (XI (XI (XO (XI (XI
+    (XI (XO (XI (XI (XO (XI (XI (XO (XI (XO (XI (XO (XO (XI (XI (XI (XO (XI
+    (XI (XO (XI (XI (XO (XI (XO (XI (XO
+    XH)))))))))))))))))))))))))))))))))))))))))))))))))))))))))))))))) :: ((Npos
+    (XO (XO (XI (XI (XI (XI (XI (XI (XI (XI (XI (XI (XO (XO (XO (XI (XO (XI
+    (XI (XI (XI (XO (XI (XO (XI (XI (XI (XI (XO (XO (XI (XI (XO (XI (XO (XO
+    (XI (XO (XO (XO (XO (XO (XO (XO (XI (XI (XI (XO (XI (XI (XO (XO (XO (XO
+    (XO (XO (XO (XI (XI (XI (XO (XI (XI
+    XH)))))))))))))))))))))))))))))))))))))))))))))))))))))))))))))))) :: ((Npos
+    (XI (XI (XI (XO (XO (XO (XO (XO (XI (XI (XI (XI (XO (XO (XO (XI (XI (XO
+    (XO (XO (XI (XO (XI (XI (XI (XO (XO (XO (XI (XI (XI (XO (XO (XI (XI (XI
+    (XO (XO (XO (XI (XI (XO (XO (XO (XO (XO (XI (XO (XO (XO (XI (XI (XI (XO
+    (XI (XO (XO (XI (XO (XO (XO (XO (XO
+    XH)))))))))))))))))))))))))))))))))))))))))))))))))))))))))))))))) :: ((Npos
+    (XI (XO (XO (XO (XI (XO (XI (XI (XI (XO (XO (XI (XO (XO (XO (XI (XO (XI
+    (XO (XO (XI (XI (XO (XI (XO (XO (XO (XI (XI (XI (XO (XO (XO (XO (XO (XO
+    (XO (XI (XI (XI (XI (XI (XO (XI (XO (XI (XI (XI (XO (XO (XO (XO (XO (XI
+    (XO (XI (XO (XO (XO (XO
+    XH))))))))))))))))))))))))))))))))))))))))))))))))))))))))))))) :: ((Npos
+    (XO (XO (XI (XO (XO (XI (XO (XO (XO (XO (XO (XO (XI (XO (XO (XO (XI (XO
+    (XI (XO (XO (XI (XO (XO (XI (XO (XO (XI (XO (XI (XI (XO (XO (XI (XI (XO
+    (XI (XO (XI (XO (XO (XI (XO (XO (XI (XI (XI (XO (XO (XI (XI (XO (XO (XO
+    (XI (XO (XO (XI (XI (XI (XI (XI (XO
+    XH)))))))))))))))))))))))))))))))))))))))))))))))))))))))))))))))) :: ((Npos
+    (XI (XO (XO (XO (XO (XO (XO (XI (XO (XO (XI (XI (XO (XI (XO (XO (XO (XO
+    (XO (XO (XO (XO (XO (XO (XO (XI (XI (XI (XO (XO (XO (XO (XO (XO (XO (XO
+    (XI (XI (XI (XO (XI (XI (XO (XO (XI (XO (XO (XO (XI (XI (XO (XI (XO (XO
+    (XO (XI (XI (XI (XI (XO (XO (XI (XI
+    XH)))))))))))))))))))))))))))))))))))))))))))))))))))))))))))))))) :: ((Npos
+    (XI (XI (XO (XO (XO (XO (XO (XI (XO (XO (XO (XI (XO (XO (XO (XO (XI (XO
+    (XO (XI (XO (XI (XO (XO (XI (XO (XO (XO (XO (XO (XI (XI (XO (XO (XI (XI
+    (XI (XO (XI (XI (XO (XI (XO (XI (XO (XO (XI (XO (XI (XO (XO (XI (XO (XI
+    (XO (XI (XO (XI (XI (XI (XO (XO (XI
+    XH)))))))))))))))))))))))))))))))))))))))))))))))))))))))))))))))) :: ((Npos
+    (XO (XO (XO (XO (XI (XO (XO (XI (XI (XI (XI (XO (XI (XI (XI (XO (XI (XO
+    (XO (XO (XI (XI (XO (XO (XO (XI (XI (XO (XO (XI (XI (XI (XO (XI (XO (XI
+    (XO (XI (XI (XO (XO (XO (XI (XO (XI (XO (XI (XI (XO (XI (XO (XI (XI (XO
+    (XO (XI (XO (XO (XO (XI (XO (XO (XO
+    XH)))))))))))))))))))))))))))))))))))))))))))))))))))))))))))))))) :: ((Npos
+    (XI (XI (XI (XI (XI (XO (XI (XO (XO (XO (XO (XI (XO (XI (XO (XO (XI (XO
+    (XO (XO (XI (XI (XI (XI (XO (XI (XI (XI (XO (XO (XI (XO (XO (XI (XO (XI
+    (XO (XO (XI (XO (XO (XO (XI (XI (XI (XO (XI (XO (XI (XI (XO (XI (XI (XI
+    (XI (XI (XO (XO (XI (XI (XI (XO (XO
+    XH)))))))))))))))))))))))))))))))))))))))))))))))))))))))))))))))) :: ((Npos
+    (XI (XI (XI (XO (XO (XO (XI (XO (XO (XI (XI (XI (XO (XO (XO (XI (XO (XO
+    (XI (XO (XI (XO (XI (XO (XI (XI (XO (XI (XI (XI (XO (XO (XI (XI (XI (XO
+    (XO (XO (XO (XO (XO (XO (XO (XI (XO (XO (XO (XI (XI (XI (XI (XO (XI (XO
+    (XI (XO (XI (XI (XO (XO (XI (XO
+    XH))))))))))))))))))))))))))))))))))))))))))))))))))))))))))))))) :: ((Npos
+    (XO (XO (XI (XI (XI (XI (XO (XO (XI (XO (XI (XO (XO (XO (XO (XI (XI (XO
+    (XI (XO (XI (XI (XO (XI (XO (XI (XI (XO (XI (XI (XO (XI (XI (XI (XI (XO
+    (XO (XI (XI (XI (XI (XO (XO (XI (XI (XO (XO (XO (XO (XI (XO (XI (XO (XO
+    (XI (XI (XI (XO (XI (XI (XI (XO (XO
+    XH)))))))))))))))))))))))))))))))))))))))))))))))))))))))))))))))) :: ((Npos
+    (XI (XI (XI (XI (XI (XI (XO (XO (XO (XO (XO (XO (XI (XO (XO (XI (XI (XO
+    (XO (XI (XI (XO (XI (XI (XO (XI (XI (XO (XO (XO (XO (XI (XI (XI (XI (XO
+    (XI (XI (XO (XI (XO (XO (XI (XI (XI (XO (XO (XO (XO (XI (XO (XI (XI (XO
+    (XO (XI (XO (XO (XI (XI (XO (XO (XI
+    XH)))))))))))))))))))))))))))))))))))))))))))))))))))))))))))))))) :: ((Npos
+    (XI (XI (XI (XO (XO (XI (XO (XO (XO (XO (XI (XI (XO (XO (XI (XI (XO (XO
+    (XO (XI (XO (XO (XI (XO (XI (XI (XI (XI (XI (XI (XI (XI (XO (XO (XI (XO
+    (XI (XI (XI (XI (XI (XI (XI (XI (XO (XI (XI (XO (XO (XI (XI (XO (XI (XO
+    (XO (XO (XI (XO (XI (XO
+    XH))))))))))))))))))))))))))))))))))))))))))))))))))))))))))))) :: ((Npos
+    (XO (XI (XO (XI (XO (XI (XO (XI (XO (XI (XO (XO (XI (XI (XI (XI (XI (XI
+    (XO (XI (XO (XO (XI (XI (XO (XO (XI (XI (XI (XI (XI (XO (XI (XI (XO (XI
+    (XO (XI (XO (XI (XI (XI (XI (XI (XI (XI (XO (XO (XO (XO (XI (XI (XO (XO
+    (XO (XI (XO (XO (XO (XI (XI (XI
+    XH))))))))))))))))))))))))))))))))))))))))))))))))))))))))))))))) :: ((Npos
+    (XO (XI (XO (XO (XO (XI (XO (XO (XI (XO (XI (XI (XI (XO (XI (XI (XI (XO
+    (XO (XI (XI (XO (XI (XI (XI (XI (XI (XI (XO (XI (XI (XI (XO (XI (XI (XO
+    (XO (XI (XO (XO (XI (XI (XI (XI (XI (XI (XI (XI (XO (XI (XI (XI (XI (XI
+    (XI (XO (XO (XI (XI (XO (XI
+    XH)))))))))))))))))))))))))))))))))))))))))))))))))))))))))))))) :: ((Npos
+    (XO (XO (XO (XI (XO (XI (XO (XI (XI (XO (XI (XI (XI (XO (XI (XO (XO (XI
+    (XO (XO (XI (XI (XI (XI (XI (XI (XI (XI (XO (XO (XI (XO (XO (XO (XO (XI
+    (XO (XI (XO (XO (XO (XI (XI (XI (XO (XI (XO (XI (XI (XI (XO (XO (XI (XO
+    (XI (XI (XO
+    XH)))))))))))))))))))))))))))))))))))))))))))))))))))))))))) :: ((Npos
+    (XI (XI (XO (XI (XI (XO (XO (XI (XO (XO (XI (XI (XO (XO (XI (XI (XI (XO
+    (XI (XO (XO (XO (XI (XI (XI (XO (XI (XO (XI (XI (XI (XI (XI (XO (XI (XI
+    (XI (XI (XI (XI (XO (XI (XO (XO (XO (XO (XO (XI (XO (XI (XI (XO (XI (XI
+    (XI (XI (XI (XI (XI (XI (XI (XI
+    XH))))))))))))))))))))))))))))))))))))))))))))))))))))))))))))))) :: ((Npos
+    (XI (XI (XO (XO (XI (XI (XO (XO (XO (XI (XI (XO (XO (XI (XO (XO (XI (XI
+    (XO (XO (XI (XI (XI (XI (XI (XO (XO (XO (XO (XI (XI (XI (XI (XI (XO (XO
+    (XI (XO (XO (XO (XO (XI (XO (XI (XI (XO (XI (XO (XO (XO (XO (XO (XO (XO
+    (XI (XI (XO (XI (XO (XO (XI (XO (XO
+    XH)))))))))))))))))))))))))))))))))))))))))))))))))))))))))))))))) :: ((Npos
+    (XI (XO (XO (XI (XO (XI (XO (XI (XO (XO (XO (XO (XO (XO (XO (XI (XO (XI
+    (XO (XI (XI (XO (XO (XI (XO (XI (XI (XO (XI (XO (XO (XI (XO (XI (XI (XO
+    (XO (XI (XO (XI (XO (XI (XO (XO (XI (XO (XI (XO (XI (XI (XO (XO (XI (XI
+    (XO (XO (XI (XI (XO (XI (XI (XO (XI
+    XH)))))))))))))))))))))))))))))))))))))))))))))))))))))))))))))))) :: ((Npos
+    (XI (XI (XI (XI (XO (XO (XI (XO (XI (XI (XO (XO (XO (XI (XO (XO (XI (XO
+    (XO (XO (XO (XI (XO (XI (XI (XI (XI (XI (XO (XI (XO (XO (XO (XI (XI (XO
+    (XI (XI (XI (XI (XI (XO (XO (XO (XO (XI (XI (XO (XI (XI (XI (XI (XO (XO
+    (XO (XI (XO (XO (XO (XO (XI (XI (XI
+    XH)))))))))))))))))))))))))))))))))))))))))))))))))))))))))))))))) :: ((Npos
+    (XO (XI (XO (XO (XI (XO (XI (XO (XO (XI (XO (XI (XI (XO (XO (XO (XI (XI
+    (XI (XO (XO (XI (XO (XO (XI (XO (XI (XO (XO (XO (XI (XI (XI (XI (XI (XI
+    (XI (XI (XO (XI (XO (XO (XI (XO (XI (XI (XO (XI (XI (XO (XI (XO (XO (XO
+    (XI (XI (XO (XI (XI (XO (XI
+    XH)))))))))))))))))))))))))))))))))))))))))))))))))))))))))))))) :: ((Npos
+    (XI (XI (XI (XI (XI (XO (XI (XO (XI (XO (XO (XO (XO (XI (XI (XI (XO (XO
+    (XI (XO (XO (XI (XI (XI (XO (XI (XI (XI (XO (XO (XI (XI (XO (XI (XO (XI
+    (XO (XO (XI (XO (XO (XI (XO (XO (XO (XI (XI (XO (XI (XO (XO (XO (XI (XI
+    (XO (XI (XI (XO (XI (XI (XO (XO (XO
+    XH)))))))))))))))))))))))))))))))))))))))))))))))))))))))))))))))) :: ((Npos
+    (XO (XO (XO (XI (XI (XO (XI (XO (XO (XO (XI (XI (XO (XO (XI (XO (XI (XI
+    (XO (XI (XO (XO (XO (XI (XO (XO (XI (XO (XI (XI (XI (XO (XI (XI (XO (XI
+    (XI (XO (XO (XI (XI (XI (XO (XI (XO (XI (XI (XO (XO (XI (XI (XO (XO (XI
+    (XO (XI (XI (XI (XO (XI (XI (XI
+    XH))))))))))))))))))))))))))))))))))))))))))))))))))))))))))))))) :: ((Npos
+    (XI (XI (XI (XI (XI (XI (XI (XI (XO (XI (XI (XI (XO (XO (XO (XO (XI (XO
+    (XI (XO (XI (XO (XI (XO (XO (XI (XI (XI (XI (XO (XO (XI (XI (XO (XI (XI
+    (XI (XI (XI (XO (XO (XI (XI (XI (XI (XI (XI (XI (XO (XI (XO (XI (XO (XO
+    (XO (XI (XI (XI (XI (XO
+    XH))))))))))))))))))))))))))))))))))))))))))))))))))))))))))))) :: ((Npos
+    (XO (XI (XO (XO (XI (XI (XI (XO (XI (XI (XO (XO (XI (XI (XO (XO (XO (XO
+    (XI (XI (XI (XO (XI (XO (XI (XI (XO (XO (XI (XO (XO (XI (XO (XI (XO (XI
+    (XI (XO (XI (XO (XI (XO (XO (XO (XO (XO (XO (XI (XO (XO (XI (XO (XO (XO
+    (XI (XO (XI (XI (XO (XO (XI (XO
+    XH))))))))))))))))))))))))))))))))))))))))))))))))))))))))))))))) :: ((Npos
+    (XO (XO (XO (XI (XO (XO (XI (XI (XO (XO (XO (XO (XI (XI (XI (XI (XI (XI
+    (XO (XI (XI (XI (XI (XI (XO (XO (XI (XO (XI (XI (XI (XO (XO (XI (XI (XI
+    (XI (XO (XI (XI (XI (XI (XO (XO (XO (XI (XO (XO (XO (XI (XI (XO (XI (XI
+    (XI (XI (XI (XO
+    XH))))))))))))))))))))))))))))))))))))))))))))))))))))))))))) :: ((Npos
+    (XI (XO (XO (XI (XI (XI (XI (XI (XI (XI (XI (XI (XO (XO (XO (XO (XO (XI
+    (XI (XI (XI (XO (XI (XO (XO (XI (XO (XI (XO (XO (XO (XI (XO (XO (XI (XI
+    (XO (XO (XI (XI (XI (XI (XI (XI (XO (XI (XI (XI (XO (XO (XO (XO (XO (XO
+    (XI (XI
+    XH))))))))))))))))))))))))))))))))))))))))))))))))))))))))) :: ((Npos (XI
+    (XO (XO (XO (XI (XI (XO (XI (XO (XI (XI (XI (XI (XO (XI (XO (XI (XO (XO
+    (XI (XI (XO (XI (XO (XO (XO (XO (XO (XO (XI (XI (XI (XI (XI (XI (XO (XI
+    (XO (XO (XI (XO (XI (XI (XO (XI (XI (XO (XO (XO (XI (XO (XO (XO (XI (XO
+    (XO (XO (XO (XO (XI (XI (XI (XI
+    XH)))))))))))))))))))))))))))))))))))))))))))))))))))))))))))))))) :: ((Npos
+    (XO (XO (XI (XI (XO (XO (XO (XI (XO (XO (XO (XO (XI (XO (XI (XI (XO (XI
+    (XI (XI (XO (XO (XO (XO (XI (XI (XO (XO (XI (XI (XO (XI (XO (XO (XO (XI
+    (XO (XI (XO (XO (XI (XO (XO (XI (XI (XI (XI (XI (XI (XI (XI (XO (XO (XO
+    (XO (XI (XO (XO (XO (XI (XO (XO
+    XH))))))))))))))))))))))))))))))))))))))))))))))))))))))))))))))) :: ((Npos
+    (XI (XI (XO (XI (XI (XO (XO (XO (XO (XI (XI (XI (XO (XI (XO (XO (XI (XI
+    (XO (XO (XO (XI (XO (XO (XI (XI (XI (XO (XI (XO (XI (XI (XI (XO (XI (XI
+    (XI (XI (XI (XI (XO (XI (XO (XI (XI (XO (XI (XO (XI (XI (XI (XO (XI (XI
+    (XI (XO (XI (XI (XI (XO (XI (XO
+    XH))))))))))))))))))))))))))))))))))))))))))))))))))))))))))))))) :: ((Npos
+    (XI (XO (XO (XI (XO (XO (XO (XO (XO (XO (XO (XO (XI (XI (XO (XO (XI (XI
+    (XI (XI (XI (XO (XI (XO (XO (XO (XI (XI (XO (XI (XO (XI (XO (XO (XO (XI
+    (XI (XO (XI (XO (XO (XI (XO (XO (XO (XO (XO (XI (XO (XI (XO (XI (XO (XO
+    (XI (XI (XI (XI (XI (XI (XI (XO
+    XH))))))))))))))))))))))))))))))))))))))))))))))))))))))))))))))) :: ((Npos
+    (XI (XI (XI (XO (XO (XI (XI (XO (XO (XO (XO (XI (XI (XI (XO (XO (XO (XO
+    (XO (XI (XO (XI (XO (XO (XO (XO (XO (XI (XO (XO (XI (XO (XI (XO (XO (XI
+    (XO (XO (XO (XO (XO (XO (XO (XO (XO (XI (XO (XI (XI (XO (XO (XO (XI (XO
+    (XO (XO (XO (XI (XO (XO (XO (XI (XI
+    XH)))))))))))))))))))))))))))))))))))))))))))))))))))))))))))))))) :: ((Npos
+    (XI (XI (XO (XO (XO (XO (XI (XO (XI (XO (XO (XO (XO (XI (XO (XI (XI (XI
+    (XO (XO (XO (XO (XI (XI (XI (XI (XI (XI (XO (XO (XO (XI (XO (XI (XO (XI
+    (XO (XI (XO (XO (XO (XO (XO (XI (XO (XI (XO (XO (XO (XI (XI (XO (XI (XI
+    (XO (XI (XI (XI (XO (XO (XO (XO (XI
+    XH)))))))))))))))))))))))))))))))))))))))))))))))))))))))))))))))) :: ((Npos
+    (XO (XI (XO (XO (XO (XO (XO (XO (XI (XI (XI (XI (XO (XI (XI (XI (XO (XO
+    (XI (XI (XI (XI (XI (XI (XO (XO (XO (XO (XO (XO (XO (XO (XI (XO (XI (XI
+    (XI (XO (XI (XI (XO (XI (XO (XI (XO (XI (XI (XI (XI (XO (XO (XO (XO (XO
+    (XI (XO (XI (XI (XO (XI (XI (XO (XO
+    XH)))))))))))))))))))))))))))))))))))))))))))))))))))))))))))))))) :: ((Npos
+    (XO (XI (XI (XI (XI (XI (XO (XI (XI (XO (XO (XI (XI (XI (XO (XO (XO (XI
+    (XO (XI (XI (XI (XI (XI (XI (XI (XO (XO (XI (XO (XO (XO (XI (XI (XO (XO
+    (XO (XO (XO (XO (XI (XI (XI (XI (XI (XO (XI (XI (XO (XO (XO (XO (XI (XO
+    (XI (XO (XO (XI (XI (XI (XI (XI (XO
+    XH)))))))))))))))))))))))))))))))))))))))))))))))))))))))))))))))) :: ((Npos
+    (XI (XO (XO (XO (XI (XO (XI (XO (XI (XO (XO (XI (XI (XI (XI (XO (XO (XI
+    (XO (XI (XO (XI (XI (XI (XI (XO (XI (XI (XI (XO (XO (XO (XO (XO (XI (XI
+    (XO (XI (XI (XO (XI (XI (XI (XI (XO (XI (XI (XO (XO (XO (XO (XO (XO (XI
+    (XO (XI (XI (XO (XO (XI (XO (XI
+    XH))))))))))))))))))))))))))))))))))))))))))))))))))))))))))))))) :: ((Npos
+    (XO (XI (XO (XO (XO (XO (XI (XO (XO (XI (XI (XO (XO (XO (XO (XO (XO (XI
+    (XO (XI (XO (XI (XI (XO (XO (XI (XI (XO (XO (XI (XO (XO (XI (XI (XO (XO
+    (XI (XI (XI (XO (XO (XO (XO (XI (XO (XI (XI (XO (XO (XI (XI (XI (XO (XO
+    (XO (XO (XO (XI (XI (XI (XI (XO (XO
+    XH)))))))))))))))))))))))))))))))))))))))))))))))))))))))))))))))) :: ((Npos
+    (XI (XO (XI (XO (XI (XI (XO (XO (XO (XI (XO (XO (XO (XO (XI (XI (XI (XO
+    (XO (XI (XI (XO (XI (XO (XI (XI (XO (XI (XO (XO (XO (XI (XI (XI (XO (XO
+    (XI (XI (XO (XO (XI (XI (XI (XI (XI (XI (XO (XI (XO (XO (XI (XI (XO (XO
+    (XI (XO (XI (XO (XO (XO (XO (XO
+    XH))))))))))))))))))))))))))))))))))))))))))))))))))))))))))))))) :: ((Npos
+    (XI (XO (XO (XI (XI (XI (XO (XO (XO (XO (XO (XI (XO (XO (XO (XO (XO (XO
+    (XI (XI (XI (XO (XI (XO (XI (XO (XO (XO (XO (XO (XI (XO (XO (XO (XO (XO
+    (XO (XI (XI (XO (XI (XI (XO (XO (XI (XO (XI (XO (XO (XI (XI (XI (XI (XI
+    (XO (XO (XO (XI (XI (XI (XO (XO (XO
+    XH)))))))))))))))))))))))))))))))))))))))))))))))))))))))))))))))) :: ((Npos
+    (XI (XI (XI (XO (XO (XO (XO (XI (XI (XI (XI (XO (XI (XO (XO (XI (XO (XO
+    (XI (XO (XO (XO (XI (XI (XI (XO (XO (XO (XO (XI (XO (XO (XO (XI (XI (XO
+    (XO (XO (XI (XI (XI (XI (XI (XO (XI (XO (XO (XI (XI (XI (XI (XI (XO (XI
+    (XI (XO (XI (XI (XI (XI (XO (XI
+    XH))))))))))))))))))))))))))))))))))))))))))))))))))))))))))))))) :: ((Npos
+    (XI (XO (XO (XO (XI (XI (XO (XO (XO (XO (XI (XI (XO (XO (XI (XO (XO (XI
+    (XI (XI (XI (XI (XO (XI (XO (XI (XI (XO (XO (XO (XI (XI (XI (XI (XO (XO
+    (XI (XO (XO (XO (XO (XI (XO (XI (XO (XO (XI (XI (XO (XO (XO (XI (XI (XI
+    (XI (XO (XO (XO (XO (XI
+    XH))))))))))))))))))))))))))))))))))))))))))))))))))))))))))))) :: ((Npos
+    (XI (XO (XI (XI (XI (XI (XI (XI (XI (XI (XO (XI (XI (XI (XI (XO (XO (XI
+    (XI (XI (XI (XI (XO (XO (XI (XO (XI (XO (XO (XI (XO (XO (XO (XO (XO (XI
+    (XI (XO (XO (XO (XO (XI (XO (XO (XO (XI (XI (XI (XI (XI (XO (XO (XO (XO
+    (XI (XO (XI (XO (XO (XO (XI (XO (XI
+    XH)))))))))))))))))))))))))))))))))))))))))))))))))))))))))))))))) :: ((Npos
+    (XI (XI (XI (XO (XO (XI (XI (XI (XO (XO (XO (XO (XI (XO (XO (XO (XI (XI
+    (XO (XI (XI (XO (XO (XI (XO (XO (XI (XO (XI (XO (XI (XO (XO (XI (XI (XI
+    (XI (XO (XO (XO (XO (XO (XO (XI (XI (XI (XO (XI (XO (XI (XI (XO (XI (XI
+    (XO (XI (XI (XI (XI (XI
+    XH))))))))))))))))))))))))))))))))))))))))))))))))))))))))))))) :: ((Npos
+    (XI (XO (XO (XI (XO (XO (XO (XI (XO (XI (XI (XI (XO (XI (XO (XI (XI (XI
+    (XO (XI (XO (XI (XO (XI (XO (XO (XI (XO (XI (XO (XO (XO (XI (XI (XO (XI
+    (XO (XI (XO (XO (XI (XI (XI (XI (XI (XO (XI (XI (XO (XO (XI (XI (XI (XO
+    (XO (XO (XO (XO (XO (XI (XO (XO (XO
+    XH)))))))))))))))))))))))))))))))))))))))))))))))))))))))))))))))) :: ((Npos
+    (XO (XO (XO (XI (XI (XO (XI (XI (XO (XI (XI (XO (XO (XO (XO (XI (XI (XI
+    (XO (XI (XI (XI (XI (XO (XI (XO (XO (XO (XI (XI (XI (XI (XI (XI (XI (XO
+    (XI (XI (XO (XI (XI (XI (XI (XO (XO (XI (XI (XI (XI (XI (XI (XO (XO (XI
+    (XO (XI (XI (XO (XI (XI (XO (XO (XO
+    XH)))))))))))))))))))))))))))))))))))))))))))))))))))))))))))))))) :: ((Npos
+    (XI (XI (XO (XI (XI (XI (XO (XI (XO (XO (XO (XI (XO (XO (XO (XI (XO (XO
+    (XO (XO (XO (XO (XO (XI (XO (XO (XI (XI (XO (XI (XI (XO (XI (XI (XI (XO
+    (XO (XO (XI (XO (XI (XI (XI (XO (XI (XO (XI (XO (XI (XO (XI (XO (XI (XI
+    (XI (XO (XO (XI (XI
+    XH)))))))))))))))))))))))))))))))))))))))))))))))))))))))))))) :: ((Npos
+    (XO (XI (XI (XO (XO (XO (XO (XO (XO (XI (XI (XI (XI (XI (XO (XI (XI (XI
+    (XI (XI (XO (XO (XO (XI (XO (XO (XO (XO (XI (XI (XO (XO (XI (XO (XO (XO
+    (XI (XO (XO (XI (XI (XO (XO (XI (XO (XO (XI (XI (XO (XI (XO (XO (XI (XO
+    (XO (XI (XO (XI (XO (XI (XI (XI (XI
+    XH)))))))))))))))))))))))))))))))))))))))))))))))))))))))))))))))) :: ((Npos
+    (XO (XO (XO (XI (XO (XI (XI (XI (XI (XO (XI (XO (XO (XI (XI (XO (XI (XI
+    (XI (XI (XO (XO (XI (XO (XO (XO (XO (XI (XI (XO (XO (XI (XI (XO (XI (XO
+    (XO (XI (XI (XI (XI (XI (XO (XO (XI (XO (XO (XI (XI (XO (XO (XI (XI (XO
+    (XO (XI (XO (XI (XO (XI (XI (XI (XI
+    XH)))))))))))))))))))))))))))))))))))))))))))))))))))))))))))))))) :: ((Npos
+    (XI (XO (XO (XO (XI (XO (XO (XI (XI (XI (XI (XO (XO (XO (XO (XO (XI (XO
+    (XI (XO (XI (XO (XO (XI (XO (XO (XO (XI (XO (XO (XO (XI (XI (XI (XI (XO
+    (XI (XI (XO (XI (XO (XO (XI (XO (XO (XO (XO (XO (XI (XO (XI (XI (XI (XI
+    (XO (XO (XO (XI (XO (XO (XI (XI (XI
+    XH)))))))))))))))))))))))))))))))))))))))))))))))))))))))))))))))) :: ((Npos
+    (XO (XI (XO (XI (XI (XO (XO (XO (XO (XI (XO (XI (XI (XI (XI (XI (XO (XO
+    (XI (XO (XO (XI (XO (XI (XI (XI (XO (XI (XI (XI (XO (XI (XI (XI (XO (XI
+    (XO (XO (XO (XO (XI (XI (XI (XI (XO (XI (XI (XI (XO (XO (XO (XI (XI (XO
+    (XO (XO (XI (XO (XI (XO (XO (XO (XO
+    XH)))))))))))))))))))))))))))))))))))))))))))))))))))))))))))))))) :: ((Npos
+    (XI (XI (XO (XI (XI (XO (XO (XO (XI (XO (XO (XI (XO (XO (XI (XI (XO (XI
+    (XO (XO (XO (XI (XI (XO (XI (XO (XO (XO (XO (XO (XI (XI (XI (XO (XO (XO
+    (XI (XO (XO (XI (XO (XI (XI (XO (XO (XO (XI (XI (XI (XO (XO (XI (XI (XI
+    (XI (XO (XI (XO (XO (XO (XI (XI (XO
+    XH)))))))))))))))))))))))))))))))))))))))))))))))))))))))))))))))) :: ((Npos
+    (XI (XI (XI (XO (XI (XO (XI (XO (XO (XO (XI (XI (XO (XO (XI (XI (XI (XO
+    (XO (XO (XI (XO (XO (XI (XO (XI (XI (XO (XO (XO (XO (XI (XO (XI (XO (XO
+    (XO (XI (XI (XI (XI (XO (XO (XI (XI (XO (XO (XI (XI (XI (XO (XO (XI (XI
+    (XO (XI (XO (XO (XO (XI (XI (XI (XI
+    XH)))))))))))))))))))))))))))))))))))))))))))))))))))))))))))))))) :: ((Npos
+    (XO (XO (XI (XI (XI (XO (XI (XI (XI (XO (XI (XI (XI (XI (XO (XO (XO (XO
+    (XI (XI (XI (XI (XI (XO (XI (XI (XI (XO (XI (XO (XO (XI (XI (XI (XI (XO
+    (XI (XI (XO (XO (XI (XI (XI (XI (XO (XI (XO (XI (XI (XI (XI (XO (XO (XI
+    (XI (XO (XO (XO (XI (XI (XI (XO
+    XH))))))))))))))))))))))))))))))))))))))))))))))))))))))))))))))) :: ((Npos
+    (XI (XI (XI (XO (XI (XO (XI (XI (XO (XO (XO (XO (XO (XO (XO (XI (XI (XO
+    (XI (XO (XI (XI (XI (XO (XO (XI (XI (XI (XO (XI (XO (XI (XO (XO (XO (XO
+    (XI (XI (XO (XO (XO (XO (XO (XO (XI (XI (XO (XO (XO (XO (XI (XO (XO (XI
+    (XI (XI (XO (XO (XO
+    XH)))))))))))))))))))))))))))))))))))))))))))))))))))))))))))) :: ((Npos
+    (XI (XO (XO (XI (XI (XI (XI (XO (XI (XI (XI (XO (XI (XI (XI (XI (XI (XO
+    (XO (XO (XO (XO (XI (XI (XI (XI (XO (XO (XI (XI (XO (XI (XI (XI (XI (XI
+    (XO (XI (XO (XI (XO (XI (XO (XO (XI (XI (XO (XI (XO (XI (XI (XI (XO (XO
+    (XI (XO (XI (XI
+    XH))))))))))))))))))))))))))))))))))))))))))))))))))))))))))) :: ((Npos
+    (XI (XO (XI (XI (XO (XO (XI (XI (XO (XI (XI (XI (XO (XI (XO (XI (XO (XO
+    (XI (XO (XO (XO (XI (XI (XI (XI (XI (XI (XI (XO (XI (XO (XO (XI (XO (XO
+    (XO (XO (XO (XO (XO (XI (XI (XO (XO (XO (XO (XO (XI (XI (XI (XO (XI (XO
+    (XI (XO (XO (XO (XO (XO (XO (XI (XO
+    XH)))))))))))))))))))))))))))))))))))))))))))))))))))))))))))))))) :: ((Npos
+    (XO (XI (XI (XO (XI (XI (XO (XI (XI (XO (XO (XO (XO (XI (XI (XI (XO (XO
+    (XO (XO (XO (XO (XI (XO (XI (XO (XI (XI (XI (XO (XO (XI (XO (XO (XI (XO
+    (XI (XO (XO (XI (XO (XO (XI (XO (XO (XO (XO (XO (XO (XO (XO (XI (XO (XO
+    (XO (XI (XO (XI (XI (XO (XI (XI (XI
+    XH)))))))))))))))))))))))))))))))))))))))))))))))))))))))))))))))) :: ((Npos
+    (XO (XO (XI (XO (XO (XI (XI (XI (XO (XO (XO (XI (XI (XO (XO (XO (XO (XO
+    (XO (XI (XO (XO (XO (XI (XI (XO (XI (XO (XI (XO (XO (XO (XO (XI (XI (XO
+    (XI (XI (XI (XO (XI (XI (XI (XO (XI (XI (XI (XI (XO (XO (XI (XO (XI (XO
+    (XO (XI (XO (XO (XO (XI (XO (XI
+    XH))))))))))))))))))))))))))))))))))))))))))))))))))))))))))))))) :: ((Npos
+    (XO (XI (XO (XI (XO (XI (XO (XI (XI (XO (XI (XI (XI (XO (XI (XI (XI (XO
+    (XI (XI (XO (XO (XI (XO (XO (XO (XO (XI (XI (XI (XO (XO (XI (XO (XI (XI
+    (XI (XI (XO (XO (XI (XO (XI (XI (XO (XO (XO (XI (XO (XO (XI (XO (XI (XO
+    (XO (XO (XI (XI (XI
+    XH)))))))))))))))))))))))))))))))))))))))))))))))))))))))))))) :: ((Npos
+    (XI (XI (XI (XO (XI (XI (XI (XO (XO (XO (XI (XO (XI (XO (XO (XO (XI (XI
+    (XI (XI (XO (XI (XO (XO (XO (XI (XO (XO (XI (XI (XO (XI (XI (XO (XI (XO
+    (XO (XO (XO (XI (XI (XI (XO (XO (XI (XI (XI (XO (XO (XI (XI (XI (XI (XI
+    (XO (XI (XI (XO (XO (XI
+    XH))))))))))))))))))))))))))))))))))))))))))))))))))))))))))))) :: ((Npos
+    (XI (XO (XO (XI (XO (XI (XI (XI (XO (XO (XO (XO (XI (XI (XO (XI (XI (XI
+    (XI (XI (XO (XI (XO (XI (XI (XI (XI (XI (XO (XI (XO (XI (XI (XO (XO (XI
+    (XI (XO (XI (XI (XI (XI (XO (XO (XI (XI (XO (XO (XO (XO (XO (XI (XI (XI
+    (XO (XI (XI (XI (XI (XI (XO (XO
+    XH))))))))))))))))))))))))))))))))))))))))))))))))))))))))))))))) :: ((Npos
+    (XO (XI (XO (XI (XO (XI (XO (XO (XI (XI (XO (XI (XO (XO (XI (XO (XO (XI
+    (XO (XO (XO (XI (XI (XI (XO (XO (XI (XO (XO (XI (XI (XO (XO (XI (XO (XI
+    (XI (XO (XI (XI (XI (XI (XO (XO (XO (XO (XI (XO (XO (XI (XO (XO (XO (XO
+    (XO (XO (XO (XO (XO
+    XH)))))))))))))))))))))))))))))))))))))))))))))))))))))))))))) :: ((Npos
+    (XI (XO (XO (XO (XI (XO (XO (XO (XI (XI (XI (XI (XI (XO (XO (XO (XI (XO
+    (XO (XI (XO (XI (XI (XI (XI (XI (XO (XI (XI (XO (XO (XI (XO (XO (XO (XI
+    (XI (XI (XO (XO (XI (XO (XI (XI (XI (XI (XI (XO (XI (XO (XI (XO (XO (XO
+    (XI (XI (XO (XO (XI (XI (XI (XO (XI
+    XH)))))))))))))))))))))))))))))))))))))))))))))))))))))))))))))))) :: ((Npos
+    (XI (XI (XI (XI (XI (XO (XI (XO (XO (XO (XO (XO (XI (XI (XO (XI (XO (XI
+    (XO (XI (XO (XO (XI (XO (XI (XI (XI (XO (XO (XO (XI (XI (XI (XI (XI (XI
+    (XO (XI (XO (XI (XO (XO (XI (XI (XO (XO (XI (XI (XI (XO (XI (XO (XO (XO
+    (XO (XO (XI (XI (XO (XI (XO (XO (XO
+    XH)))))))))))))))))))))))))))))))))))))))))))))))))))))))))))))))) :: ((Npos
+    (XI (XI (XO (XO (XI (XI (XO (XO (XO (XI (XO (XO (XO (XO (XI (XI (XI (XO
+    (XO (XI (XI (XO (XO (XO (XI (XO (XO (XI (XO (XI (XO (XI (XI (XI (XO (XI
+    (XO (XO (XO (XO (XO (XI (XO (XI (XO (XI (XO (XI (XI (XI (XI (XI (XO (XO
+    (XI (XI (XI (XI (XI (XI (XO
+    XH)))))))))))))))))))))))))))))))))))))))))))))))))))))))))))))) :: ((Npos
+    (XI (XI (XO (XI (XO (XI (XI (XI (XI (XI (XI (XO (XO (XO (XO (XI (XO (XI
+    (XO (XO (XI (XI (XI (XI (XO (XI (XO (XI (XI (XO (XO (XO (XO (XO (XO (XO
+    (XI (XO (XO (XO (XO (XO (XI (XI (XO (XI (XI (XI (XO (XI (XI (XO (XO (XO
+    (XI (XO (XI (XO (XI (XO
+    XH))))))))))))))))))))))))))))))))))))))))))))))))))))))))))))) :: ((Npos
+    (XI (XI (XI (XO (XO (XO (XI (XI (XI (XI (XO (XI (XO (XO (XI (XO (XO (XI
+    (XO (XO (XO (XI (XO (XO (XO (XO (XO (XO (XI (XO (XI (XI (XO (XO (XO (XI
+    (XI (XO (XI (XO (XI (XO (XI (XO (XI (XO (XO (XO (XI (XO (XI (XI (XO (XI
+    (XO (XO (XI (XO (XO (XI (XI (XI (XO
+    XH)))))))))))))))))))))))))))))))))))))))))))))))))))))))))))))))) :: ((Npos
+    (XO (XI (XO (XI (XI (XO (XO (XI (XO (XI (XO (XI (XO (XI (XI (XI (XO (XO
+    (XI (XO (XO (XO (XO (XO (XO (XI (XI (XO (XO (XI (XI (XI (XI (XO (XO (XI
+    (XI (XI (XO (XI (XI (XO (XO (XI (XO (XI (XI (XI (XI (XO (XI (XO (XI (XO
+    (XI (XO (XO (XO (XO (XO
+    XH))))))))))))))))))))))))))))))))))))))))))))))))))))))))))))) :: ((Npos
+    (XO (XO (XO (XO (XI (XO (XO (XO (XI (XO (XO (XI (XO (XO (XI (XI (XO (XO
+    (XI (XO (XI (XI (XO (XI (XO (XO (XI (XI (XO (XO (XI (XO (XI (XI (XO (XI
+    (XO (XI (XO (XI (XI (XO (XI (XI (XO (XI (XI (XO (XO (XO (XI (XI (XI (XI
+    (XO (XO (XO (XI (XI (XI (XO (XO (XO
+    XH)))))))))))))))))))))))))))))))))))))))))))))))))))))))))))))))) :: ((Npos
+    (XO (XI (XI (XI (XO (XI (XO (XI (XI (XO (XO (XI (XO (XI (XI (XO (XI (XO
+    (XI (XO (XO (XO (XI (XI (XO (XO (XO (XI (XI (XI (XO (XI (XO (XI (XO (XI
+    (XI (XI (XI (XO (XI (XO (XI (XO (XI (XO (XO (XI (XO (XO (XO (XO (XO (XI
+    (XO (XI (XI (XO (XO (XO (XI (XO
+    XH))))))))))))))))))))))))))))))))))))))))))))))))))))))))))))))) :: ((Npos
+    (XO (XI (XO (XO (XI (XI (XO (XO (XO (XO (XI (XI (XI (XI (XI (XO (XO (XI
+    (XO (XO (XO (XI (XI (XI (XO (XI (XI (XI (XI (XI (XO (XI (XO (XI (XI (XO
+    (XI (XI (XO (XO (XI (XI (XI (XO (XO (XO (XI (XO (XO (XO (XI (XI (XO (XI
+    (XI (XI (XI (XI (XI (XI (XI (XO (XI
+    XH)))))))))))))))))))))))))))))))))))))))))))))))))))))))))))))))) :: ((Npos
+    (XI (XO (XO (XO (XO (XO (XI (XO (XI (XO (XI (XO (XI (XO (XI (XI (XI (XO
+    (XI (XI (XO (XI (XO (XI (XO (XI (XI (XI (XO (XI (XI (XI (XI (XO (XO (XO
+    (XO (XO (XI (XO (XO (XI (XO (XI (XO (XI (XI (XI (XO (XI (XI (XI (XI (XI
+    (XI (XI (XO (XI (XO (XO
+    XH))))))))))))))))))))))))))))))))))))))))))))))))))))))))))))) :: ((Npos
+    (XO (XI (XO (XO (XI (XO (XI (XO (XO (XO (XI (XO (XI (XO (XO (XO (XO (XO
+    (XI (XI (XO (XO (XO (XI (XO (XO (XI (XI (XI (XI (XI (XI (XO (XO (XI (XI
+    (XI (XI (XO (XO (XO (XO (XI (XI (XI (XO (XO (XI (XI (XO (XI (XO (XI (XI
+    (XI (XI (XO (XI (XI (XO (XO (XI (XO
+    XH)))))))))))))))))))))))))))))))))))))))))))))))))))))))))))))))) :: ((Npos
+    (XI (XO (XI (XO (XO (XO (XI (XO (XO (XI (XI (XO (XI (XI (XI (XI (XO (XO
+    (XO (XI (XI (XO (XI (XO (XI (XO (XO (XI (XI (XI (XO (XI (XO (XI (XI (XO
+    (XO (XO (XO (XI (XI (XO (XO (XI (XO (XI (XI (XI (XI (XI (XI (XO (XI (XI
+    (XO (XI (XO (XI (XO (XO (XI (XI
+    XH))))))))))))))))))))))))))))))))))))))))))))))))))))))))))))))) :: ((Npos
+    (XO (XI (XI (XI (XO (XO (XI (XO (XI (XO (XO (XO (XI (XO (XO (XI (XO (XI
+    (XI (XO (XI (XO (XI (XI (XI (XO (XI (XI (XI (XO (XO (XI (XI (XO (XO (XI
+    (XI (XI (XO (XO (XO (XO (XI (XI (XI (XI (XI (XI (XI (XI (XO (XO (XI (XO
+    (XO (XI (XO (XI (XO (XO (XO (XO (XO
+    XH)))))))))))))))))))))))))))))))))))))))))))))))))))))))))))))))) :: ((Npos
+    (XO (XO (XI (XI (XI (XO (XO (XI (XO (XO (XI (XO (XI (XI (XO (XO (XO (XI
+    (XO (XI (XO (XI (XO (XO (XO (XO (XO (XO (XO (XO (XI (XI (XI (XI (XI (XO
+    (XO (XO (XI (XI (XI (XI (XI (XI (XO (XO (XI (XI (XI (XO (XI (XI (XO (XI
+    (XI (XO (XO (XO (XO (XI (XO (XI
+    XH))))))))))))))))))))))))))))))))))))))))))))))))))))))))))))))) :: ((Npos
+    (XO (XI (XO (XI (XO (XI (XI (XO (XI (XO (XI (XO (XI (XO (XO (XI (XO (XO
+    (XI (XO (XO (XI (XI (XI (XI (XO (XO (XI (XO (XI (XI (XO (XI (XO (XO (XO
+    (XI (XI (XI (XO (XI (XI (XO (XO (XO (XI (XI (XO (XO (XI (XO (XO (XI (XO
+    (XO (XI (XI (XI (XO (XO (XI (XO (XO
+    XH)))))))))))))))))))))))))))))))))))))))))))))))))))))))))))))))) :: ((Npos
+    (XO (XO (XO (XO (XI (XO (XI (XO (XO (XI (XI (XO (XI (XO (XO (XO (XI (XO
+    (XO (XO (XO (XI (XI (XO (XO (XI (XI (XI (XI (XO (XI (XO (XI (XO (XO (XI
+    (XO (XI (XI (XO (XI (XI (XI (XI (XI (XI (XI (XO (XO (XI (XI (XO (XI (XI
+    (XI (XO (XI (XO (XI (XO (XO (XO (XI
+    XH)))))))))))))))))))))))))))))))))))))))))))))))))))))))))))))))) :: ((Npos
+    (XO (XO (XO (XO (XI (XI (XO (XI (XO (XO (XO (XO (XO (XO (XO (XO (XI (XO
+    (XO (XI (XI (XI (XI (XI (XI (XO (XO (XO (XI (XI (XO (XI (XO (XI (XI (XO
+    (XI (XO (XO (XI (XO (XO (XO (XO (XO (XO (XI (XI (XI (XO (XO (XI (XO (XI
+    (XI (XI (XO (XI (XI
+    XH)))))))))))))))))))))))))))))))))))))))))))))))))))))))))))) :: ((Npos
+    (XI (XI (XI (XO (XO (XI (XO (XI (XO (XI (XI (XI (XI (XI (XI (XI (XI (XI
+    (XI (XO (XI (XO (XI (XI (XI (XO (XI (XI (XI (XO (XO (XI (XO (XI (XO (XI
+    (XI (XO (XI (XI (XO (XO (XO (XO (XI (XI (XO (XI (XI (XO (XO (XO (XO (XI
+    (XI (XO (XI (XO (XI (XI (XI (XI (XO
+    XH)))))))))))))))))))))))))))))))))))))))))))))))))))))))))))))))) :: ((Npos
+    (XI (XO (XO (XO (XI (XI (XO (XI (XO (XO (XI (XI (XO (XI (XO (XI (XO (XO
+    (XO (XI (XI (XI (XI (XO (XI (XI (XO (XI (XO (XO (XO (XO (XI (XI (XO (XO
+    (XO (XO (XO (XO (XO (XI (XO (XO (XI (XI (XI (XO (XO (XI (XI (XO (XO (XO
+    (XO (XO (XO (XO (XO (XI (XO (XO (XO
+    XH)))))))))))))))))))))))))))))))))))))))))))))))))))))))))))))))) :: ((Npos
+    (XO (XI (XI (XO (XO (XI (XO (XO (XI (XO (XI (XO (XO (XI (XO (XO (XI (XO
+    (XO (XI (XI (XI (XI (XI (XI (XI (XI (XO (XI (XO (XI (XI (XO (XI (XO (XI
+    (XO (XO (XI (XO (XO (XO (XI (XO (XI (XO (XI (XI (XI (XO (XI (XO (XI (XI
+    (XI (XO (XI (XI (XI (XI
+    XH))))))))))))))))))))))))))))))))))))))))))))))))))))))))))))) :: ((Npos
+    (XI (XI (XO (XI (XI (XI (XI (XI (XI (XO (XI (XI (XI (XO (XI (XI (XI (XO
+    (XI (XO (XO (XI (XI (XO (XI (XI (XI (XI (XO (XI (XI (XI (XI (XI (XI (XI
+    (XO (XI (XI (XI (XO (XI (XI (XI (XI (XO (XO (XO (XO (XI (XO (XI (XO (XI
+    (XI (XO (XO (XO (XI (XO (XO (XO (XI
+    XH)))))))))))))))))))))))))))))))))))))))))))))))))))))))))))))))) :: ((Npos
+    (XO (XO (XO (XI (XI (XI (XO (XI (XO (XI (XO (XO (XO (XO (XI (XI (XO (XO
+    (XI (XI (XO (XI (XI (XI (XO (XO (XI (XO (XO (XI (XI (XO (XO (XI (XO (XI
+    (XO (XO (XO (XI (XI (XO (XI (XI (XI (XI (XO (XO (XO (XI (XO (XI (XO (XI
+    (XI (XI (XI (XI (XI (XO (XI (XO
+    XH))))))))))))))))))))))))))))))))))))))))))))))))))))))))))))))) :: ((Npos
+    (XI (XI (XI (XI (XI (XI (XO (XO (XO (XO (XO (XI (XO (XO (XI (XI (XI (XI
+    (XI (XI (XI (XO (XI (XO (XO (XI (XO (XO (XI (XI (XI (XI (XO (XI (XI (XI
+    (XO (XI (XI (XO (XI (XO (XO (XI (XO (XO (XI (XO (XI (XO (XO (XI (XI (XI
+    (XI (XI (XO (XO (XO (XO (XO (XO (XI
+    XH)))))))))))))))))))))))))))))))))))))))))))))))))))))))))))))))) :: ((Npos
+    (XO (XO (XO (XI (XI (XO (XO (XI (XI (XO (XI (XI (XO (XI (XO (XI (XI (XO
+    (XO (XO (XI (XI (XO (XI (XO (XI (XI (XO (XI (XO (XO (XO (XO (XI (XI (XO
+    (XI (XI (XI (XI (XI (XI (XO (XO (XO (XO (XO (XO (XO (XO (XO (XO (XO (XO
+    (XO (XO (XO (XI (XI (XO (XO (XI (XO
+    XH)))))))))))))))))))))))))))))))))))))))))))))))))))))))))))))))) :: ((Npos
+    (XI (XO (XO (XO (XI (XO (XI (XO (XO (XI (XI (XI (XO (XO (XO (XI (XI (XO
+    (XO (XO (XI (XI (XO (XI (XI (XO (XI (XI (XO (XI (XO (XO (XI (XI (XO (XO
+    (XI (XO (XO (XI (XI (XO (XI (XI (XI (XO (XO (XI (XI (XO (XO (XO (XO (XO
+    (XI (XO (XO (XO (XI (XI (XI (XI (XI
+    XH)))))))))))))))))))))))))))))))))))))))))))))))))))))))))))))))) :: ((Npos
+    (XO (XO (XO (XO (XI (XI (XO (XO (XI (XI (XI (XO (XO (XI (XO (XI (XO (XO
+    (XO (XO (XO (XI (XI (XI (XO (XO (XO (XO (XO (XO (XI (XO (XI (XO (XI (XI
+    (XI (XO (XO (XO (XO (XO (XI (XO (XI (XO (XO (XO (XO (XO (XI (XO (XI (XO
+    (XO (XI (XI (XO (XO (XO (XO (XO (XO
+    XH)))))))))))))))))))))))))))))))))))))))))))))))))))))))))))))))) :: ((Npos
+    (XI (XO (XI (XO (XI (XI (XO (XI (XI (XI (XI (XO (XO (XI (XI (XO (XI (XI
+    (XO (XI (XO (XO (XI (XO (XO (XI (XO (XO (XI (XO (XO (XI (XI (XO (XI (XI
+    (XO (XO (XO (XI (XO (XI (XO (XI (XO (XI (XO (XI (XO (XO (XI (XO (XI (XO
+    (XI (XO (XI (XI (XO (XI (XI (XI (XO
+    XH)))))))))))))))))))))))))))))))))))))))))))))))))))))))))))))))) :: ((Npos
+    (XO (XO (XO (XO (XO (XO (XI (XO (XO (XI (XO (XO (XI (XO (XO (XO (XI (XI
+    (XI (XO (XO (XI (XO (XI (XI (XO (XI (XI (XO (XI (XI (XI (XO (XI (XO (XO
+    (XO (XI (XI (XI (XI (XO (XI (XO (XI (XI (XI (XO (XO (XI (XI (XI (XO (XO
+    (XO (XO (XO (XO (XI (XO (XI
+    XH)))))))))))))))))))))))))))))))))))))))))))))))))))))))))))))) :: ((Npos
+    (XO (XO (XI (XI (XI (XI (XO (XO (XI (XI (XI (XI (XI (XO (XO (XI (XO (XI
+    (XI (XO (XO (XI (XO (XO (XI (XO (XI (XO (XI (XO (XO (XO (XO (XI (XO (XI
+    (XO (XI (XI (XO (XI (XO (XO (XO (XO (XI (XI (XI (XO (XO (XI (XI (XO (XO
+    (XI (XI (XI (XI (XI (XI (XI
+    XH)))))))))))))))))))))))))))))))))))))))))))))))))))))))))))))) :: ((Npos
+    (XI (XO (XI (XI (XI (XI (XO (XO (XI (XO (XO (XI (XI (XO (XI (XO (XI (XI
+    (XI (XO (XI (XO (XI (XO (XI (XI (XO (XO (XI (XI (XO (XO (XI (XI (XO (XI
+    (XI (XI (XI (XO (XO (XI (XI (XO (XO (XI (XI (XO (XI (XI (XI (XI (XO (XO
+    (XI (XO (XI (XO (XO (XO
+    XH))))))))))))))))))))))))))))))))))))))))))))))))))))))))))))) :: ((Npos
+    (XO (XI (XO (XO (XI (XI (XO (XI (XI (XI (XI (XI (XO (XO (XO (XI (XO (XI
+    (XI (XO (XI (XO (XO (XO (XO (XI (XO (XI (XI (XI (XO (XO (XO (XO (XO (XI
+    (XO (XO (XO (XO (XI (XO (XI (XO (XI (XI (XI (XO (XI (XI (XI (XI (XO (XI
+    (XO (XO (XO (XO (XO (XI (XI
+    XH)))))))))))))))))))))))))))))))))))))))))))))))))))))))))))))) :: ((Npos
+    (XO (XI (XI (XI (XO (XI (XO (XI (XO (XO (XO (XI (XI (XI (XI (XI (XI (XI
+    (XO (XI (XO (XI (XO (XI (XI (XI (XI (XI (XI (XO (XI (XI (XO (XI (XO (XO
+    (XO (XO (XI (XO (XO (XI (XI (XO (XO (XI (XO (XI (XI (XO (XI (XI (XO (XI
+    (XO (XI (XO (XO (XI (XO (XI (XO (XO
+    XH)))))))))))))))))))))))))))))))))))))))))))))))))))))))))))))))) :: ((Npos
+    (XI (XO (XI (XO (XO (XI (XO (XO (XI (XI (XI (XI (XI (XO (XO (XI (XO (XI
+    (XO (XO (XO (XO (XO (XI (XO (XI (XO (XO (XI (XI (XO (XO (XI (XI (XI (XI
+    (XO (XO (XI (XO (XO (XO (XO (XI (XO (XI (XO (XO (XI (XI (XI (XI (XO (XI
+    (XI (XO (XO (XI (XI (XI (XI (XO (XI
+    XH)))))))))))))))))))))))))))))))))))))))))))))))))))))))))))))))) :: ((Npos
+    (XO (XO (XI (XO (XO (XI (XO (XO (XI (XI (XO (XI (XI (XO (XI (XO (XO (XO
+    (XO (XO (XO (XI (XI (XI (XO (XO (XI (XO (XO (XO (XO (XI (XI (XI (XI (XO
+    (XO (XI (XO (XO (XO (XI (XO (XI (XO (XI (XI (XI (XO (XI (XO (XO (XI (XO
+    (XO (XI (XO (XO (XO (XO (XO (XO
+    XH))))))))))))))))))))))))))))))))))))))))))))))))))))))))))))))) :: ((Npos
+    (XI (XO (XO (XI (XO (XI (XO (XI (XO (XI (XO (XI (XI (XO (XO (XI (XO (XI
+    (XI (XO (XI (XI (XO (XI (XI (XO (XI (XI (XI (XO (XI (XO (XI (XI (XI (XO
+    (XI (XI (XI (XI (XO (XO (XO (XI (XO (XI (XI (XO (XI (XO (XO (XI (XI (XI
+    (XO (XO (XI (XI (XI (XI (XI (XI (XI
+    XH)))))))))))))))))))))))))))))))))))))))))))))))))))))))))))))))) :: ((Npos
+    (XI (XO (XO (XI (XI (XO (XI (XI (XI (XI (XO (XI (XI (XO (XI (XI (XO (XO
+    (XI (XI (XO (XI (XO (XI (XO (XO (XO (XI (XO (XI (XI (XI (XI (XO (XI (XO
+    (XI (XO (XI (XO (XO (XO (XO (XI (XO (XI (XO (XO (XI (XO (XI (XI (XO (XO
+    (XI (XO (XO (XO (XO (XO (XO (XI
+    XH))))))))))))))))))))))))))))))))))))))))))))))))))))))))))))))) :: ((Npos
+    (XO (XO (XI (XO (XI (XO (XI (XI (XO (XI (XI (XI (XI (XO (XO (XO (XO (XO
+    (XO (XO (XO (XI (XO (XO (XO (XI (XI (XO (XO (XI (XI (XO (XO (XO (XI (XO
+    (XO (XO (XO (XI (XO (XO (XO (XO (XI (XI (XO (XO (XI (XI (XO (XI (XO (XO
+    (XI (XO (XI (XO (XO (XI (XO (XO
+    XH))))))))))))))))))))))))))))))))))))))))))))))))))))))))))))))) :: ((Npos
+    (XI (XI (XI (XO (XI (XI (XI (XI (XO (XI (XI (XO (XI (XO (XO (XI (XO (XO
+    (XO (XI (XO (XI (XO (XO (XO (XO (XO (XO (XO (XI (XI (XO (XO (XI (XI (XO
+    (XI (XO (XI (XI (XO (XI (XO (XI (XI (XI (XO (XO (XI (XI (XO (XO (XO (XO
+    (XI (XI (XO (XI (XO (XO (XO (XO (XO
+    XH)))))))))))))))))))))))))))))))))))))))))))))))))))))))))))))))) :: ((Npos
+    (XO (XO (XI (XO (XO (XI (XI (XO (XI (XO (XO (XO (XO (XI (XI (XI (XI (XI
+    (XO (XI (XO (XO (XO (XI (XO (XO (XO (XI (XI (XI (XO (XO (XI (XO (XO (XO
+    (XO (XO (XI (XO (XI (XI (XI (XI (XI (XI (XI (XO (XO (XI (XI (XO (XO (XI
+    (XO (XI (XI (XI (XI (XO (XO (XI (XO
+    XH)))))))))))))))))))))))))))))))))))))))))))))))))))))))))))))))) :: ((Npos
+    (XO (XO (XO (XI (XO (XI (XI (XO (XI (XO (XO (XO (XO (XO (XO (XO (XI (XO
+    (XI (XO (XO (XO (XI (XO (XI (XI (XI (XI (XO (XO (XO (XO (XI (XI (XI (XI
+    (XI (XO (XI (XO (XO (XI (XI (XI (XO (XI (XO (XO (XI (XI (XO (XO (XO (XI
+    (XI (XI (XI (XI (XO (XI (XI (XO (XI
+    XH)))))))))))))))))))))))))))))))))))))))))))))))))))))))))))))))) :: ((Npos
+    (XI (XI (XI (XO (XO (XO (XI (XO (XI (XI (XO (XI (XO (XO (XI (XO (XO (XO
+    (XI (XO (XI (XO (XO (XI (XI (XI (XO (XI (XO (XI (XO (XI (XI (XI (XO (XI
+    (XO (XO (XO (XO (XO (XI (XO (XI (XI (XO (XO (XO (XI (XO (XI (XO (XO (XO
+    (XI (XO (XO (XI (XO (XO (XO (XI (XI
+    XH)))))))))))))))))))))))))))))))))))))))))))))))))))))))))))))))) :: ((Npos
+    (XI (XI (XI (XO (XO (XO (XO (XI (XI (XO (XO (XI (XO (XI (XO (XO (XI (XO
+    (XI (XO (XI (XO (XO (XO (XO (XI (XI (XO (XO (XO (XI (XI (XI (XO (XO (XO
+    (XI (XO (XI (XO (XO (XO (XO (XI (XO (XI (XO (XO (XI (XO (XO (XO (XO (XO
+    (XO (XI (XI (XO (XI (XO (XO
+    XH)))))))))))))))))))))))))))))))))))))))))))))))))))))))))))))) :: ((Npos
+    (XO (XI (XI (XI (XO (XI (XO (XI (XO (XO (XO (XI (XO (XI (XI (XI (XO (XO
+    (XI (XI (XI (XI (XO (XI (XI (XI (XO (XI (XI (XO (XO (XI (XO (XO (XO (XI
+    (XI (XI (XI (XI (XI (XI (XO (XI (XO (XO (XI (XO (XI (XI (XO (XI (XI (XO
+    (XO (XO (XO (XI (XI (XO (XI (XI (XI
+    XH)))))))))))))))))))))))))))))))))))))))))))))))))))))))))))))))) :: ((Npos
+    (XI (XO (XI (XI (XI (XI (XI (XI (XO (XO (XO (XI (XO (XI (XO (XO (XI (XO
+    (XO (XO (XI (XI (XO (XI (XO (XO (XO (XI (XO (XI (XO (XO (XO (XI (XI (XI
+    (XO (XO (XI (XI (XO (XI (XI (XO (XI (XI (XI (XO (XO (XO (XI (XO (XO (XO
+    (XI (XI (XI (XI (XO (XI (XO (XO (XO
+    XH)))))))))))))))))))))))))))))))))))))))))))))))))))))))))))))))) :: ((Npos
+    (XO (XI (XO (XO (XI (XI (XI (XI (XO (XI (XO (XO (XI (XI (XI (XI (XO (XO
+    (XO (XI (XO (XO (XI (XI (XO (XI (XO (XO (XI (XI (XI (XO (XO (XI (XI (XI
+    (XO (XI (XI (XI (XI (XI (XO (XO (XI (XI (XI (XO (XI (XO (XI (XO (XI (XO
+    (XO (XO (XI (XO (XI (XI (XO (XI (XI
+    XH)))))))))))))))))))))))))))))))))))))))))))))))))))))))))))))))) :: ((Npos
+    (XI (XI (XO (XO (XI (XO (XI (XI (XI (XO (XI (XI (XI (XI (XI (XI (XI (XO
+    (XO (XO (XI (XI (XI (XI (XI (XO (XI (XO (XO (XI (XI (XI (XO (XO (XI (XO
+    (XO (XI (XO (XO (XI (XO (XI (XO (XO (XI (XO (XI (XI (XO (XI (XO (XO (XO
+    (XI (XI
+    XH))))))))))))))))))))))))))))))))))))))))))))))))))))))))) :: ((Npos (XO
+    (XO (XO (XI (XI (XO (XO (XO (XI (XO (XO (XI (XO (XO (XO (XI (XO (XO (XO
+    (XO (XI (XI (XO (XI (XO (XI (XO (XO (XO (XI (XI (XO (XI (XO (XO (XI (XI
+    (XI (XO (XO (XI (XO (XI (XI (XO (XO (XO (XO (XO (XI (XO (XI (XO (XI (XI
+    (XO (XO (XI (XO (XO (XO
+    XH)))))))))))))))))))))))))))))))))))))))))))))))))))))))))))))) :: ((Npos
+    (XO (XO (XI (XO (XO (XI (XI (XO (XI (XI (XI (XO (XO (XI (XI (XO (XI (XI
+    (XI (XO (XO (XO (XO (XI (XO (XO (XI (XI (XO (XI (XI (XI (XI (XO (XO (XO
+    (XO (XO (XI (XI (XI (XO (XI (XI (XI (XI (XO (XI (XO (XO (XI (XI (XO (XO
+    (XI (XO (XI (XI (XI (XI (XO (XI (XO
+    XH)))))))))))))))))))))))))))))))))))))))))))))))))))))))))))))))) :: ((Npos
+    (XI (XO (XO (XO (XI (XI (XO (XO (XI (XO (XI (XO (XO (XO (XI (XI (XI (XI
+    (XI (XI (XO (XO (XO (XI (XO (XO (XI (XO (XO (XI (XO (XI (XO (XI (XO (XI
+    (XI (XO (XI (XO (XI (XI (XI (XI (XI (XI (XI (XI (XI (XI (XO (XI (XO (XO
+    (XO (XO (XI (XI (XI (XI (XI (XO (XO
+    XH)))))))))))))))))))))))))))))))))))))))))))))))))))))))))))))))) :: ((Npos
+    (XO (XO (XO (XI (XO (XO (XO (XO (XI (XO (XO (XI (XI (XI (XO (XI (XO (XI
+    (XI (XI (XO (XI (XO (XO (XI (XI (XO (XO (XO (XI (XO (XO (XO (XO (XI (XI
+    (XO (XI (XO (XI (XI (XO (XO (XI (XO (XI (XO (XI (XI (XI (XI (XI (XI (XO
+    (XO (XI (XI (XO (XO (XO
+    XH))))))))))))))))))))))))))))))))))))))))))))))))))))))))))))) :: ((Npos
+    (XI (XI (XI (XO (XI (XO (XO (XI (XO (XO (XO (XO (XI (XI (XO (XI (XO (XO
+    (XO (XI (XO (XI (XO (XO (XI (XI (XI (XI (XI (XO (XO (XI (XI (XO (XO (XI
+    (XI (XI (XI (XI (XI (XI (XI (XO (XI (XO (XI (XI (XI (XO (XO (XO (XI (XO
+    (XI (XO (XO (XO (XO (XO (XO (XO (XO
+    XH)))))))))))))))))))))))))))))))))))))))))))))))))))))))))))))))) :: ((Npos
+    (XI (XI (XO (XO (XI (XI (XO (XO (XI (XI (XO (XI (XI (XI (XI (XO (XI (XI
+    (XO (XO (XO (XI (XO (XI (XI (XO (XI (XI (XI (XI (XI (XI (XI (XO (XO (XI
+    (XI (XO (XI (XO (XO (XI (XI (XO (XO (XO (XO (XO (XI (XO (XO (XI (XI (XI
+    (XO (XI (XI (XI (XO (XO (XI (XI
+    XH))))))))))))))))))))))))))))))))))))))))))))))))))))))))))))))) :: ((Npos
+    (XO (XO (XI (XO (XO (XO (XI (XI (XI (XO (XI (XI (XI (XO (XI (XO (XI (XO
+    (XI (XI (XI (XI (XI (XI (XI (XO (XO (XO (XI (XI (XO (XO (XO (XO (XO (XO
+    (XI (XO (XI (XI (XI (XI (XO (XI (XO (XO (XO (XI (XI (XI (XO (XI (XI (XI
+    (XI (XI (XO (XI (XO (XI (XI
+    XH)))))))))))))))))))))))))))))))))))))))))))))))))))))))))))))) :: ((Npos
+    (XO (XO (XO (XO (XI (XI (XO (XI (XI (XI (XO (XO (XO (XI (XO (XO (XI (XI
+    (XO (XO (XO (XO (XI (XO (XI (XI (XO (XO (XO (XI (XI (XI (XO (XO (XI (XI
+    (XO (XI (XI (XO (XO (XO (XO (XO (XO (XO (XI (XO (XO (XI (XO (XO (XI (XI
+    (XO (XO (XI (XI (XO (XI (XI
+    XH)))))))))))))))))))))))))))))))))))))))))))))))))))))))))))))) :: ((Npos
+    (XO (XO (XO (XO (XI (XO (XO (XI (XI (XI (XO (XO (XO (XI (XI (XI (XI (XO
+    (XO (XO (XI (XI (XO (XO (XI (XO (XI (XI (XO (XO (XO (XI (XO (XO (XI (XI
+    (XI (XI (XO (XI (XO (XO (XO (XI (XO (XO (XO (XI (XO (XO (XO (XI (XI (XO
+    (XO (XI (XO (XI (XO (XI (XI (XO
+    XH))))))))))))))))))))))))))))))))))))))))))))))))))))))))))))))) :: ((Npos
+    (XI (XI (XO (XI (XI (XI (XO (XO (XO (XO (XI (XO (XI (XI (XI (XO (XI (XI
+    (XI (XO (XI (XI (XO (XO (XI (XI (XI (XO (XO (XI (XO (XO (XI (XI (XO (XO
+    (XI (XI (XI (XI (XO (XO (XO (XO (XO (XO (XO (XO (XO (XO (XI (XO (XI (XO
+    (XO (XO (XI (XO (XO (XO (XI (XI (XO
+    XH)))))))))))))))))))))))))))))))))))))))))))))))))))))))))))))))) :: ((Npos
+    (XO (XO (XI (XO (XI (XO (XO (XI (XO (XO (XO (XO (XI (XO (XO (XI (XO (XI
+    (XO (XO (XI (XI (XO (XI (XI (XO (XO (XO (XO (XI (XI (XI (XI (XO (XO (XO
+    (XI (XI (XI (XO (XI (XO (XO (XI (XO (XI (XI (XO (XO (XI (XO (XI (XI (XI
+    (XI (XI (XI (XO (XO (XI (XI (XI (XO
+    XH)))))))))))))))))))))))))))))))))))))))))))))))))))))))))))))))) :: ((Npos
+    (XI (XO (XO (XO (XI (XO (XO (XO (XO (XO (XO (XO (XO (XO (XI (XO (XO (XO
+    (XO (XO (XI (XO (XO (XI (XO (XI (XI (XO (XO (XI (XI (XO (XO (XO (XO (XO
+    (XO (XO (XO (XI (XO (XO (XI (XI (XI (XO (XO (XI (XO (XI (XI (XO (XI (XO
+    (XI (XO (XI (XO (XO (XI (XI (XI
+    XH))))))))))))))))))))))))))))))))))))))))))))))))))))))))))))))) :: ((Npos
+    (XI (XI (XI (XO (XI (XI (XO (XI (XO (XO (XI (XO (XI (XI (XO (XI (XO (XO
+    (XO (XI (XI (XI (XO (XI (XO (XO (XI (XO (XI (XO (XI (XO (XI (XO (XO (XO
+    (XI (XI (XO (XO (XI (XO (XO (XI (XO (XI (XI (XO (XO (XI (XI (XI (XI (XO
+    (XI (XI (XO (XI (XI (XI (XO (XO (XI
+    XH)))))))))))))))))))))))))))))))))))))))))))))))))))))))))))))))) :: ((Npos
+    (XO (XO (XI (XI (XI (XO (XO (XI (XI (XO (XO (XI (XO (XO (XI (XO (XI (XO
+    (XO (XI (XI (XI (XO (XI (XI (XI (XI (XI (XO (XI (XO (XI (XO (XI (XO (XO
+    (XO (XO (XO (XO (XO (XO (XI (XO (XI (XI (XO (XI (XO (XI (XO (XI (XI (XO
+    (XO (XI (XO (XO (XI (XI (XI (XI (XO
+    XH)))))))))))))))))))))))))))))))))))))))))))))))))))))))))))))))) :: ((Npos
+    (XI (XO (XI (XO (XI (XO (XI (XO (XI (XO (XI (XI (XI (XO (XO (XO (XO (XO
+    (XI (XI (XO (XO (XI (XI (XI (XI (XO (XO (XO (XO (XI (XI (XI (XO (XO (XO
+    (XO (XO (XO (XI (XI (XI (XI (XO (XI (XI (XO (XO (XO (XO (XI (XO (XI (XO
+    (XI (XO (XO (XI (XO (XI (XO (XI
+    XH))))))))))))))))))))))))))))))))))))))))))))))))))))))))))))))) :: ((Npos
+    (XI (XO (XO (XI (XO (XO (XI (XO (XI (XO (XI (XI (XI (XI (XI (XI (XI (XO
+    (XI (XO (XI (XO (XO (XI (XI (XI (XI (XI (XO (XI (XI (XO (XI (XI (XI (XO
+    (XI (XO (XO (XI (XI (XO (XI (XI (XI (XI (XO (XI (XO (XI (XO (XI (XO (XI
+    (XO (XI (XO (XO (XO (XO (XI (XO
+    XH))))))))))))))))))))))))))))))))))))))))))))))))))))))))))))))) :: ((Npos
+    (XO (XO (XI (XI (XI (XI (XI (XI (XI (XI (XI (XO (XO (XI (XO (XI (XO (XO
+    (XO (XI (XO (XO (XI (XO (XO (XI (XI (XO (XI (XI (XO (XI (XO (XI (XI (XO
+    (XI (XI (XO (XI (XO (XI (XI (XO (XO (XI (XO (XI (XI (XO (XO (XO (XO (XI
+    (XO (XI (XI (XO (XI (XO (XI (XO
+    XH))))))))))))))))))))))))))))))))))))))))))))))))))))))))))))))) :: ((Npos
+    (XI (XO (XI (XI (XO (XI (XI (XI (XO (XI (XO (XI (XI (XI (XI (XI (XO (XI
+    (XO (XO (XO (XI (XO (XI (XO (XO (XI (XO (XO (XO (XI (XO (XO (XI (XO (XO
+    (XI (XI (XO (XO (XO (XO (XI (XI (XO (XI (XO (XO (XI (XO (XI (XI (XI (XI
+    (XO (XI (XO (XI (XI (XI (XI (XO (XO
+    XH)))))))))))))))))))))))))))))))))))))))))))))))))))))))))))))))) :: ((Npos
+    (XO (XO (XO (XI (XO (XI (XI (XI (XI (XI (XO (XO (XO (XI (XO (XO (XI (XI
+    (XO (XO (XI (XO (XO (XO (XI (XO (XO (XO (XI (XO (XI (XO (XO (XO (XI (XI
+    (XI (XI (XI (XO (XO (XO (XO (XI (XO (XI (XI (XO (XO (XI (XI (XI (XO (XO
+    (XI (XO (XO (XI (XI (XO (XO (XO (XO
+    XH)))))))))))))))))))))))))))))))))))))))))))))))))))))))))))))))) :: ((Npos
+    (XO (XO (XO (XI (XI (XI (XI (XO (XI (XI (XO (XI (XO (XO (XI (XO (XI (XI
+    (XI (XO (XI (XO (XO (XO (XO (XI (XO (XO (XO (XO (XO (XO (XI (XO (XO (XO
+    (XO (XO (XI (XI (XO (XI (XO (XI (XO (XI (XO (XO (XI (XI (XI (XI (XO (XO
+    (XI (XI (XO (XO (XO (XI (XO (XI (XO
+    XH)))))))))))))))))))))))))))))))))))))))))))))))))))))))))))))))) :: ((Npos
+    (XO (XO (XO (XO (XO (XO (XO (XO (XO (XI (XI (XI (XO (XI (XO (XO (XO (XI
+    (XO (XO (XO (XI (XO (XI (XO (XI (XI (XO (XO (XI (XO (XO (XO (XO (XO (XO
+    (XO (XO (XO (XI (XO (XI (XO (XI (XO (XI (XI (XI (XI (XO (XI (XO (XO (XI
+    (XI (XO (XO (XI (XI (XO (XI
+    XH)))))))))))))))))))))))))))))))))))))))))))))))))))))))))))))) :: ((Npos
+    (XO (XO (XO (XO (XO (XO (XI (XI (XO (XO (XO (XO (XI (XO (XI (XO (XI (XI
+    (XI (XO (XO (XO (XO (XO (XI (XI (XO (XI (XI (XO (XI (XO (XI (XO (XO (XI
+    (XO (XO (XI (XI (XI (XO (XI (XO (XI (XO (XI (XI (XO (XO (XI (XO (XI (XI
+    (XO (XO (XO (XO (XI (XO (XO (XO (XO
+    XH)))))))))))))))))))))))))))))))))))))))))))))))))))))))))))))))) :: ((Npos
+    (XI (XI (XO (XI (XO (XI (XO (XO (XI (XI (XI (XI (XO (XI (XO (XI (XI (XI
+    (XO (XO (XO (XI (XO (XO (XO (XI (XI (XO (XI (XO (XO (XI (XI (XI (XO (XO
+    (XO (XI (XI (XI (XI (XI (XI (XI (XO (XO (XI (XI (XI (XI (XO (XI (XI (XI
+    (XI (XI (XI (XO (XO (XO (XI (XI (XI
+    XH)))))))))))))))))))))))))))))))))))))))))))))))))))))))))))))))) :: ((Npos
+    (XO (XI (XI (XI (XI (XO (XI (XO (XI (XI (XI (XI (XO (XO (XO (XO (XO (XO
+    (XO (XI (XI (XO (XO (XI (XO (XO (XO (XO (XI (XI (XO (XI (XO (XI (XI (XI
+    (XO (XO (XO (XO (XI (XI (XO (XO (XO (XO (XI (XO (XI (XO (XO (XO (XI (XI
+    (XI (XI (XI (XO (XI (XO (XO
+    XH)))))))))))))))))))))))))))))))))))))))))))))))))))))))))))))) :: ((Npos
+    (XO (XI (XO (XO (XI (XI (XO (XI (XO (XO (XO (XI (XO (XO (XO (XO (XO (XO
+    (XO (XI (XO (XO (XO (XO (XO (XI (XI (XI (XI (XO (XO (XI (XO (XO (XO (XI
+    (XI (XI (XI (XO (XI (XO (XO (XO (XI (XO (XO (XO (XO (XI (XO (XI (XO (XO
+    (XO (XO (XI (XO (XI (XO (XI (XO (XI
+    XH)))))))))))))))))))))))))))))))))))))))))))))))))))))))))))))))) :: ((Npos
+    (XO (XO (XO (XO (XI (XI (XO (XI (XO (XI (XO (XI (XO (XI (XO (XO (XI (XO
+    (XI (XI (XI (XI (XO (XI (XO (XI (XO (XO (XO (XI (XO (XO (XI (XI (XI (XO
+    (XO (XO (XI (XO (XI (XO (XO (XI (XI (XO (XI (XO (XI (XI (XO (XO (XO (XI
+    (XI (XI (XI (XI (XI (XO (XI (XO
+    XH))))))))))))))))))))))))))))))))))))))))))))))))))))))))))))))) :: ((Npos
+    (XO (XO (XO (XI (XO (XI (XO (XI (XO (XO (XO (XO (XI (XO (XO (XO (XI (XO
+    (XI (XI (XI (XO (XO (XI (XO (XI (XO (XI (XI (XI (XI (XI (XI (XI (XI (XI
+    (XI (XO (XI (XO (XI (XI (XO (XI (XO (XI (XI (XI (XO (XI (XI (XI (XO (XI
+    (XI (XI (XO (XI (XI (XI (XO (XI (XI
+    XH)))))))))))))))))))))))))))))))))))))))))))))))))))))))))))))))) :: ((Npos
+    (XO (XI (XI (XO (XO (XO (XI (XO (XI (XI (XI (XI (XO (XO (XI (XO (XO (XI
+    (XI (XI (XO (XO (XI (XO (XI (XI (XI (XO (XO (XO (XI (XI (XO (XO (XI (XO
+    (XI (XI (XO (XI (XO (XI (XO (XI (XO (XO (XO (XI (XI (XI (XI (XO (XO (XI
+    (XI (XO (XI (XI (XO (XO (XO (XI
+    XH))))))))))))))))))))))))))))))))))))))))))))))))))))))))))))))) :: ((Npos
+    (XI (XO (XO (XI (XO (XI (XO (XI (XO (XI (XO (XI (XO (XI (XO (XI (XO (XI
+    (XI (XO (XI (XO (XO (XO (XO (XI (XO (XO (XO (XO (XO (XO (XO (XI (XO (XI
+    (XI (XO (XO (XI (XO (XI (XO (XI (XO (XO (XO (XO (XO (XO (XO (XO (XI (XO
+    (XI (XO (XO (XI (XI (XI (XI (XO
+    XH))))))))))))))))))))))))))))))))))))))))))))))))))))))))))))))) :: ((Npos
+    (XI (XO (XO (XI (XO (XO (XI (XI (XO (XI (XO (XO (XI (XO (XI (XO (XI (XO
+    (XO (XO (XI (XO (XI (XI (XO (XO (XO (XI (XI (XO (XI (XO (XO (XI (XI (XI
+    (XO (XI (XI (XI (XI (XO (XI (XO (XI (XI (XI (XI (XI (XI (XO (XI (XO (XI
+    (XI (XO
+    XH))))))))))))))))))))))))))))))))))))))))))))))))))))))))) :: ((Npos (XI
+    (XO (XO (XO (XI (XI (XI (XO (XI (XI (XI (XO (XO (XO (XO (XI (XO (XI (XO
+    (XI (XO (XI (XO (XO (XO (XO (XO (XI (XI (XO (XO (XI (XO (XI (XI (XI (XI
+    (XI (XI (XO (XI (XO (XO (XI (XI (XI (XI (XO (XI (XI (XO (XO (XO (XO (XI
+    (XO (XO (XI (XO (XO (XO (XI (XO
+    XH)))))))))))))))))))))))))))))))))))))))))))))))))))))))))))))))) :: ((Npos
+    (XO (XO (XO (XI (XI (XO (XI (XI (XO (XI (XI (XO (XO (XO (XI (XI (XO (XO
+    (XI (XI (XO (XO (XO (XO (XO (XO (XO (XO (XI (XI (XO (XI (XO (XO (XO (XI
+    (XI (XO (XI (XI (XO (XI (XO (XI (XO (XO (XI (XO (XO (XO (XI (XI (XO (XO
+    (XI (XO (XO (XO (XI (XI (XI
+    XH)))))))))))))))))))))))))))))))))))))))))))))))))))))))))))))) :: ((Npos
+    (XI (XI (XI (XI (XI (XO (XO (XI (XO (XI (XI (XO (XO (XI (XO (XO (XO (XI
+    (XI (XI (XI (XI (XO (XO (XI (XI (XI (XI (XO (XI (XI (XI (XI (XI (XI (XO
+    (XO (XI (XI (XO (XO (XO (XI (XO (XI (XO (XI (XO (XO (XI (XO (XO (XI (XO
+    (XI (XO (XI (XO (XO (XI (XO (XI
+    XH))))))))))))))))))))))))))))))))))))))))))))))))))))))))))))))) :: ((Npos
+    (XI (XO (XI (XO (XO (XO (XI (XO (XI (XO (XI (XO (XI (XO (XO (XO (XO (XO
+    (XI (XI (XI (XI (XI (XO (XO (XO (XI (XO (XO (XO (XO (XI (XI (XI (XI (XO
+    (XI (XO (XO (XI (XO (XI (XI (XI (XO (XI (XO (XI (XI (XO (XO (XO (XI (XO
+    (XI (XO (XI (XO (XO (XO (XI
+    XH)))))))))))))))))))))))))))))))))))))))))))))))))))))))))))))) :: ((Npos
+    (XI (XO (XO (XI (XI (XO (XI (XI (XO (XI (XI (XO (XO (XI (XO (XI (XI (XO
+    (XO (XO (XO (XI (XO (XO (XI (XI (XO (XO (XO (XI (XO (XO (XO (XI (XI (XI
+    (XO (XO (XI (XI (XO (XI (XI (XO (XO (XI (XO (XO (XI (XO (XI (XO (XI (XI
+    (XI (XO (XI (XO (XI (XO (XI (XI
+    XH))))))))))))))))))))))))))))))))))))))))))))))))))))))))))))))) :: ((Npos
+    (XO (XI (XI (XO (XO (XI (XI (XI (XI (XO (XO (XI (XI (XO (XI (XI (XI (XI
+    (XO (XO (XI (XO (XI (XI (XI (XO (XI (XO (XI (XI (XO (XO (XO (XI (XO (XO
+    (XI (XI (XI (XO (XO (XO (XO (XO (XO (XO (XI (XI (XO (XI (XI (XO (XI (XI
+    (XO (XI (XO (XO (XO (XI (XI (XI (XO
+    XH)))))))))))))))))))))))))))))))))))))))))))))))))))))))))))))))) :: ((Npos
+    (XI (XO (XO (XO (XI (XO (XO (XO (XO (XO (XO (XO (XO (XI (XO (XO (XO (XO
+    (XI (XI (XI (XI (XI (XO (XI (XI (XI (XO (XI (XO (XO (XO (XO (XO (XO (XI
+    (XI (XI (XI (XO (XI (XO (XO (XI (XO (XI (XI (XI (XO (XO (XI (XI (XI (XI
+    (XI (XO (XO (XI (XI (XI (XI (XO (XI
+    XH)))))))))))))))))))))))))))))))))))))))))))))))))))))))))))))))) :: ((Npos
+    (XI (XI (XI (XI (XI (XO (XO (XO (XO (XI (XO (XI (XI (XO (XI (XO (XI (XI
+    (XO (XO (XI (XI (XO (XI (XO (XO (XO (XI (XI (XI (XO (XO (XO (XI (XI (XI
+    (XI (XI (XO (XI (XO (XO (XI (XI (XI (XO (XI (XI (XI (XO (XI (XO (XI (XI
+    (XI (XI (XI (XO (XO (XI (XI (XI (XO
+    XH)))))))))))))))))))))))))))))))))))))))))))))))))))))))))))))))) :: ((Npos
+    (XO (XI (XI (XI (XI (XI (XI (XI (XO (XO (XI (XO (XO (XI (XO (XI (XI (XO
+    (XI (XI (XI (XO (XO (XO (XI (XI (XO (XI (XO (XI (XI (XI (XO (XI (XO (XO
+    (XI (XI (XI (XO (XO (XO (XO (XO (XO (XI (XO (XO (XI (XO (XI (XI (XO (XO
+    (XO (XO (XO (XO (XO (XI (XI
+    XH)))))))))))))))))))))))))))))))))))))))))))))))))))))))))))))) :: ((Npos
+    (XO (XO (XI (XO (XO (XO (XO (XI (XI (XO (XO (XO (XO (XO (XO (XI (XO (XI
+    (XI (XO (XO (XO (XO (XI (XI (XO (XO (XO (XO (XI (XO (XO (XO (XI (XI (XO
+    (XO (XI (XO (XI (XI (XO (XI (XO (XO (XI (XI (XI (XI (XO (XI (XO (XO (XI
+    (XI (XI (XI (XO (XI (XO (XI (XO
+    XH))))))))))))))))))))))))))))))))))))))))))))))))))))))))))))))) :: ((Npos
+    (XI (XI (XO (XI (XO (XI (XO (XO (XO (XI (XO (XO (XO (XI (XI (XI (XO (XI
+    (XI (XI (XO (XO (XO (XO (XO (XI (XI (XO (XI (XI (XO (XO (XO (XO (XO (XO
+    (XI (XI (XO (XI (XI (XO (XI (XO (XI (XO (XI (XO (XO (XI (XO (XI (XI (XI
+    (XO (XI (XI (XI (XI (XO (XI
+    XH)))))))))))))))))))))))))))))))))))))))))))))))))))))))))))))) :: ((Npos
+    (XI (XO (XI (XO (XI (XO (XI (XI (XI (XI (XI (XO (XI (XO (XO (XI (XO (XI
+    (XO (XI (XI (XO (XO (XO (XO (XO (XO (XI (XO (XI (XI (XO (XI (XO (XO (XI
+    (XI (XO (XI (XO (XO (XI (XO (XI (XO (XO (XI (XI (XO (XI (XO (XI (XO (XO
+    (XO (XI (XI (XI (XO (XI (XI (XO (XO
+    XH)))))))))))))))))))))))))))))))))))))))))))))))))))))))))))))))) :: ((Npos
+    (XO (XI (XI (XO (XO (XO (XO (XO (XI (XI (XI (XO (XI (XO (XO (XO (XI (XO
+    (XO (XI (XO (XO (XI (XI (XI (XO (XO (XO (XI (XO (XO (XI (XI (XO (XI (XI
+    (XI (XI (XO (XI (XO (XO (XI (XO (XO (XO (XO (XO (XI (XI (XI (XO (XI (XI
+    (XO (XI (XI (XI (XO
+    XH)))))))))))))))))))))))))))))))))))))))))))))))))))))))))))) :: ((Npos
+    (XO (XO (XO (XO (XO (XI (XO (XI (XO (XI (XI (XO (XO (XO (XI (XI (XO (XI
+    (XO (XI (XI (XI (XI (XO (XI (XO (XI (XO (XI (XO (XO (XO (XO (XO (XI (XI
+    (XI (XI (XO (XI (XO (XI (XI (XI (XO (XI (XI (XO (XI (XO (XI (XO (XO (XI
+    (XO (XI (XI (XO (XI (XO (XO (XO (XI
+    XH)))))))))))))))))))))))))))))))))))))))))))))))))))))))))))))))) :: ((Npos
+    (XI (XO (XI (XI (XI (XO (XI (XI (XO (XO (XO (XI (XI (XO (XO (XO (XO (XO
+    (XI (XI (XO (XO (XI (XI (XO (XI (XO (XI (XO (XO (XO (XO (XI (XI (XI (XI
+    (XI (XI (XI (XO (XI (XI (XI (XI (XI (XI (XI (XO (XO (XO (XO (XO (XO (XI
+    (XI (XO (XO (XO (XI (XO
+    XH))))))))))))))))))))))))))))))))))))))))))))))))))))))))))))) :: ((Npos
+    (XI (XO (XI (XO (XI (XI (XI (XI (XO (XI (XI (XI (XI (XI (XI (XI (XI (XI
+    (XO (XI (XI (XI (XI (XI (XI (XO (XI (XO (XI (XI (XO (XI (XI (XI (XO (XO
+    (XO (XI (XO (XI (XO (XO (XO (XO (XI (XO (XO (XO (XO (XO (XI (XI (XO (XO
+    (XO (XI (XO (XO (XI (XO (XI (XO
+    XH))))))))))))))))))))))))))))))))))))))))))))))))))))))))))))))) :: ((Npos
+    (XI (XI (XO (XI (XO (XO (XO (XI (XI (XO (XI (XO (XI (XO (XO (XI (XI (XI
+    (XO (XI (XO (XI (XO (XI (XI (XI (XI (XI (XO (XO (XI (XI (XO (XO (XO (XO
+    (XO (XI (XO (XI (XI (XO (XO (XI (XO (XI (XO (XO (XO (XO (XO (XI (XI (XO
+    (XO (XO (XO (XI (XO (XI (XO (XO
+    XH))))))))))))))))))))))))))))))))))))))))))))))))))))))))))))))) :: ((Npos
+    (XO (XO (XO (XO (XO (XO (XI (XI (XO (XO (XO (XI (XO (XO (XO (XO (XI (XO
+    (XO (XI (XO (XI (XI (XI (XI (XO (XO (XI (XI (XO (XO (XI (XI (XI (XI (XO
+    (XO (XI (XI (XO (XI (XO (XO (XI (XO (XI (XO (XI (XO (XO (XI (XO (XI (XO
+    (XO (XI (XO (XI (XI (XO (XI (XO
+    XH))))))))))))))))))))))))))))))))))))))))))))))))))))))))))))))) :: ((Npos
+    (XO (XI (XI (XI (XI (XI (XI (XI (XI (XO (XO (XO (XO (XO (XO (XI (XI (XO
+    (XO (XI (XO (XO (XO (XI (XO (XI (XO (XI (XI (XI (XO (XI (XI (XI (XO (XO
+    (XO (XI (XO (XO (XO (XO (XI (XO (XI (XI (XO (XO (XI (XO (XO (XO (XI (XI
+    (XO (XI (XI (XO (XI (XI (XO (XI (XI
+    XH)))))))))))))))))))))))))))))))))))))))))))))))))))))))))))))))) :: ((Npos
+    (XO (XO (XO (XI (XO (XI (XI (XI (XI (XI (XO (XO (XO (XO (XI (XO (XO (XO
+    (XI (XO (XO (XI (XI (XO (XO (XO (XO (XI (XO (XI (XI (XI (XO (XI (XI (XI
+    (XO (XO (XI (XI (XO (XO (XI (XO (XO (XI (XO (XO (XI (XI (XI (XI (XO (XI
+    (XI (XO (XI (XO (XO (XI (XI (XI (XI
+    XH)))))))))))))))))))))))))))))))))))))))))))))))))))))))))))))))) :: ((Npos
+    (XI (XI (XO (XI (XI (XO (XI (XI (XO (XO (XO (XI (XO (XI (XI (XI (XI (XI
+    (XI (XI (XO (XO (XO (XI (XI (XI (XO (XO (XO (XI (XI (XI (XO (XI (XI (XI
+    (XO (XI (XO (XI (XI (XI (XO (XI (XO (XO (XO (XI (XO (XO (XO (XI (XI (XI
+    (XO (XI (XO (XI (XI
+    XH)))))))))))))))))))))))))))))))))))))))))))))))))))))))))))) :: ((Npos
+    (XO (XO (XI (XI (XO (XI (XI (XO (XO (XO (XI (XO (XI (XI (XI (XO (XO (XO
+    (XO (XO (XI (XO (XI (XO (XI (XI (XO (XI (XO (XI (XO (XI (XI (XO (XO (XO
+    (XO (XI (XO (XO (XO (XI (XO (XO (XI (XI (XI (XI (XI (XO (XO (XI (XI (XO
+    (XI (XO (XI (XI (XI (XO (XO (XO (XO
+    XH)))))))))))))))))))))))))))))))))))))))))))))))))))))))))))))))) :: ((Npos
+    (XI (XO (XO (XO (XO (XI (XO (XI (XI (XI (XO (XO (XI (XO (XO (XO (XO (XI
+    (XO (XO (XO (XO (XO (XI (XI (XO (XO (XI (XI (XI (XO (XI (XI (XI (XI (XI
+    (XO (XO (XI (XI (XI (XI (XI (XO (XI (XI (XI (XI (XI (XI (XI (XO (XO (XO
+    (XI (XI (XI
+    XH)))))))))))))))))))))))))))))))))))))))))))))))))))))))))) :: ((Npos
+    (XI (XI (XO (XI (XO (XO (XI (XO (XI (XI (XI (XI (XI (XO (XO (XO (XI (XO
+    (XI (XO (XI (XO (XI (XO (XO (XO (XI (XI (XO (XI (XI (XO (XI (XI (XI (XI
+    (XI (XO (XO (XO (XO (XO (XI (XO (XO (XO (XI (XI (XO (XI (XO (XI (XO (XO
+    (XI (XO (XO (XO (XO (XI (XO
+    XH)))))))))))))))))))))))))))))))))))))))))))))))))))))))))))))) :: ((Npos
+    (XO (XI (XI (XI (XI (XI (XI (XO (XI (XO (XO (XI (XI (XI (XI (XI (XI (XI
+    (XI (XI (XI (XO (XO (XI (XI (XO (XI (XO (XI (XI (XI (XI (XI (XI (XO (XI
+    (XO (XI (XO (XO (XO (XO (XI (XI (XO (XI (XO (XI (XI (XI (XO (XI (XI (XO
+    (XO (XO (XI (XO (XO (XI (XO (XO (XI
+    XH)))))))))))))))))))))))))))))))))))))))))))))))))))))))))))))))) :: ((Npos
+    (XO (XI (XI (XI (XO (XI (XO (XI (XI (XI (XO (XO (XI (XI (XO (XI (XI (XO
+    (XI (XI (XO (XO (XI (XO (XO (XI (XO (XI (XO (XO (XO (XI (XO (XO (XO (XO
+    (XI (XI (XI (XI (XI (XI (XI (XO (XI (XO (XI (XI (XI (XI (XI (XI (XI (XI
+    (XO (XO (XO (XI (XO (XI (XO (XO (XO
+    XH)))))))))))))))))))))))))))))))))))))))))))))))))))))))))))))))) :: ((Npos
+    (XI (XO (XO (XO (XI (XI (XO (XI (XO (XI (XI (XO (XO (XO (XI (XI (XO (XO
+    (XI (XI (XI (XO (XO (XI (XO (XO (XO (XI (XI (XO (XO (XI (XO (XI (XO (XO
+    (XO (XO (XO (XI (XO (XO (XI (XO (XO (XI (XO (XO (XO (XO (XI (XI (XO (XO
+    (XI (XO (XO (XO (XO (XI (XI
+    XH)))))))))))))))))))))))))))))))))))))))))))))))))))))))))))))) :: ((Npos
+    (XO (XI (XO (XI (XI (XI (XO (XO (XI (XO (XI (XO (XO (XI (XO (XI (XO (XO
+    (XO (XI (XI (XI (XI (XO (XO (XI (XO (XO (XO (XO (XI (XO (XO (XO (XI (XO
+    (XO (XO (XO (XI (XI (XO (XI (XI (XI (XO (XO (XO (XO (XO (XI (XI (XI (XO
+    (XI (XO (XI (XO (XI (XO (XI (XO (XI
+    XH)))))))))))))))))))))))))))))))))))))))))))))))))))))))))))))))) :: ((Npos
+    (XI (XO (XI (XO (XI (XI (XO (XO (XO (XI (XO (XO (XO (XI (XO (XI (XO (XO
+    (XI (XI (XI (XI (XO (XO (XO (XO (XO (XO (XO (XO (XO (XI (XO (XI (XO (XI
+    (XO (XI (XO (XI (XO (XO (XI (XI (XO (XI (XI (XO (XI (XI (XO (XI (XO (XO
+    (XO (XO (XI (XI (XO (XI (XO (XO (XO
+    XH)))))))))))))))))))))))))))))))))))))))))))))))))))))))))))))))) :: ((Npos
+    (XO (XI (XO (XI (XI (XO (XO (XO (XO (XI (XO (XO (XI (XO (XI (XO (XO (XO
+    (XI (XI (XI (XI (XI (XI (XO (XO (XI (XO (XI (XI (XI (XO (XO (XI (XI (XO
+    (XI (XO (XO (XO (XI (XI (XO (XO (XO (XO (XI (XI (XI (XO (XO (XO (XI (XO
+    (XO (XO (XO (XI (XO (XO (XI
+    XH)))))))))))))))))))))))))))))))))))))))))))))))))))))))))))))) :: ((Npos
+    (XO (XO (XI (XI (XI (XO (XO (XO (XO (XO (XI (XO (XO (XI (XO (XI (XO (XI
+    (XO (XO (XI (XI (XI (XO (XO (XO (XI (XI (XO (XI (XO (XO (XI (XI (XI (XO
+    (XO (XI (XI (XI (XO (XI (XI (XI (XO (XI (XO (XO (XO (XO (XO (XI (XO (XI
+    (XO (XO (XO (XI (XI (XI (XO (XO (XO
+    XH)))))))))))))))))))))))))))))))))))))))))))))))))))))))))))))))) :: ((Npos
+    (XO (XI (XO (XO (XI (XO (XI (XI (XI (XI (XI (XI (XO (XI (XI (XO (XO (XI
+    (XI (XO (XO (XO (XI (XI (XI (XI (XO (XI (XI (XI (XO (XI (XO (XO (XI (XI
+    (XI (XO (XO (XI (XI (XO (XO (XO (XO (XO (XO (XO (XI (XI (XI (XO (XO (XI
+    (XI (XO (XO (XI (XO (XO (XO (XI (XO
+    XH)))))))))))))))))))))))))))))))))))))))))))))))))))))))))))))))) :: ((Npos
+    (XI (XO (XI (XO (XI (XI (XO (XI (XI (XO (XI (XI (XI (XI (XI (XO (XI (XO
+    (XI (XO (XI (XI (XO (XI (XO (XO (XO (XI (XO (XO (XO (XO (XI (XI (XI (XI
+    (XO (XI (XI (XO (XI (XI (XI (XI (XO (XO (XI (XO (XO (XO (XI (XI (XI (XO
+    (XO (XO (XO (XI (XO (XI (XI (XI (XO
+    XH)))))))))))))))))))))))))))))))))))))))))))))))))))))))))))))))) :: ((Npos
+    (XO (XO (XO (XI (XO (XO (XO (XI (XO (XO (XO (XI (XO (XI (XI (XI (XO (XO
+    (XO (XO (XO (XI (XI (XO (XI (XI (XI (XO (XO (XO (XI (XI (XO (XI (XI (XI
+    (XI (XO (XO (XO (XO (XO (XO (XI (XO (XI (XO (XI (XO (XI (XI (XO (XI (XI
+    (XO (XO (XO (XO (XO (XO (XO (XI (XI
+    XH)))))))))))))))))))))))))))))))))))))))))))))))))))))))))))))))) :: ((Npos
+    (XO (XI (XI (XO (XO (XI (XO (XI (XO (XO (XI (XI (XO (XO (XI (XI (XI (XI
+    (XO (XO (XO (XO (XO (XO (XI (XO (XI (XI (XO (XO (XI (XO (XI (XI (XO (XI
+    (XI (XO (XO (XO (XO (XO (XI (XI (XI (XO (XO (XO (XI (XI (XI (XO (XO (XI
+    (XI (XO (XO (XO (XO (XI
+    XH))))))))))))))))))))))))))))))))))))))))))))))))))))))))))))) :: ((Npos
+    (XI (XI (XO (XI (XI (XO (XO (XO (XI (XO (XO (XI (XO (XO (XO (XI (XI (XO
+    (XO (XI (XI (XO (XO (XI (XI (XO (XO (XO (XO (XO (XO (XI (XI (XI (XI (XO
+    (XO (XO (XI (XO (XO (XO (XI (XO (XI (XO (XO (XO (XI (XI (XO (XI (XI (XI
+    (XO (XO (XI (XO (XO (XI (XO (XI
+    XH))))))))))))))))))))))))))))))))))))))))))))))))))))))))))))))) :: ((Npos
+    (XO (XO (XO (XO (XO (XI (XO (XI (XO (XI (XI (XI (XI (XI (XO (XI (XO (XI
+    (XO (XI (XI (XO (XO (XI (XO (XO (XI (XO (XI (XO (XI (XO (XO (XI (XI (XO
+    (XO (XO (XO (XI (XO (XO (XI (XI (XO (XI (XO (XI (XO (XO (XI (XI (XI (XO
+    (XO (XO (XO (XI (XO (XI (XO (XI (XO
+    XH)))))))))))))))))))))))))))))))))))))))))))))))))))))))))))))))) :: ((Npos
+    (XO (XO (XI (XO (XO (XO (XI (XI (XO (XI (XI (XI (XO (XO (XO (XO (XI (XI
+    (XO (XO (XI (XI (XO (XI (XI (XO (XI (XO (XI (XO (XO (XO (XO (XI (XO (XI
+    (XO (XO (XO (XO (XI (XI (XI (XO (XO (XO (XO (XO (XO (XO (XO (XO (XI (XI
+    (XO (XO (XI (XI (XO (XO (XO (XO
+    XH))))))))))))))))))))))))))))))))))))))))))))))))))))))))))))))) :: ((Npos
+    (XO (XO (XO (XI (XI (XI (XI (XI (XO (XI (XI (XO (XI (XO (XI (XO (XI (XO
+    (XI (XO (XO (XO (XI (XI (XO (XO (XI (XI (XO (XO (XI (XO (XO (XI (XO (XO
+    (XO (XI (XI (XO (XI (XI (XI (XI (XI (XI (XI (XO (XO (XO (XI (XI (XO (XI
+    (XI (XO (XO (XO (XO (XI
+    XH))))))))))))))))))))))))))))))))))))))))))))))))))))))))))))) :: ((Npos
+    (XI (XI (XI (XO (XI (XI (XI (XO (XO (XO (XI (XO (XO (XI (XI (XI (XO (XI
+    (XI (XO (XI (XI (XI (XO (XO (XI (XO (XI (XI (XO (XI (XO (XO (XO (XI (XI
+    (XI (XO (XI (XO (XI (XO (XO (XI (XO (XI (XO (XI (XO (XI (XO (XO (XI (XI
+    (XO (XO (XI (XO (XI (XI (XI (XI (XI
+    XH)))))))))))))))))))))))))))))))))))))))))))))))))))))))))))))))) :: ((Npos
+    (XI (XI (XO (XO (XI (XO (XI (XO (XO (XO (XI (XI (XO (XI (XO (XI (XO (XI
+    (XI (XI (XI (XO (XO (XO (XO (XO (XI (XO (XI (XI (XI (XO (XI (XI (XI (XI
+    (XI (XO (XO (XO (XI (XO (XO (XO (XO (XO (XO (XI (XO (XO (XO (XO (XI (XI
+    (XO (XO (XI (XI (XI (XO (XO (XO
+    XH))))))))))))))))))))))))))))))))))))))))))))))))))))))))))))))) :: ((Npos
+    (XI (XO (XI (XI (XI (XO (XO (XO (XI (XI (XO (XO (XI (XO (XI (XO (XI (XI
+    (XI (XO (XI (XI (XO (XI (XI (XO (XO (XO (XI (XI (XO (XI (XO (XI (XO (XI
+    (XI (XI (XI (XI (XI (XI (XI (XO (XI (XO (XO (XO (XO (XI (XI (XO (XO (XO
+    (XO (XO (XO (XI (XO (XO (XO (XI
+    XH))))))))))))))))))))))))))))))))))))))))))))))))))))))))))))))) :: ((Npos
+    (XO (XI (XI (XO (XO (XI (XO (XO (XO (XI (XI (XI (XI (XI (XO (XI (XI (XI
+    (XO (XI (XO (XI (XI (XI (XI (XO (XO (XO (XI (XO (XI (XO (XO (XI (XO (XI
+    (XI (XO (XI (XO (XI (XI (XO (XO (XO (XO (XO (XO (XO (XI (XO (XO (XI (XI
+    (XI (XO (XO (XI (XO (XI (XI
+    XH)))))))))))))))))))))))))))))))))))))))))))))))))))))))))))))) :: ((Npos
+    (XO (XO (XI (XO (XI (XI (XO (XI (XI (XI (XI (XI (XO (XI (XI (XI (XO (XO
+    (XI (XO (XI (XO (XI (XO (XI (XI (XO (XI (XO (XI (XI (XI (XO (XI (XI (XO
+    (XO (XI (XI (XI (XO (XI (XO (XI (XO (XI (XO (XO (XI (XI (XO (XO (XO (XI
+    (XO (XI (XI (XI (XI (XI (XI
+    XH)))))))))))))))))))))))))))))))))))))))))))))))))))))))))))))) :: ((Npos
+    (XO (XI (XI (XO (XO (XO (XI (XO (XO (XO (XO (XI (XI (XI (XI (XO (XI (XI
+    (XI (XI (XI (XO (XO (XI (XI (XI (XI (XO (XI (XI (XO (XI (XI (XO (XO (XI
+    (XI (XO (XI (XO (XI (XO (XI (XI (XI (XI (XO (XO (XI (XO (XO (XI (XO (XO
+    (XI (XI (XO (XO (XI (XI (XI (XO
+    XH))))))))))))))))))))))))))))))))))))))))))))))))))))))))))))))) :: ((Npos
+    (XI (XI (XI (XO (XO (XI (XI (XO (XO (XI (XO (XI (XO (XO (XI (XI (XI (XO
+    (XO (XI (XI (XI (XO (XI (XI (XO (XI (XI (XO (XO (XI (XO (XO (XI (XI (XI
+    (XO (XI (XO (XO (XI (XI (XO (XO (XI (XO (XO (XO (XI (XI (XO (XO (XI (XO
+    (XO (XI (XO (XO (XO (XO (XO (XO
+    XH))))))))))))))))))))))))))))))))))))))))))))))))))))))))))))))) :: ((Npos
+    (XI (XI (XO (XO (XO (XO (XI (XI (XI (XI (XO (XO (XI (XI (XO (XO (XO (XI
+    (XO (XO (XO (XI (XO (XI (XO (XI (XO (XO (XO (XO (XI (XO (XI (XI (XO (XI
+    (XI (XI (XI (XO (XO (XO (XO (XI (XI (XI (XO (XI (XI (XO (XO (XI (XO (XO
+    (XI (XO (XI (XI (XO (XO (XI (XO (XO
+    XH)))))))))))))))))))))))))))))))))))))))))))))))))))))))))))))))) :: ((Npos
+    (XI (XO (XI (XO (XO (XO (XI (XI (XO (XI (XI (XI (XO (XI (XI (XO (XO (XO
+    (XO (XI (XO (XO (XI (XO (XO (XI (XO (XO (XI (XI (XO (XO (XO (XO (XO (XO
+    (XO (XO (XO (XI (XI (XI (XO (XI (XI (XI (XO (XO (XO (XO (XI (XI (XI (XI
+    (XI (XO (XO (XI (XO (XI (XO (XO
+    XH))))))))))))))))))))))))))))))))))))))))))))))))))))))))))))))) :: ((Npos
+    (XI (XI (XO (XO (XI (XI (XO (XO (XO (XO (XI (XO (XO (XI (XO (XI (XI (XO
+    (XI (XI (XI (XI (XI (XO (XO (XO (XO (XO (XO (XO (XI (XI (XO (XO (XI (XI
+    (XO (XO (XO (XO (XI (XI (XI (XI (XO (XO (XI (XO (XI (XO (XO (XI (XO (XI
+    (XI (XO (XI (XI (XI (XI (XO
+    XH)))))))))))))))))))))))))))))))))))))))))))))))))))))))))))))) :: ((Npos
+    (XO (XI (XO (XI (XI (XI (XI (XO (XO (XO (XI (XO (XI (XO (XI (XO (XO (XI
+    (XO (XI (XI (XO (XI (XI (XO (XO (XO (XI (XI (XI (XI (XI (XI (XI (XO (XO
+    (XI (XO (XO (XO (XO (XI (XO (XI (XO (XO (XI (XO (XI (XI (XO (XO (XO (XO
+    (XI (XI (XO (XI (XO (XI (XO (XI (XI
+    XH)))))))))))))))))))))))))))))))))))))))))))))))))))))))))))))))) :: ((Npos
+    (XI (XI (XI (XO (XO (XO (XI (XO (XI (XO (XI (XO (XO (XI (XO (XI (XO (XO
+    (XI (XI (XI (XI (XO (XI (XI (XI (XI (XI (XO (XI (XI (XI (XI (XI (XO (XO
+    (XO (XO (XI (XI (XO (XO (XO (XI (XO (XI (XI (XO (XO (XI (XI (XI (XI (XO
+    (XI (XI (XO (XO (XO (XO (XO (XO
+    XH))))))))))))))))))))))))))))))))))))))))))))))))))))))))))))))) :: ((Npos
+    (XI (XO (XO (XI (XO (XO (XO (XI (XO (XO (XI (XO (XO (XI (XI (XI (XO (XO
+    (XO (XO (XI (XI (XO (XO (XO (XI (XI (XI (XI (XI (XO (XO (XO (XO (XO (XI
+    (XI (XO (XO (XO (XO (XO (XO (XO (XO (XO (XO (XI (XO (XI (XO (XI (XO (XO
+    (XO (XO (XI (XI (XO (XI (XI (XO
+    XH))))))))))))))))))))))))))))))))))))))))))))))))))))))))))))))) :: ((Npos
+    (XO (XO (XI (XI (XI (XO (XI (XO (XO (XI (XO (XO (XI (XO (XI (XI (XO (XO
+    (XO (XI (XI (XO (XI (XO (XI (XI (XO (XI (XO (XO (XO (XO (XO (XI (XO (XO
+    (XO (XI (XO (XI (XI (XO (XO (XO (XO (XO (XI (XO (XO (XI (XO (XI (XO (XO
+    (XO (XI (XO (XI (XO (XI (XI (XO (XI
+    XH)))))))))))))))))))))))))))))))))))))))))))))))))))))))))))))))) :: ((Npos
+    (XO (XI (XI (XI (XO (XO (XO (XO (XI (XI (XO (XO (XI (XO (XO (XI (XO (XI
+    (XO (XO (XI (XO (XI (XI (XI (XI (XO (XO (XO (XO (XI (XO (XI (XO (XO (XO
+    (XO (XI (XO (XO (XI (XO (XO (XI (XI (XO (XO (XO (XO (XI (XI (XO (XO (XO
+    (XO (XI (XI (XI (XI (XI (XI (XI (XO
+    XH)))))))))))))))))))))))))))))))))))))))))))))))))))))))))))))))) :: ((Npos
+    (XO (XO (XI (XI (XI (XO (XO (XI (XO (XI (XO (XO (XI (XO (XI (XO (XI (XI
+    (XI (XI (XI (XO (XI (XO (XI (XI (XO (XI (XI (XO (XO (XI (XI (XO (XI (XO
+    (XO (XO (XI (XO (XO (XO (XO (XO (XO (XO (XI (XO (XI (XO (XI (XI (XO (XI
+    (XI (XO (XO (XI (XI (XI (XI (XO (XO
+    XH)))))))))))))))))))))))))))))))))))))))))))))))))))))))))))))))) :: ((Npos
+    (XI (XO (XI (XO (XO (XO (XI (XI (XO (XI (XI (XI (XO (XO (XI (XI (XI (XO
+    (XI (XI (XO (XO (XO (XI (XI (XI (XO (XI (XI (XI (XI (XO (XO (XI (XI (XI
+    (XI (XI (XO (XO (XO (XO (XO (XI (XI (XO (XO (XI (XI (XI (XO (XI (XI (XI
+    (XI (XI (XI (XI (XI (XO (XO (XO
+    XH))))))))))))))))))))))))))))))))))))))))))))))))))))))))))))))) :: ((Npos
+    (XI (XI (XO (XI (XO (XI (XO (XI (XO (XO (XI (XI (XO (XI (XO (XO (XO (XO
+    (XO (XI (XI (XO (XO (XO (XO (XI (XO (XI (XO (XI (XO (XO (XI (XO (XI (XO
+    (XI (XO (XO (XO (XO (XO (XI (XI (XI (XI (XO (XO (XI (XO (XO (XI (XO (XI
+    (XO (XI (XI (XI (XI (XO (XO (XI (XO
+    XH)))))))))))))))))))))))))))))))))))))))))))))))))))))))))))))))) :: ((Npos
+    (XO (XO (XI (XO (XO (XI (XO (XI (XO (XO (XI (XO (XI (XI (XI (XI (XI (XI
+    (XO (XO (XI (XI (XI (XI (XO (XO (XO (XO (XI (XO (XI (XI (XI (XO (XI (XI
+    (XO (XO (XO (XO (XI (XI (XI (XO (XI (XO (XO (XI (XI (XI (XO (XO (XI (XI
+    (XI (XI (XO (XO (XI (XO (XI (XO (XI
+    XH)))))))))))))))))))))))))))))))))))))))))))))))))))))))))))))))) :: ((Npos
+    (XO (XO (XI (XI (XO (XO (XO (XO (XI (XO (XI (XO (XO (XI (XI (XO (XO (XO
+    (XO (XO (XI (XI (XO (XI (XO (XI (XI (XO (XO (XO (XI (XI (XI (XI (XI (XO
+    (XI (XO (XO (XI (XI (XI (XI (XI (XI (XO (XI (XO (XO (XI (XO (XI (XI (XO
+    (XI (XI (XI (XO (XI (XO (XI (XI (XO
+    XH)))))))))))))))))))))))))))))))))))))))))))))))))))))))))))))))) :: ((Npos
+    (XI (XO (XO (XI (XO (XO (XO (XO (XO (XO (XO (XO (XI (XO (XI (XO (XI (XI
+    (XI (XI (XI (XI (XO (XI (XO (XO (XI (XO (XI (XO (XO (XO (XO (XO (XI (XO
+    (XO (XO (XO (XI (XI (XI (XI (XO (XI (XI (XI (XO (XI (XO (XO (XO (XO (XI
+    (XI (XO (XO (XI (XO (XI (XO (XI (XI
+    XH)))))))))))))))))))))))))))))))))))))))))))))))))))))))))))))))) :: ((Npos
+    (XI (XO (XI (XO (XI (XO (XO (XO (XI (XO (XO (XO (XO (XO (XI (XO (XI (XO
+    (XI (XI (XI (XI (XO (XO (XI (XI (XI (XO (XO (XI (XO (XO (XO (XO (XI (XI
+    (XI (XO (XI (XI (XI (XO (XI (XI (XI (XI (XI (XI (XO (XI (XI (XI (XO (XO
+    (XI (XO (XO (XI (XO (XI (XI (XI
+    XH))))))))))))))))))))))))))))))))))))))))))))))))))))))))))))))) :: ((Npos
+    (XO (XO (XI (XO (XO (XI (XI (XO (XI (XO (XO (XI (XO (XO (XO (XO (XI (XO
+    (XI (XO (XI (XO (XO (XO (XI (XI (XI (XI (XI (XO (XI (XO (XO (XO (XO (XI
+    (XO (XO (XI (XI (XO (XO (XI (XO (XO (XI (XI (XO (XO (XI (XO (XI (XI (XO
+    (XO (XO (XO (XI (XI (XO (XI (XI (XO
+    XH)))))))))))))))))))))))))))))))))))))))))))))))))))))))))))))))) :: ((Npos
+    (XO (XI (XI (XO (XO (XI (XI (XI (XI (XO (XI (XO (XI (XO (XO (XO (XI (XO
+    (XI (XO (XO (XI (XI (XI (XI (XO (XO (XI (XO (XO (XO (XI (XI (XO (XI (XO
+    (XI (XI (XI (XO (XO (XI (XI (XO (XO (XI (XI (XO (XO (XO (XO (XI (XO (XO
+    (XO (XI (XI (XI (XI (XO (XO (XI (XO
+    XH)))))))))))))))))))))))))))))))))))))))))))))))))))))))))))))))) :: ((Npos
+    (XI (XO (XI (XO (XO (XI (XI (XI (XO (XI (XO (XO (XO (XI (XI (XO (XO (XI
+    (XI (XO (XO (XO (XO (XI (XO (XO (XI (XI (XO (XO (XI (XI (XO (XO (XO (XO
+    (XO (XO (XI (XI (XI (XO (XO (XO (XO (XI (XO (XI (XO (XO (XO (XI (XO (XO
+    (XI (XO (XI (XO (XI (XI (XI (XI (XI
+    XH)))))))))))))))))))))))))))))))))))))))))))))))))))))))))))))))) :: ((Npos
+    (XI (XI (XO (XI (XI (XI (XO (XI (XI (XO (XO (XO (XO (XO (XO (XO (XO (XO
+    (XI (XI (XO (XI (XI (XO (XO (XO (XI (XO (XI (XO (XO (XO (XO (XI (XI (XO
+    (XO (XI (XO (XO (XI (XO (XI (XI (XI (XI (XI (XI (XO (XI (XI (XI (XI (XO
+    (XO (XI (XI (XI (XI (XO (XO (XO (XO
+    XH)))))))))))))))))))))))))))))))))))))))))))))))))))))))))))))))) :: ((Npos
+    (XO (XI (XO (XO (XI (XO (XI (XO (XI (XI (XO (XI (XI (XO (XI (XO (XO (XO
+    (XO (XI (XI (XO (XI (XI (XI (XI (XI (XI (XI (XI (XI (XI (XI (XO (XO (XI
+    (XI (XI (XI (XI (XI (XO (XO (XO (XI (XO (XO (XO (XI (XI (XO (XI (XI (XO
+    (XO (XI (XI (XI (XO (XI (XI (XO (XO
+    XH)))))))))))))))))))))))))))))))))))))))))))))))))))))))))))))))) :: ((Npos
+    (XI (XI (XI (XO (XI (XO (XI (XO (XO (XI (XO (XO (XI (XI (XI (XO (XI (XI
+    (XO (XO (XI (XI (XO (XI (XO (XO (XO (XI (XI (XI (XO (XO (XO (XO (XO (XO
+    (XO (XI (XI (XI (XI (XO (XI (XI (XI (XI (XO (XI (XI (XI (XO (XI (XI (XO
+    (XI (XI (XI (XI (XI (XO (XO (XI (XI
+    XH)))))))))))))))))))))))))))))))))))))))))))))))))))))))))))))))) :: ((Npos
+    (XO (XO (XI (XI (XO (XI (XI (XI (XI (XO (XI (XO (XO (XO (XI (XI (XI (XI
+    (XI (XI (XI (XI (XI (XO (XO (XO (XI (XI (XO (XO (XO (XI (XO (XO (XI (XI
+    (XO (XI (XO (XI (XI (XI (XI (XI (XO (XO (XO (XI (XO (XO (XO (XI (XO (XI
+    (XI (XO (XO (XI (XI (XO (XI
+    XH)))))))))))))))))))))))))))))))))))))))))))))))))))))))))))))) :: ((Npos
+    (XI (XO (XO (XO (XI (XI (XI (XI (XO (XI (XI (XI (XI (XO (XI (XI (XO (XO
+    (XO (XO (XI (XO (XO (XO (XO (XO (XO (XI (XO (XI (XI (XO (XI (XI (XI (XO
+    (XO (XO (XO (XO (XI (XI (XI (XI (XO (XI (XI (XO (XO (XI (XI (XO (XI (XI
+    (XI (XI (XI (XI (XI (XI (XI (XI (XI
+    XH)))))))))))))))))))))))))))))))))))))))))))))))))))))))))))))))) :: ((Npos
+    (XI (XO (XO (XO (XO (XO (XI (XO (XO (XO (XI (XO (XI (XO (XI (XI (XI (XI
+    (XI (XO (XO (XO (XI (XI (XO (XO (XO (XO (XO (XI (XO (XO (XO (XI (XI (XO
+    (XI (XI (XI (XI (XI (XI (XO (XO (XO (XI (XI (XO (XO (XO (XI (XO (XO (XO
+    (XI (XO (XO (XO (XO (XI (XI (XO
+    XH))))))))))))))))))))))))))))))))))))))))))))))))))))))))))))))) :: ((Npos
+    (XO (XI (XO (XO (XI (XO (XI (XO (XI (XO (XI (XI (XO (XO (XI (XI (XI (XI
+    (XI (XI (XI (XO (XI (XI (XI (XO (XO (XI (XO (XO (XO (XO (XO (XI (XI (XO
+    (XI (XO (XO (XI (XI (XI (XI (XO (XI (XI (XI (XI (XI (XO (XO (XI (XO (XI
+    (XO (XO (XI (XI (XO (XO (XI (XO (XI
+    XH)))))))))))))))))))))))))))))))))))))))))))))))))))))))))))))))) :: ((Npos
+    (XO (XO (XO (XO (XI (XI (XO (XO (XI (XO (XO (XI (XO (XI (XO (XI (XO (XO
+    (XO (XI (XI (XI (XO (XI (XI (XI (XO (XO (XO (XO (XO (XI (XI (XO (XI (XO
+    (XO (XO (XI (XI (XI (XO (XO (XI (XO (XI (XO (XI (XO (XI (XI (XO (XI (XO
+    (XO (XO (XO (XI (XI (XI (XI (XI
+    XH))))))))))))))))))))))))))))))))))))))))))))))))))))))))))))))) :: ((Npos
+    (XO (XO (XO (XO (XI (XI (XI (XO (XO (XO (XO (XI (XO (XI (XO (XO (XO (XO
+    (XI (XI (XI (XI (XO (XO (XO (XO (XI (XI (XI (XI (XI (XO (XI (XI (XI (XO
+    (XO (XI (XI (XI (XO (XO (XO (XI (XO (XI (XI (XO (XI (XO (XO (XI (XI (XO
+    (XO (XI (XI (XI (XO (XI (XO (XI (XO
+    XH)))))))))))))))))))))))))))))))))))))))))))))))))))))))))))))))) :: ((Npos
+    (XO (XI (XI (XO (XI (XO (XO (XO (XO (XI (XO (XO (XO (XO (XO (XI (XO (XI
+    (XI (XO (XO (XO (XI (XO (XO (XI (XO (XI (XO (XI (XI (XI (XO (XO (XO (XI
+    (XO (XO (XO (XI (XO (XI (XO (XO (XI (XI (XO (XI (XI (XO (XO (XI (XO (XO
+    (XI (XI (XO (XO (XI (XO (XO (XI
+    XH))))))))))))))))))))))))))))))))))))))))))))))))))))))))))))))) :: ((Npos
+    (XI (XO (XI (XI (XI (XI (XO (XI (XI (XO (XI (XI (XI (XO (XO (XI (XO (XI
+    (XI (XI (XI (XI (XO (XI (XI (XI (XO (XO (XI (XI (XI (XO (XI (XO (XO (XI
+    (XO (XI (XO (XO (XO (XI (XO (XO (XO (XO (XO (XO (XO (XO (XI (XI (XO (XO
+    (XI (XI (XI (XO (XI (XI (XO (XI
+    XH))))))))))))))))))))))))))))))))))))))))))))))))))))))))))))))) :: ((Npos
+    (XO (XI (XI (XO (XI (XO (XI (XI (XI (XO (XI (XO (XO (XO (XI (XO (XI (XI
+    (XI (XI (XO (XO (XO (XI (XI (XO (XO (XO (XI (XI (XO (XI (XO (XI (XO (XO
+    (XI (XO (XO (XI (XI (XI (XO (XI (XI (XI (XO (XI (XI (XO (XI (XI (XO (XI
+    (XO (XO (XO (XI (XI (XO (XI (XO (XO
+    XH)))))))))))))))))))))))))))))))))))))))))))))))))))))))))))))))) :: ((Npos
+    (XO (XI (XI (XO (XO (XI (XO (XO (XI (XO (XO (XI (XI (XI (XI (XI (XI (XI
+    (XO (XI (XI (XO (XO (XI (XI (XI (XO (XI (XO (XO (XI (XI (XO (XI (XI (XI
+    (XO (XI (XO (XI (XI (XI (XI (XO (XO (XO (XO (XO (XI (XI (XO (XO (XI (XO
+    (XI (XI (XI (XO (XO (XI (XO (XO
+    XH))))))))))))))))))))))))))))))))))))))))))))))))))))))))))))))) :: ((Npos
+    (XI (XO (XO (XI (XI (XO (XI (XI (XI (XO (XI (XI (XO (XO (XI (XI (XI (XI
+    (XI (XI (XI (XO (XO (XI (XO (XO (XO (XI (XO (XI (XI (XI (XO (XO (XO (XI
+    (XI (XI (XI (XO (XO (XI (XI (XI (XI (XO (XO (XI (XO (XO (XI (XI (XO (XI
+    (XI (XI (XO (XI (XO (XO (XO (XO (XI
+    XH)))))))))))))))))))))))))))))))))))))))))))))))))))))))))))))))) :: ((Npos
+    (XO (XI (XO (XO (XI (XO (XI (XO (XI (XO (XO (XI (XI (XI (XI (XO (XO (XO
+    (XI (XI (XO (XO (XI (XI (XO (XO (XO (XO (XO (XO (XI (XI (XI (XO (XO (XI
+    (XI (XI (XO (XI (XI (XO (XO (XO (XO (XI (XO (XI (XI (XO (XO (XI (XO (XO
+    (XO (XI (XO (XI (XI (XI (XI
+    XH)))))))))))))))))))))))))))))))))))))))))))))))))))))))))))))) :: ((Npos
+    (XO (XO (XO (XI (XO (XI (XI (XI (XI (XO (XO (XI (XI (XI (XO (XI (XO (XI
+    (XO (XO (XI (XI (XI (XO (XI (XO (XI (XI (XO (XO (XI (XO (XO (XI (XO (XI
+    (XO (XI (XI (XI (XO (XI (XO (XI (XI (XI (XI (XO (XO (XI (XI (XI (XO (XI
+    (XI (XO (XO (XI (XO (XI (XI (XO (XI
+    XH)))))))))))))))))))))))))))))))))))))))))))))))))))))))))))))))) :: ((Npos
+    (XI (XO (XO (XO (XI (XO (XO (XI (XO (XO (XI (XI (XI (XO (XO (XI (XI (XI
+    (XO (XO (XO (XO (XI (XI (XO (XO (XI (XO (XI (XI (XO (XO (XO (XO (XI (XO
+    (XI (XO (XO (XI (XO (XI (XO (XO (XO (XI (XI (XI (XI (XI (XO (XI (XO (XO
+    (XI (XI (XI (XO (XI (XI (XI (XO
+    XH))))))))))))))))))))))))))))))))))))))))))))))))))))))))))))))) :: ((Npos
+    (XO (XI (XO (XI (XO (XI (XI (XI (XO (XI (XO (XI (XO (XI (XI (XI (XO (XO
+    (XO (XO (XO (XI (XI (XO (XO (XI (XO (XI (XI (XO (XI (XI (XI (XI (XO (XI
+    (XO (XI (XO (XO (XI (XO (XO (XO (XI (XI (XI (XI (XI (XO (XO (XI (XO (XI
+    (XO (XI (XI (XO (XO (XO (XO (XI
+    XH))))))))))))))))))))))))))))))))))))))))))))))))))))))))))))))) :: ((Npos
+    (XO (XI (XO (XO (XO (XI (XO (XO (XI (XO (XO (XI (XI (XO (XI (XI (XO (XO
+    (XO (XO (XO (XO (XI (XO (XI (XO (XI (XI (XO (XO (XO (XI (XO (XO (XO (XO
+    (XO (XI (XO (XO (XO (XO (XI (XI (XI (XO (XI (XI (XO (XO (XO (XI (XO (XI
+    (XI (XI (XI (XI (XO (XO (XO (XO (XO
+    XH)))))))))))))))))))))))))))))))))))))))))))))))))))))))))))))))) :: ((Npos
+    (XO (XI (XI (XO (XO (XI (XI (XO (XI (XO (XO (XO (XI (XI (XO (XI (XO (XI
+    (XI (XO (XO (XO (XO (XO (XI (XI (XI (XO (XI (XI (XO (XI (XI (XI (XI (XI
+    (XI (XO (XI (XO (XO (XI (XI (XI (XI (XI (XI (XI (XO (XI (XI (XI (XI (XO
+    (XO (XO (XO (XO (XO (XO (XO
+    XH)))))))))))))))))))))))))))))))))))))))))))))))))))))))))))))) :: ((Npos
+    (XI (XI (XI (XO (XO (XI (XI (XI (XO (XO (XI (XO (XO (XO (XO (XO (XI (XI
+    (XO (XO (XO (XI (XO (XI (XO (XI (XO (XI (XI (XO (XO (XO (XO (XI (XI (XI
+    (XO (XI (XI (XI (XO (XO (XO (XI (XI (XO (XO (XI (XO (XO (XO (XI (XI (XI
+    (XO (XI (XI (XI (XI (XI (XI (XO (XI
+    XH)))))))))))))))))))))))))))))))))))))))))))))))))))))))))))))))) :: ((Npos
+    (XO (XI (XO (XI (XO (XO (XI (XI (XO (XO (XO (XI (XO (XO (XO (XO (XO (XO
+    (XI (XI (XI (XO (XI (XO (XI (XO (XO (XO (XI (XO (XO (XI (XO (XI (XO (XI
+    (XI (XI (XI (XI (XI (XO (XI (XO (XI (XO (XI (XO (XO (XO (XO (XO (XI (XI
+    (XI (XI (XO (XI (XO (XO (XI (XO (XI
+    XH)))))))))))))))))))))))))))))))))))))))))))))))))))))))))))))))) :: ((Npos
+    (XO (XI (XO (XO (XI (XI (XI (XI (XO (XI (XI (XO (XO (XO (XO (XI (XI (XI
+    (XO (XI (XI (XO (XI (XO (XI (XO (XI (XO (XI (XO (XI (XI (XI (XO (XI (XI
+    (XO (XO (XO (XI (XI (XO (XI (XO (XO (XO (XO (XI (XO (XO (XO (XO (XI (XO
+    (XO (XO (XO (XO (XO (XO (XO (XO
+    XH))))))))))))))))))))))))))))))))))))))))))))))))))))))))))))))) :: ((Npos
+    (XI (XO (XI (XI (XI (XI (XI (XO (XO (XI (XO (XO (XI (XO (XI (XO (XI (XO
+    (XI (XO (XI (XO (XO (XI (XO (XI (XO (XO (XI (XI (XI (XI (XO (XI (XI (XO
+    (XI (XI (XO (XI (XI (XO (XO (XO (XO (XI (XI (XI (XO (XI (XI (XI (XO (XO
+    (XI (XO (XO (XI (XI (XO (XO (XI
+    XH))))))))))))))))))))))))))))))))))))))))))))))))))))))))))))))) :: ((Npos
+    (XO (XI (XO (XO (XO (XI (XI (XO (XI (XO (XI (XI (XI (XI (XO (XO (XO (XO
+    (XO (XI (XI (XI (XI (XI (XO (XO (XI (XO (XI (XO (XO (XO (XO (XO (XI (XI
+    (XI (XO (XI (XO (XO (XI (XI (XI (XI (XI (XO (XO (XO (XO (XI (XO (XI (XO
+    (XO (XI (XI (XI (XI (XI (XO (XO (XO
+    XH)))))))))))))))))))))))))))))))))))))))))))))))))))))))))))))))) :: ((Npos
+    (XO (XI (XI (XI (XO (XO (XI (XI (XI (XI (XO (XO (XO (XI (XO (XI (XI (XO
+    (XO (XI (XI (XI (XO (XO (XO (XO (XI (XO (XO (XO (XO (XO (XI (XI (XO (XI
+    (XO (XI (XI (XO (XI (XO (XI (XO (XO (XO (XO (XO (XO (XO (XI (XO (XO (XI
+    (XI (XI (XI (XO (XI (XI (XI (XI (XO
+    XH)))))))))))))))))))))))))))))))))))))))))))))))))))))))))))))))) :: ((Npos
+    (XI (XI (XI (XO (XI (XI (XI (XO (XI (XI (XI (XO (XO (XI (XI (XI (XI (XO
+    (XI (XI (XO (XO (XI (XO (XO (XI (XO (XI (XI (XO (XI (XO (XO (XO (XO (XI
+    (XI (XO (XI (XO (XI (XO (XI (XI (XI (XO (XI (XI (XO (XO (XO (XO (XO (XI
+    (XI (XO (XO (XO (XI (XI (XO (XI (XI
+    XH)))))))))))))))))))))))))))))))))))))))))))))))))))))))))))))))) :: ((Npos
+    (XI (XI (XO (XI (XI (XO (XO (XI (XI (XI (XI (XO (XO (XO (XO (XO (XI (XO
+    (XI (XO (XI (XI (XO (XI (XI (XI (XO (XI (XI (XO (XI (XI (XI (XO (XI (XO
+    (XI (XI (XO (XO (XI (XI (XO (XI (XO (XI (XO (XO (XO (XI (XI (XO (XI (XI
+    (XI (XO (XI (XO (XI (XI (XO (XI
+    XH))))))))))))))))))))))))))))))))))))))))))))))))))))))))))))))) :: ((Npos
+    (XI (XI (XI (XI (XO (XI (XO (XI (XO (XO (XI (XI (XI (XO (XI (XO (XO (XO
+    (XI (XO (XO (XI (XO (XO (XI (XO (XO (XI (XO (XO (XI (XI (XI (XI (XO (XO
+    (XI (XI (XO (XO (XI (XO (XI (XI (XO (XI (XI (XI (XO (XO (XI (XI (XI (XO
+    (XI (XI (XI (XO (XO (XO (XO (XI (XO
+    XH)))))))))))))))))))))))))))))))))))))))))))))))))))))))))))))))) :: ((Npos
+    (XO (XO (XI (XO (XO (XI (XI (XI (XO (XI (XO (XI (XI (XI (XO (XI (XO (XO
+    (XI (XI (XO (XO (XI (XO (XO (XI (XO (XI (XI (XI (XO (XI (XO (XO (XO (XO
+    (XI (XI (XI (XO (XI (XO (XO (XI (XI (XO (XO (XI (XI (XO (XO (XO (XI (XI
+    (XO (XI (XI (XI (XI (XI (XO (XO (XI
+    XH)))))))))))))))))))))))))))))))))))))))))))))))))))))))))))))))) :: [])))))))))))))))))))))))))))))))))))))))))))))))))))))))))))))))))))))))))))))))))))))))))))))))))))))))))))))))))))))))))))))))))))))))))))))))))))))))))))))))))))))))))))))))))))))))))))))))))))))))))))))))))))))))))))))))))))))))))))))))))))))))))))))))))))))))))))))))))))))))))))))))))))))))))))))))))))))))))))))))))))))))))))))))))))))))))))))))))))))))))))))))))))))))))))))))))))))))))))))))))))))))))))))))))))))))))))))))))))))))))))))))))))))))))))))))))))))))))))))))))))))))))))))))))))))))))))))))))))))))))))))))))))))))))))))))))))))))))))))))))))))))))))))))))))))))))))))))))))))))))))))))))))))))))))))))))))))))))))))))))))))))))))))))))))))))))))))))))))))))))))))))))))))))))))))))))))))))))))))))))))))))))))))))))))))))))))))))))))))))))))))))
+
+(** val castle_zobrist_tbl : n list **)
+
+let castle_zobrist_tbl =
+  (Npos (XO (XO (XI (XI (XI (XO (XO (XO (XI (XI (XI (XO (XI (XO (XI (XO (XO
+    (XI (XO (XO (XO (XO (XO (XI (XO (XI (XO (XI (XO (XI (XO (XI (XO (XI (XI
+    (XI (XO (XI (XO (XI (XO (XI (XO (XO (XO (XO (XO (XO (XO (XI (XO (XI (XO
+    (XO (XO (XO (XO (XI (XO (XO (XO
+    XH)))))))))))))))))))))))))))))))))))))))))))))))))))))))))))))) :: ((Npos
+    (XI (XI (XO (XI (XO (XO (XI (XI (XI (XI (XO (XI (XO (XO (XI (XO (XO (XO
+    (XI (XO (XI (XO (XO (XI (XI (XO (XI (XO (XO (XI (XI (XO (XI (XI (XI (XO
+    (XO (XI (XI (XI (XO (XI (XO (XO (XO (XO (XO (XI (XO (XI (XI (XI (XO (XI
+    (XO (XI (XI (XI (XO
+    XH)))))))))))))))))))))))))))))))))))))))))))))))))))))))))))) :: ((Npos
+    (XI (XO (XO (XO (XO (XI (XI (XO (XO (XI (XI (XO (XO (XO (XI (XO (XI (XO
+    (XI (XI (XO (XO (XO (XO (XO (XI (XO (XI (XI (XO (XI (XO (XO (XO (XI (XI
+    (XI (XO (XO (XO (XI (XO (XI (XO (XI (XI (XO (XO (XI (XO (XI (XO (XO (XI
+    (XO (XO (XI (XI (XI (XO (XI
+    XH)))))))))))))))))))))))))))))))))))))))))))))))))))))))))))))) :: ((Npos
+    (XI (XI (XI (XI (XI (XO (XO (XI (XI (XO (XI (XI (XO (XO (XI (XO (XO (XO
+    (XO (XI (XO (XI (XI (XO (XO (XO (XI (XI (XO (XI (XI (XO (XO (XI (XO (XO
+    (XO (XO (XI (XI (XI (XI (XI (XI (XO (XI (XO (XO (XI (XI (XO (XO (XO (XI
+    (XI (XI (XO (XO (XO (XO (XO (XO (XI
+    XH)))))))))))))))))))))))))))))))))))))))))))))))))))))))))))))))) :: ((Npos
+    (XI (XI (XO (XO (XO (XO (XO (XO (XI (XI (XI (XO (XI (XI (XO (XI (XO (XO
+    (XO (XI (XI (XO (XO (XI (XO (XO (XO (XI (XO (XO (XI (XO (XI (XO (XI (XI
+    (XI (XI (XO (XO (XO (XI (XO (XO (XO (XO (XO (XI (XI (XI (XI (XO (XI (XO
+    (XO (XO (XO (XI (XI (XO (XO
+    XH)))))))))))))))))))))))))))))))))))))))))))))))))))))))))))))) :: ((Npos
+    (XO (XI (XI (XO (XI (XI (XI (XO (XO (XO (XI (XO (XO (XO (XO (XO (XI (XI
+    (XO (XI (XO (XI (XO (XI (XI (XI (XI (XO (XO (XI (XI (XO (XI (XI (XO (XI
+    (XO (XI (XI (XI (XO (XO (XO (XI (XI (XI (XI (XO (XO (XO (XO (XO (XI (XO
+    (XO (XO (XO (XO (XO (XO (XI (XO
+    XH))))))))))))))))))))))))))))))))))))))))))))))))))))))))))))))) :: ((Npos
+    (XO (XO (XO (XI (XI (XI (XI (XO (XI (XO (XO (XO (XO (XO (XI (XO (XI (XO
+    (XI (XO (XI (XI (XO (XI (XI (XI (XO (XO (XO (XI (XI (XI (XI (XO (XO (XI
+    (XO (XI (XO (XO (XI (XI (XI (XO (XI (XI (XO (XO (XI (XI (XO (XI (XI (XO
+    (XI (XO (XO (XI (XI (XO (XO (XO
+    XH))))))))))))))))))))))))))))))))))))))))))))))))))))))))))))))) :: ((Npos
+    (XI (XI (XO (XI (XI (XO (XO (XO (XI (XI (XO (XI (XI (XO (XO (XI (XI (XO
+    (XO (XI (XI (XO (XI (XI (XO (XO (XI (XI (XO (XI (XO (XI (XI (XI (XO (XO
+    (XI (XO (XI (XO (XI (XO (XO (XO (XI (XI (XO (XI (XO (XI (XO (XI (XO (XI
+    (XI (XI (XI (XO (XO (XI
+    XH))))))))))))))))))))))))))))))))))))))))))))))))))))))))))))) :: ((Npos
+    (XO (XI (XO (XO (XI (XO (XI (XI (XI (XI (XI (XO (XI (XI (XO (XI (XI (XO
+    (XI (XO (XI (XO (XI (XI (XO (XI (XI (XO (XI (XO (XI (XI (XO (XO (XO (XO
+    (XO (XO (XO (XO (XO (XI (XI (XO (XO (XI (XO (XI (XO (XO (XO (XI (XI (XO
+    (XO (XI (XO (XO (XI
+    XH)))))))))))))))))))))))))))))))))))))))))))))))))))))))))))) :: ((Npos
+    (XO (XI (XO (XO (XI (XO (XO (XO (XO (XO (XI (XO (XI (XO (XO (XO (XI (XO
+    (XO (XI (XO (XO (XI (XO (XI (XI (XO (XI (XO (XI (XI (XI (XI (XI (XI (XO
+    (XO (XI (XI (XI (XO (XO (XO (XO (XI (XI (XO (XO (XI (XI (XO (XI (XO (XI
+    (XI XH)))))))))))))))))))))))))))))))))))))))))))))))))))))))) :: ((Npos
+    (XO (XI (XO (XI (XI (XO (XO (XO (XI (XO (XO (XO (XI (XO (XI (XI (XI (XO
+    (XI (XO (XI (XO (XO (XI (XO (XI (XO (XO (XO (XO (XO (XO (XO (XO (XO (XI
+    (XO (XI (XO (XO (XO (XI (XO (XI (XO (XI (XO (XI (XO (XO (XI (XO (XO (XO
+    (XI (XO (XO (XI (XI (XI (XI (XO (XO
+    XH)))))))))))))))))))))))))))))))))))))))))))))))))))))))))))))))) :: ((Npos
+    (XO (XI (XI (XO (XO (XO (XO (XI (XO (XO (XO (XO (XI (XI (XI (XO (XI (XI
+    (XI (XI (XI (XO (XO (XI (XI (XI (XI (XI (XO (XI (XI (XO (XI (XO (XO (XI
+    (XO (XI (XI (XO (XI (XI (XO (XI (XI (XO (XI (XO (XI (XI (XO (XO (XO (XO
+    (XO (XI (XO (XO (XI (XO (XO (XI (XI
+    XH)))))))))))))))))))))))))))))))))))))))))))))))))))))))))))))))) :: ((Npos
+    (XI (XO (XO (XI (XI (XI (XO (XO (XO (XO (XO (XI (XO (XO (XO (XI (XO (XO
+    (XO (XO (XO (XI (XI (XI (XO (XI (XO (XI (XO (XI (XO (XO (XO (XO (XI (XO
+    (XI (XO (XO (XO (XO (XO (XI (XI (XI (XO (XI (XI (XO (XO (XO (XO (XO (XI
+    (XO (XO (XI (XO (XI (XI (XI (XI
+    XH))))))))))))))))))))))))))))))))))))))))))))))))))))))))))))))) :: ((Npos
+    (XO (XI (XI (XI (XO (XO (XI (XO (XO (XI (XO (XI (XO (XO (XI (XO (XO (XO
+    (XI (XI (XI (XO (XI (XI (XO (XI (XO (XO (XO (XI (XI (XI (XO (XO (XO (XI
+    (XI (XO (XO (XI (XO (XI (XO (XO (XO (XI (XO (XI (XO (XO (XO (XI (XI (XI
+    (XI (XI (XO (XI (XO (XI (XI (XO (XO
+    XH)))))))))))))))))))))))))))))))))))))))))))))))))))))))))))))))) :: ((Npos
+    (XO (XO (XO (XI (XO (XI (XO (XO (XO (XO (XI (XI (XI (XI (XO (XO (XI (XO
+    (XO (XI (XO (XO (XO (XI (XO (XI (XI (XI (XO (XI (XI (XI (XO (XI (XI (XI
+    (XI (XI (XI (XI (XO (XO (XO (XI (XO (XO (XO (XO (XI (XO (XI (XO (XI (XO
+    (XI (XI (XO (XI (XO (XO (XO
+    XH)))))))))))))))))))))))))))))))))))))))))))))))))))))))))))))) :: ((Npos
+    (XI (XO (XI (XO (XO (XI (XI (XI (XO (XI (XO (XO (XO (XI (XO (XI (XO (XO
+    (XI (XO (XO (XI (XI (XI (XI (XI (XI (XI (XI (XO (XO (XO (XI (XO (XI (XO
+    (XO (XO (XO (XO (XO (XO (XI (XI (XO (XI (XO (XI (XI (XO (XI (XI (XI (XO
+    (XI (XO (XO (XO (XI (XI (XI (XI
+    XH))))))))))))))))))))))))))))))))))))))))))))))))))))))))))))))) :: [])))))))))))))))
+
+(** val ep_zobrist_tbl : n list **)
+
+let ep_zobrist_tbl =
+  (Npos (XO (XO (XO (XI (XO (XO (XI (XI (XI (XI (XO (XI (XI (XO (XI (XI (XI
+    (XO (XI (XO (XO (XI (XO (XI (XI (XI (XO (XO (XI (XO (XI (XI (XI (XO (XI
+    (XO (XI (XO (XI (XO (XI (XO (XO (XI (XI (XO (XO (XO (XI (XO (XI (XO (XO
+    (XI (XO (XI (XI (XO (XO (XI (XI (XI (XO
+    XH)))))))))))))))))))))))))))))))))))))))))))))))))))))))))))))))) :: ((Npos
+    (XI (XO (XI (XI (XI (XI (XO (XI (XI (XI (XO (XI (XO (XO (XO (XI (XI (XO
+    (XI (XO (XI (XI (XI (XI (XI (XI (XO (XI (XI (XI (XO (XI (XI (XI (XO (XO
+    (XI (XO (XO (XI (XO (XI (XO (XI (XO (XO (XI (XI (XI (XI (XO (XO (XI (XI
+    (XO (XI (XO (XI (XI (XI (XO (XI (XO
+    XH)))))))))))))))))))))))))))))))))))))))))))))))))))))))))))))))) :: ((Npos
+    (XO (XO (XO (XI (XO (XO (XO (XO (XI (XI (XI (XO (XO (XI (XI (XO (XO (XI
+    (XI (XI (XO (XI (XO (XI (XI (XO (XI (XO (XI (XI (XO (XO (XI (XI (XO (XO
+    (XI (XO (XI (XO (XO (XI (XI (XO (XI (XO (XI (XI (XI (XI (XO (XI (XI (XI
+    (XO (XI (XO (XO (XI (XI (XI (XI (XI
+    XH)))))))))))))))))))))))))))))))))))))))))))))))))))))))))))))))) :: ((Npos
+    (XI (XO (XO (XI (XI (XI (XO (XI (XO (XO (XO (XI (XI (XI (XI (XO (XO (XO
+    (XO (XO (XO (XO (XO (XI (XI (XO (XO (XO (XO (XO (XI (XI (XO (XI (XI (XI
+    (XO (XO (XO (XI (XI (XO (XO (XO (XI (XO (XO (XI (XI (XO (XI (XO (XI (XO
+    (XO (XI (XI (XI (XO (XO (XI (XI (XO
+    XH)))))))))))))))))))))))))))))))))))))))))))))))))))))))))))))))) :: ((Npos
+    (XI (XO (XO (XO (XO (XI (XO (XI (XI (XO (XO (XO (XO (XO (XI (XI (XI (XO
+    (XI (XO (XO (XI (XO (XO (XI (XO (XI (XI (XO (XI (XI (XO (XO (XO (XI (XI
+    (XO (XO (XI (XO (XI (XI (XI (XI (XO (XO (XI (XI (XO (XI (XO (XI (XI (XI
+    (XO (XO (XI (XO (XO (XO (XO (XI (XO
+    XH)))))))))))))))))))))))))))))))))))))))))))))))))))))))))))))))) :: ((Npos
+    (XI (XI (XO (XI (XI (XI (XI (XO (XI (XO (XI (XI (XI (XO (XO (XO (XO (XI
+    (XI (XO (XO (XO (XI (XI (XO (XI (XO (XI (XO (XI (XO (XO (XI (XI (XO (XO
+    (XO (XI (XO (XO (XI (XI (XI (XI (XI (XO (XO (XI (XI (XO (XI (XI (XI (XO
+    (XO (XI (XI (XO (XO (XI (XO (XI (XI
+    XH)))))))))))))))))))))))))))))))))))))))))))))))))))))))))))))))) :: ((Npos
+    (XI (XO (XO (XI (XI (XI (XI (XO (XO (XO (XI (XO (XI (XI (XI (XO (XO (XI
+    (XI (XI (XO (XI (XI (XI (XI (XI (XO (XO (XI (XO (XO (XO (XI (XO (XO (XO
+    (XO (XI (XO (XO (XI (XI (XI (XO (XI (XO (XO (XO (XO (XO (XI (XI (XI (XI
+    (XI (XO (XI (XI (XI (XO (XO (XI (XI
+    XH)))))))))))))))))))))))))))))))))))))))))))))))))))))))))))))))) :: ((Npos
+    (XO (XO (XO (XI (XI (XI (XI (XI (XO (XO (XO (XO (XO (XI (XO (XI (XI (XI
+    (XI (XI (XO (XI (XO (XO (XO (XO (XO (XO (XO (XO (XO (XI (XI (XI (XO (XI
+    (XO (XO (XI (XO (XI (XO (XO (XO (XI (XO (XI (XO (XI (XO (XO (XI (XO (XO
+    (XI (XI (XO (XI (XO (XI (XI (XI (XI
+    XH)))))))))))))))))))))))))))))))))))))))))))))))))))))))))))))))) :: [])))))))
+
+(** val turn_zobrist_tbl : n list **)
+
+let turn_zobrist_tbl =
+  (Npos (XO (XI (XI (XO (XI (XI (XO (XI (XO (XO (XI (XI (XI (XI (XI (XO (XI
+    (XI (XI (XI (XO (XI (XO (XI (XI (XI (XO (XI (XI (XI (XI (XI (XO (XO (XO
+    (XI (XI (XI (XI (XO (XI (XI (XI (XI (XI (XO (XO (XI (XO (XO (XO (XI (XO
+    (XI (XO (XO (XO (XI (XO (XO (XI (XO (XI
+    XH)))))))))))))))))))))))))))))))))))))))))))))))))))))))))))))))) :: ((Npos
+    (XI (XO (XO (XO (XO (XO (XI (XO (XI (XI (XI (XI (XI (XO (XO (XO (XI (XI
+    (XI (XI (XI (XI (XO (XI (XI (XI (XI (XI (XI (XI (XO (XI (XO (XI (XI (XI
+    (XI (XO (XO (XI (XO (XO (XI (XI (XI (XI (XO (XO (XI (XO (XI (XI (XI (XI
+    (XI (XO (XI (XO (XO (XO (XO
+    XH)))))))))))))))))))))))))))))))))))))))))))))))))))))))))))))) :: [])
+
+(** val mask64 : n **)
+
+let mask64 =
+  N.ones (Npos (XO (XO (XO (XO (XO (XO XH)))))))
+
+(** val trunc64 : n -> n **)
+
+let trunc64 x =
+  N.coq_land x mask64
+
+(** val not64 : n -> n **)
+
+let not64 x =
+  N.coq_lxor (trunc64 x) mask64
+
+(** val shl64 : n -> n -> n **)
+
+let shl64 x n0 =
+  trunc64 (N.shiftl x n0)
+
+(** val shr64 : n -> n -> n **)
+
+let shr64 =
+  N.shiftr
+
+(** val bit : n -> n **)
+
+let bit s =
+  N.shiftl (Npos XH) s
+
+(** val pos_tz : positive -> n **)
+
+let rec pos_tz = function
+| XO q -> N.succ (pos_tz q)
+| _ -> N0
+
+(** val tz64 : n -> n **)
+
+let tz64 = function
+| N0 -> Npos (XO (XO (XO (XO (XO (XO XH))))))
+| Npos p -> pos_tz p
+
+(** val pos_popcount : positive -> n **)
+
+let rec pos_popcount = function
+| XI q -> N.succ (pos_popcount q)
+| XO q -> pos_popcount q
+| XH -> Npos XH
+
+(** val popcount : n -> n **)
+
+let popcount = function
+| N0 -> N0
+| Npos p -> pos_popcount p
+
+(** val byte_of : n -> n -> n **)
+
+let byte_of x i =
+  N.coq_land (N.shiftr x (N.mul (Npos (XO (XO (XO XH)))) i)) (Npos (XI (XI
+    (XI (XI (XI (XI (XI XH))))))))
+
+(** val bswap64 : n -> n **)
+
+let bswap64 x =
+  fold_left (fun acc i ->
+    N.coq_lor acc
+      (N.shiftl (byte_of x i)
+        (N.mul (Npos (XO (XO (XO XH)))) (N.sub (Npos (XI (XI XH))) i))))
+    (N0 :: ((Npos XH) :: ((Npos (XO XH)) :: ((Npos (XI XH)) :: ((Npos (XO (XO
+    XH))) :: ((Npos (XI (XO XH))) :: ((Npos (XO (XI XH))) :: ((Npos (XI (XI
+    XH))) :: [])))))))) N0
+
+(** val sq_list : n list **)
+
+let sq_list =
+  N0 :: ((Npos XH) :: ((Npos (XO XH)) :: ((Npos (XI XH)) :: ((Npos (XO (XO
+    XH))) :: ((Npos (XI (XO XH))) :: ((Npos (XO (XI XH))) :: ((Npos (XI (XI
+    XH))) :: ((Npos (XO (XO (XO XH)))) :: ((Npos (XI (XO (XO XH)))) :: ((Npos
+    (XO (XI (XO XH)))) :: ((Npos (XI (XI (XO XH)))) :: ((Npos (XO (XO (XI
+    XH)))) :: ((Npos (XI (XO (XI XH)))) :: ((Npos (XO (XI (XI
+    XH)))) :: ((Npos (XI (XI (XI XH)))) :: ((Npos (XO (XO (XO (XO
+    XH))))) :: ((Npos (XI (XO (XO (XO XH))))) :: ((Npos (XO (XI (XO (XO
+    XH))))) :: ((Npos (XI (XI (XO (XO XH))))) :: ((Npos (XO (XO (XI (XO
+    XH))))) :: ((Npos (XI (XO (XI (XO XH))))) :: ((Npos (XO (XI (XI (XO
+    XH))))) :: ((Npos (XI (XI (XI (XO XH))))) :: ((Npos (XO (XO (XO (XI
+    XH))))) :: ((Npos (XI (XO (XO (XI XH))))) :: ((Npos (XO (XI (XO (XI
+    XH))))) :: ((Npos (XI (XI (XO (XI XH))))) :: ((Npos (XO (XO (XI (XI
+    XH))))) :: ((Npos (XI (XO (XI (XI XH))))) :: ((Npos (XO (XI (XI (XI
+    XH))))) :: ((Npos (XI (XI (XI (XI XH))))) :: ((Npos (XO (XO (XO (XO (XO
+    XH)))))) :: ((Npos (XI (XO (XO (XO (XO XH)))))) :: ((Npos (XO (XI (XO (XO
+    (XO XH)))))) :: ((Npos (XI (XI (XO (XO (XO XH)))))) :: ((Npos (XO (XO (XI
+    (XO (XO XH)))))) :: ((Npos (XI (XO (XI (XO (XO XH)))))) :: ((Npos (XO (XI
+    (XI (XO (XO XH)))))) :: ((Npos (XI (XI (XI (XO (XO XH)))))) :: ((Npos (XO
+    (XO (XO (XI (XO XH)))))) :: ((Npos (XI (XO (XO (XI (XO XH)))))) :: ((Npos
+    (XO (XI (XO (XI (XO XH)))))) :: ((Npos (XI (XI (XO (XI (XO
+    XH)))))) :: ((Npos (XO (XO (XI (XI (XO XH)))))) :: ((Npos (XI (XO (XI (XI
+    (XO XH)))))) :: ((Npos (XO (XI (XI (XI (XO XH)))))) :: ((Npos (XI (XI (XI
+    (XI (XO XH)))))) :: ((Npos (XO (XO (XO (XO (XI XH)))))) :: ((Npos (XI (XO
+    (XO (XO (XI XH)))))) :: ((Npos (XO (XI (XO (XO (XI XH)))))) :: ((Npos (XI
+    (XI (XO (XO (XI XH)))))) :: ((Npos (XO (XO (XI (XO (XI XH)))))) :: ((Npos
+    (XI (XO (XI (XO (XI XH)))))) :: ((Npos (XO (XI (XI (XO (XI
+    XH)))))) :: ((Npos (XI (XI (XI (XO (XI XH)))))) :: ((Npos (XO (XO (XO (XI
+    (XI XH)))))) :: ((Npos (XI (XO (XO (XI (XI XH)))))) :: ((Npos (XO (XI (XO
+    (XI (XI XH)))))) :: ((Npos (XI (XI (XO (XI (XI XH)))))) :: ((Npos (XO (XO
+    (XI (XI (XI XH)))))) :: ((Npos (XI (XO (XI (XI (XI XH)))))) :: ((Npos (XO
+    (XI (XI (XI (XI XH)))))) :: ((Npos (XI (XI (XI (XI (XI
+    XH)))))) :: [])))))))))))))))))))))))))))))))))))))))))))))))))))))))))))))))
+
+(** val elements : n -> n list **)
+
+let elements x =
+  filter (fun s -> N.testbit x s) sq_list
+
+type color =
+| White
+| Black
+
+(** val file_of : n -> n **)
+
+let file_of s =
+  N.modulo s (Npos (XO (XO (XO XH))))
+
+(** val rank_of : n -> n **)
+
+let rank_of s =
+  N.div s (Npos (XO (XO (XO XH))))
+
+(** val bb_empty : n **)
+
+let bb_empty =
+  N0
+
+(** val from_pos : n -> n **)
+
+let from_pos s =
+  shl64 (Npos XH) s
+
+(** val fIRST_FILE : n **)
+
+let fIRST_FILE =
+  Npos (XI (XO (XO (XO (XO (XO (XO (XO (XI (XO (XO (XO (XO (XO (XO (XO (XI
+    (XO (XO (XO (XO (XO (XO (XO (XI (XO (XO (XO (XO (XO (XO (XO (XI (XO (XO
+    (XO (XO (XO (XO (XO (XI (XO (XO (XO (XO (XO (XO (XO (XI (XO (XO (XO (XO
+    (XO (XO (XO XH))))))))))))))))))))))))))))))))))))))))))))))))))))))))
+
+(** val fIRST_RANK : n **)
+
+let fIRST_RANK =
+  Npos (XI (XI (XI (XI (XI (XI (XI XH)))))))
+
+(** val from_file : n -> n **)
+
+let from_file f =
+  shl64 fIRST_FILE f
+
+(** val from_rank : n -> n **)
+
+let from_rank r =
+  shl64 fIRST_RANK (N.mul r (Npos (XO (XO (XO XH)))))
+
+(** val bb_or : n -> n -> n **)
+
+let bb_or =
+  N.coq_lor
+
+(** val bb_and : n -> n -> n **)
+
+let bb_and =
+  N.coq_land
+
+(** val bb_xor : n -> n -> n **)
+
+let bb_xor =
+  N.coq_lxor
+
+(** val bb_not : n -> n **)
+
+let bb_not =
+  not64
+
+(** val bb_diff : n -> n -> n **)
+
+let bb_diff a b =
+  bb_and a (bb_not b)
+
+(** val any : n -> bool **)
+
+let any a =
+  negb (N.eqb a N0)
+
+(** val none : n -> bool **)
+
+let none a =
+  N.eqb a N0
+
+(** val bb_all : n -> bool **)
+
+let bb_all a =
+  none (bb_not a)
+
+(** val bb_some : n -> bool **)
+
+let bb_some a =
+  any (bb_not a)
+
+(** val contains : n -> n -> bool **)
+
+let contains a s =
+  any (bb_and a (from_pos s))
+
+(** val bb_with : n -> n -> n **)
+
+let bb_with a s =
+  bb_or a (from_pos s)
+
+(** val cleared : n -> n -> n **)
+
+let cleared a s =
+  bb_diff a (from_pos s)
+
+(** val shift_up : n -> n **)
+
+let shift_up a =
+  shl64 (bb_diff a (from_rank (Npos (XI (XI XH))))) (Npos (XO (XO (XO XH))))
+
+(** val shift_down : n -> n **)
+
+let shift_down a =
+  shr64 (bb_diff a (from_rank N0)) (Npos (XO (XO (XO XH))))
+
+(** val shift_left : n -> n **)
+
+let shift_left a =
+  shr64 (bb_diff a (from_file N0)) (Npos XH)
+
+(** val shift_right : n -> n **)
+
+let shift_right a =
+  shl64 (bb_diff a (from_file (Npos (XI (XI XH))))) (Npos XH)
+
+(** val count : n -> n **)
+
+let count =
+  popcount
+
+(** val flip_ranks : n -> n **)
+
+let flip_ranks =
+  bswap64
+
+(** val pop : n -> (n * n) option **)
+
+let pop a =
+  if N.eqb a N0
+  then None
+  else let z0 = tz64 a in Some (z0, (N.coq_lxor a (shl64 (Npos XH) z0)))
+
+(** val it_next : n -> n option * n **)
+
+let it_next a =
+  match pop a with
+  | Some p -> let (s, a') = p in ((Some s), a')
+  | None -> (None, a)
+
+(** val nth_default_fuel : nat -> n -> n -> n option * n **)
+
+let rec nth_default_fuel fuel a n0 =
+  match fuel with
+  | O -> (None, a)
+  | S f ->
+    if N.eqb n0 N0
+    then it_next a
+    else (match pop a with
+          | Some p -> let (_, a') = p in nth_default_fuel f a' (N.pred n0)
+          | None -> (None, a))
+
+(** val nth_default : n -> n -> n option * n **)
+
+let nth_default a n0 =
+  nth_default_fuel (S (S (S (S (S (S (S (S (S (S (S (S (S (S (S (S (S (S (S
+    (S (S (S (S (S (S (S (S (S (S (S (S (S (S (S (S (S (S (S (S (S (S (S (S
+    (S (S (S (S (S (S (S (S (S (S (S (S (S (S (S (S (S (S (S (S (S (S (S
+    O)))))))))))))))))))))))))))))))))))))))))))))))))))))))))))))))))) a n0
+
+(** val from_squares : n list -> n **)
+
+let from_squares l =
+  fold_left bb_with l bb_empty
+
+(** val from_boards : n list -> n **)
+
+let from_boards l =
+  fold_left bb_or l bb_empty
+
+(** val iter_fuel : nat -> n -> n list **)
+
+let rec iter_fuel fuel a =
+  match fuel with
+  | O -> []
+  | S f ->
+    (match pop a with
+     | Some p -> let (s, a') = p in s :: (iter_fuel f a')
+     | None -> [])
+
+(** val iter_list : n -> n list **)
+
+let iter_list a =
+  iter_fuel (S (S (S (S (S (S (S (S (S (S (S (S (S (S (S (S (S (S (S (S (S (S
+    (S (S (S (S (S (S (S (S (S (S (S (S (S (S (S (S (S (S (S (S (S (S (S (S
+    (S (S (S (S (S (S (S (S (S (S (S (S (S (S (S (S (S (S (S
+    O))))))))))))))))))))))))))))))))))))))))))))))))))))))))))))))))) a
+
+(** val sq_off : n -> z -> z -> n option **)
+
+let sq_off s df dr =
+  let f = Z.add (Z.of_N (N.modulo s (Npos (XO (XO (XO XH)))))) df in
+  let r = Z.add (Z.of_N (N.div s (Npos (XO (XO (XO XH)))))) dr in
+  if (&&)
+       ((&&) ((&&) (Z.leb Z0 f) (Z.ltb f (Zpos (XO (XO (XO XH))))))
+         (Z.leb Z0 r)) (Z.ltb r (Zpos (XO (XO (XO XH)))))
+  then Some (Z.to_N (Z.add (Z.mul r (Zpos (XO (XO (XO XH))))) f))
+  else None
+
+(** val set_of : n list -> n **)
+
+let set_of l =
+  fold_left (fun acc s -> N.coq_lor acc (bit s)) l N0
+
+(** val opt_list : 'a1 option -> 'a1 list **)
+
+let opt_list = function
+| Some x -> x :: []
+| None -> []
+
+(** val offsets_set : n -> (z * z) list -> n **)
+
+let offsets_set s offs =
+  set_of (flat_map (fun d -> opt_list (sq_off s (fst d) (snd d))) offs)
+
+type dir =
+| DN
+| DS
+| DE
+| DW
+| DNE
+| DNW
+| DSE
+| DSW
+
+(** val dvec : dir -> z * z **)
+
+let dvec = function
+| DN -> (Z0, (Zpos XH))
+| DS -> (Z0, (Zneg XH))
+| DE -> ((Zpos XH), Z0)
+| DW -> ((Zneg XH), Z0)
+| DNE -> ((Zpos XH), (Zpos XH))
+| DNW -> ((Zneg XH), (Zpos XH))
+| DSE -> ((Zpos XH), (Zneg XH))
+| DSW -> ((Zneg XH), (Zneg XH))
+
+(** val dopp : dir -> dir **)
+
+let dopp = function
+| DN -> DS
+| DS -> DN
+| DE -> DW
+| DW -> DE
+| DNE -> DSW
+| DNW -> DSE
+| DSE -> DNW
+| DSW -> DNE
+
+(** val rook_dirs : dir list **)
+
+let rook_dirs =
+  DN :: (DS :: (DE :: (DW :: [])))
+
+(** val bishop_dirs : dir list **)
+
+let bishop_dirs =
+  DNE :: (DNW :: (DSE :: (DSW :: [])))
+
+(** val all_dirs : dir list **)
+
+let all_dirs =
+  app rook_dirs bishop_dirs
+
+(** val step : dir -> n -> n option **)
+
+let step d s =
+  sq_off s (fst (dvec d)) (snd (dvec d))
+
+(** val ray_fuel : nat -> dir -> n -> n list **)
+
+let rec ray_fuel n0 d s =
+  match n0 with
+  | O -> []
+  | S n' ->
+    (match step d s with
+     | Some t -> t :: (ray_fuel n' d t)
+     | None -> [])
+
+(** val ray : dir -> n -> n list **)
+
+let ray d s =
+  ray_fuel (S (S (S (S (S (S (S O))))))) d s
+
+(** val knight_offs : (z * z) list **)
+
+let knight_offs =
+  ((Zpos XH), (Zpos (XO XH))) :: (((Zpos (XO XH)), (Zpos XH)) :: (((Zpos (XO
+    XH)), (Zneg XH)) :: (((Zpos XH), (Zneg (XO XH))) :: (((Zneg XH), (Zneg
+    (XO XH))) :: (((Zneg (XO XH)), (Zneg XH)) :: (((Zneg (XO XH)), (Zpos
+    XH)) :: (((Zneg XH), (Zpos (XO XH))) :: [])))))))
+
+(** val king_offs : (z * z) list **)
+
+let king_offs =
+  (Z0, (Zpos XH)) :: (((Zpos XH), (Zpos XH)) :: (((Zpos XH), Z0) :: (((Zpos
+    XH), (Zneg XH)) :: ((Z0, (Zneg XH)) :: (((Zneg XH), (Zneg XH)) :: (((Zneg
+    XH), Z0) :: (((Zneg XH), (Zpos XH)) :: [])))))))
+
+(** val knight_geo : n -> n **)
+
+let knight_geo s =
+  offsets_set s knight_offs
+
+(** val king_geo : n -> n **)
+
+let king_geo s =
+  offsets_set s king_offs
+
+(** val fwd : color -> z **)
+
+let fwd = function
+| White -> Zpos XH
+| Black -> Zneg XH
+
+(** val pawn_att_geo : color -> n -> n **)
+
+let pawn_att_geo c s =
+  offsets_set s (((Zneg XH), (fwd c)) :: (((Zpos XH), (fwd c)) :: []))
+
+(** val start_rank : color -> n **)
+
+let start_rank = function
+| White -> Npos XH
+| Black -> Npos (XO (XI XH))
+
+(** val pawn_push_geo : color -> n -> n **)
+
+let pawn_push_geo c s =
+  offsets_set s
+    (app ((Z0, (fwd c)) :: [])
+      (if N.eqb (rank_of s) (start_rank c)
+       then (Z0, (Z.mul (Zpos (XO XH)) (fwd c))) :: []
+       else []))
+
+(** val rays_set : dir list -> n -> n **)
+
+let rays_set ds s =
+  set_of (flat_map (fun d -> ray d s) ds)
+
+(** val rook_rays_geo : n -> n **)
+
+let rook_rays_geo s =
+  rays_set rook_dirs s
+
+(** val bishop_rays_geo : n -> n **)
+
+let bishop_rays_geo s =
+  rays_set bishop_dirs s
+
+(** val before : n -> n list -> n list option **)
+
+let rec before b = function
+| [] -> None
+| x :: r ->
+  if N.eqb x b
+  then Some []
+  else (match before b r with
+        | Some p -> Some (x :: p)
+        | None -> None)
+
+(** val between_list : n -> n -> n list **)
+
+let between_list a b =
+  flat_map (fun d -> match before b (ray d a) with
+                     | Some p -> p
+                     | None -> []) all_dirs
+
+(** val between_geo : n -> n -> n **)
+
+let between_geo a b =
+  set_of (between_list a b)
+
+(** val on_ray : n -> n -> dir -> bool **)
+
+let on_ray a b d =
+  existsb (N.eqb b) (ray d a)
+
+(** val line_geo : n -> n -> n **)
+
+let line_geo a b =
+  set_of
+    (flat_map (fun d ->
+      if on_ray a b d then a :: (app (ray d a) (ray (dopp d) a)) else [])
+      all_dirs)
+
+(** val absdiff : n -> n -> n **)
+
+let absdiff x y =
+  if N.ltb x y then N.sub y x else N.sub x y
+
+(** val dist_geo : n -> n -> n **)
+
+let dist_geo a b =
+  N.max (absdiff (rank_of a) (rank_of b)) (absdiff (file_of a) (file_of b))
+
+(** val slide_ray : n -> n list -> n list **)
+
+let rec slide_ray occ = function
+| [] -> []
+| t :: r -> t :: (if N.testbit occ t then [] else slide_ray occ r)
+
+(** val slide : dir list -> n -> n -> n **)
+
+let slide ds s occ =
+  set_of (flat_map (fun d -> slide_ray occ (ray d s)) ds)
+
+(** val rook_attacks : n -> n -> n **)
+
+let rook_attacks s occ =
+  slide rook_dirs s occ
+
+(** val bishop_attacks : n -> n -> n **)
+
+let bishop_attacks s occ =
+  slide bishop_dirs s occ
+
+(** val pawn_quiets_spec : color -> n -> n -> n **)
+
+let pawn_quiets_spec c s occ =
+  match sq_off s Z0 (fwd c) with
+  | Some t1 ->
+    if N.testbit occ t1 then N0 else N.ldiff (pawn_push_geo c s) occ
+  | None -> N0
+
+(** val pawn_attacks_spec : color -> n -> n -> n **)
+
+let pawn_attacks_spec c s occ =
+  N.coq_land (pawn_att_geo c s) occ
+
+(** val pawn_moves_spec : color -> n -> n -> n **)
+
+let pawn_moves_spec c s occ =
+  N.coq_lor (pawn_quiets_spec c s occ) (pawn_attacks_spec c s occ)
+
+(** val nthN : n list -> n -> n **)
+
+let nthN l i =
+  nth (N.to_nat i) l N0
+
+(** val lk_castle_zobrist : n -> n **)
+
+let lk_castle_zobrist i =
+  nthN castle_zobrist_tbl i
+
+(** val lk_ep_zobrist : n -> n **)
+
+let lk_ep_zobrist f =
+  nthN ep_zobrist_tbl f
 
 type score =
 | SMin
@@ -189,16 +5395,16 @@ let eqb0 a b =
              | SMax -> true
              | _ -> false)
 
-(** val ltb : score -> score -> bool **)
+(** val ltb0 : score -> score -> bool **)
 
-let ltb a b =
+let ltb0 a b =
   match cmp a b with
   | Lt -> true
   | _ -> false
 
-(** val leb : score -> score -> bool **)
+(** val leb0 : score -> score -> bool **)
 
-let leb a b =
+let leb0 a b =
   match cmp a b with
   | Gt -> false
   | _ -> true
@@ -233,6 +5439,739 @@ let neg = function
 | SWhiteMateIn n0 -> SBlackMateIn n0
 | SMax -> SMin
 
+type promo =
+| PKnight
+| PBishop
+| PRook
+| PQueen
+
+type st_promo =
+| StKnight
+| StBishop
+| StRook
+| StQueen
+| StNone
+
+type mi_promo =
+| MiKnight
+| MiBishop
+| MiRook
+| MiQueen
+| MiNone
+| MiIllegal
+
+type cmove = { c_src : n; c_dst : n; c_piece : promo option }
+
+type smove = { s_src : n; s_dst : n; s_piece : st_promo }
+
+type omove = { o_src : n; o_dst : n; o_piece : mi_promo }
+
+(** val to_stable : cmove -> smove **)
+
+let to_stable m =
+  { s_src = m.c_src; s_dst = m.c_dst; s_piece =
+    (match m.c_piece with
+     | Some p ->
+       (match p with
+        | PKnight -> StKnight
+        | PBishop -> StBishop
+        | PRook -> StRook
+        | PQueen -> StQueen)
+     | None -> StNone) }
+
+(** val of_stable : smove -> cmove **)
+
+let of_stable m =
+  { c_src = m.s_src; c_dst = m.s_dst; c_piece =
+    (match m.s_piece with
+     | StKnight -> Some PKnight
+     | StBishop -> Some PBishop
+     | StRook -> Some PRook
+     | StQueen -> Some PQueen
+     | StNone -> None) }
+
+(** val to_opt_some : cmove -> omove **)
+
+let to_opt_some m =
+  { o_src = m.c_src; o_dst = m.c_dst; o_piece =
+    (match m.c_piece with
+     | Some p ->
+       (match p with
+        | PKnight -> MiKnight
+        | PBishop -> MiBishop
+        | PRook -> MiRook
+        | PQueen -> MiQueen)
+     | None -> MiNone) }
+
+(** val to_opt : cmove option -> omove **)
+
+let to_opt = function
+| Some m0 -> to_opt_some m0
+| None -> { o_src = N0; o_dst = N0; o_piece = MiIllegal }
+
+(** val of_opt : omove -> cmove option **)
+
+let of_opt m =
+  match m.o_piece with
+  | MiKnight ->
+    Some { c_src = m.o_src; c_dst = m.o_dst; c_piece = (Some PKnight) }
+  | MiBishop ->
+    Some { c_src = m.o_src; c_dst = m.o_dst; c_piece = (Some PBishop) }
+  | MiRook ->
+    Some { c_src = m.o_src; c_dst = m.o_dst; c_piece = (Some PRook) }
+  | MiQueen ->
+    Some { c_src = m.o_src; c_dst = m.o_dst; c_piece = (Some PQueen) }
+  | MiNone -> Some { c_src = m.o_src; c_dst = m.o_dst; c_piece = None }
+  | MiIllegal -> None
+
+type st_score =
+| StMin
+| StBlackMateIn of n
+| StRaw of z
+| StWhiteMateIn of n
+| StMax
+
+(** val score_to : score -> st_score **)
+
+let score_to = function
+| SMin -> StMin
+| SBlackMateIn n0 -> StBlackMateIn n0
+| SRaw z0 -> StRaw z0
+| SWhiteMateIn n0 -> StWhiteMateIn n0
+| SMax -> StMax
+
+(** val score_of : st_score -> score **)
+
+let score_of = function
+| StMin -> SMin
+| StBlackMateIn n0 -> SBlackMateIn n0
+| StRaw z0 -> SRaw z0
+| StWhiteMateIn n0 -> SWhiteMateIn n0
+| StMax -> SMax
+
+(** val evaluated_roundtrip :
+    cmove option -> score -> cmove option * score **)
+
+let evaluated_roundtrip m s =
+  ((of_opt (to_opt m)), (score_of (score_to s)))
+
+(** val wrapping_sub_u8 : n -> n -> n **)
+
+let wrapping_sub_u8 x y =
+  N.modulo
+    (N.sub (N.add x (Npos (XO (XO (XO (XO (XO (XO (XO (XO XH)))))))))) y)
+    (Npos (XO (XO (XO (XO (XO (XO (XO (XO XH)))))))))
+
+(** val abs_diff : n -> n -> n **)
+
+let abs_diff a b =
+  if N.ltb a b then N.sub b a else N.sub a b
+
+(** val enum_from_u8 : n -> n -> n option **)
+
+let enum_from_u8 k n0 =
+  if N.ltb n0 k then Some n0 else None
+
+(** val pos_from_u8 : n -> n option **)
+
+let pos_from_u8 n0 =
+  if N.ltb n0 (Npos (XO (XO (XO (XO (XO (XO XH))))))) then Some n0 else None
+
+(** val color_not : n -> n **)
+
+let color_not = function
+| N0 -> Npos XH
+| Npos _ -> N0
+
+(** val side_not : n -> n **)
+
+let side_not = function
+| N0 -> Npos XH
+| Npos _ -> N0
+
+(** val pos_new : n -> n -> n **)
+
+let pos_new f r =
+  N.add (N.mul r (Npos (XO (XO (XO XH))))) f
+
+(** val pos_file : n -> n **)
+
+let pos_file s =
+  N.modulo s (Npos (XO (XO (XO XH))))
+
+(** val pos_rank : n -> n **)
+
+let pos_rank s =
+  N.div s (Npos (XO (XO (XO XH))))
+
+(** val file_shift_left : n -> n option **)
+
+let file_shift_left x =
+  if N.eqb x N0 then None else Some (N.sub x (Npos XH))
+
+(** val file_shift_right : n -> n option **)
+
+let file_shift_right x =
+  if N.eqb x (Npos (XI (XI XH))) then None else Some (N.add x (Npos XH))
+
+(** val rank_shift_down : n -> n option **)
+
+let rank_shift_down x =
+  if N.eqb x N0 then None else Some (N.sub x (Npos XH))
+
+(** val rank_shift_up : n -> n option **)
+
+let rank_shift_up x =
+  if N.eqb x (Npos (XI (XI XH))) then None else Some (N.add x (Npos XH))
+
+(** val pos_shift_up : n -> n option **)
+
+let pos_shift_up s =
+  match rank_shift_up (pos_rank s) with
+  | Some r -> Some (pos_new (pos_file s) r)
+  | None -> None
+
+(** val pos_shift_down : n -> n option **)
+
+let pos_shift_down s =
+  match rank_shift_down (pos_rank s) with
+  | Some r -> Some (pos_new (pos_file s) r)
+  | None -> None
+
+(** val pos_shift_left : n -> n option **)
+
+let pos_shift_left s =
+  match file_shift_left (pos_file s) with
+  | Some f -> Some (pos_new f (pos_rank s))
+  | None -> None
+
+(** val pos_shift_right : n -> n option **)
+
+let pos_shift_right s =
+  match file_shift_right (pos_file s) with
+  | Some f -> Some (pos_new f (pos_rank s))
+  | None -> None
+
+(** val rank_flip : n -> n **)
+
+let rank_flip r =
+  N.sub (Npos (XI (XI XH))) r
+
+(** val pos_flip_rank : n -> n **)
+
+let pos_flip_rank s =
+  pos_new (pos_file s) (rank_flip (pos_rank s))
+
+(** val dist_to : n -> n -> n **)
+
+let dist_to =
+  abs_diff
+
+(** val file_show : n -> n list **)
+
+let file_show f =
+  (N.add (Npos (XI (XO (XO (XO (XO (XI XH))))))) f) :: []
+
+(** val rank_show : n -> n list **)
+
+let rank_show r =
+  (N.add (Npos (XI (XO (XO (XO (XI XH)))))) r) :: []
+
+(** val pos_show : n -> n list **)
+
+let pos_show s =
+  app (file_show (pos_file s)) (rank_show (pos_rank s))
+
+(** val promo_show : n -> n list **)
+
+let promo_show = function
+| N0 -> []
+| Npos p0 ->
+  (match p0 with
+   | XI p1 ->
+     (match p1 with
+      | XH -> (Npos (XO (XI (XO (XO (XI (XO XH))))))) :: []
+      | _ -> [])
+   | XO p1 ->
+     (match p1 with
+      | XI _ -> []
+      | XO p2 ->
+        (match p2 with
+         | XH -> (Npos (XI (XO (XO (XO (XI (XO XH))))))) :: []
+         | _ -> [])
+      | XH -> (Npos (XO (XI (XO (XO (XO (XO XH))))))) :: [])
+   | XH -> (Npos (XO (XI (XI (XI (XO (XO XH))))))) :: [])
+
+(** val move_show : (n * n) -> n list **)
+
+let move_show m =
+  app (pos_show (fst m))
+    (app ((Npos (XI (XO (XI (XI (XO XH)))))) :: []) (pos_show (snd m)))
+
+(** val move_show_full : n -> n -> n option -> n list **)
+
+let move_show_full src dst promo0 =
+  app (move_show (src, dst))
+    (match promo0 with
+     | Some p -> promo_show p
+     | None -> [])
+
+(** val file_from_ascii_byte : n -> n option **)
+
+let file_from_ascii_byte b =
+  let s =
+    wrapping_sub_u8 (N.coq_lor b (Npos (XO (XO (XO (XO (XO XH))))))) (Npos
+      (XI (XO (XO (XO (XO (XI XH)))))))
+  in
+  if N.ltb s (Npos (XO (XO (XO XH)))) then Some s else None
+
+(** val rank_from_ascii_byte : n -> n option **)
+
+let rank_from_ascii_byte b =
+  let s = wrapping_sub_u8 b (Npos (XI (XO (XO (XO (XI XH)))))) in
+  if N.ltb s (Npos (XO (XO (XO XH)))) then Some s else None
+
+(** val file_from_ascii_bytes : n list -> n option **)
+
+let file_from_ascii_bytes = function
+| [] -> None
+| b :: l0 -> (match l0 with
+              | [] -> file_from_ascii_byte b
+              | _ :: _ -> None)
+
+(** val rank_from_ascii_bytes : n list -> n option **)
+
+let rank_from_ascii_bytes = function
+| [] -> None
+| b :: l0 -> (match l0 with
+              | [] -> rank_from_ascii_byte b
+              | _ :: _ -> None)
+
+(** val pos_from_ascii_bytes : n list -> n option **)
+
+let pos_from_ascii_bytes = function
+| [] -> None
+| fb :: l0 ->
+  (match l0 with
+   | [] -> None
+   | rb :: l1 ->
+     (match l1 with
+      | [] ->
+        (match file_from_ascii_byte fb with
+         | Some f ->
+           (match rank_from_ascii_byte rb with
+            | Some r -> Some (pos_new f r)
+            | None -> None)
+         | None -> None)
+      | _ :: _ -> None))
+
+(** val piece_from_ascii_byte : n -> n option **)
+
+let piece_from_ascii_byte b =
+  if (||) (N.eqb b (Npos (XO (XO (XO (XO (XI (XI XH))))))))
+       (N.eqb b (Npos (XO (XO (XO (XO (XI (XO XH))))))))
+  then Some N0
+  else if (||) (N.eqb b (Npos (XO (XI (XI (XI (XO (XI XH))))))))
+            (N.eqb b (Npos (XO (XI (XI (XI (XO (XO XH))))))))
+       then Some (Npos XH)
+       else if (||) (N.eqb b (Npos (XO (XI (XO (XO (XO (XI XH))))))))
+                 (N.eqb b (Npos (XO (XI (XO (XO (XO (XO XH))))))))
+            then Some (Npos (XO XH))
+            else if (||) (N.eqb b (Npos (XO (XI (XO (XO (XI (XI XH))))))))
+                      (N.eqb b (Npos (XO (XI (XO (XO (XI (XO XH))))))))
+                 then Some (Npos (XI XH))
+                 else if (||)
+                           (N.eqb b (Npos (XI (XO (XO (XO (XI (XI XH))))))))
+                           (N.eqb b (Npos (XI (XO (XO (XO (XI (XO XH))))))))
+                      then Some (Npos (XO (XO XH)))
+                      else if (||)
+                                (N.eqb b (Npos (XI (XI (XO (XI (XO (XI
+                                  XH))))))))
+                                (N.eqb b (Npos (XI (XI (XO (XI (XO (XO
+                                  XH))))))))
+                           then Some (Npos (XI (XO XH)))
+                           else None
+
+(** val piece_from_ascii_bytes : n list -> n option **)
+
+let piece_from_ascii_bytes = function
+| [] -> None
+| b :: l0 -> (match l0 with
+              | [] -> piece_from_ascii_byte b
+              | _ :: _ -> None)
+
+(** val promo_from_ascii_byte : n -> n option **)
+
+let promo_from_ascii_byte b =
+  if (||) (N.eqb b (Npos (XO (XI (XI (XI (XO (XI XH))))))))
+       (N.eqb b (Npos (XO (XI (XI (XI (XO (XO XH))))))))
+  then Some (Npos XH)
+  else if (||) (N.eqb b (Npos (XO (XI (XO (XO (XO (XI XH))))))))
+            (N.eqb b (Npos (XO (XI (XO (XO (XO (XO XH))))))))
+       then Some (Npos (XO XH))
+       else if (||) (N.eqb b (Npos (XO (XI (XO (XO (XI (XI XH))))))))
+                 (N.eqb b (Npos (XO (XI (XO (XO (XI (XO XH))))))))
+            then Some (Npos (XI XH))
+            else if (||) (N.eqb b (Npos (XI (XO (XO (XO (XI (XI XH))))))))
+                      (N.eqb b (Npos (XI (XO (XO (XO (XI (XO XH))))))))
+                 then Some (Npos (XO (XO XH)))
+                 else None
+
+(** val promo_from_ascii_bytes : n list -> n option **)
+
+let promo_from_ascii_bytes = function
+| [] -> None
+| b :: l0 -> (match l0 with
+              | [] -> promo_from_ascii_byte b
+              | _ :: _ -> None)
+
+(** val move_of_bytes : n -> n -> n -> n -> (n * n) option **)
+
+let move_of_bytes sf sr df dr =
+  match pos_from_ascii_bytes (sf :: (sr :: [])) with
+  | Some src ->
+    (match pos_from_ascii_bytes (df :: (dr :: [])) with
+     | Some dst -> Some (src, dst)
+     | None -> None)
+  | None -> None
+
+(** val move_from_ascii_bytes : n list -> (n * n) option **)
+
+let move_from_ascii_bytes = function
+| [] -> None
+| sf :: l0 ->
+  (match l0 with
+   | [] -> None
+   | sr :: l1 ->
+     (match l1 with
+      | [] -> None
+      | df :: l2 ->
+        (match l2 with
+         | [] -> None
+         | dr :: l3 ->
+           (match l3 with
+            | [] -> move_of_bytes sf sr df dr
+            | dr0 :: l4 ->
+              (match l4 with
+               | [] ->
+                 if N.eqb df (Npos (XI (XO (XI (XI (XO XH))))))
+                 then move_of_bytes sf sr dr dr0
+                 else None
+               | _ :: _ -> None)))))
+
+type range = { lo : n; hi : n }
+
+(** val forward_checked : n -> n -> n option **)
+
+let forward_checked start n0 =
+  if N.leb n0 (Npos (XI (XI (XI (XI (XI (XI (XI XH))))))))
+  then if N.leb (N.add start n0) (Npos (XI (XI (XI (XI (XI (XI (XI XH))))))))
+       then Some (N.add start n0)
+       else None
+  else None
+
+(** val backward_checked : n -> n -> n option **)
+
+let backward_checked start n0 =
+  if N.leb n0 (Npos (XI (XI (XI (XI (XI (XI (XI XH))))))))
+  then if N.leb n0 start then Some (N.sub start n0) else None
+  else None
+
+(** val r_next : range -> n option * range **)
+
+let r_next r =
+  if N.ltb r.lo r.hi
+  then ((Some r.lo), { lo = (N.add r.lo (Npos XH)); hi = r.hi })
+  else (None, r)
+
+(** val r_nth : n -> range -> n option * range **)
+
+let r_nth n0 r =
+  match forward_checked r.lo n0 with
+  | Some p ->
+    if N.ltb p r.hi
+    then ((Some p), { lo = (N.add p (Npos XH)); hi = r.hi })
+    else (None, { lo = r.hi; hi = r.hi })
+  | None -> (None, { lo = r.hi; hi = r.hi })
+
+(** val r_next_back : range -> n option * range **)
+
+let r_next_back r =
+  if N.ltb r.lo r.hi
+  then ((Some (N.sub r.hi (Npos XH))), { lo = r.lo; hi =
+         (N.sub r.hi (Npos XH)) })
+  else (None, r)
+
+(** val r_nth_back : n -> range -> n option * range **)
+
+let r_nth_back n0 r =
+  match backward_checked r.hi n0 with
+  | Some m ->
+    if N.ltb r.lo m
+    then ((Some (N.sub m (Npos XH))), { lo = r.lo; hi = (N.sub m (Npos XH)) })
+    else (None, { lo = r.lo; hi = r.lo })
+  | None -> (None, { lo = r.lo; hi = r.lo })
+
+(** val r_size_hint : range -> n * n option **)
+
+let r_size_hint r =
+  if N.ltb r.lo r.hi
+  then ((N.sub r.hi r.lo), (Some (N.sub r.hi r.lo)))
+  else (N0, (Some N0))
+
+type iop =
+| INext
+| INextBack
+| INth of n
+| INthBack of n
+| ISizeHint
+
+(** val r_step : iop -> range -> n option * range **)
+
+let r_step op0 r =
+  match op0 with
+  | INext -> r_next r
+  | INextBack -> r_next_back r
+  | INth n0 -> r_nth n0 r
+  | INthBack n0 -> r_nth_back n0 r
+  | ISizeHint -> ((Some (fst (r_size_hint r))), r)
+
+(** val it_step : n -> iop -> range -> n option * range **)
+
+let it_step k op0 r =
+  match op0 with
+  | ISizeHint -> ((Some (fst (r_size_hint r))), r)
+  | _ ->
+    let (o, r') = r_step op0 r in
+    ((match o with
+      | Some v -> enum_from_u8 k v
+      | None -> None), r')
+
+(** val run_it : n -> range -> iop list -> n option list **)
+
+let rec run_it k r = function
+| [] -> []
+| op0 :: t -> let (o, r') = it_step k op0 r in o :: (run_it k r' t)
+
+(** val run_iter : n -> iop list -> n option list **)
+
+let run_iter k ops =
+  run_it k { lo = N0; hi = k } ops
+
+(** val allpos_next : n -> n option * n **)
+
+let allpos_next p =
+  match pos_from_u8 p with
+  | Some s -> ((Some s), (N.add p (Npos XH)))
+  | None -> (None, p)
+
+(** val allpos_size_hint : n -> n **)
+
+let allpos_size_hint p =
+  N.sub (Npos (XO (XO (XO (XO (XO (XO XH))))))) p
+
+(** val allpos_step : iop -> n -> n option * n **)
+
+let allpos_step op0 p =
+  match op0 with
+  | INext -> allpos_next p
+  | ISizeHint -> ((Some (allpos_size_hint p)), p)
+  | _ -> (None, p)
+
+(** val run_allpos_from : n -> iop list -> n option list **)
+
+let rec run_allpos_from p = function
+| [] -> []
+| op0 :: t -> let (o, p') = allpos_step op0 p in o :: (run_allpos_from p' t)
+
+(** val run_allpos : iop list -> n option list **)
+
+let run_allpos ops =
+  run_allpos_from N0 ops
+
+(** val file_iter_next : n -> range -> n option * range **)
+
+let file_iter_next f r =
+  let (o, r') = it_step (Npos (XO (XO (XO XH)))) INext r in
+  ((match o with
+    | Some rk -> Some (pos_new f rk)
+    | None -> None), r')
+
+(** val rank_iter_next : n -> range -> n option * range **)
+
+let rank_iter_next rk r =
+  let (o, r') = it_step (Npos (XO (XO (XO XH)))) INext r in
+  ((match o with
+    | Some f -> Some (pos_new f rk)
+    | None -> None), r')
+
+type flag =
+| FGlobal
+| FEnabled
+| FDisabled
+
+type op =
+| OEnable
+| ODisable
+| OToggle
+| OLocalEnable
+| OLocalDisable
+| OLocalToggle
+| OLocalTake
+| ORestore of flag
+| OIsEnabled
+
+type st = { g : bool; loc : (n * flag) list }
+
+(** val lookup : (n * flag) list -> n -> flag **)
+
+let rec lookup l t =
+  match l with
+  | [] -> FGlobal
+  | p :: r -> let (u, f) = p in if N.eqb u t then f else lookup r t
+
+(** val update : (n * flag) list -> n -> flag -> (n * flag) list **)
+
+let rec update l t f =
+  match l with
+  | [] -> (t, f) :: []
+  | p :: r ->
+    let (u, f') = p in
+    if N.eqb u t then (t, f) :: r else (u, f') :: (update r t f)
+
+(** val get_loc : st -> n -> flag **)
+
+let get_loc s t =
+  lookup s.loc t
+
+(** val set_loc : st -> n -> flag -> st **)
+
+let set_loc s t f =
+  { g = s.g; loc = (update s.loc t f) }
+
+(** val set_g : st -> bool -> st **)
+
+let set_g s b =
+  { g = b; loc = s.loc }
+
+(** val toggle_flag : flag -> flag **)
+
+let toggle_flag = function
+| FGlobal -> FGlobal
+| FEnabled -> FDisabled
+| FDisabled -> FEnabled
+
+(** val view : st -> n -> bool **)
+
+let view s t =
+  match get_loc s t with
+  | FGlobal -> s.g
+  | FEnabled -> true
+  | FDisabled -> false
+
+(** val step0 : st -> n -> op -> (st * bool option) * flag option **)
+
+let step0 s t = function
+| OEnable -> (((set_g (set_loc s t FEnabled) true), None), None)
+| ODisable -> (((set_g (set_loc s t FDisabled) false), None), None)
+| OToggle ->
+  (((set_g (set_loc s t (toggle_flag (get_loc s t))) (negb s.g)), None), None)
+| OLocalEnable -> (((set_loc s t FEnabled), None), None)
+| OLocalDisable -> (((set_loc s t FDisabled), None), None)
+| OLocalToggle -> (((set_loc s t (toggle_flag (get_loc s t))), None), None)
+| OLocalTake -> (((set_loc s t FGlobal), None), (Some (get_loc s t)))
+| ORestore f -> (((set_loc s t f), None), None)
+| OIsEnabled -> ((s, (Some (view s t))), None)
+
+(** val init : st **)
+
+let init =
+  { g = true; loc = [] }
+
+(** val views : st -> n list -> bool list **)
+
+let views s ths =
+  map (view s) ths
+
+type sop =
+| SEnable
+| SDisable
+| SToggle
+| SLocalEnable
+| SLocalDisable
+| SLocalToggle
+| SLocalTake
+| SRestoreTop
+| SIsEnabled
+
+type stacks = (n * flag list) list
+
+(** val get_stack : stacks -> n -> flag list **)
+
+let rec get_stack k t =
+  match k with
+  | [] -> []
+  | p :: r -> let (u, l) = p in if N.eqb u t then l else get_stack r t
+
+(** val set_stack : stacks -> n -> flag list -> stacks **)
+
+let rec set_stack k t l =
+  match k with
+  | [] -> (t, l) :: []
+  | p :: r ->
+    let (u, l') = p in
+    if N.eqb u t then (t, l) :: r else (u, l') :: (set_stack r t l)
+
+(** val resolve_op : flag list -> sop -> op **)
+
+let resolve_op stk = function
+| SEnable -> OEnable
+| SDisable -> ODisable
+| SToggle -> OToggle
+| SLocalEnable -> OLocalEnable
+| SLocalDisable -> OLocalDisable
+| SLocalToggle -> OLocalToggle
+| SLocalTake -> OLocalTake
+| SRestoreTop -> (match stk with
+                  | [] -> OIsEnabled
+                  | f :: _ -> ORestore f)
+| SIsEnabled -> OIsEnabled
+
+(** val sstep : st -> stacks -> n -> sop -> st * stacks **)
+
+let sstep s k t o =
+  let stk = get_stack k t in
+  let (p, tok) = step0 s t (resolve_op stk o) in
+  let (s', _) = p in
+  let k' =
+    match o with
+    | SLocalTake ->
+      (match tok with
+       | Some f -> set_stack k t (f :: stk)
+       | None -> k)
+    | SRestoreTop ->
+      (match stk with
+       | [] -> k
+       | _ :: rest -> set_stack k t rest)
+    | _ -> k
+  in
+  (s', k')
+
+(** val run_stack_from :
+    n list -> st -> stacks -> (n * sop) list -> (st * stacks) * bool list list **)
+
+let rec run_stack_from ths s k = function
+| [] -> ((s, k), [])
+| p :: r ->
+  let (t, o) = p in
+  let (s', k') = sstep s k t o in
+  let (p0, obs) = run_stack_from ths s' k' r in (p0, ((views s' ths) :: obs))
+
+(** val run_stack : n list -> (n * sop) list -> bool list list **)
+
+let run_stack ths tr =
+  snd (run_stack_from ths init [] tr)
+
 (** val api_score_cmp : score -> score -> comparison **)
 
 let api_score_cmp =
@@ -251,12 +6190,12 @@ let api_score_eqb =
 (** val api_score_ltb : score -> score -> bool **)
 
 let api_score_ltb =
-  ltb
+  ltb0
 
 (** val api_score_leb : score -> score -> bool **)
 
 let api_score_leb =
-  leb
+  leb0
 
 (** val api_score_gtb : score -> score -> bool **)
 
@@ -277,3 +6216,432 @@ let api_score_min =
 
 let api_score_neg =
   neg
+
+(** val api_color : n -> color **)
+
+let api_color i =
+  if N.eqb i N0 then White else Black
+
+(** val api_table : n -> n -> n **)
+
+let api_table name s =
+  match name with
+  | N0 -> knight_geo s
+  | Npos p ->
+    (match p with
+     | XI p0 ->
+       (match p0 with
+        | XI p1 -> (match p1 with
+                    | XH -> pawn_push_geo Black s
+                    | _ -> N0)
+        | XO p1 -> (match p1 with
+                    | XH -> pawn_att_geo Black s
+                    | _ -> N0)
+        | XH -> bishop_rays_geo s)
+     | XO p0 ->
+       (match p0 with
+        | XI p1 -> (match p1 with
+                    | XH -> pawn_push_geo White s
+                    | _ -> N0)
+        | XO p1 -> (match p1 with
+                    | XH -> pawn_att_geo White s
+                    | _ -> N0)
+        | XH -> rook_rays_geo s)
+     | XH -> king_geo s)
+
+(** val api_between : n -> n -> n **)
+
+let api_between =
+  between_geo
+
+(** val api_line : n -> n -> n **)
+
+let api_line =
+  line_geo
+
+(** val api_dist : n -> n -> n **)
+
+let api_dist =
+  dist_geo
+
+(** val api_rook_attacks : n -> n -> n **)
+
+let api_rook_attacks =
+  rook_attacks
+
+(** val api_bishop_attacks : n -> n -> n **)
+
+let api_bishop_attacks =
+  bishop_attacks
+
+(** val api_pawn_quiets : n -> n -> n -> n **)
+
+let api_pawn_quiets c s occ =
+  pawn_quiets_spec (api_color c) s occ
+
+(** val api_pawn_attacks : n -> n -> n -> n **)
+
+let api_pawn_attacks c s occ =
+  pawn_attacks_spec (api_color c) s occ
+
+(** val api_pawn_moves : n -> n -> n -> n **)
+
+let api_pawn_moves c s occ =
+  pawn_moves_spec (api_color c) s occ
+
+(** val api_ranks : n list -> n **)
+
+let api_ranks rs =
+  set_of (filter (fun s -> existsb (N.eqb (rank_of s)) rs) sq_list)
+
+(** val api_files : n list -> n **)
+
+let api_files fs =
+  set_of (filter (fun s -> existsb (N.eqb (file_of s)) fs) sq_list)
+
+(** val api_squares : n list -> n **)
+
+let api_squares =
+  set_of
+
+(** val api_adjacent : n -> n **)
+
+let api_adjacent i =
+  set_of (filter (fun s -> N.eqb (absdiff (file_of s) i) (Npos XH)) sq_list)
+
+(** val api_adjacent_ranks : n -> n **)
+
+let api_adjacent_ranks i =
+  set_of (filter (fun s -> N.eqb (absdiff (rank_of s) i) (Npos XH)) sq_list)
+
+(** val api_zk : n -> n -> n **)
+
+let api_zk kind0 i =
+  match kind0 with
+  | N0 -> nthN piece_zobrist_tbl i
+  | Npos p ->
+    (match p with
+     | XI _ -> nthN turn_zobrist_tbl i
+     | XO p0 ->
+       (match p0 with
+        | XH -> lk_ep_zobrist i
+        | _ -> nthN turn_zobrist_tbl i)
+     | XH -> lk_castle_zobrist i)
+
+(** val api_elements : n -> n list **)
+
+let api_elements =
+  elements
+
+(** val api_bb_not : n -> n **)
+
+let api_bb_not =
+  bb_not
+
+(** val api_shift_up : n -> n **)
+
+let api_shift_up =
+  shift_up
+
+(** val api_shift_down : n -> n **)
+
+let api_shift_down =
+  shift_down
+
+(** val api_shift_left : n -> n **)
+
+let api_shift_left =
+  shift_left
+
+(** val api_shift_right : n -> n **)
+
+let api_shift_right =
+  shift_right
+
+(** val api_flip_ranks : n -> n **)
+
+let api_flip_ranks =
+  flip_ranks
+
+(** val api_count : n -> n **)
+
+let api_count =
+  count
+
+(** val api_pop : n -> (n * n) option **)
+
+let api_pop =
+  pop
+
+(** val api_iter_list : n -> n list **)
+
+let api_iter_list =
+  iter_list
+
+(** val api_from_squares : n list -> n **)
+
+let api_from_squares =
+  from_squares
+
+(** val api_from_boards : n list -> n **)
+
+let api_from_boards =
+  from_boards
+
+(** val api_from_pos : n -> n **)
+
+let api_from_pos =
+  from_pos
+
+(** val api_from_file : n -> n **)
+
+let api_from_file =
+  from_file
+
+(** val api_from_rank : n -> n **)
+
+let api_from_rank =
+  from_rank
+
+(** val api_contains : n -> n -> bool **)
+
+let api_contains =
+  contains
+
+(** val api_with : n -> n -> n **)
+
+let api_with =
+  bb_with
+
+(** val api_cleared : n -> n -> n **)
+
+let api_cleared =
+  cleared
+
+(** val api_or : n -> n -> n **)
+
+let api_or =
+  bb_or
+
+(** val api_and : n -> n -> n **)
+
+let api_and =
+  bb_and
+
+(** val api_xor : n -> n -> n **)
+
+let api_xor =
+  bb_xor
+
+(** val api_diff : n -> n -> n **)
+
+let api_diff =
+  bb_diff
+
+(** val api_any : n -> bool **)
+
+let api_any =
+  any
+
+(** val api_none : n -> bool **)
+
+let api_none =
+  none
+
+(** val api_all : n -> bool **)
+
+let api_all =
+  bb_all
+
+(** val api_some : n -> bool **)
+
+let api_some =
+  bb_some
+
+(** val api_nth_default : n -> n -> n option * n **)
+
+let api_nth_default =
+  nth_default
+
+(** val api_nth_spec : n -> n -> n option * n **)
+
+let api_nth_spec a n0 =
+  let l = elements a in
+  if N.ltb n0 (Npos (XO (XO (XO (XO (XO (XO XH)))))))
+  then ((nth_error l (N.to_nat n0)), (set_of (skipn (S (N.to_nat n0)) l)))
+  else (None, N0)
+
+(** val api_abi_stable_rt : cmove -> cmove **)
+
+let api_abi_stable_rt m =
+  of_stable (to_stable m)
+
+(** val api_abi_eval_rt : cmove option -> score -> cmove option * score **)
+
+let api_abi_eval_rt =
+  evaluated_roundtrip
+
+(** val api_file_from_ascii_bytes : n list -> n option **)
+
+let api_file_from_ascii_bytes =
+  file_from_ascii_bytes
+
+(** val api_rank_from_ascii_bytes : n list -> n option **)
+
+let api_rank_from_ascii_bytes =
+  rank_from_ascii_bytes
+
+(** val api_pos_from_ascii_bytes : n list -> n option **)
+
+let api_pos_from_ascii_bytes =
+  pos_from_ascii_bytes
+
+(** val api_piece_from_ascii_bytes : n list -> n option **)
+
+let api_piece_from_ascii_bytes =
+  piece_from_ascii_bytes
+
+(** val api_promo_from_ascii_bytes : n list -> n option **)
+
+let api_promo_from_ascii_bytes =
+  promo_from_ascii_bytes
+
+(** val api_move_from_ascii_bytes : n list -> (n * n) option **)
+
+let api_move_from_ascii_bytes =
+  move_from_ascii_bytes
+
+(** val api_pos_show : n -> n list **)
+
+let api_pos_show =
+  pos_show
+
+(** val api_file_show : n -> n list **)
+
+let api_file_show =
+  file_show
+
+(** val api_rank_show : n -> n list **)
+
+let api_rank_show =
+  rank_show
+
+(** val api_move_show_full : n -> n -> n option -> n list **)
+
+let api_move_show_full =
+  move_show_full
+
+(** val api_enum_from_u8 : n -> n -> n option **)
+
+let api_enum_from_u8 =
+  enum_from_u8
+
+(** val api_pos_file : n -> n **)
+
+let api_pos_file =
+  pos_file
+
+(** val api_pos_rank : n -> n **)
+
+let api_pos_rank =
+  pos_rank
+
+(** val api_pos_new : n -> n -> n **)
+
+let api_pos_new =
+  pos_new
+
+(** val api_pos_shift_up : n -> n option **)
+
+let api_pos_shift_up =
+  pos_shift_up
+
+(** val api_pos_shift_down : n -> n option **)
+
+let api_pos_shift_down =
+  pos_shift_down
+
+(** val api_pos_shift_left : n -> n option **)
+
+let api_pos_shift_left =
+  pos_shift_left
+
+(** val api_pos_shift_right : n -> n option **)
+
+let api_pos_shift_right =
+  pos_shift_right
+
+(** val api_pos_flip_rank : n -> n **)
+
+let api_pos_flip_rank =
+  pos_flip_rank
+
+(** val api_file_shift_left : n -> n option **)
+
+let api_file_shift_left =
+  file_shift_left
+
+(** val api_file_shift_right : n -> n option **)
+
+let api_file_shift_right =
+  file_shift_right
+
+(** val api_rank_shift_down : n -> n option **)
+
+let api_rank_shift_down =
+  rank_shift_down
+
+(** val api_rank_shift_up : n -> n option **)
+
+let api_rank_shift_up =
+  rank_shift_up
+
+(** val api_rank_flip : n -> n **)
+
+let api_rank_flip =
+  rank_flip
+
+(** val api_dist_to : n -> n -> n **)
+
+let api_dist_to =
+  dist_to
+
+(** val api_color_not : n -> n **)
+
+let api_color_not =
+  color_not
+
+(** val api_side_not : n -> n **)
+
+let api_side_not =
+  side_not
+
+(** val api_run_iter : n -> iop list -> n option list **)
+
+let api_run_iter =
+  run_iter
+
+(** val api_run_allpos : iop list -> n option list **)
+
+let api_run_allpos =
+  run_allpos
+
+(** val api_file_iter_next : n -> range -> n option * range **)
+
+let api_file_iter_next =
+  file_iter_next
+
+(** val api_rank_iter_next : n -> range -> n option * range **)
+
+let api_rank_iter_next =
+  rank_iter_next
+
+(** val api_mk_range : n -> n -> range **)
+
+let api_mk_range x x0 =
+  { lo = x; hi = x0 }
+
+(** val api_run_stack : n list -> (n * sop) list -> bool list list **)
+
+let api_run_stack =
+  run_stack
